@@ -820,111 +820,117 @@ pub fn p162() {
 }
 
 pub fn p164() {
-    let a: re::math::color::Color3f<re::math::color::Hsl> = mk();
-    let _ = a.to_color3();
+    use re::geom::{Tri, Vertex};
+    let vs = |_: Vertex<re::math::point::Point3<re::render::Model>, ()>, _: ()| -> Vertex<re::math::vec::ProjVec4, f32> { mk() };
+    let fs = |_: re::render::raster::Frag<f32>| -> re::math::color::Color3f<re::math::color::Hsl> { mk() };
+    let sh = re::render::shader::Shader::new(vs, fs);
+    let mut target: re::util::buf::Buf2<u32> = mk();
+    let tris: Vec<Tri<usize>> = mk();
+    let verts: Vec<Vertex<re::math::point::Point3<re::render::Model>, ()>> = mk();
+    re::render::render(&tris, &verts, &sh, (), mk(), &mut target, &mk::<re::render::Context>());
 }
 
 pub fn p165() {
     let a: re::math::color::Color3f<re::math::color::Hsl> = mk();
-    let _ = a.to_hsl();
+    let _ = a.to_color3();
 }
 
 pub fn p166() {
     let a: re::math::color::Color3f<re::math::color::Hsl> = mk();
-    let _ = a.to_linear();
+    let _ = a.to_hsl();
 }
 
 pub fn p167() {
     let a: re::math::color::Color3f<re::math::color::Hsl> = mk();
-    let _ = a.to_rgba();
+    let _ = a.to_linear();
 }
 
 pub fn p168() {
     let a: re::math::color::Color3f<re::math::color::Hsl> = mk();
-    let _ = a.to_srgb();
+    let _ = a.to_rgba();
 }
 
 pub fn p169() {
-    let a: re::math::color::Color3f<re::math::color::LinRgb> = mk();
-    let b: re::math::color::Color3f<re::math::color::Hsl> = mk();
-    let _ = re::math::space::Affine::add(&a, &b);
+    let a: re::math::color::Color3f<re::math::color::Hsl> = mk();
+    let _ = a.to_srgb();
 }
 
 pub fn p170() {
     let a: re::math::color::Color3f<re::math::color::LinRgb> = mk();
     let b: re::math::color::Color3f<re::math::color::Hsl> = mk();
-    let _ = re::math::space::Affine::sub(&a, &b);
+    let _ = re::math::space::Affine::add(&a, &b);
 }
 
 pub fn p171() {
     let a: re::math::color::Color3f<re::math::color::LinRgb> = mk();
     let b: re::math::color::Color3f<re::math::color::Hsl> = mk();
-    let _ = re::math::Lerp::lerp(&a, &b, 0.5);
+    let _ = re::math::space::Affine::sub(&a, &b);
 }
 
-pub fn p175() {
+pub fn p172() {
     let a: re::math::color::Color3f<re::math::color::LinRgb> = mk();
-    let b: re::math::color::Color3f<re::math::color::Rgb> = mk();
-    let _ = re::math::space::Affine::add(&a, &b);
+    let b: re::math::color::Color3f<re::math::color::Hsl> = mk();
+    let _ = re::math::Lerp::lerp(&a, &b, 0.5);
 }
 
 pub fn p176() {
     let a: re::math::color::Color3f<re::math::color::LinRgb> = mk();
     let b: re::math::color::Color3f<re::math::color::Rgb> = mk();
-    let _ = re::math::space::Affine::sub(&a, &b);
+    let _ = re::math::space::Affine::add(&a, &b);
 }
 
 pub fn p177() {
     let a: re::math::color::Color3f<re::math::color::LinRgb> = mk();
     let b: re::math::color::Color3f<re::math::color::Rgb> = mk();
+    let _ = re::math::space::Affine::sub(&a, &b);
+}
+
+pub fn p178() {
+    let a: re::math::color::Color3f<re::math::color::LinRgb> = mk();
+    let b: re::math::color::Color3f<re::math::color::Rgb> = mk();
     let _ = re::math::Lerp::lerp(&a, &b, 0.5);
 }
 
-pub fn p179() {
-    let a: re::math::color::Color3f<re::math::color::LinRgb> = mk();
-    let _ = a.to_color3();
-}
-
 pub fn p180() {
-    let a: re::math::color::Color3f<re::math::color::LinRgb> = mk();
-    let _ = a.to_hsl();
+    use re::geom::{Tri, Vertex};
+    let vs = |_: Vertex<re::math::point::Point3<re::render::Model>, ()>, _: ()| -> Vertex<re::math::vec::ProjVec4, f32> { mk() };
+    let fs = |_: re::render::raster::Frag<f32>| -> re::math::color::Color3f<re::math::color::LinRgb> { mk() };
+    let sh = re::render::shader::Shader::new(vs, fs);
+    let mut target: re::util::buf::Buf2<u32> = mk();
+    let tris: Vec<Tri<usize>> = mk();
+    let verts: Vec<Vertex<re::math::point::Point3<re::render::Model>, ()>> = mk();
+    re::render::render(&tris, &verts, &sh, (), mk(), &mut target, &mk::<re::render::Context>());
 }
 
 pub fn p181() {
     let a: re::math::color::Color3f<re::math::color::LinRgb> = mk();
-    let _ = a.to_linear();
+    let _ = a.to_color3();
 }
 
 pub fn p182() {
     let a: re::math::color::Color3f<re::math::color::LinRgb> = mk();
-    let _ = a.to_rgb();
+    let _ = a.to_hsl();
 }
 
 pub fn p183() {
     let a: re::math::color::Color3f<re::math::color::LinRgb> = mk();
-    let _ = a.to_rgba();
+    let _ = a.to_linear();
 }
 
 pub fn p184() {
-    let a: re::math::color::Color3f<re::math::color::Rgb> = mk();
-    let b: re::math::color::Color3f<re::math::color::Hsl> = mk();
-    let c: re::math::color::Color3f<re::math::color::Hsl> = mk();
-    let d = re::math::space::Affine::sub(&a, &b);
-    let _ = re::math::space::Affine::add(&c, &d);
+    let a: re::math::color::Color3f<re::math::color::LinRgb> = mk();
+    let _ = a.to_rgb();
 }
 
 pub fn p185() {
-    let a: re::math::color::Color3f<re::math::color::Rgb> = mk();
-    let b: re::math::color::Color3f<re::math::color::Hsl> = mk();
-    let c: re::math::color::Color3f<re::math::color::Rgb> = mk();
-    let d = re::math::space::Affine::sub(&a, &b);
-    let _ = re::math::space::Affine::add(&c, &d);
+    let a: re::math::color::Color3f<re::math::color::LinRgb> = mk();
+    let _ = a.to_rgba();
 }
 
 pub fn p186() {
     let a: re::math::color::Color3f<re::math::color::Rgb> = mk();
     let b: re::math::color::Color3f<re::math::color::Hsl> = mk();
-    let c: re::math::color::Color3<re::math::color::Hsl> = mk();
+    let c: re::math::color::Color3f<re::math::color::Hsl> = mk();
     let d = re::math::space::Affine::sub(&a, &b);
     let _ = re::math::space::Affine::add(&c, &d);
 }
@@ -932,7 +938,7 @@ pub fn p186() {
 pub fn p187() {
     let a: re::math::color::Color3f<re::math::color::Rgb> = mk();
     let b: re::math::color::Color3f<re::math::color::Hsl> = mk();
-    let c: re::math::color::Color3<re::math::color::Rgb> = mk();
+    let c: re::math::color::Color3f<re::math::color::Rgb> = mk();
     let d = re::math::space::Affine::sub(&a, &b);
     let _ = re::math::space::Affine::add(&c, &d);
 }
@@ -940,40 +946,56 @@ pub fn p187() {
 pub fn p188() {
     let a: re::math::color::Color3f<re::math::color::Rgb> = mk();
     let b: re::math::color::Color3f<re::math::color::Hsl> = mk();
-    let _ = re::math::space::Affine::add(&a, &b);
+    let c: re::math::color::Color3<re::math::color::Hsl> = mk();
+    let d = re::math::space::Affine::sub(&a, &b);
+    let _ = re::math::space::Affine::add(&c, &d);
 }
 
 pub fn p189() {
     let a: re::math::color::Color3f<re::math::color::Rgb> = mk();
     let b: re::math::color::Color3f<re::math::color::Hsl> = mk();
-    let _ = re::math::space::Affine::sub(&a, &b);
+    let c: re::math::color::Color3<re::math::color::Rgb> = mk();
+    let d = re::math::space::Affine::sub(&a, &b);
+    let _ = re::math::space::Affine::add(&c, &d);
 }
 
 pub fn p190() {
     let a: re::math::color::Color3f<re::math::color::Rgb> = mk();
     let b: re::math::color::Color3f<re::math::color::Hsl> = mk();
-    let _ = re::math::Lerp::lerp(&a, &b, 0.5);
+    let _ = re::math::space::Affine::add(&a, &b);
 }
 
 pub fn p191() {
     let a: re::math::color::Color3f<re::math::color::Rgb> = mk();
-    let b: re::math::color::Color3f<re::math::color::LinRgb> = mk();
-    let _ = re::math::space::Affine::add(&a, &b);
+    let b: re::math::color::Color3f<re::math::color::Hsl> = mk();
+    let _ = re::math::space::Affine::sub(&a, &b);
 }
 
 pub fn p192() {
     let a: re::math::color::Color3f<re::math::color::Rgb> = mk();
-    let b: re::math::color::Color3f<re::math::color::LinRgb> = mk();
-    let _ = re::math::space::Affine::sub(&a, &b);
+    let b: re::math::color::Color3f<re::math::color::Hsl> = mk();
+    let _ = re::math::Lerp::lerp(&a, &b, 0.5);
 }
 
 pub fn p193() {
     let a: re::math::color::Color3f<re::math::color::Rgb> = mk();
     let b: re::math::color::Color3f<re::math::color::LinRgb> = mk();
-    let _ = re::math::Lerp::lerp(&a, &b, 0.5);
+    let _ = re::math::space::Affine::add(&a, &b);
 }
 
 pub fn p194() {
+    let a: re::math::color::Color3f<re::math::color::Rgb> = mk();
+    let b: re::math::color::Color3f<re::math::color::LinRgb> = mk();
+    let _ = re::math::space::Affine::sub(&a, &b);
+}
+
+pub fn p195() {
+    let a: re::math::color::Color3f<re::math::color::Rgb> = mk();
+    let b: re::math::color::Color3f<re::math::color::LinRgb> = mk();
+    let _ = re::math::Lerp::lerp(&a, &b, 0.5);
+}
+
+pub fn p196() {
     let a: re::math::color::Color3f<re::math::color::Rgb> = mk();
     let b: re::math::color::Color3f<re::math::color::Rgb> = mk();
     let c: re::math::color::Color3f<re::math::color::Hsl> = mk();
@@ -981,7 +1003,7 @@ pub fn p194() {
     let _ = re::math::space::Affine::add(&c, &d);
 }
 
-pub fn p196() {
+pub fn p198() {
     let a: re::math::color::Color3f<re::math::color::Rgb> = mk();
     let b: re::math::color::Color3f<re::math::color::Rgb> = mk();
     let c: re::math::color::Color3<re::math::color::Hsl> = mk();
@@ -989,26 +1011,10 @@ pub fn p196() {
     let _ = re::math::space::Affine::add(&c, &d);
 }
 
-pub fn p197() {
+pub fn p199() {
     let a: re::math::color::Color3f<re::math::color::Rgb> = mk();
     let b: re::math::color::Color3f<re::math::color::Rgb> = mk();
     let c: re::math::color::Color3<re::math::color::Rgb> = mk();
-    let d = re::math::space::Affine::sub(&a, &b);
-    let _ = re::math::space::Affine::add(&c, &d);
-}
-
-pub fn p201() {
-    let a: re::math::color::Color3f<re::math::color::Rgb> = mk();
-    let b: re::math::color::Color3<re::math::color::Hsl> = mk();
-    let c: re::math::color::Color3f<re::math::color::Hsl> = mk();
-    let d = re::math::space::Affine::sub(&a, &b);
-    let _ = re::math::space::Affine::add(&c, &d);
-}
-
-pub fn p202() {
-    let a: re::math::color::Color3f<re::math::color::Rgb> = mk();
-    let b: re::math::color::Color3<re::math::color::Hsl> = mk();
-    let c: re::math::color::Color3f<re::math::color::Rgb> = mk();
     let d = re::math::space::Affine::sub(&a, &b);
     let _ = re::math::space::Affine::add(&c, &d);
 }
@@ -1016,7 +1022,7 @@ pub fn p202() {
 pub fn p203() {
     let a: re::math::color::Color3f<re::math::color::Rgb> = mk();
     let b: re::math::color::Color3<re::math::color::Hsl> = mk();
-    let c: re::math::color::Color3<re::math::color::Hsl> = mk();
+    let c: re::math::color::Color3f<re::math::color::Hsl> = mk();
     let d = re::math::space::Affine::sub(&a, &b);
     let _ = re::math::space::Affine::add(&c, &d);
 }
@@ -1024,23 +1030,23 @@ pub fn p203() {
 pub fn p204() {
     let a: re::math::color::Color3f<re::math::color::Rgb> = mk();
     let b: re::math::color::Color3<re::math::color::Hsl> = mk();
-    let c: re::math::color::Color3<re::math::color::Rgb> = mk();
+    let c: re::math::color::Color3f<re::math::color::Rgb> = mk();
     let d = re::math::space::Affine::sub(&a, &b);
     let _ = re::math::space::Affine::add(&c, &d);
 }
 
 pub fn p205() {
     let a: re::math::color::Color3f<re::math::color::Rgb> = mk();
-    let b: re::math::color::Color3<re::math::color::Rgb> = mk();
-    let c: re::math::color::Color3f<re::math::color::Hsl> = mk();
+    let b: re::math::color::Color3<re::math::color::Hsl> = mk();
+    let c: re::math::color::Color3<re::math::color::Hsl> = mk();
     let d = re::math::space::Affine::sub(&a, &b);
     let _ = re::math::space::Affine::add(&c, &d);
 }
 
 pub fn p206() {
     let a: re::math::color::Color3f<re::math::color::Rgb> = mk();
-    let b: re::math::color::Color3<re::math::color::Rgb> = mk();
-    let c: re::math::color::Color3f<re::math::color::Rgb> = mk();
+    let b: re::math::color::Color3<re::math::color::Hsl> = mk();
+    let c: re::math::color::Color3<re::math::color::Rgb> = mk();
     let d = re::math::space::Affine::sub(&a, &b);
     let _ = re::math::space::Affine::add(&c, &d);
 }
@@ -1048,7 +1054,7 @@ pub fn p206() {
 pub fn p207() {
     let a: re::math::color::Color3f<re::math::color::Rgb> = mk();
     let b: re::math::color::Color3<re::math::color::Rgb> = mk();
-    let c: re::math::color::Color3<re::math::color::Hsl> = mk();
+    let c: re::math::color::Color3f<re::math::color::Hsl> = mk();
     let d = re::math::space::Affine::sub(&a, &b);
     let _ = re::math::space::Affine::add(&c, &d);
 }
@@ -1056,41 +1062,41 @@ pub fn p207() {
 pub fn p208() {
     let a: re::math::color::Color3f<re::math::color::Rgb> = mk();
     let b: re::math::color::Color3<re::math::color::Rgb> = mk();
-    let c: re::math::color::Color3<re::math::color::Rgb> = mk();
-    let d = re::math::space::Affine::sub(&a, &b);
-    let _ = re::math::space::Affine::add(&c, &d);
-}
-
-pub fn p213() {
-    let a: re::math::color::Color3f<re::math::color::Rgb> = mk();
-    let _ = a.to_rgb();
-}
-
-pub fn p214() {
-    let a: re::math::color::Color3f<re::math::color::Rgb> = mk();
-    let _ = a.to_srgb();
-}
-
-pub fn p215() {
-    let a: re::math::color::Color3<re::math::color::Hsl> = mk();
-    let b: re::math::color::Color3f<re::math::color::Hsl> = mk();
-    let c: re::math::color::Color3f<re::math::color::Hsl> = mk();
-    let d = re::math::space::Affine::sub(&a, &b);
-    let _ = re::math::space::Affine::add(&c, &d);
-}
-
-pub fn p216() {
-    let a: re::math::color::Color3<re::math::color::Hsl> = mk();
-    let b: re::math::color::Color3f<re::math::color::Hsl> = mk();
     let c: re::math::color::Color3f<re::math::color::Rgb> = mk();
     let d = re::math::space::Affine::sub(&a, &b);
     let _ = re::math::space::Affine::add(&c, &d);
 }
 
+pub fn p209() {
+    let a: re::math::color::Color3f<re::math::color::Rgb> = mk();
+    let b: re::math::color::Color3<re::math::color::Rgb> = mk();
+    let c: re::math::color::Color3<re::math::color::Hsl> = mk();
+    let d = re::math::space::Affine::sub(&a, &b);
+    let _ = re::math::space::Affine::add(&c, &d);
+}
+
+pub fn p210() {
+    let a: re::math::color::Color3f<re::math::color::Rgb> = mk();
+    let b: re::math::color::Color3<re::math::color::Rgb> = mk();
+    let c: re::math::color::Color3<re::math::color::Rgb> = mk();
+    let d = re::math::space::Affine::sub(&a, &b);
+    let _ = re::math::space::Affine::add(&c, &d);
+}
+
+pub fn p215() {
+    let a: re::math::color::Color3f<re::math::color::Rgb> = mk();
+    let _ = a.to_rgb();
+}
+
+pub fn p216() {
+    let a: re::math::color::Color3f<re::math::color::Rgb> = mk();
+    let _ = a.to_srgb();
+}
+
 pub fn p217() {
     let a: re::math::color::Color3<re::math::color::Hsl> = mk();
     let b: re::math::color::Color3f<re::math::color::Hsl> = mk();
-    let c: re::math::color::Color3<re::math::color::Hsl> = mk();
+    let c: re::math::color::Color3f<re::math::color::Hsl> = mk();
     let d = re::math::space::Affine::sub(&a, &b);
     let _ = re::math::space::Affine::add(&c, &d);
 }
@@ -1098,23 +1104,23 @@ pub fn p217() {
 pub fn p218() {
     let a: re::math::color::Color3<re::math::color::Hsl> = mk();
     let b: re::math::color::Color3f<re::math::color::Hsl> = mk();
-    let c: re::math::color::Color3<re::math::color::Rgb> = mk();
+    let c: re::math::color::Color3f<re::math::color::Rgb> = mk();
     let d = re::math::space::Affine::sub(&a, &b);
     let _ = re::math::space::Affine::add(&c, &d);
 }
 
 pub fn p219() {
     let a: re::math::color::Color3<re::math::color::Hsl> = mk();
-    let b: re::math::color::Color3f<re::math::color::Rgb> = mk();
-    let c: re::math::color::Color3f<re::math::color::Hsl> = mk();
+    let b: re::math::color::Color3f<re::math::color::Hsl> = mk();
+    let c: re::math::color::Color3<re::math::color::Hsl> = mk();
     let d = re::math::space::Affine::sub(&a, &b);
     let _ = re::math::space::Affine::add(&c, &d);
 }
 
 pub fn p220() {
     let a: re::math::color::Color3<re::math::color::Hsl> = mk();
-    let b: re::math::color::Color3f<re::math::color::Rgb> = mk();
-    let c: re::math::color::Color3f<re::math::color::Rgb> = mk();
+    let b: re::math::color::Color3f<re::math::color::Hsl> = mk();
+    let c: re::math::color::Color3<re::math::color::Rgb> = mk();
     let d = re::math::space::Affine::sub(&a, &b);
     let _ = re::math::space::Affine::add(&c, &d);
 }
@@ -1122,7 +1128,7 @@ pub fn p220() {
 pub fn p221() {
     let a: re::math::color::Color3<re::math::color::Hsl> = mk();
     let b: re::math::color::Color3f<re::math::color::Rgb> = mk();
-    let c: re::math::color::Color3<re::math::color::Hsl> = mk();
+    let c: re::math::color::Color3f<re::math::color::Hsl> = mk();
     let d = re::math::space::Affine::sub(&a, &b);
     let _ = re::math::space::Affine::add(&c, &d);
 }
@@ -1130,23 +1136,31 @@ pub fn p221() {
 pub fn p222() {
     let a: re::math::color::Color3<re::math::color::Hsl> = mk();
     let b: re::math::color::Color3f<re::math::color::Rgb> = mk();
-    let c: re::math::color::Color3<re::math::color::Rgb> = mk();
+    let c: re::math::color::Color3f<re::math::color::Rgb> = mk();
     let d = re::math::space::Affine::sub(&a, &b);
     let _ = re::math::space::Affine::add(&c, &d);
 }
 
 pub fn p223() {
     let a: re::math::color::Color3<re::math::color::Hsl> = mk();
-    let b: re::math::color::Color3<re::math::color::Hsl> = mk();
-    let c: re::math::color::Color3f<re::math::color::Hsl> = mk();
+    let b: re::math::color::Color3f<re::math::color::Rgb> = mk();
+    let c: re::math::color::Color3<re::math::color::Hsl> = mk();
     let d = re::math::space::Affine::sub(&a, &b);
     let _ = re::math::space::Affine::add(&c, &d);
 }
 
 pub fn p224() {
     let a: re::math::color::Color3<re::math::color::Hsl> = mk();
+    let b: re::math::color::Color3f<re::math::color::Rgb> = mk();
+    let c: re::math::color::Color3<re::math::color::Rgb> = mk();
+    let d = re::math::space::Affine::sub(&a, &b);
+    let _ = re::math::space::Affine::add(&c, &d);
+}
+
+pub fn p225() {
+    let a: re::math::color::Color3<re::math::color::Hsl> = mk();
     let b: re::math::color::Color3<re::math::color::Hsl> = mk();
-    let c: re::math::color::Color3f<re::math::color::Rgb> = mk();
+    let c: re::math::color::Color3f<re::math::color::Hsl> = mk();
     let d = re::math::space::Affine::sub(&a, &b);
     let _ = re::math::space::Affine::add(&c, &d);
 }
@@ -1154,23 +1168,15 @@ pub fn p224() {
 pub fn p226() {
     let a: re::math::color::Color3<re::math::color::Hsl> = mk();
     let b: re::math::color::Color3<re::math::color::Hsl> = mk();
-    let c: re::math::color::Color3<re::math::color::Rgb> = mk();
-    let d = re::math::space::Affine::sub(&a, &b);
-    let _ = re::math::space::Affine::add(&c, &d);
-}
-
-pub fn p227() {
-    let a: re::math::color::Color3<re::math::color::Hsl> = mk();
-    let b: re::math::color::Color3<re::math::color::Rgb> = mk();
-    let c: re::math::color::Color3f<re::math::color::Hsl> = mk();
+    let c: re::math::color::Color3f<re::math::color::Rgb> = mk();
     let d = re::math::space::Affine::sub(&a, &b);
     let _ = re::math::space::Affine::add(&c, &d);
 }
 
 pub fn p228() {
     let a: re::math::color::Color3<re::math::color::Hsl> = mk();
-    let b: re::math::color::Color3<re::math::color::Rgb> = mk();
-    let c: re::math::color::Color3f<re::math::color::Rgb> = mk();
+    let b: re::math::color::Color3<re::math::color::Hsl> = mk();
+    let c: re::math::color::Color3<re::math::color::Rgb> = mk();
     let d = re::math::space::Affine::sub(&a, &b);
     let _ = re::math::space::Affine::add(&c, &d);
 }
@@ -1178,7 +1184,7 @@ pub fn p228() {
 pub fn p229() {
     let a: re::math::color::Color3<re::math::color::Hsl> = mk();
     let b: re::math::color::Color3<re::math::color::Rgb> = mk();
-    let c: re::math::color::Color3<re::math::color::Hsl> = mk();
+    let c: re::math::color::Color3f<re::math::color::Hsl> = mk();
     let d = re::math::space::Affine::sub(&a, &b);
     let _ = re::math::space::Affine::add(&c, &d);
 }
@@ -1186,88 +1192,91 @@ pub fn p229() {
 pub fn p230() {
     let a: re::math::color::Color3<re::math::color::Hsl> = mk();
     let b: re::math::color::Color3<re::math::color::Rgb> = mk();
-    let c: re::math::color::Color3<re::math::color::Rgb> = mk();
+    let c: re::math::color::Color3f<re::math::color::Rgb> = mk();
+    let d = re::math::space::Affine::sub(&a, &b);
+    let _ = re::math::space::Affine::add(&c, &d);
+}
+
+pub fn p231() {
+    let a: re::math::color::Color3<re::math::color::Hsl> = mk();
+    let b: re::math::color::Color3<re::math::color::Rgb> = mk();
+    let c: re::math::color::Color3<re::math::color::Hsl> = mk();
     let d = re::math::space::Affine::sub(&a, &b);
     let _ = re::math::space::Affine::add(&c, &d);
 }
 
 pub fn p232() {
     let a: re::math::color::Color3<re::math::color::Hsl> = mk();
-    let _ = a.to_color3();
-}
-
-pub fn p233() {
-    let a: re::math::color::Color3<re::math::color::Hsl> = mk();
-    let _ = a.to_hsl();
+    let b: re::math::color::Color3<re::math::color::Rgb> = mk();
+    let c: re::math::color::Color3<re::math::color::Rgb> = mk();
+    let d = re::math::space::Affine::sub(&a, &b);
+    let _ = re::math::space::Affine::add(&c, &d);
 }
 
 pub fn p234() {
-    let a: re::math::color::Color3<re::math::color::Hsl> = mk();
-    let _ = a.to_linear();
+    use re::geom::{Tri, Vertex};
+    let vs = |_: Vertex<re::math::point::Point3<re::render::Model>, ()>, _: ()| -> Vertex<re::math::vec::ProjVec4, f32> { mk() };
+    let fs = |_: re::render::raster::Frag<f32>| -> re::math::color::Color3<re::math::color::Hsl> { mk() };
+    let sh = re::render::shader::Shader::new(vs, fs);
+    let mut target: re::util::buf::Buf2<u32> = mk();
+    let tris: Vec<Tri<usize>> = mk();
+    let verts: Vec<Vertex<re::math::point::Point3<re::render::Model>, ()>> = mk();
+    re::render::render(&tris, &verts, &sh, (), mk(), &mut target, &mk::<re::render::Context>());
 }
 
 pub fn p235() {
     let a: re::math::color::Color3<re::math::color::Hsl> = mk();
-    let _ = a.to_rgba();
+    let _ = a.to_color3();
 }
 
 pub fn p236() {
     let a: re::math::color::Color3<re::math::color::Hsl> = mk();
-    let _ = a.to_srgb();
+    let _ = a.to_hsl();
 }
 
 pub fn p237() {
-    let a: re::math::color::Color3<re::math::color::Rgb> = mk();
-    let b: re::math::color::Color3f<re::math::color::Hsl> = mk();
-    let c: re::math::color::Color3f<re::math::color::Hsl> = mk();
-    let d = re::math::space::Affine::sub(&a, &b);
-    let _ = re::math::space::Affine::add(&c, &d);
+    let a: re::math::color::Color3<re::math::color::Hsl> = mk();
+    let _ = a.to_linear();
 }
 
 pub fn p238() {
-    let a: re::math::color::Color3<re::math::color::Rgb> = mk();
-    let b: re::math::color::Color3f<re::math::color::Hsl> = mk();
-    let c: re::math::color::Color3f<re::math::color::Rgb> = mk();
-    let d = re::math::space::Affine::sub(&a, &b);
-    let _ = re::math::space::Affine::add(&c, &d);
+    let a: re::math::color::Color3<re::math::color::Hsl> = mk();
+    let _ = a.to_rgba();
 }
 
 pub fn p239() {
-    let a: re::math::color::Color3<re::math::color::Rgb> = mk();
-    let b: re::math::color::Color3f<re::math::color::Hsl> = mk();
-    let c: re::math::color::Color3<re::math::color::Hsl> = mk();
-    let d = re::math::space::Affine::sub(&a, &b);
-    let _ = re::math::space::Affine::add(&c, &d);
+    let a: re::math::color::Color3<re::math::color::Hsl> = mk();
+    let _ = a.to_srgb();
 }
 
 pub fn p240() {
     let a: re::math::color::Color3<re::math::color::Rgb> = mk();
     let b: re::math::color::Color3f<re::math::color::Hsl> = mk();
-    let c: re::math::color::Color3<re::math::color::Rgb> = mk();
+    let c: re::math::color::Color3f<re::math::color::Hsl> = mk();
     let d = re::math::space::Affine::sub(&a, &b);
     let _ = re::math::space::Affine::add(&c, &d);
 }
 
 pub fn p241() {
     let a: re::math::color::Color3<re::math::color::Rgb> = mk();
-    let b: re::math::color::Color3f<re::math::color::Rgb> = mk();
-    let c: re::math::color::Color3f<re::math::color::Hsl> = mk();
+    let b: re::math::color::Color3f<re::math::color::Hsl> = mk();
+    let c: re::math::color::Color3f<re::math::color::Rgb> = mk();
     let d = re::math::space::Affine::sub(&a, &b);
     let _ = re::math::space::Affine::add(&c, &d);
 }
 
 pub fn p242() {
     let a: re::math::color::Color3<re::math::color::Rgb> = mk();
-    let b: re::math::color::Color3f<re::math::color::Rgb> = mk();
-    let c: re::math::color::Color3f<re::math::color::Rgb> = mk();
+    let b: re::math::color::Color3f<re::math::color::Hsl> = mk();
+    let c: re::math::color::Color3<re::math::color::Hsl> = mk();
     let d = re::math::space::Affine::sub(&a, &b);
     let _ = re::math::space::Affine::add(&c, &d);
 }
 
 pub fn p243() {
     let a: re::math::color::Color3<re::math::color::Rgb> = mk();
-    let b: re::math::color::Color3f<re::math::color::Rgb> = mk();
-    let c: re::math::color::Color3<re::math::color::Hsl> = mk();
+    let b: re::math::color::Color3f<re::math::color::Hsl> = mk();
+    let c: re::math::color::Color3<re::math::color::Rgb> = mk();
     let d = re::math::space::Affine::sub(&a, &b);
     let _ = re::math::space::Affine::add(&c, &d);
 }
@@ -1275,31 +1284,31 @@ pub fn p243() {
 pub fn p244() {
     let a: re::math::color::Color3<re::math::color::Rgb> = mk();
     let b: re::math::color::Color3f<re::math::color::Rgb> = mk();
-    let c: re::math::color::Color3<re::math::color::Rgb> = mk();
+    let c: re::math::color::Color3f<re::math::color::Hsl> = mk();
     let d = re::math::space::Affine::sub(&a, &b);
     let _ = re::math::space::Affine::add(&c, &d);
 }
 
 pub fn p245() {
     let a: re::math::color::Color3<re::math::color::Rgb> = mk();
-    let b: re::math::color::Color3<re::math::color::Hsl> = mk();
-    let c: re::math::color::Color3f<re::math::color::Hsl> = mk();
+    let b: re::math::color::Color3f<re::math::color::Rgb> = mk();
+    let c: re::math::color::Color3f<re::math::color::Rgb> = mk();
     let d = re::math::space::Affine::sub(&a, &b);
     let _ = re::math::space::Affine::add(&c, &d);
 }
 
 pub fn p246() {
     let a: re::math::color::Color3<re::math::color::Rgb> = mk();
-    let b: re::math::color::Color3<re::math::color::Hsl> = mk();
-    let c: re::math::color::Color3f<re::math::color::Rgb> = mk();
+    let b: re::math::color::Color3f<re::math::color::Rgb> = mk();
+    let c: re::math::color::Color3<re::math::color::Hsl> = mk();
     let d = re::math::space::Affine::sub(&a, &b);
     let _ = re::math::space::Affine::add(&c, &d);
 }
 
 pub fn p247() {
     let a: re::math::color::Color3<re::math::color::Rgb> = mk();
-    let b: re::math::color::Color3<re::math::color::Hsl> = mk();
-    let c: re::math::color::Color3<re::math::color::Hsl> = mk();
+    let b: re::math::color::Color3f<re::math::color::Rgb> = mk();
+    let c: re::math::color::Color3<re::math::color::Rgb> = mk();
     let d = re::math::space::Affine::sub(&a, &b);
     let _ = re::math::space::Affine::add(&c, &d);
 }
@@ -1307,12 +1316,36 @@ pub fn p247() {
 pub fn p248() {
     let a: re::math::color::Color3<re::math::color::Rgb> = mk();
     let b: re::math::color::Color3<re::math::color::Hsl> = mk();
-    let c: re::math::color::Color3<re::math::color::Rgb> = mk();
+    let c: re::math::color::Color3f<re::math::color::Hsl> = mk();
     let d = re::math::space::Affine::sub(&a, &b);
     let _ = re::math::space::Affine::add(&c, &d);
 }
 
 pub fn p249() {
+    let a: re::math::color::Color3<re::math::color::Rgb> = mk();
+    let b: re::math::color::Color3<re::math::color::Hsl> = mk();
+    let c: re::math::color::Color3f<re::math::color::Rgb> = mk();
+    let d = re::math::space::Affine::sub(&a, &b);
+    let _ = re::math::space::Affine::add(&c, &d);
+}
+
+pub fn p250() {
+    let a: re::math::color::Color3<re::math::color::Rgb> = mk();
+    let b: re::math::color::Color3<re::math::color::Hsl> = mk();
+    let c: re::math::color::Color3<re::math::color::Hsl> = mk();
+    let d = re::math::space::Affine::sub(&a, &b);
+    let _ = re::math::space::Affine::add(&c, &d);
+}
+
+pub fn p251() {
+    let a: re::math::color::Color3<re::math::color::Rgb> = mk();
+    let b: re::math::color::Color3<re::math::color::Hsl> = mk();
+    let c: re::math::color::Color3<re::math::color::Rgb> = mk();
+    let d = re::math::space::Affine::sub(&a, &b);
+    let _ = re::math::space::Affine::add(&c, &d);
+}
+
+pub fn p252() {
     let a: re::math::color::Color3<re::math::color::Rgb> = mk();
     let b: re::math::color::Color3<re::math::color::Rgb> = mk();
     let c: re::math::color::Color3f<re::math::color::Hsl> = mk();
@@ -1320,7 +1353,7 @@ pub fn p249() {
     let _ = re::math::space::Affine::add(&c, &d);
 }
 
-pub fn p250() {
+pub fn p253() {
     let a: re::math::color::Color3<re::math::color::Rgb> = mk();
     let b: re::math::color::Color3<re::math::color::Rgb> = mk();
     let c: re::math::color::Color3f<re::math::color::Rgb> = mk();
@@ -1328,7 +1361,7 @@ pub fn p250() {
     let _ = re::math::space::Affine::add(&c, &d);
 }
 
-pub fn p251() {
+pub fn p254() {
     let a: re::math::color::Color3<re::math::color::Rgb> = mk();
     let b: re::math::color::Color3<re::math::color::Rgb> = mk();
     let c: re::math::color::Color3<re::math::color::Hsl> = mk();
@@ -1336,4763 +1369,4785 @@ pub fn p251() {
     let _ = re::math::space::Affine::add(&c, &d);
 }
 
-pub fn p255() {
+pub fn p258() {
     let a: re::math::color::Color3<re::math::color::Rgb> = mk();
     let _ = a.to_color3();
 }
 
-pub fn p256() {
+pub fn p259() {
     let a: re::math::color::Color3<re::math::color::Rgb> = mk();
     let _ = a.to_linear();
 }
 
-pub fn p257() {
+pub fn p260() {
     let a: re::math::color::Color3<re::math::color::Rgb> = mk();
     let _ = a.to_rgb();
 }
 
-pub fn p258() {
+pub fn p261() {
     let a: re::math::color::Color3<re::math::color::Rgb> = mk();
     let _ = a.to_srgb();
 }
 
-pub fn p259() {
+pub fn p262() {
+    use re::geom::{Tri, Vertex};
+    let vs = |_: Vertex<re::math::point::Point3<re::render::Model>, ()>, _: ()| -> Vertex<re::math::vec::ProjVec4, f32> { mk() };
+    let fs = |_: re::render::raster::Frag<f32>| -> re::math::color::Color<[f32; 4], re::math::color::Hsla> { mk() };
+    let sh = re::render::shader::Shader::new(vs, fs);
+    let mut target: re::util::buf::Buf2<u32> = mk();
+    let tris: Vec<Tri<usize>> = mk();
+    let verts: Vec<Vertex<re::math::point::Point3<re::render::Model>, ()>> = mk();
+    re::render::render(&tris, &verts, &sh, (), mk(), &mut target, &mk::<re::render::Context>());
+}
+
+pub fn p263() {
+    use re::geom::{Tri, Vertex};
+    let vs = |_: Vertex<re::math::point::Point3<re::render::Model>, ()>, _: ()| -> Vertex<re::math::vec::ProjVec4, f32> { mk() };
+    let fs = |_: re::render::raster::Frag<f32>| -> re::math::color::Color<[u8; 4], re::math::color::Hsla> { mk() };
+    let sh = re::render::shader::Shader::new(vs, fs);
+    let mut target: re::util::buf::Buf2<u32> = mk();
+    let tris: Vec<Tri<usize>> = mk();
+    let verts: Vec<Vertex<re::math::point::Point3<re::render::Model>, ()>> = mk();
+    re::render::render(&tris, &verts, &sh, (), mk(), &mut target, &mk::<re::render::Context>());
+}
+
+pub fn p265() {
     let a: f32 = mk();
     let b: re::math::angle::Angle = mk();
     let _ = a + b;
 }
 
-pub fn p260() {
+pub fn p266() {
     let a: f32 = mk();
     let b: re::math::angle::Angle = mk();
     let _ = a % b;
 }
 
-pub fn p261() {
+pub fn p267() {
     let a: f32 = mk();
     let b: re::math::angle::Angle = mk();
     let _ = a - b;
 }
 
-pub fn p265() {
+pub fn p271() {
     let a: f32 = mk();
     let _ = re::math::angle::polar(1.0, a);
 }
 
-pub fn p266() {
+pub fn p272() {
     let a: f32 = mk();
     let _ = re::math::mat::rotate_x(a);
 }
 
-pub fn p267() {
+pub fn p273() {
     let a: f32 = mk();
     let _ = re::math::angle::Angle::sin(a);
 }
 
-pub fn p269() {
+pub fn p275() {
     let a: re::math::mat::Mat3x3<re::math::mat::RealToReal<2, re::render::Model, re::render::Model>> = mk();
     let b: re::math::point::Point2<re::render::Model> = mk();
     let _r: re::math::point::Point2<re::render::World> = a.apply_pt(&b);
-}
-
-pub fn p270() {
-    let a: re::math::mat::Mat3x3<re::math::mat::RealToReal<2, re::render::Model, re::render::Model>> = mk();
-    let b: re::math::point::Point2<re::render::World> = mk();
-    let _r: re::math::point::Point2<re::render::Model> = a.apply_pt(&b);
-}
-
-pub fn p271() {
-    let a: re::math::mat::Mat3x3<re::math::mat::RealToReal<2, re::render::Model, re::render::Model>> = mk();
-    let b: re::math::point::Point2<re::render::World> = mk();
-    let _r: re::math::point::Point2<re::render::World> = a.apply_pt(&b);
-}
-
-pub fn p273() {
-    let a: re::math::mat::Mat3x3<re::math::mat::RealToReal<2, re::render::Model, re::render::Model>> = mk();
-    let b: re::math::vec::Vec2<re::render::Model> = mk();
-    let _r: re::math::vec::Vec2<re::render::World> = a.apply(&b);
-}
-
-pub fn p275() {
-    let a: re::math::mat::Mat3x3<re::math::mat::RealToReal<2, re::render::Model, re::render::Model>> = mk();
-    let b: re::math::vec::Vec2<re::render::World> = mk();
-    let _r: re::math::vec::Vec2<re::render::Model> = a.apply(&b);
 }
 
 pub fn p276() {
     let a: re::math::mat::Mat3x3<re::math::mat::RealToReal<2, re::render::Model, re::render::Model>> = mk();
-    let b: re::math::vec::Vec2<re::render::World> = mk();
-    let _r: re::math::vec::Vec2<re::render::World> = a.apply(&b);
+    let b: re::math::point::Point2<re::render::World> = mk();
+    let _r: re::math::point::Point2<re::render::Model> = a.apply_pt(&b);
 }
 
 pub fn p277() {
     let a: re::math::mat::Mat3x3<re::math::mat::RealToReal<2, re::render::Model, re::render::Model>> = mk();
-    let b: re::math::vec::Vec2<re::render::World> = mk();
-    let _ = a.apply(&b);
-}
-
-pub fn p278() {
-    let a: re::math::mat::Mat3x3<re::math::mat::RealToReal<2, re::render::Model, re::render::Model>> = mk();
-    let b: re::math::vec::Vec3<re::render::Model> = mk();
-    let _ = a.apply(&b);
+    let b: re::math::point::Point2<re::render::World> = mk();
+    let _r: re::math::point::Point2<re::render::World> = a.apply_pt(&b);
 }
 
 pub fn p279() {
     let a: re::math::mat::Mat3x3<re::math::mat::RealToReal<2, re::render::Model, re::render::Model>> = mk();
+    let b: re::math::vec::Vec2<re::render::Model> = mk();
+    let _r: re::math::vec::Vec2<re::render::World> = a.apply(&b);
+}
+
+pub fn p281() {
+    let a: re::math::mat::Mat3x3<re::math::mat::RealToReal<2, re::render::Model, re::render::Model>> = mk();
+    let b: re::math::vec::Vec2<re::render::World> = mk();
+    let _r: re::math::vec::Vec2<re::render::Model> = a.apply(&b);
+}
+
+pub fn p282() {
+    let a: re::math::mat::Mat3x3<re::math::mat::RealToReal<2, re::render::Model, re::render::Model>> = mk();
+    let b: re::math::vec::Vec2<re::render::World> = mk();
+    let _r: re::math::vec::Vec2<re::render::World> = a.apply(&b);
+}
+
+pub fn p283() {
+    let a: re::math::mat::Mat3x3<re::math::mat::RealToReal<2, re::render::Model, re::render::Model>> = mk();
+    let b: re::math::vec::Vec2<re::render::World> = mk();
+    let _ = a.apply(&b);
+}
+
+pub fn p284() {
+    let a: re::math::mat::Mat3x3<re::math::mat::RealToReal<2, re::render::Model, re::render::Model>> = mk();
+    let b: re::math::vec::Vec3<re::render::Model> = mk();
+    let _ = a.apply(&b);
+}
+
+pub fn p285() {
+    let a: re::math::mat::Mat3x3<re::math::mat::RealToReal<2, re::render::Model, re::render::Model>> = mk();
     let b: re::math::vec::Vec3<re::render::World> = mk();
     let _ = a.apply(&b);
 }
 
-pub fn p280() {
+pub fn p286() {
     let a: re::math::mat::Mat3x3<re::math::mat::RealToReal<2, re::render::Model, re::render::World>> = mk();
     let b: re::math::point::Point2<re::render::Model> = mk();
     let _r: re::math::point::Point2<re::render::Model> = a.apply_pt(&b);
-}
-
-pub fn p282() {
-    let a: re::math::mat::Mat3x3<re::math::mat::RealToReal<2, re::render::Model, re::render::World>> = mk();
-    let b: re::math::point::Point2<re::render::World> = mk();
-    let _r: re::math::point::Point2<re::render::Model> = a.apply_pt(&b);
-}
-
-pub fn p283() {
-    let a: re::math::mat::Mat3x3<re::math::mat::RealToReal<2, re::render::Model, re::render::World>> = mk();
-    let b: re::math::point::Point2<re::render::World> = mk();
-    let _r: re::math::point::Point2<re::render::World> = a.apply_pt(&b);
-}
-
-pub fn p284() {
-    let a: re::math::mat::Mat3x3<re::math::mat::RealToReal<2, re::render::Model, re::render::World>> = mk();
-    let b: re::math::vec::Vec2<re::render::Model> = mk();
-    let _r: re::math::vec::Vec2<re::render::Model> = a.apply(&b);
-}
-
-pub fn p287() {
-    let a: re::math::mat::Mat3x3<re::math::mat::RealToReal<2, re::render::Model, re::render::World>> = mk();
-    let b: re::math::vec::Vec2<re::render::World> = mk();
-    let _r: re::math::vec::Vec2<re::render::Model> = a.apply(&b);
 }
 
 pub fn p288() {
     let a: re::math::mat::Mat3x3<re::math::mat::RealToReal<2, re::render::Model, re::render::World>> = mk();
-    let b: re::math::vec::Vec2<re::render::World> = mk();
-    let _r: re::math::vec::Vec2<re::render::World> = a.apply(&b);
+    let b: re::math::point::Point2<re::render::World> = mk();
+    let _r: re::math::point::Point2<re::render::Model> = a.apply_pt(&b);
 }
 
 pub fn p289() {
     let a: re::math::mat::Mat3x3<re::math::mat::RealToReal<2, re::render::Model, re::render::World>> = mk();
-    let b: re::math::vec::Vec2<re::render::World> = mk();
-    let _ = a.apply(&b);
+    let b: re::math::point::Point2<re::render::World> = mk();
+    let _r: re::math::point::Point2<re::render::World> = a.apply_pt(&b);
 }
 
 pub fn p290() {
     let a: re::math::mat::Mat3x3<re::math::mat::RealToReal<2, re::render::Model, re::render::World>> = mk();
+    let b: re::math::vec::Vec2<re::render::Model> = mk();
+    let _r: re::math::vec::Vec2<re::render::Model> = a.apply(&b);
+}
+
+pub fn p293() {
+    let a: re::math::mat::Mat3x3<re::math::mat::RealToReal<2, re::render::Model, re::render::World>> = mk();
+    let b: re::math::vec::Vec2<re::render::World> = mk();
+    let _r: re::math::vec::Vec2<re::render::Model> = a.apply(&b);
+}
+
+pub fn p294() {
+    let a: re::math::mat::Mat3x3<re::math::mat::RealToReal<2, re::render::Model, re::render::World>> = mk();
+    let b: re::math::vec::Vec2<re::render::World> = mk();
+    let _r: re::math::vec::Vec2<re::render::World> = a.apply(&b);
+}
+
+pub fn p295() {
+    let a: re::math::mat::Mat3x3<re::math::mat::RealToReal<2, re::render::Model, re::render::World>> = mk();
+    let b: re::math::vec::Vec2<re::render::World> = mk();
+    let _ = a.apply(&b);
+}
+
+pub fn p296() {
+    let a: re::math::mat::Mat3x3<re::math::mat::RealToReal<2, re::render::Model, re::render::World>> = mk();
     let b: re::math::vec::Vec3<re::render::Model> = mk();
     let _ = a.apply(&b);
 }
 
-pub fn p291() {
+pub fn p297() {
     let a: re::math::mat::Mat3x3<re::math::mat::RealToReal<2, re::render::Model, re::render::World>> = mk();
     let b: re::math::vec::Vec3<re::render::World> = mk();
     let _ = a.apply(&b);
 }
 
-pub fn p292() {
+pub fn p298() {
     let a: re::math::mat::Mat3x3<re::math::mat::RealToReal<2, re::render::World, re::render::Model>> = mk();
     let b: re::math::point::Point2<re::render::Model> = mk();
     let _r: re::math::point::Point2<re::render::Model> = a.apply_pt(&b);
 }
 
-pub fn p293() {
+pub fn p299() {
     let a: re::math::mat::Mat3x3<re::math::mat::RealToReal<2, re::render::World, re::render::Model>> = mk();
     let b: re::math::point::Point2<re::render::Model> = mk();
     let _r: re::math::point::Point2<re::render::World> = a.apply_pt(&b);
 }
 
-pub fn p295() {
+pub fn p301() {
     let a: re::math::mat::Mat3x3<re::math::mat::RealToReal<2, re::render::World, re::render::Model>> = mk();
     let b: re::math::point::Point2<re::render::World> = mk();
     let _r: re::math::point::Point2<re::render::World> = a.apply_pt(&b);
-}
-
-pub fn p296() {
-    let a: re::math::mat::Mat3x3<re::math::mat::RealToReal<2, re::render::World, re::render::Model>> = mk();
-    let b: re::math::vec::Vec2<re::render::Model> = mk();
-    let _r: re::math::vec::Vec2<re::render::Model> = a.apply(&b);
-}
-
-pub fn p297() {
-    let a: re::math::mat::Mat3x3<re::math::mat::RealToReal<2, re::render::World, re::render::Model>> = mk();
-    let b: re::math::vec::Vec2<re::render::Model> = mk();
-    let _r: re::math::vec::Vec2<re::render::World> = a.apply(&b);
-}
-
-pub fn p298() {
-    let a: re::math::mat::Mat3x3<re::math::mat::RealToReal<2, re::render::World, re::render::Model>> = mk();
-    let b: re::math::vec::Vec2<re::render::Model> = mk();
-    let _ = a.apply(&b);
-}
-
-pub fn p300() {
-    let a: re::math::mat::Mat3x3<re::math::mat::RealToReal<2, re::render::World, re::render::Model>> = mk();
-    let b: re::math::vec::Vec2<re::render::World> = mk();
-    let _r: re::math::vec::Vec2<re::render::World> = a.apply(&b);
 }
 
 pub fn p302() {
     let a: re::math::mat::Mat3x3<re::math::mat::RealToReal<2, re::render::World, re::render::Model>> = mk();
+    let b: re::math::vec::Vec2<re::render::Model> = mk();
+    let _r: re::math::vec::Vec2<re::render::Model> = a.apply(&b);
+}
+
+pub fn p303() {
+    let a: re::math::mat::Mat3x3<re::math::mat::RealToReal<2, re::render::World, re::render::Model>> = mk();
+    let b: re::math::vec::Vec2<re::render::Model> = mk();
+    let _r: re::math::vec::Vec2<re::render::World> = a.apply(&b);
+}
+
+pub fn p304() {
+    let a: re::math::mat::Mat3x3<re::math::mat::RealToReal<2, re::render::World, re::render::Model>> = mk();
+    let b: re::math::vec::Vec2<re::render::Model> = mk();
+    let _ = a.apply(&b);
+}
+
+pub fn p306() {
+    let a: re::math::mat::Mat3x3<re::math::mat::RealToReal<2, re::render::World, re::render::Model>> = mk();
+    let b: re::math::vec::Vec2<re::render::World> = mk();
+    let _r: re::math::vec::Vec2<re::render::World> = a.apply(&b);
+}
+
+pub fn p308() {
+    let a: re::math::mat::Mat3x3<re::math::mat::RealToReal<2, re::render::World, re::render::Model>> = mk();
     let b: re::math::vec::Vec3<re::render::Model> = mk();
     let _ = a.apply(&b);
 }
 
-pub fn p303() {
+pub fn p309() {
     let a: re::math::mat::Mat3x3<re::math::mat::RealToReal<2, re::render::World, re::render::Model>> = mk();
     let b: re::math::vec::Vec3<re::render::World> = mk();
     let _ = a.apply(&b);
 }
 
-pub fn p304() {
+pub fn p310() {
     let a: re::math::mat::Mat3x3<re::math::mat::RealToReal<2, re::render::World, re::render::World>> = mk();
     let b: re::math::point::Point2<re::render::Model> = mk();
     let _r: re::math::point::Point2<re::render::Model> = a.apply_pt(&b);
 }
 
-pub fn p305() {
+pub fn p311() {
     let a: re::math::mat::Mat3x3<re::math::mat::RealToReal<2, re::render::World, re::render::World>> = mk();
     let b: re::math::point::Point2<re::render::Model> = mk();
     let _r: re::math::point::Point2<re::render::World> = a.apply_pt(&b);
 }
 
-pub fn p306() {
+pub fn p312() {
     let a: re::math::mat::Mat3x3<re::math::mat::RealToReal<2, re::render::World, re::render::World>> = mk();
     let b: re::math::point::Point2<re::render::World> = mk();
     let _r: re::math::point::Point2<re::render::Model> = a.apply_pt(&b);
 }
 
-pub fn p308() {
+pub fn p314() {
     let a: re::math::mat::Mat3x3<re::math::mat::RealToReal<2, re::render::World, re::render::World>> = mk();
     let b: re::math::vec::Vec2<re::render::Model> = mk();
     let _r: re::math::vec::Vec2<re::render::Model> = a.apply(&b);
 }
 
-pub fn p309() {
+pub fn p315() {
     let a: re::math::mat::Mat3x3<re::math::mat::RealToReal<2, re::render::World, re::render::World>> = mk();
     let b: re::math::vec::Vec2<re::render::Model> = mk();
     let _r: re::math::vec::Vec2<re::render::World> = a.apply(&b);
 }
 
-pub fn p310() {
+pub fn p316() {
     let a: re::math::mat::Mat3x3<re::math::mat::RealToReal<2, re::render::World, re::render::World>> = mk();
     let b: re::math::vec::Vec2<re::render::Model> = mk();
     let _ = a.apply(&b);
 }
 
-pub fn p311() {
+pub fn p317() {
     let a: re::math::mat::Mat3x3<re::math::mat::RealToReal<2, re::render::World, re::render::World>> = mk();
     let b: re::math::vec::Vec2<re::render::World> = mk();
     let _r: re::math::vec::Vec2<re::render::Model> = a.apply(&b);
 }
 
-pub fn p314() {
+pub fn p320() {
     let a: re::math::mat::Mat3x3<re::math::mat::RealToReal<2, re::render::World, re::render::World>> = mk();
     let b: re::math::vec::Vec3<re::render::Model> = mk();
     let _ = a.apply(&b);
 }
 
-pub fn p315() {
+pub fn p321() {
     let a: re::math::mat::Mat3x3<re::math::mat::RealToReal<2, re::render::World, re::render::World>> = mk();
     let b: re::math::vec::Vec3<re::render::World> = mk();
     let _ = a.apply(&b);
 }
 
-pub fn p319() {
+pub fn p325() {
     let a: re::math::mat::Mat4x4<re::math::mat::RealToReal<3, re::render::Model, re::render::Model>> = mk();
     let b: re::math::mat::Mat4x4<re::render::ViewToProj> = mk();
     let _ = a.then(&b);
 }
 
-pub fn p320() {
+pub fn p326() {
     let a: re::math::mat::Mat4x4<re::math::mat::RealToReal<3, re::render::Model, re::render::Model>> = mk();
     let b: re::math::mat::Mat4x4<re::render::WorldToView> = mk();
     let _ = a.then(&b);
 }
 
-pub fn p322() {
+pub fn p328() {
     let a: re::math::mat::Mat4x4<re::math::mat::RealToReal<3, re::render::Model, re::render::Model>> = mk();
     let b: re::math::mat::Mat4x4<re::math::mat::RealToReal<3, re::render::Model, re::render::Model>> = mk();
     let _r: re::math::mat::Mat4x4<re::math::mat::RealToReal<3, re::render::Model, re::render::World>> = a.compose(&b);
-}
-
-pub fn p323() {
-    let a: re::math::mat::Mat4x4<re::math::mat::RealToReal<3, re::render::Model, re::render::Model>> = mk();
-    let b: re::math::mat::Mat4x4<re::math::mat::RealToReal<3, re::render::Model, re::render::Model>> = mk();
-    let _r: re::math::mat::Mat4x4<re::math::mat::RealToReal<3, re::render::World, re::render::Model>> = a.compose(&b);
-}
-
-pub fn p324() {
-    let a: re::math::mat::Mat4x4<re::math::mat::RealToReal<3, re::render::Model, re::render::Model>> = mk();
-    let b: re::math::mat::Mat4x4<re::math::mat::RealToReal<3, re::render::Model, re::render::Model>> = mk();
-    let _r: re::math::mat::Mat4x4<re::math::mat::RealToReal<3, re::render::World, re::render::World>> = a.compose(&b);
-}
-
-pub fn p327() {
-    let a: re::math::mat::Mat4x4<re::math::mat::RealToReal<3, re::render::Model, re::render::Model>> = mk();
-    let b: re::math::mat::Mat4x4<re::math::mat::RealToReal<3, re::render::Model, ()>> = mk();
-    let _ = a.compose(&b);
 }
 
 pub fn p329() {
     let a: re::math::mat::Mat4x4<re::math::mat::RealToReal<3, re::render::Model, re::render::Model>> = mk();
-    let b: re::math::mat::Mat4x4<re::math::mat::RealToReal<3, re::render::Model, re::render::World>> = mk();
-    let _r: re::math::mat::Mat4x4<re::math::mat::RealToReal<3, re::render::Model, re::render::Model>> = a.compose(&b);
+    let b: re::math::mat::Mat4x4<re::math::mat::RealToReal<3, re::render::Model, re::render::Model>> = mk();
+    let _r: re::math::mat::Mat4x4<re::math::mat::RealToReal<3, re::render::World, re::render::Model>> = a.compose(&b);
 }
 
 pub fn p330() {
     let a: re::math::mat::Mat4x4<re::math::mat::RealToReal<3, re::render::Model, re::render::Model>> = mk();
-    let b: re::math::mat::Mat4x4<re::math::mat::RealToReal<3, re::render::Model, re::render::World>> = mk();
-    let _r: re::math::mat::Mat4x4<re::math::mat::RealToReal<3, re::render::Model, re::render::World>> = a.compose(&b);
-}
-
-pub fn p331() {
-    let a: re::math::mat::Mat4x4<re::math::mat::RealToReal<3, re::render::Model, re::render::Model>> = mk();
-    let b: re::math::mat::Mat4x4<re::math::mat::RealToReal<3, re::render::Model, re::render::World>> = mk();
-    let _r: re::math::mat::Mat4x4<re::math::mat::RealToReal<3, re::render::World, re::render::Model>> = a.compose(&b);
-}
-
-pub fn p332() {
-    let a: re::math::mat::Mat4x4<re::math::mat::RealToReal<3, re::render::Model, re::render::Model>> = mk();
-    let b: re::math::mat::Mat4x4<re::math::mat::RealToReal<3, re::render::Model, re::render::World>> = mk();
+    let b: re::math::mat::Mat4x4<re::math::mat::RealToReal<3, re::render::Model, re::render::Model>> = mk();
     let _r: re::math::mat::Mat4x4<re::math::mat::RealToReal<3, re::render::World, re::render::World>> = a.compose(&b);
 }
 
 pub fn p333() {
     let a: re::math::mat::Mat4x4<re::math::mat::RealToReal<3, re::render::Model, re::render::Model>> = mk();
-    let b: re::math::mat::Mat4x4<re::math::mat::RealToReal<3, re::render::Model, re::render::World>> = mk();
+    let b: re::math::mat::Mat4x4<re::math::mat::RealToReal<3, re::render::Model, ()>> = mk();
     let _ = a.compose(&b);
 }
 
 pub fn p335() {
     let a: re::math::mat::Mat4x4<re::math::mat::RealToReal<3, re::render::Model, re::render::Model>> = mk();
-    let b: re::math::mat::Mat4x4<re::math::mat::RealToReal<3, (), re::render::Model>> = mk();
-    let _ = a.then(&b);
+    let b: re::math::mat::Mat4x4<re::math::mat::RealToReal<3, re::render::Model, re::render::World>> = mk();
+    let _r: re::math::mat::Mat4x4<re::math::mat::RealToReal<3, re::render::Model, re::render::Model>> = a.compose(&b);
+}
+
+pub fn p336() {
+    let a: re::math::mat::Mat4x4<re::math::mat::RealToReal<3, re::render::Model, re::render::Model>> = mk();
+    let b: re::math::mat::Mat4x4<re::math::mat::RealToReal<3, re::render::Model, re::render::World>> = mk();
+    let _r: re::math::mat::Mat4x4<re::math::mat::RealToReal<3, re::render::Model, re::render::World>> = a.compose(&b);
 }
 
 pub fn p337() {
     let a: re::math::mat::Mat4x4<re::math::mat::RealToReal<3, re::render::Model, re::render::Model>> = mk();
-    let b: re::math::mat::Mat4x4<re::math::mat::RealToReal<3, (), ()>> = mk();
-    let _ = a.compose(&b);
+    let b: re::math::mat::Mat4x4<re::math::mat::RealToReal<3, re::render::Model, re::render::World>> = mk();
+    let _r: re::math::mat::Mat4x4<re::math::mat::RealToReal<3, re::render::World, re::render::Model>> = a.compose(&b);
 }
 
 pub fn p338() {
     let a: re::math::mat::Mat4x4<re::math::mat::RealToReal<3, re::render::Model, re::render::Model>> = mk();
+    let b: re::math::mat::Mat4x4<re::math::mat::RealToReal<3, re::render::Model, re::render::World>> = mk();
+    let _r: re::math::mat::Mat4x4<re::math::mat::RealToReal<3, re::render::World, re::render::World>> = a.compose(&b);
+}
+
+pub fn p339() {
+    let a: re::math::mat::Mat4x4<re::math::mat::RealToReal<3, re::render::Model, re::render::Model>> = mk();
+    let b: re::math::mat::Mat4x4<re::math::mat::RealToReal<3, re::render::Model, re::render::World>> = mk();
+    let _ = a.compose(&b);
+}
+
+pub fn p341() {
+    let a: re::math::mat::Mat4x4<re::math::mat::RealToReal<3, re::render::Model, re::render::Model>> = mk();
+    let b: re::math::mat::Mat4x4<re::math::mat::RealToReal<3, (), re::render::Model>> = mk();
+    let _ = a.then(&b);
+}
+
+pub fn p343() {
+    let a: re::math::mat::Mat4x4<re::math::mat::RealToReal<3, re::render::Model, re::render::Model>> = mk();
+    let b: re::math::mat::Mat4x4<re::math::mat::RealToReal<3, (), ()>> = mk();
+    let _ = a.compose(&b);
+}
+
+pub fn p344() {
+    let a: re::math::mat::Mat4x4<re::math::mat::RealToReal<3, re::render::Model, re::render::Model>> = mk();
     let b: re::math::mat::Mat4x4<re::math::mat::RealToReal<3, (), ()>> = mk();
     let _ = a.then(&b);
 }
 
-pub fn p339() {
+pub fn p345() {
     let a: re::math::mat::Mat4x4<re::math::mat::RealToReal<3, re::render::Model, re::render::Model>> = mk();
     let b: re::math::mat::Mat4x4<re::math::mat::RealToReal<3, (), re::render::World>> = mk();
     let _ = a.compose(&b);
 }
 
-pub fn p340() {
+pub fn p346() {
     let a: re::math::mat::Mat4x4<re::math::mat::RealToReal<3, re::render::Model, re::render::Model>> = mk();
     let b: re::math::mat::Mat4x4<re::math::mat::RealToReal<3, (), re::render::World>> = mk();
-    let _ = a.then(&b);
-}
-
-pub fn p341() {
-    let a: re::math::mat::Mat4x4<re::math::mat::RealToReal<3, re::render::Model, re::render::Model>> = mk();
-    let b: re::math::mat::Mat4x4<re::math::mat::RealToReal<3, re::render::World, re::render::Model>> = mk();
-    let _r: re::math::mat::Mat4x4<re::math::mat::RealToReal<3, re::render::Model, re::render::Model>> = a.compose(&b);
-}
-
-pub fn p342() {
-    let a: re::math::mat::Mat4x4<re::math::mat::RealToReal<3, re::render::Model, re::render::Model>> = mk();
-    let b: re::math::mat::Mat4x4<re::math::mat::RealToReal<3, re::render::World, re::render::Model>> = mk();
-    let _r: re::math::mat::Mat4x4<re::math::mat::RealToReal<3, re::render::Model, re::render::World>> = a.compose(&b);
-}
-
-pub fn p344() {
-    let a: re::math::mat::Mat4x4<re::math::mat::RealToReal<3, re::render::Model, re::render::Model>> = mk();
-    let b: re::math::mat::Mat4x4<re::math::mat::RealToReal<3, re::render::World, re::render::Model>> = mk();
-    let _r: re::math::mat::Mat4x4<re::math::mat::RealToReal<3, re::render::World, re::render::World>> = a.compose(&b);
-}
-
-pub fn p345() {
-    let a: re::math::mat::Mat4x4<re::math::mat::RealToReal<3, re::render::Model, re::render::Model>> = mk();
-    let b: re::math::mat::Mat4x4<re::math::mat::RealToReal<3, re::render::World, re::render::Model>> = mk();
     let _ = a.then(&b);
 }
 
 pub fn p347() {
     let a: re::math::mat::Mat4x4<re::math::mat::RealToReal<3, re::render::Model, re::render::Model>> = mk();
-    let b: re::math::mat::Mat4x4<re::math::mat::RealToReal<3, re::render::World, ()>> = mk();
-    let _ = a.compose(&b);
+    let b: re::math::mat::Mat4x4<re::math::mat::RealToReal<3, re::render::World, re::render::Model>> = mk();
+    let _r: re::math::mat::Mat4x4<re::math::mat::RealToReal<3, re::render::Model, re::render::Model>> = a.compose(&b);
 }
 
 pub fn p348() {
     let a: re::math::mat::Mat4x4<re::math::mat::RealToReal<3, re::render::Model, re::render::Model>> = mk();
-    let b: re::math::mat::Mat4x4<re::math::mat::RealToReal<3, re::render::World, ()>> = mk();
-    let _ = a.then(&b);
-}
-
-pub fn p349() {
-    let a: re::math::mat::Mat4x4<re::math::mat::RealToReal<3, re::render::Model, re::render::Model>> = mk();
-    let b: re::math::mat::Mat4x4<re::math::mat::RealToReal<3, re::render::World, re::render::World>> = mk();
-    let _r: re::math::mat::Mat4x4<re::math::mat::RealToReal<3, re::render::Model, re::render::Model>> = a.compose(&b);
+    let b: re::math::mat::Mat4x4<re::math::mat::RealToReal<3, re::render::World, re::render::Model>> = mk();
+    let _r: re::math::mat::Mat4x4<re::math::mat::RealToReal<3, re::render::Model, re::render::World>> = a.compose(&b);
 }
 
 pub fn p350() {
     let a: re::math::mat::Mat4x4<re::math::mat::RealToReal<3, re::render::Model, re::render::Model>> = mk();
-    let b: re::math::mat::Mat4x4<re::math::mat::RealToReal<3, re::render::World, re::render::World>> = mk();
-    let _r: re::math::mat::Mat4x4<re::math::mat::RealToReal<3, re::render::Model, re::render::World>> = a.compose(&b);
+    let b: re::math::mat::Mat4x4<re::math::mat::RealToReal<3, re::render::World, re::render::Model>> = mk();
+    let _r: re::math::mat::Mat4x4<re::math::mat::RealToReal<3, re::render::World, re::render::World>> = a.compose(&b);
 }
 
 pub fn p351() {
     let a: re::math::mat::Mat4x4<re::math::mat::RealToReal<3, re::render::Model, re::render::Model>> = mk();
-    let b: re::math::mat::Mat4x4<re::math::mat::RealToReal<3, re::render::World, re::render::World>> = mk();
-    let _r: re::math::mat::Mat4x4<re::math::mat::RealToReal<3, re::render::World, re::render::Model>> = a.compose(&b);
-}
-
-pub fn p352() {
-    let a: re::math::mat::Mat4x4<re::math::mat::RealToReal<3, re::render::Model, re::render::Model>> = mk();
-    let b: re::math::mat::Mat4x4<re::math::mat::RealToReal<3, re::render::World, re::render::World>> = mk();
-    let _r: re::math::mat::Mat4x4<re::math::mat::RealToReal<3, re::render::World, re::render::World>> = a.compose(&b);
+    let b: re::math::mat::Mat4x4<re::math::mat::RealToReal<3, re::render::World, re::render::Model>> = mk();
+    let _ = a.then(&b);
 }
 
 pub fn p353() {
     let a: re::math::mat::Mat4x4<re::math::mat::RealToReal<3, re::render::Model, re::render::Model>> = mk();
-    let b: re::math::mat::Mat4x4<re::math::mat::RealToReal<3, re::render::World, re::render::World>> = mk();
+    let b: re::math::mat::Mat4x4<re::math::mat::RealToReal<3, re::render::World, ()>> = mk();
     let _ = a.compose(&b);
 }
 
 pub fn p354() {
     let a: re::math::mat::Mat4x4<re::math::mat::RealToReal<3, re::render::Model, re::render::Model>> = mk();
-    let b: re::math::mat::Mat4x4<re::math::mat::RealToReal<3, re::render::World, re::render::World>> = mk();
+    let b: re::math::mat::Mat4x4<re::math::mat::RealToReal<3, re::render::World, ()>> = mk();
     let _ = a.then(&b);
 }
 
 pub fn p355() {
     let a: re::math::mat::Mat4x4<re::math::mat::RealToReal<3, re::render::Model, re::render::Model>> = mk();
-    let b: re::math::mat::Mat4x4<re::math::mat::RealToProj<re::render::Model>> = mk();
-    let _ = a.compose(&b);
+    let b: re::math::mat::Mat4x4<re::math::mat::RealToReal<3, re::render::World, re::render::World>> = mk();
+    let _r: re::math::mat::Mat4x4<re::math::mat::RealToReal<3, re::render::Model, re::render::Model>> = a.compose(&b);
+}
+
+pub fn p356() {
+    let a: re::math::mat::Mat4x4<re::math::mat::RealToReal<3, re::render::Model, re::render::Model>> = mk();
+    let b: re::math::mat::Mat4x4<re::math::mat::RealToReal<3, re::render::World, re::render::World>> = mk();
+    let _r: re::math::mat::Mat4x4<re::math::mat::RealToReal<3, re::render::Model, re::render::World>> = a.compose(&b);
 }
 
 pub fn p357() {
     let a: re::math::mat::Mat4x4<re::math::mat::RealToReal<3, re::render::Model, re::render::Model>> = mk();
-    let b: re::math::mat::Mat4x4<re::math::mat::RealToProj<()>> = mk();
-    let _ = a.compose(&b);
+    let b: re::math::mat::Mat4x4<re::math::mat::RealToReal<3, re::render::World, re::render::World>> = mk();
+    let _r: re::math::mat::Mat4x4<re::math::mat::RealToReal<3, re::render::World, re::render::Model>> = a.compose(&b);
 }
 
 pub fn p358() {
     let a: re::math::mat::Mat4x4<re::math::mat::RealToReal<3, re::render::Model, re::render::Model>> = mk();
-    let b: re::math::mat::Mat4x4<re::math::mat::RealToProj<()>> = mk();
-    let _ = a.then(&b);
+    let b: re::math::mat::Mat4x4<re::math::mat::RealToReal<3, re::render::World, re::render::World>> = mk();
+    let _r: re::math::mat::Mat4x4<re::math::mat::RealToReal<3, re::render::World, re::render::World>> = a.compose(&b);
 }
 
 pub fn p359() {
     let a: re::math::mat::Mat4x4<re::math::mat::RealToReal<3, re::render::Model, re::render::Model>> = mk();
-    let b: re::math::mat::Mat4x4<re::math::mat::RealToProj<re::render::World>> = mk();
+    let b: re::math::mat::Mat4x4<re::math::mat::RealToReal<3, re::render::World, re::render::World>> = mk();
     let _ = a.compose(&b);
 }
 
 pub fn p360() {
     let a: re::math::mat::Mat4x4<re::math::mat::RealToReal<3, re::render::Model, re::render::Model>> = mk();
-    let b: re::math::mat::Mat4x4<re::math::mat::RealToProj<re::render::World>> = mk();
+    let b: re::math::mat::Mat4x4<re::math::mat::RealToReal<3, re::render::World, re::render::World>> = mk();
     let _ = a.then(&b);
 }
 
 pub fn p361() {
     let a: re::math::mat::Mat4x4<re::math::mat::RealToReal<3, re::render::Model, re::render::Model>> = mk();
+    let b: re::math::mat::Mat4x4<re::math::mat::RealToProj<re::render::Model>> = mk();
+    let _ = a.compose(&b);
+}
+
+pub fn p363() {
+    let a: re::math::mat::Mat4x4<re::math::mat::RealToReal<3, re::render::Model, re::render::Model>> = mk();
+    let b: re::math::mat::Mat4x4<re::math::mat::RealToProj<()>> = mk();
+    let _ = a.compose(&b);
+}
+
+pub fn p364() {
+    let a: re::math::mat::Mat4x4<re::math::mat::RealToReal<3, re::render::Model, re::render::Model>> = mk();
+    let b: re::math::mat::Mat4x4<re::math::mat::RealToProj<()>> = mk();
+    let _ = a.then(&b);
+}
+
+pub fn p365() {
+    let a: re::math::mat::Mat4x4<re::math::mat::RealToReal<3, re::render::Model, re::render::Model>> = mk();
+    let b: re::math::mat::Mat4x4<re::math::mat::RealToProj<re::render::World>> = mk();
+    let _ = a.compose(&b);
+}
+
+pub fn p366() {
+    let a: re::math::mat::Mat4x4<re::math::mat::RealToReal<3, re::render::Model, re::render::Model>> = mk();
+    let b: re::math::mat::Mat4x4<re::math::mat::RealToProj<re::render::World>> = mk();
+    let _ = a.then(&b);
+}
+
+pub fn p367() {
+    let a: re::math::mat::Mat4x4<re::math::mat::RealToReal<3, re::render::Model, re::render::Model>> = mk();
     let b: re::math::point::Point2<re::render::Model> = mk();
     let _ = a.apply_pt(&b);
 }
 
-pub fn p362() {
+pub fn p368() {
     let a: re::math::mat::Mat4x4<re::math::mat::RealToReal<3, re::render::Model, re::render::Model>> = mk();
     let b: re::math::point::Point2<()> = mk();
     let _ = a.apply_pt(&b);
 }
 
-pub fn p363() {
+pub fn p369() {
     let a: re::math::mat::Mat4x4<re::math::mat::RealToReal<3, re::render::Model, re::render::Model>> = mk();
     let b: re::math::point::Point2<re::render::World> = mk();
     let _ = a.apply_pt(&b);
 }
 
-pub fn p365() {
-    let a: re::math::mat::Mat4x4<re::math::mat::RealToReal<3, re::render::Model, re::render::Model>> = mk();
-    let b: re::math::point::Point3<re::render::Model> = mk();
-    let _r: re::math::point::Point3<()> = a.apply_pt(&b);
-}
-
-pub fn p366() {
-    let a: re::math::mat::Mat4x4<re::math::mat::RealToReal<3, re::render::Model, re::render::Model>> = mk();
-    let b: re::math::point::Point3<re::render::Model> = mk();
-    let _r: re::math::point::Point3<re::render::World> = a.apply_pt(&b);
-}
-
-pub fn p367() {
-    let a: re::math::mat::Mat4x4<re::math::mat::RealToReal<3, re::render::Model, re::render::Model>> = mk();
-    let b: re::math::point::Point3<re::render::Model> = mk();
-    let _ = a.apply(&b);
-}
-
-pub fn p369() {
-    let a: re::math::mat::Mat4x4<re::math::mat::RealToReal<3, re::render::Model, re::render::Model>> = mk();
-    let b: re::math::point::Point3<()> = mk();
-    let _r: re::math::point::Point3<re::render::Model> = a.apply_pt(&b);
-}
-
-pub fn p370() {
-    let a: re::math::mat::Mat4x4<re::math::mat::RealToReal<3, re::render::Model, re::render::Model>> = mk();
-    let b: re::math::point::Point3<()> = mk();
-    let _r: re::math::point::Point3<()> = a.apply_pt(&b);
-}
-
 pub fn p371() {
     let a: re::math::mat::Mat4x4<re::math::mat::RealToReal<3, re::render::Model, re::render::Model>> = mk();
-    let b: re::math::point::Point3<()> = mk();
-    let _r: re::math::point::Point3<re::render::World> = a.apply_pt(&b);
+    let b: re::math::point::Point3<re::render::Model> = mk();
+    let _r: re::math::point::Point3<()> = a.apply_pt(&b);
 }
 
 pub fn p372() {
     let a: re::math::mat::Mat4x4<re::math::mat::RealToReal<3, re::render::Model, re::render::Model>> = mk();
-    let b: re::math::point::Point3<()> = mk();
-    let _ = a.apply_pt(&b);
+    let b: re::math::point::Point3<re::render::Model> = mk();
+    let _r: re::math::point::Point3<re::render::World> = a.apply_pt(&b);
 }
 
 pub fn p373() {
     let a: re::math::mat::Mat4x4<re::math::mat::RealToReal<3, re::render::Model, re::render::Model>> = mk();
-    let b: re::math::point::Point3<re::render::View> = mk();
+    let b: re::math::point::Point3<re::render::Model> = mk();
     let _ = a.apply(&b);
-}
-
-pub fn p374() {
-    let a: re::math::mat::Mat4x4<re::math::mat::RealToReal<3, re::render::Model, re::render::Model>> = mk();
-    let b: re::math::point::Point3<re::render::View> = mk();
-    let _ = a.apply_pt(&b);
 }
 
 pub fn p375() {
     let a: re::math::mat::Mat4x4<re::math::mat::RealToReal<3, re::render::Model, re::render::Model>> = mk();
-    let b: re::math::point::Point3<re::render::World> = mk();
+    let b: re::math::point::Point3<()> = mk();
     let _r: re::math::point::Point3<re::render::Model> = a.apply_pt(&b);
 }
 
 pub fn p376() {
     let a: re::math::mat::Mat4x4<re::math::mat::RealToReal<3, re::render::Model, re::render::Model>> = mk();
-    let b: re::math::point::Point3<re::render::World> = mk();
+    let b: re::math::point::Point3<()> = mk();
     let _r: re::math::point::Point3<()> = a.apply_pt(&b);
 }
 
 pub fn p377() {
     let a: re::math::mat::Mat4x4<re::math::mat::RealToReal<3, re::render::Model, re::render::Model>> = mk();
-    let b: re::math::point::Point3<re::render::World> = mk();
+    let b: re::math::point::Point3<()> = mk();
     let _r: re::math::point::Point3<re::render::World> = a.apply_pt(&b);
 }
 
 pub fn p378() {
     let a: re::math::mat::Mat4x4<re::math::mat::RealToReal<3, re::render::Model, re::render::Model>> = mk();
+    let b: re::math::point::Point3<()> = mk();
+    let _ = a.apply_pt(&b);
+}
+
+pub fn p379() {
+    let a: re::math::mat::Mat4x4<re::math::mat::RealToReal<3, re::render::Model, re::render::Model>> = mk();
+    let b: re::math::point::Point3<re::render::View> = mk();
+    let _ = a.apply(&b);
+}
+
+pub fn p380() {
+    let a: re::math::mat::Mat4x4<re::math::mat::RealToReal<3, re::render::Model, re::render::Model>> = mk();
+    let b: re::math::point::Point3<re::render::View> = mk();
+    let _ = a.apply_pt(&b);
+}
+
+pub fn p381() {
+    let a: re::math::mat::Mat4x4<re::math::mat::RealToReal<3, re::render::Model, re::render::Model>> = mk();
+    let b: re::math::point::Point3<re::render::World> = mk();
+    let _r: re::math::point::Point3<re::render::Model> = a.apply_pt(&b);
+}
+
+pub fn p382() {
+    let a: re::math::mat::Mat4x4<re::math::mat::RealToReal<3, re::render::Model, re::render::Model>> = mk();
+    let b: re::math::point::Point3<re::render::World> = mk();
+    let _r: re::math::point::Point3<()> = a.apply_pt(&b);
+}
+
+pub fn p383() {
+    let a: re::math::mat::Mat4x4<re::math::mat::RealToReal<3, re::render::Model, re::render::Model>> = mk();
+    let b: re::math::point::Point3<re::render::World> = mk();
+    let _r: re::math::point::Point3<re::render::World> = a.apply_pt(&b);
+}
+
+pub fn p384() {
+    let a: re::math::mat::Mat4x4<re::math::mat::RealToReal<3, re::render::Model, re::render::Model>> = mk();
     let b: re::math::point::Point3<re::render::World> = mk();
     let _ = a.apply(&b);
 }
 
-pub fn p379() {
+pub fn p385() {
     let a: re::math::mat::Mat4x4<re::math::mat::RealToReal<3, re::render::Model, re::render::Model>> = mk();
     let b: re::math::point::Point3<re::render::World> = mk();
     let _ = a.apply_pt(&b);
 }
 
-pub fn p380() {
+pub fn p386() {
     let a: re::math::mat::Mat4x4<re::math::mat::RealToReal<3, re::render::Model, re::render::Model>> = mk();
     let b: re::math::vec::Vec2<re::render::Model> = mk();
     let _ = a.apply(&b);
 }
 
-pub fn p381() {
+pub fn p387() {
     let a: re::math::mat::Mat4x4<re::math::mat::RealToReal<3, re::render::Model, re::render::Model>> = mk();
     let b: re::math::vec::Vec2<()> = mk();
     let _ = a.apply(&b);
 }
 
-pub fn p382() {
+pub fn p388() {
     let a: re::math::mat::Mat4x4<re::math::mat::RealToReal<3, re::render::Model, re::render::Model>> = mk();
     let b: re::math::vec::Vec2<re::render::World> = mk();
     let _ = a.apply(&b);
 }
 
-pub fn p384() {
-    let a: re::math::mat::Mat4x4<re::math::mat::RealToReal<3, re::render::Model, re::render::Model>> = mk();
-    let b: re::math::vec::Vec3<re::render::Model> = mk();
-    let _r: re::math::vec::Vec3<()> = a.apply(&b);
-}
-
-pub fn p385() {
-    let a: re::math::mat::Mat4x4<re::math::mat::RealToReal<3, re::render::Model, re::render::Model>> = mk();
-    let b: re::math::vec::Vec3<re::render::Model> = mk();
-    let _r: re::math::vec::Vec3<re::render::World> = a.apply(&b);
-}
-
-pub fn p387() {
-    let a: re::math::mat::Mat4x4<re::math::mat::RealToReal<3, re::render::Model, re::render::Model>> = mk();
-    let b: re::math::vec::Vec3<()> = mk();
-    let _r: re::math::vec::Vec3<re::render::Model> = a.apply(&b);
-}
-
-pub fn p388() {
-    let a: re::math::mat::Mat4x4<re::math::mat::RealToReal<3, re::render::Model, re::render::Model>> = mk();
-    let b: re::math::vec::Vec3<()> = mk();
-    let _r: re::math::vec::Vec3<()> = a.apply(&b);
-}
-
-pub fn p389() {
-    let a: re::math::mat::Mat4x4<re::math::mat::RealToReal<3, re::render::Model, re::render::Model>> = mk();
-    let b: re::math::vec::Vec3<()> = mk();
-    let _r: re::math::vec::Vec3<re::render::World> = a.apply(&b);
-}
-
 pub fn p390() {
     let a: re::math::mat::Mat4x4<re::math::mat::RealToReal<3, re::render::Model, re::render::Model>> = mk();
-    let b: re::math::vec::Vec3<()> = mk();
-    let _ = a.apply(&b);
+    let b: re::math::vec::Vec3<re::render::Model> = mk();
+    let _r: re::math::vec::Vec3<()> = a.apply(&b);
 }
 
 pub fn p391() {
     let a: re::math::mat::Mat4x4<re::math::mat::RealToReal<3, re::render::Model, re::render::Model>> = mk();
+    let b: re::math::vec::Vec3<re::render::Model> = mk();
+    let _r: re::math::vec::Vec3<re::render::World> = a.apply(&b);
+}
+
+pub fn p393() {
+    let a: re::math::mat::Mat4x4<re::math::mat::RealToReal<3, re::render::Model, re::render::Model>> = mk();
+    let b: re::math::vec::Vec3<()> = mk();
+    let _r: re::math::vec::Vec3<re::render::Model> = a.apply(&b);
+}
+
+pub fn p394() {
+    let a: re::math::mat::Mat4x4<re::math::mat::RealToReal<3, re::render::Model, re::render::Model>> = mk();
+    let b: re::math::vec::Vec3<()> = mk();
+    let _r: re::math::vec::Vec3<()> = a.apply(&b);
+}
+
+pub fn p395() {
+    let a: re::math::mat::Mat4x4<re::math::mat::RealToReal<3, re::render::Model, re::render::Model>> = mk();
+    let b: re::math::vec::Vec3<()> = mk();
+    let _r: re::math::vec::Vec3<re::render::World> = a.apply(&b);
+}
+
+pub fn p396() {
+    let a: re::math::mat::Mat4x4<re::math::mat::RealToReal<3, re::render::Model, re::render::Model>> = mk();
+    let b: re::math::vec::Vec3<()> = mk();
+    let _ = a.apply(&b);
+}
+
+pub fn p397() {
+    let a: re::math::mat::Mat4x4<re::math::mat::RealToReal<3, re::render::Model, re::render::Model>> = mk();
     let b: re::math::vec::Vec3<re::render::World> = mk();
     let _r: re::math::vec::Vec3<re::render::Model> = a.apply(&b);
 }
 
-pub fn p392() {
+pub fn p398() {
     let a: re::math::mat::Mat4x4<re::math::mat::RealToReal<3, re::render::Model, re::render::Model>> = mk();
     let b: re::math::vec::Vec3<re::render::World> = mk();
     let _r: re::math::vec::Vec3<()> = a.apply(&b);
 }
 
-pub fn p393() {
+pub fn p399() {
     let a: re::math::mat::Mat4x4<re::math::mat::RealToReal<3, re::render::Model, re::render::Model>> = mk();
     let b: re::math::vec::Vec3<re::render::World> = mk();
     let _r: re::math::vec::Vec3<re::render::World> = a.apply(&b);
 }
 
-pub fn p394() {
+pub fn p400() {
     let a: re::math::mat::Mat4x4<re::math::mat::RealToReal<3, re::render::Model, re::render::Model>> = mk();
     let b: re::math::vec::Vec3<re::render::World> = mk();
     let _ = a.apply(&b);
 }
 
-pub fn p395() {
+pub fn p401() {
     let a: re::math::mat::Mat4x4<re::math::mat::RealToReal<3, re::render::Model, re::render::Model>> = mk();
     let _ = re::render::cam::Camera::new((8, 8)).mode(a);
 }
 
-pub fn p400() {
+pub fn p406() {
     let a: re::math::mat::Mat4x4<re::math::mat::RealToReal<3, re::render::Model, ()>> = mk();
     let b: re::math::mat::Mat4x4<re::math::mat::RealToReal<3, re::render::Model, re::render::Model>> = mk();
-    let _ = a.then(&b);
-}
-
-pub fn p402() {
-    let a: re::math::mat::Mat4x4<re::math::mat::RealToReal<3, re::render::Model, ()>> = mk();
-    let b: re::math::mat::Mat4x4<re::math::mat::RealToReal<3, re::render::Model, ()>> = mk();
-    let _ = a.compose(&b);
-}
-
-pub fn p403() {
-    let a: re::math::mat::Mat4x4<re::math::mat::RealToReal<3, re::render::Model, ()>> = mk();
-    let b: re::math::mat::Mat4x4<re::math::mat::RealToReal<3, re::render::Model, ()>> = mk();
-    let _ = a.then(&b);
-}
-
-pub fn p404() {
-    let a: re::math::mat::Mat4x4<re::math::mat::RealToReal<3, re::render::Model, ()>> = mk();
-    let b: re::math::mat::Mat4x4<re::math::mat::RealToReal<3, re::render::Model, re::render::World>> = mk();
-    let _ = a.compose(&b);
-}
-
-pub fn p405() {
-    let a: re::math::mat::Mat4x4<re::math::mat::RealToReal<3, re::render::Model, ()>> = mk();
-    let b: re::math::mat::Mat4x4<re::math::mat::RealToReal<3, re::render::Model, re::render::World>> = mk();
     let _ = a.then(&b);
 }
 
 pub fn p408() {
     let a: re::math::mat::Mat4x4<re::math::mat::RealToReal<3, re::render::Model, ()>> = mk();
-    let b: re::math::mat::Mat4x4<re::math::mat::RealToReal<3, (), ()>> = mk();
+    let b: re::math::mat::Mat4x4<re::math::mat::RealToReal<3, re::render::Model, ()>> = mk();
     let _ = a.compose(&b);
+}
+
+pub fn p409() {
+    let a: re::math::mat::Mat4x4<re::math::mat::RealToReal<3, re::render::Model, ()>> = mk();
+    let b: re::math::mat::Mat4x4<re::math::mat::RealToReal<3, re::render::Model, ()>> = mk();
+    let _ = a.then(&b);
 }
 
 pub fn p410() {
     let a: re::math::mat::Mat4x4<re::math::mat::RealToReal<3, re::render::Model, ()>> = mk();
-    let b: re::math::mat::Mat4x4<re::math::mat::RealToReal<3, (), re::render::World>> = mk();
+    let b: re::math::mat::Mat4x4<re::math::mat::RealToReal<3, re::render::Model, re::render::World>> = mk();
     let _ = a.compose(&b);
 }
 
-pub fn p412() {
+pub fn p411() {
     let a: re::math::mat::Mat4x4<re::math::mat::RealToReal<3, re::render::Model, ()>> = mk();
-    let b: re::math::mat::Mat4x4<re::math::mat::RealToReal<3, re::render::World, re::render::Model>> = mk();
+    let b: re::math::mat::Mat4x4<re::math::mat::RealToReal<3, re::render::Model, re::render::World>> = mk();
     let _ = a.then(&b);
 }
 
 pub fn p414() {
     let a: re::math::mat::Mat4x4<re::math::mat::RealToReal<3, re::render::Model, ()>> = mk();
-    let b: re::math::mat::Mat4x4<re::math::mat::RealToReal<3, re::render::World, ()>> = mk();
+    let b: re::math::mat::Mat4x4<re::math::mat::RealToReal<3, (), ()>> = mk();
     let _ = a.compose(&b);
-}
-
-pub fn p415() {
-    let a: re::math::mat::Mat4x4<re::math::mat::RealToReal<3, re::render::Model, ()>> = mk();
-    let b: re::math::mat::Mat4x4<re::math::mat::RealToReal<3, re::render::World, ()>> = mk();
-    let _ = a.then(&b);
 }
 
 pub fn p416() {
     let a: re::math::mat::Mat4x4<re::math::mat::RealToReal<3, re::render::Model, ()>> = mk();
-    let b: re::math::mat::Mat4x4<re::math::mat::RealToReal<3, re::render::World, re::render::World>> = mk();
+    let b: re::math::mat::Mat4x4<re::math::mat::RealToReal<3, (), re::render::World>> = mk();
     let _ = a.compose(&b);
-}
-
-pub fn p417() {
-    let a: re::math::mat::Mat4x4<re::math::mat::RealToReal<3, re::render::Model, ()>> = mk();
-    let b: re::math::mat::Mat4x4<re::math::mat::RealToReal<3, re::render::World, re::render::World>> = mk();
-    let _ = a.then(&b);
 }
 
 pub fn p418() {
     let a: re::math::mat::Mat4x4<re::math::mat::RealToReal<3, re::render::Model, ()>> = mk();
-    let b: re::math::mat::Mat4x4<re::math::mat::RealToProj<re::render::Model>> = mk();
-    let _ = a.compose(&b);
-}
-
-pub fn p419() {
-    let a: re::math::mat::Mat4x4<re::math::mat::RealToReal<3, re::render::Model, ()>> = mk();
-    let b: re::math::mat::Mat4x4<re::math::mat::RealToProj<re::render::Model>> = mk();
+    let b: re::math::mat::Mat4x4<re::math::mat::RealToReal<3, re::render::World, re::render::Model>> = mk();
     let _ = a.then(&b);
 }
 
 pub fn p420() {
     let a: re::math::mat::Mat4x4<re::math::mat::RealToReal<3, re::render::Model, ()>> = mk();
-    let b: re::math::mat::Mat4x4<re::math::mat::RealToProj<()>> = mk();
+    let b: re::math::mat::Mat4x4<re::math::mat::RealToReal<3, re::render::World, ()>> = mk();
     let _ = a.compose(&b);
+}
+
+pub fn p421() {
+    let a: re::math::mat::Mat4x4<re::math::mat::RealToReal<3, re::render::Model, ()>> = mk();
+    let b: re::math::mat::Mat4x4<re::math::mat::RealToReal<3, re::render::World, ()>> = mk();
+    let _ = a.then(&b);
 }
 
 pub fn p422() {
     let a: re::math::mat::Mat4x4<re::math::mat::RealToReal<3, re::render::Model, ()>> = mk();
-    let b: re::math::mat::Mat4x4<re::math::mat::RealToProj<re::render::World>> = mk();
+    let b: re::math::mat::Mat4x4<re::math::mat::RealToReal<3, re::render::World, re::render::World>> = mk();
     let _ = a.compose(&b);
 }
 
 pub fn p423() {
     let a: re::math::mat::Mat4x4<re::math::mat::RealToReal<3, re::render::Model, ()>> = mk();
-    let b: re::math::mat::Mat4x4<re::math::mat::RealToProj<re::render::World>> = mk();
+    let b: re::math::mat::Mat4x4<re::math::mat::RealToReal<3, re::render::World, re::render::World>> = mk();
     let _ = a.then(&b);
 }
 
 pub fn p424() {
     let a: re::math::mat::Mat4x4<re::math::mat::RealToReal<3, re::render::Model, ()>> = mk();
+    let b: re::math::mat::Mat4x4<re::math::mat::RealToProj<re::render::Model>> = mk();
+    let _ = a.compose(&b);
+}
+
+pub fn p425() {
+    let a: re::math::mat::Mat4x4<re::math::mat::RealToReal<3, re::render::Model, ()>> = mk();
+    let b: re::math::mat::Mat4x4<re::math::mat::RealToProj<re::render::Model>> = mk();
+    let _ = a.then(&b);
+}
+
+pub fn p426() {
+    let a: re::math::mat::Mat4x4<re::math::mat::RealToReal<3, re::render::Model, ()>> = mk();
+    let b: re::math::mat::Mat4x4<re::math::mat::RealToProj<()>> = mk();
+    let _ = a.compose(&b);
+}
+
+pub fn p428() {
+    let a: re::math::mat::Mat4x4<re::math::mat::RealToReal<3, re::render::Model, ()>> = mk();
+    let b: re::math::mat::Mat4x4<re::math::mat::RealToProj<re::render::World>> = mk();
+    let _ = a.compose(&b);
+}
+
+pub fn p429() {
+    let a: re::math::mat::Mat4x4<re::math::mat::RealToReal<3, re::render::Model, ()>> = mk();
+    let b: re::math::mat::Mat4x4<re::math::mat::RealToProj<re::render::World>> = mk();
+    let _ = a.then(&b);
+}
+
+pub fn p430() {
+    let a: re::math::mat::Mat4x4<re::math::mat::RealToReal<3, re::render::Model, ()>> = mk();
     let b: re::math::point::Point2<re::render::Model> = mk();
     let _ = a.apply_pt(&b);
 }
 
-pub fn p425() {
+pub fn p431() {
     let a: re::math::mat::Mat4x4<re::math::mat::RealToReal<3, re::render::Model, ()>> = mk();
     let b: re::math::point::Point2<()> = mk();
     let _ = a.apply_pt(&b);
 }
 
-pub fn p426() {
+pub fn p432() {
     let a: re::math::mat::Mat4x4<re::math::mat::RealToReal<3, re::render::Model, ()>> = mk();
     let b: re::math::point::Point2<re::render::World> = mk();
     let _ = a.apply_pt(&b);
 }
 
-pub fn p427() {
-    let a: re::math::mat::Mat4x4<re::math::mat::RealToReal<3, re::render::Model, ()>> = mk();
-    let b: re::math::point::Point3<re::render::Model> = mk();
-    let _r: re::math::point::Point3<re::render::Model> = a.apply_pt(&b);
-}
-
-pub fn p429() {
-    let a: re::math::mat::Mat4x4<re::math::mat::RealToReal<3, re::render::Model, ()>> = mk();
-    let b: re::math::point::Point3<re::render::Model> = mk();
-    let _r: re::math::point::Point3<re::render::World> = a.apply_pt(&b);
-}
-
-pub fn p431() {
-    let a: re::math::mat::Mat4x4<re::math::mat::RealToReal<3, re::render::Model, ()>> = mk();
-    let b: re::math::point::Point3<()> = mk();
-    let _r: re::math::point::Point3<re::render::Model> = a.apply_pt(&b);
-}
-
-pub fn p432() {
-    let a: re::math::mat::Mat4x4<re::math::mat::RealToReal<3, re::render::Model, ()>> = mk();
-    let b: re::math::point::Point3<()> = mk();
-    let _r: re::math::point::Point3<()> = a.apply_pt(&b);
-}
-
 pub fn p433() {
     let a: re::math::mat::Mat4x4<re::math::mat::RealToReal<3, re::render::Model, ()>> = mk();
-    let b: re::math::point::Point3<()> = mk();
-    let _r: re::math::point::Point3<re::render::World> = a.apply_pt(&b);
-}
-
-pub fn p434() {
-    let a: re::math::mat::Mat4x4<re::math::mat::RealToReal<3, re::render::Model, ()>> = mk();
-    let b: re::math::point::Point3<()> = mk();
-    let _ = a.apply_pt(&b);
+    let b: re::math::point::Point3<re::render::Model> = mk();
+    let _r: re::math::point::Point3<re::render::Model> = a.apply_pt(&b);
 }
 
 pub fn p435() {
     let a: re::math::mat::Mat4x4<re::math::mat::RealToReal<3, re::render::Model, ()>> = mk();
+    let b: re::math::point::Point3<re::render::Model> = mk();
+    let _r: re::math::point::Point3<re::render::World> = a.apply_pt(&b);
+}
+
+pub fn p437() {
+    let a: re::math::mat::Mat4x4<re::math::mat::RealToReal<3, re::render::Model, ()>> = mk();
+    let b: re::math::point::Point3<()> = mk();
+    let _r: re::math::point::Point3<re::render::Model> = a.apply_pt(&b);
+}
+
+pub fn p438() {
+    let a: re::math::mat::Mat4x4<re::math::mat::RealToReal<3, re::render::Model, ()>> = mk();
+    let b: re::math::point::Point3<()> = mk();
+    let _r: re::math::point::Point3<()> = a.apply_pt(&b);
+}
+
+pub fn p439() {
+    let a: re::math::mat::Mat4x4<re::math::mat::RealToReal<3, re::render::Model, ()>> = mk();
+    let b: re::math::point::Point3<()> = mk();
+    let _r: re::math::point::Point3<re::render::World> = a.apply_pt(&b);
+}
+
+pub fn p440() {
+    let a: re::math::mat::Mat4x4<re::math::mat::RealToReal<3, re::render::Model, ()>> = mk();
+    let b: re::math::point::Point3<()> = mk();
+    let _ = a.apply_pt(&b);
+}
+
+pub fn p441() {
+    let a: re::math::mat::Mat4x4<re::math::mat::RealToReal<3, re::render::Model, ()>> = mk();
     let b: re::math::point::Point3<re::render::World> = mk();
     let _r: re::math::point::Point3<re::render::Model> = a.apply_pt(&b);
 }
 
-pub fn p436() {
+pub fn p442() {
     let a: re::math::mat::Mat4x4<re::math::mat::RealToReal<3, re::render::Model, ()>> = mk();
     let b: re::math::point::Point3<re::render::World> = mk();
     let _r: re::math::point::Point3<()> = a.apply_pt(&b);
 }
 
-pub fn p437() {
+pub fn p443() {
     let a: re::math::mat::Mat4x4<re::math::mat::RealToReal<3, re::render::Model, ()>> = mk();
     let b: re::math::point::Point3<re::render::World> = mk();
     let _r: re::math::point::Point3<re::render::World> = a.apply_pt(&b);
 }
 
-pub fn p438() {
+pub fn p444() {
     let a: re::math::mat::Mat4x4<re::math::mat::RealToReal<3, re::render::Model, ()>> = mk();
     let b: re::math::point::Point3<re::render::World> = mk();
     let _ = a.apply_pt(&b);
 }
 
-pub fn p439() {
+pub fn p445() {
     let a: re::math::mat::Mat4x4<re::math::mat::RealToReal<3, re::render::Model, ()>> = mk();
     let b: re::math::vec::Vec2<re::render::Model> = mk();
     let _ = a.apply(&b);
 }
 
-pub fn p440() {
+pub fn p446() {
     let a: re::math::mat::Mat4x4<re::math::mat::RealToReal<3, re::render::Model, ()>> = mk();
     let b: re::math::vec::Vec2<()> = mk();
     let _ = a.apply(&b);
 }
 
-pub fn p441() {
+pub fn p447() {
     let a: re::math::mat::Mat4x4<re::math::mat::RealToReal<3, re::render::Model, ()>> = mk();
     let b: re::math::vec::Vec2<re::render::World> = mk();
     let _ = a.apply(&b);
 }
 
-pub fn p442() {
-    let a: re::math::mat::Mat4x4<re::math::mat::RealToReal<3, re::render::Model, ()>> = mk();
-    let b: re::math::vec::Vec3<re::render::Model> = mk();
-    let _r: re::math::vec::Vec3<re::render::Model> = a.apply(&b);
-}
-
-pub fn p444() {
-    let a: re::math::mat::Mat4x4<re::math::mat::RealToReal<3, re::render::Model, ()>> = mk();
-    let b: re::math::vec::Vec3<re::render::Model> = mk();
-    let _r: re::math::vec::Vec3<re::render::World> = a.apply(&b);
-}
-
-pub fn p446() {
-    let a: re::math::mat::Mat4x4<re::math::mat::RealToReal<3, re::render::Model, ()>> = mk();
-    let b: re::math::vec::Vec3<()> = mk();
-    let _r: re::math::vec::Vec3<re::render::Model> = a.apply(&b);
-}
-
-pub fn p447() {
-    let a: re::math::mat::Mat4x4<re::math::mat::RealToReal<3, re::render::Model, ()>> = mk();
-    let b: re::math::vec::Vec3<()> = mk();
-    let _r: re::math::vec::Vec3<()> = a.apply(&b);
-}
-
 pub fn p448() {
     let a: re::math::mat::Mat4x4<re::math::mat::RealToReal<3, re::render::Model, ()>> = mk();
-    let b: re::math::vec::Vec3<()> = mk();
-    let _r: re::math::vec::Vec3<re::render::World> = a.apply(&b);
-}
-
-pub fn p449() {
-    let a: re::math::mat::Mat4x4<re::math::mat::RealToReal<3, re::render::Model, ()>> = mk();
-    let b: re::math::vec::Vec3<()> = mk();
-    let _ = a.apply(&b);
+    let b: re::math::vec::Vec3<re::render::Model> = mk();
+    let _r: re::math::vec::Vec3<re::render::Model> = a.apply(&b);
 }
 
 pub fn p450() {
     let a: re::math::mat::Mat4x4<re::math::mat::RealToReal<3, re::render::Model, ()>> = mk();
+    let b: re::math::vec::Vec3<re::render::Model> = mk();
+    let _r: re::math::vec::Vec3<re::render::World> = a.apply(&b);
+}
+
+pub fn p452() {
+    let a: re::math::mat::Mat4x4<re::math::mat::RealToReal<3, re::render::Model, ()>> = mk();
+    let b: re::math::vec::Vec3<()> = mk();
+    let _r: re::math::vec::Vec3<re::render::Model> = a.apply(&b);
+}
+
+pub fn p453() {
+    let a: re::math::mat::Mat4x4<re::math::mat::RealToReal<3, re::render::Model, ()>> = mk();
+    let b: re::math::vec::Vec3<()> = mk();
+    let _r: re::math::vec::Vec3<()> = a.apply(&b);
+}
+
+pub fn p454() {
+    let a: re::math::mat::Mat4x4<re::math::mat::RealToReal<3, re::render::Model, ()>> = mk();
+    let b: re::math::vec::Vec3<()> = mk();
+    let _r: re::math::vec::Vec3<re::render::World> = a.apply(&b);
+}
+
+pub fn p455() {
+    let a: re::math::mat::Mat4x4<re::math::mat::RealToReal<3, re::render::Model, ()>> = mk();
+    let b: re::math::vec::Vec3<()> = mk();
+    let _ = a.apply(&b);
+}
+
+pub fn p456() {
+    let a: re::math::mat::Mat4x4<re::math::mat::RealToReal<3, re::render::Model, ()>> = mk();
     let b: re::math::vec::Vec3<re::render::World> = mk();
     let _r: re::math::vec::Vec3<re::render::Model> = a.apply(&b);
 }
 
-pub fn p451() {
+pub fn p457() {
     let a: re::math::mat::Mat4x4<re::math::mat::RealToReal<3, re::render::Model, ()>> = mk();
     let b: re::math::vec::Vec3<re::render::World> = mk();
     let _r: re::math::vec::Vec3<()> = a.apply(&b);
 }
 
-pub fn p452() {
+pub fn p458() {
     let a: re::math::mat::Mat4x4<re::math::mat::RealToReal<3, re::render::Model, ()>> = mk();
     let b: re::math::vec::Vec3<re::render::World> = mk();
     let _r: re::math::vec::Vec3<re::render::World> = a.apply(&b);
 }
 
-pub fn p453() {
+pub fn p459() {
     let a: re::math::mat::Mat4x4<re::math::mat::RealToReal<3, re::render::Model, ()>> = mk();
     let b: re::math::vec::Vec3<re::render::World> = mk();
     let _ = a.apply(&b);
 }
 
-pub fn p457() {
+pub fn p463() {
     let a: re::math::mat::Mat4x4<re::math::mat::RealToReal<3, re::render::Model, re::render::View>> = mk();
     let b: re::math::mat::Mat4x4<re::render::ModelToProj> = mk();
     let _ = a.then(&b);
 }
 
-pub fn p458() {
+pub fn p464() {
     let a: re::math::mat::Mat4x4<re::math::mat::RealToReal<3, re::render::Model, re::render::View>> = mk();
     let b: re::math::mat::Mat4x4<re::render::ModelToView> = mk();
     let _ = a.then(&b);
 }
 
-pub fn p459() {
+pub fn p465() {
     let a: re::math::mat::Mat4x4<re::math::mat::RealToReal<3, re::render::Model, re::render::View>> = mk();
     let b: re::math::mat::Mat4x4<re::render::ModelToWorld> = mk();
     let _ = a.then(&b);
 }
 
-pub fn p461() {
+pub fn p467() {
     let a: re::math::mat::Mat4x4<re::math::mat::RealToReal<3, re::render::Model, re::render::View>> = mk();
     let b: re::math::mat::Mat4x4<re::render::WorldToView> = mk();
     let _ = a.then(&b);
 }
 
-pub fn p462() {
+pub fn p468() {
     let a: re::math::mat::Mat4x4<re::math::mat::RealToReal<3, re::render::Model, re::render::View>> = mk();
     let b: re::math::point::Point3<re::render::Model> = mk();
     let _ = a.apply(&b);
 }
 
-pub fn p464() {
+pub fn p470() {
     let a: re::math::mat::Mat4x4<re::math::mat::RealToReal<3, re::render::Model, re::render::View>> = mk();
     let b: re::math::point::Point3<re::render::View> = mk();
     let _ = a.apply(&b);
 }
 
-pub fn p465() {
+pub fn p471() {
     let a: re::math::mat::Mat4x4<re::math::mat::RealToReal<3, re::render::Model, re::render::View>> = mk();
     let b: re::math::point::Point3<re::render::View> = mk();
     let _ = a.apply_pt(&b);
 }
 
-pub fn p466() {
+pub fn p472() {
     let a: re::math::mat::Mat4x4<re::math::mat::RealToReal<3, re::render::Model, re::render::View>> = mk();
     let b: re::math::point::Point3<re::render::World> = mk();
     let _ = a.apply(&b);
 }
 
-pub fn p467() {
+pub fn p473() {
     let a: re::math::mat::Mat4x4<re::math::mat::RealToReal<3, re::render::Model, re::render::View>> = mk();
     let b: re::math::point::Point3<re::render::World> = mk();
     let _ = a.apply_pt(&b);
 }
 
-pub fn p468() {
+pub fn p474() {
     let a: re::math::mat::Mat4x4<re::math::mat::RealToReal<3, re::render::Model, re::render::View>> = mk();
     let _ = re::render::cam::Camera::new((8, 8)).mode(a);
 }
 
-pub fn p470() {
+pub fn p476() {
     let a: re::math::mat::Mat4x4<re::math::mat::RealToReal<3, re::render::Model, re::render::World>> = mk();
     let b: re::math::mat::Mat4x4<re::render::ModelToProj> = mk();
     let _ = a.then(&b);
 }
 
-pub fn p471() {
+pub fn p477() {
     let a: re::math::mat::Mat4x4<re::math::mat::RealToReal<3, re::render::Model, re::render::World>> = mk();
     let b: re::math::mat::Mat4x4<re::render::ModelToView> = mk();
     let _ = a.then(&b);
 }
 
-pub fn p472() {
+pub fn p478() {
     let a: re::math::mat::Mat4x4<re::math::mat::RealToReal<3, re::render::Model, re::render::World>> = mk();
     let b: re::math::mat::Mat4x4<re::render::ModelToWorld> = mk();
     let _ = a.then(&b);
 }
 
-pub fn p473() {
-    let a: re::math::mat::Mat4x4<re::math::mat::RealToReal<3, re::render::Model, re::render::World>> = mk();
-    let b: re::math::mat::Mat4x4<re::render::ViewToProj> = mk();
-    let _ = a.then(&b);
-}
-
-pub fn p475() {
-    let a: re::math::mat::Mat4x4<re::math::mat::RealToReal<3, re::render::Model, re::render::World>> = mk();
-    let b: re::math::mat::Mat4x4<re::math::mat::RealToReal<3, re::render::Model, re::render::Model>> = mk();
-    let _r: re::math::mat::Mat4x4<re::math::mat::RealToReal<3, re::render::Model, re::render::Model>> = a.compose(&b);
-}
-
-pub fn p477() {
-    let a: re::math::mat::Mat4x4<re::math::mat::RealToReal<3, re::render::Model, re::render::World>> = mk();
-    let b: re::math::mat::Mat4x4<re::math::mat::RealToReal<3, re::render::Model, re::render::Model>> = mk();
-    let _r: re::math::mat::Mat4x4<re::math::mat::RealToReal<3, re::render::World, re::render::Model>> = a.compose(&b);
-}
-
-pub fn p478() {
-    let a: re::math::mat::Mat4x4<re::math::mat::RealToReal<3, re::render::Model, re::render::World>> = mk();
-    let b: re::math::mat::Mat4x4<re::math::mat::RealToReal<3, re::render::Model, re::render::Model>> = mk();
-    let _r: re::math::mat::Mat4x4<re::math::mat::RealToReal<3, re::render::World, re::render::World>> = a.compose(&b);
-}
-
 pub fn p479() {
     let a: re::math::mat::Mat4x4<re::math::mat::RealToReal<3, re::render::Model, re::render::World>> = mk();
-    let b: re::math::mat::Mat4x4<re::math::mat::RealToReal<3, re::render::Model, re::render::Model>> = mk();
+    let b: re::math::mat::Mat4x4<re::render::ViewToProj> = mk();
     let _ = a.then(&b);
 }
 
 pub fn p481() {
     let a: re::math::mat::Mat4x4<re::math::mat::RealToReal<3, re::render::Model, re::render::World>> = mk();
-    let b: re::math::mat::Mat4x4<re::math::mat::RealToReal<3, re::render::Model, ()>> = mk();
-    let _ = a.compose(&b);
-}
-
-pub fn p482() {
-    let a: re::math::mat::Mat4x4<re::math::mat::RealToReal<3, re::render::Model, re::render::World>> = mk();
-    let b: re::math::mat::Mat4x4<re::math::mat::RealToReal<3, re::render::Model, ()>> = mk();
-    let _ = a.then(&b);
+    let b: re::math::mat::Mat4x4<re::math::mat::RealToReal<3, re::render::Model, re::render::Model>> = mk();
+    let _r: re::math::mat::Mat4x4<re::math::mat::RealToReal<3, re::render::Model, re::render::Model>> = a.compose(&b);
 }
 
 pub fn p483() {
     let a: re::math::mat::Mat4x4<re::math::mat::RealToReal<3, re::render::Model, re::render::World>> = mk();
-    let b: re::math::mat::Mat4x4<re::math::mat::RealToReal<3, re::render::Model, re::render::World>> = mk();
-    let _r: re::math::mat::Mat4x4<re::math::mat::RealToReal<3, re::render::Model, re::render::Model>> = a.compose(&b);
+    let b: re::math::mat::Mat4x4<re::math::mat::RealToReal<3, re::render::Model, re::render::Model>> = mk();
+    let _r: re::math::mat::Mat4x4<re::math::mat::RealToReal<3, re::render::World, re::render::Model>> = a.compose(&b);
 }
 
 pub fn p484() {
     let a: re::math::mat::Mat4x4<re::math::mat::RealToReal<3, re::render::Model, re::render::World>> = mk();
-    let b: re::math::mat::Mat4x4<re::math::mat::RealToReal<3, re::render::Model, re::render::World>> = mk();
-    let _r: re::math::mat::Mat4x4<re::math::mat::RealToReal<3, re::render::Model, re::render::World>> = a.compose(&b);
+    let b: re::math::mat::Mat4x4<re::math::mat::RealToReal<3, re::render::Model, re::render::Model>> = mk();
+    let _r: re::math::mat::Mat4x4<re::math::mat::RealToReal<3, re::render::World, re::render::World>> = a.compose(&b);
 }
 
 pub fn p485() {
     let a: re::math::mat::Mat4x4<re::math::mat::RealToReal<3, re::render::Model, re::render::World>> = mk();
-    let b: re::math::mat::Mat4x4<re::math::mat::RealToReal<3, re::render::Model, re::render::World>> = mk();
-    let _r: re::math::mat::Mat4x4<re::math::mat::RealToReal<3, re::render::World, re::render::Model>> = a.compose(&b);
-}
-
-pub fn p486() {
-    let a: re::math::mat::Mat4x4<re::math::mat::RealToReal<3, re::render::Model, re::render::World>> = mk();
-    let b: re::math::mat::Mat4x4<re::math::mat::RealToReal<3, re::render::Model, re::render::World>> = mk();
-    let _r: re::math::mat::Mat4x4<re::math::mat::RealToReal<3, re::render::World, re::render::World>> = a.compose(&b);
+    let b: re::math::mat::Mat4x4<re::math::mat::RealToReal<3, re::render::Model, re::render::Model>> = mk();
+    let _ = a.then(&b);
 }
 
 pub fn p487() {
     let a: re::math::mat::Mat4x4<re::math::mat::RealToReal<3, re::render::Model, re::render::World>> = mk();
-    let b: re::math::mat::Mat4x4<re::math::mat::RealToReal<3, re::render::Model, re::render::World>> = mk();
+    let b: re::math::mat::Mat4x4<re::math::mat::RealToReal<3, re::render::Model, ()>> = mk();
     let _ = a.compose(&b);
 }
 
 pub fn p488() {
     let a: re::math::mat::Mat4x4<re::math::mat::RealToReal<3, re::render::Model, re::render::World>> = mk();
-    let b: re::math::mat::Mat4x4<re::math::mat::RealToReal<3, re::render::Model, re::render::World>> = mk();
+    let b: re::math::mat::Mat4x4<re::math::mat::RealToReal<3, re::render::Model, ()>> = mk();
     let _ = a.then(&b);
 }
 
 pub fn p489() {
     let a: re::math::mat::Mat4x4<re::math::mat::RealToReal<3, re::render::Model, re::render::World>> = mk();
-    let b: re::math::mat::Mat4x4<re::math::mat::RealToReal<3, (), re::render::Model>> = mk();
-    let _ = a.then(&b);
+    let b: re::math::mat::Mat4x4<re::math::mat::RealToReal<3, re::render::Model, re::render::World>> = mk();
+    let _r: re::math::mat::Mat4x4<re::math::mat::RealToReal<3, re::render::Model, re::render::Model>> = a.compose(&b);
+}
+
+pub fn p490() {
+    let a: re::math::mat::Mat4x4<re::math::mat::RealToReal<3, re::render::Model, re::render::World>> = mk();
+    let b: re::math::mat::Mat4x4<re::math::mat::RealToReal<3, re::render::Model, re::render::World>> = mk();
+    let _r: re::math::mat::Mat4x4<re::math::mat::RealToReal<3, re::render::Model, re::render::World>> = a.compose(&b);
 }
 
 pub fn p491() {
     let a: re::math::mat::Mat4x4<re::math::mat::RealToReal<3, re::render::Model, re::render::World>> = mk();
-    let b: re::math::mat::Mat4x4<re::math::mat::RealToReal<3, (), ()>> = mk();
-    let _ = a.compose(&b);
+    let b: re::math::mat::Mat4x4<re::math::mat::RealToReal<3, re::render::Model, re::render::World>> = mk();
+    let _r: re::math::mat::Mat4x4<re::math::mat::RealToReal<3, re::render::World, re::render::Model>> = a.compose(&b);
 }
 
 pub fn p492() {
     let a: re::math::mat::Mat4x4<re::math::mat::RealToReal<3, re::render::Model, re::render::World>> = mk();
-    let b: re::math::mat::Mat4x4<re::math::mat::RealToReal<3, (), ()>> = mk();
-    let _ = a.then(&b);
+    let b: re::math::mat::Mat4x4<re::math::mat::RealToReal<3, re::render::Model, re::render::World>> = mk();
+    let _r: re::math::mat::Mat4x4<re::math::mat::RealToReal<3, re::render::World, re::render::World>> = a.compose(&b);
 }
 
 pub fn p493() {
     let a: re::math::mat::Mat4x4<re::math::mat::RealToReal<3, re::render::Model, re::render::World>> = mk();
-    let b: re::math::mat::Mat4x4<re::math::mat::RealToReal<3, (), re::render::World>> = mk();
+    let b: re::math::mat::Mat4x4<re::math::mat::RealToReal<3, re::render::Model, re::render::World>> = mk();
     let _ = a.compose(&b);
 }
 
 pub fn p494() {
     let a: re::math::mat::Mat4x4<re::math::mat::RealToReal<3, re::render::Model, re::render::World>> = mk();
-    let b: re::math::mat::Mat4x4<re::math::mat::RealToReal<3, (), re::render::World>> = mk();
+    let b: re::math::mat::Mat4x4<re::math::mat::RealToReal<3, re::render::Model, re::render::World>> = mk();
     let _ = a.then(&b);
 }
 
 pub fn p495() {
     let a: re::math::mat::Mat4x4<re::math::mat::RealToReal<3, re::render::Model, re::render::World>> = mk();
-    let b: re::math::mat::Mat4x4<re::math::mat::RealToReal<3, re::render::World, re::render::Model>> = mk();
-    let _r: re::math::mat::Mat4x4<re::math::mat::RealToReal<3, re::render::Model, re::render::Model>> = a.compose(&b);
-}
-
-pub fn p496() {
-    let a: re::math::mat::Mat4x4<re::math::mat::RealToReal<3, re::render::Model, re::render::World>> = mk();
-    let b: re::math::mat::Mat4x4<re::math::mat::RealToReal<3, re::render::World, re::render::Model>> = mk();
-    let _r: re::math::mat::Mat4x4<re::math::mat::RealToReal<3, re::render::Model, re::render::World>> = a.compose(&b);
+    let b: re::math::mat::Mat4x4<re::math::mat::RealToReal<3, (), re::render::Model>> = mk();
+    let _ = a.then(&b);
 }
 
 pub fn p497() {
     let a: re::math::mat::Mat4x4<re::math::mat::RealToReal<3, re::render::Model, re::render::World>> = mk();
-    let b: re::math::mat::Mat4x4<re::math::mat::RealToReal<3, re::render::World, re::render::Model>> = mk();
-    let _r: re::math::mat::Mat4x4<re::math::mat::RealToReal<3, re::render::World, re::render::Model>> = a.compose(&b);
+    let b: re::math::mat::Mat4x4<re::math::mat::RealToReal<3, (), ()>> = mk();
+    let _ = a.compose(&b);
+}
+
+pub fn p498() {
+    let a: re::math::mat::Mat4x4<re::math::mat::RealToReal<3, re::render::Model, re::render::World>> = mk();
+    let b: re::math::mat::Mat4x4<re::math::mat::RealToReal<3, (), ()>> = mk();
+    let _ = a.then(&b);
+}
+
+pub fn p499() {
+    let a: re::math::mat::Mat4x4<re::math::mat::RealToReal<3, re::render::Model, re::render::World>> = mk();
+    let b: re::math::mat::Mat4x4<re::math::mat::RealToReal<3, (), re::render::World>> = mk();
+    let _ = a.compose(&b);
+}
+
+pub fn p500() {
+    let a: re::math::mat::Mat4x4<re::math::mat::RealToReal<3, re::render::Model, re::render::World>> = mk();
+    let b: re::math::mat::Mat4x4<re::math::mat::RealToReal<3, (), re::render::World>> = mk();
+    let _ = a.then(&b);
 }
 
 pub fn p501() {
     let a: re::math::mat::Mat4x4<re::math::mat::RealToReal<3, re::render::Model, re::render::World>> = mk();
-    let b: re::math::mat::Mat4x4<re::math::mat::RealToReal<3, re::render::World, ()>> = mk();
-    let _ = a.compose(&b);
+    let b: re::math::mat::Mat4x4<re::math::mat::RealToReal<3, re::render::World, re::render::Model>> = mk();
+    let _r: re::math::mat::Mat4x4<re::math::mat::RealToReal<3, re::render::Model, re::render::Model>> = a.compose(&b);
+}
+
+pub fn p502() {
+    let a: re::math::mat::Mat4x4<re::math::mat::RealToReal<3, re::render::Model, re::render::World>> = mk();
+    let b: re::math::mat::Mat4x4<re::math::mat::RealToReal<3, re::render::World, re::render::Model>> = mk();
+    let _r: re::math::mat::Mat4x4<re::math::mat::RealToReal<3, re::render::Model, re::render::World>> = a.compose(&b);
 }
 
 pub fn p503() {
     let a: re::math::mat::Mat4x4<re::math::mat::RealToReal<3, re::render::Model, re::render::World>> = mk();
-    let b: re::math::mat::Mat4x4<re::math::mat::RealToReal<3, re::render::World, re::render::World>> = mk();
-    let _r: re::math::mat::Mat4x4<re::math::mat::RealToReal<3, re::render::Model, re::render::Model>> = a.compose(&b);
-}
-
-pub fn p504() {
-    let a: re::math::mat::Mat4x4<re::math::mat::RealToReal<3, re::render::Model, re::render::World>> = mk();
-    let b: re::math::mat::Mat4x4<re::math::mat::RealToReal<3, re::render::World, re::render::World>> = mk();
-    let _r: re::math::mat::Mat4x4<re::math::mat::RealToReal<3, re::render::Model, re::render::World>> = a.compose(&b);
-}
-
-pub fn p505() {
-    let a: re::math::mat::Mat4x4<re::math::mat::RealToReal<3, re::render::Model, re::render::World>> = mk();
-    let b: re::math::mat::Mat4x4<re::math::mat::RealToReal<3, re::render::World, re::render::World>> = mk();
+    let b: re::math::mat::Mat4x4<re::math::mat::RealToReal<3, re::render::World, re::render::Model>> = mk();
     let _r: re::math::mat::Mat4x4<re::math::mat::RealToReal<3, re::render::World, re::render::Model>> = a.compose(&b);
-}
-
-pub fn p506() {
-    let a: re::math::mat::Mat4x4<re::math::mat::RealToReal<3, re::render::Model, re::render::World>> = mk();
-    let b: re::math::mat::Mat4x4<re::math::mat::RealToReal<3, re::render::World, re::render::World>> = mk();
-    let _r: re::math::mat::Mat4x4<re::math::mat::RealToReal<3, re::render::World, re::render::World>> = a.compose(&b);
 }
 
 pub fn p507() {
     let a: re::math::mat::Mat4x4<re::math::mat::RealToReal<3, re::render::Model, re::render::World>> = mk();
-    let b: re::math::mat::Mat4x4<re::math::mat::RealToReal<3, re::render::World, re::render::World>> = mk();
+    let b: re::math::mat::Mat4x4<re::math::mat::RealToReal<3, re::render::World, ()>> = mk();
     let _ = a.compose(&b);
 }
 
 pub fn p509() {
     let a: re::math::mat::Mat4x4<re::math::mat::RealToReal<3, re::render::Model, re::render::World>> = mk();
-    let b: re::math::mat::Mat4x4<re::math::mat::RealToProj<re::render::Model>> = mk();
-    let _ = a.compose(&b);
+    let b: re::math::mat::Mat4x4<re::math::mat::RealToReal<3, re::render::World, re::render::World>> = mk();
+    let _r: re::math::mat::Mat4x4<re::math::mat::RealToReal<3, re::render::Model, re::render::Model>> = a.compose(&b);
 }
 
 pub fn p510() {
     let a: re::math::mat::Mat4x4<re::math::mat::RealToReal<3, re::render::Model, re::render::World>> = mk();
-    let b: re::math::mat::Mat4x4<re::math::mat::RealToProj<re::render::Model>> = mk();
-    let _ = a.then(&b);
+    let b: re::math::mat::Mat4x4<re::math::mat::RealToReal<3, re::render::World, re::render::World>> = mk();
+    let _r: re::math::mat::Mat4x4<re::math::mat::RealToReal<3, re::render::Model, re::render::World>> = a.compose(&b);
 }
 
 pub fn p511() {
     let a: re::math::mat::Mat4x4<re::math::mat::RealToReal<3, re::render::Model, re::render::World>> = mk();
-    let b: re::math::mat::Mat4x4<re::math::mat::RealToProj<()>> = mk();
-    let _ = a.compose(&b);
+    let b: re::math::mat::Mat4x4<re::math::mat::RealToReal<3, re::render::World, re::render::World>> = mk();
+    let _r: re::math::mat::Mat4x4<re::math::mat::RealToReal<3, re::render::World, re::render::Model>> = a.compose(&b);
 }
 
 pub fn p512() {
     let a: re::math::mat::Mat4x4<re::math::mat::RealToReal<3, re::render::Model, re::render::World>> = mk();
-    let b: re::math::mat::Mat4x4<re::math::mat::RealToProj<()>> = mk();
-    let _ = a.then(&b);
+    let b: re::math::mat::Mat4x4<re::math::mat::RealToReal<3, re::render::World, re::render::World>> = mk();
+    let _r: re::math::mat::Mat4x4<re::math::mat::RealToReal<3, re::render::World, re::render::World>> = a.compose(&b);
 }
 
 pub fn p513() {
     let a: re::math::mat::Mat4x4<re::math::mat::RealToReal<3, re::render::Model, re::render::World>> = mk();
-    let b: re::math::mat::Mat4x4<re::math::mat::RealToProj<re::render::World>> = mk();
+    let b: re::math::mat::Mat4x4<re::math::mat::RealToReal<3, re::render::World, re::render::World>> = mk();
     let _ = a.compose(&b);
 }
 
 pub fn p515() {
     let a: re::math::mat::Mat4x4<re::math::mat::RealToReal<3, re::render::Model, re::render::World>> = mk();
+    let b: re::math::mat::Mat4x4<re::math::mat::RealToProj<re::render::Model>> = mk();
+    let _ = a.compose(&b);
+}
+
+pub fn p516() {
+    let a: re::math::mat::Mat4x4<re::math::mat::RealToReal<3, re::render::Model, re::render::World>> = mk();
+    let b: re::math::mat::Mat4x4<re::math::mat::RealToProj<re::render::Model>> = mk();
+    let _ = a.then(&b);
+}
+
+pub fn p517() {
+    let a: re::math::mat::Mat4x4<re::math::mat::RealToReal<3, re::render::Model, re::render::World>> = mk();
+    let b: re::math::mat::Mat4x4<re::math::mat::RealToProj<()>> = mk();
+    let _ = a.compose(&b);
+}
+
+pub fn p518() {
+    let a: re::math::mat::Mat4x4<re::math::mat::RealToReal<3, re::render::Model, re::render::World>> = mk();
+    let b: re::math::mat::Mat4x4<re::math::mat::RealToProj<()>> = mk();
+    let _ = a.then(&b);
+}
+
+pub fn p519() {
+    let a: re::math::mat::Mat4x4<re::math::mat::RealToReal<3, re::render::Model, re::render::World>> = mk();
+    let b: re::math::mat::Mat4x4<re::math::mat::RealToProj<re::render::World>> = mk();
+    let _ = a.compose(&b);
+}
+
+pub fn p521() {
+    let a: re::math::mat::Mat4x4<re::math::mat::RealToReal<3, re::render::Model, re::render::World>> = mk();
     let b: re::math::point::Point2<re::render::Model> = mk();
     let _ = a.apply_pt(&b);
 }
 
-pub fn p516() {
+pub fn p522() {
     let a: re::math::mat::Mat4x4<re::math::mat::RealToReal<3, re::render::Model, re::render::World>> = mk();
     let b: re::math::point::Point2<()> = mk();
     let _ = a.apply_pt(&b);
 }
 
-pub fn p517() {
+pub fn p523() {
     let a: re::math::mat::Mat4x4<re::math::mat::RealToReal<3, re::render::Model, re::render::World>> = mk();
     let b: re::math::point::Point2<re::render::World> = mk();
     let _ = a.apply_pt(&b);
 }
 
-pub fn p518() {
-    let a: re::math::mat::Mat4x4<re::math::mat::RealToReal<3, re::render::Model, re::render::World>> = mk();
-    let b: re::math::point::Point3<re::render::Model> = mk();
-    let _r: re::math::point::Point3<re::render::Model> = a.apply_pt(&b);
-}
-
-pub fn p519() {
-    let a: re::math::mat::Mat4x4<re::math::mat::RealToReal<3, re::render::Model, re::render::World>> = mk();
-    let b: re::math::point::Point3<re::render::Model> = mk();
-    let _r: re::math::point::Point3<()> = a.apply_pt(&b);
-}
-
-pub fn p521() {
-    let a: re::math::mat::Mat4x4<re::math::mat::RealToReal<3, re::render::Model, re::render::World>> = mk();
-    let b: re::math::point::Point3<re::render::Model> = mk();
-    let _ = a.apply(&b);
-}
-
-pub fn p523() {
-    let a: re::math::mat::Mat4x4<re::math::mat::RealToReal<3, re::render::Model, re::render::World>> = mk();
-    let b: re::math::point::Point3<()> = mk();
-    let _r: re::math::point::Point3<re::render::Model> = a.apply_pt(&b);
-}
-
 pub fn p524() {
     let a: re::math::mat::Mat4x4<re::math::mat::RealToReal<3, re::render::Model, re::render::World>> = mk();
-    let b: re::math::point::Point3<()> = mk();
-    let _r: re::math::point::Point3<()> = a.apply_pt(&b);
+    let b: re::math::point::Point3<re::render::Model> = mk();
+    let _r: re::math::point::Point3<re::render::Model> = a.apply_pt(&b);
 }
 
 pub fn p525() {
     let a: re::math::mat::Mat4x4<re::math::mat::RealToReal<3, re::render::Model, re::render::World>> = mk();
-    let b: re::math::point::Point3<()> = mk();
-    let _r: re::math::point::Point3<re::render::World> = a.apply_pt(&b);
-}
-
-pub fn p526() {
-    let a: re::math::mat::Mat4x4<re::math::mat::RealToReal<3, re::render::Model, re::render::World>> = mk();
-    let b: re::math::point::Point3<()> = mk();
-    let _ = a.apply_pt(&b);
+    let b: re::math::point::Point3<re::render::Model> = mk();
+    let _r: re::math::point::Point3<()> = a.apply_pt(&b);
 }
 
 pub fn p527() {
     let a: re::math::mat::Mat4x4<re::math::mat::RealToReal<3, re::render::Model, re::render::World>> = mk();
-    let b: re::math::point::Point3<re::render::View> = mk();
+    let b: re::math::point::Point3<re::render::Model> = mk();
     let _ = a.apply(&b);
-}
-
-pub fn p528() {
-    let a: re::math::mat::Mat4x4<re::math::mat::RealToReal<3, re::render::Model, re::render::World>> = mk();
-    let b: re::math::point::Point3<re::render::View> = mk();
-    let _ = a.apply_pt(&b);
 }
 
 pub fn p529() {
     let a: re::math::mat::Mat4x4<re::math::mat::RealToReal<3, re::render::Model, re::render::World>> = mk();
-    let b: re::math::point::Point3<re::render::World> = mk();
+    let b: re::math::point::Point3<()> = mk();
     let _r: re::math::point::Point3<re::render::Model> = a.apply_pt(&b);
 }
 
 pub fn p530() {
     let a: re::math::mat::Mat4x4<re::math::mat::RealToReal<3, re::render::Model, re::render::World>> = mk();
-    let b: re::math::point::Point3<re::render::World> = mk();
+    let b: re::math::point::Point3<()> = mk();
     let _r: re::math::point::Point3<()> = a.apply_pt(&b);
 }
 
 pub fn p531() {
     let a: re::math::mat::Mat4x4<re::math::mat::RealToReal<3, re::render::Model, re::render::World>> = mk();
-    let b: re::math::point::Point3<re::render::World> = mk();
+    let b: re::math::point::Point3<()> = mk();
     let _r: re::math::point::Point3<re::render::World> = a.apply_pt(&b);
 }
 
 pub fn p532() {
     let a: re::math::mat::Mat4x4<re::math::mat::RealToReal<3, re::render::Model, re::render::World>> = mk();
+    let b: re::math::point::Point3<()> = mk();
+    let _ = a.apply_pt(&b);
+}
+
+pub fn p533() {
+    let a: re::math::mat::Mat4x4<re::math::mat::RealToReal<3, re::render::Model, re::render::World>> = mk();
+    let b: re::math::point::Point3<re::render::View> = mk();
+    let _ = a.apply(&b);
+}
+
+pub fn p534() {
+    let a: re::math::mat::Mat4x4<re::math::mat::RealToReal<3, re::render::Model, re::render::World>> = mk();
+    let b: re::math::point::Point3<re::render::View> = mk();
+    let _ = a.apply_pt(&b);
+}
+
+pub fn p535() {
+    let a: re::math::mat::Mat4x4<re::math::mat::RealToReal<3, re::render::Model, re::render::World>> = mk();
+    let b: re::math::point::Point3<re::render::World> = mk();
+    let _r: re::math::point::Point3<re::render::Model> = a.apply_pt(&b);
+}
+
+pub fn p536() {
+    let a: re::math::mat::Mat4x4<re::math::mat::RealToReal<3, re::render::Model, re::render::World>> = mk();
+    let b: re::math::point::Point3<re::render::World> = mk();
+    let _r: re::math::point::Point3<()> = a.apply_pt(&b);
+}
+
+pub fn p537() {
+    let a: re::math::mat::Mat4x4<re::math::mat::RealToReal<3, re::render::Model, re::render::World>> = mk();
+    let b: re::math::point::Point3<re::render::World> = mk();
+    let _r: re::math::point::Point3<re::render::World> = a.apply_pt(&b);
+}
+
+pub fn p538() {
+    let a: re::math::mat::Mat4x4<re::math::mat::RealToReal<3, re::render::Model, re::render::World>> = mk();
     let b: re::math::point::Point3<re::render::World> = mk();
     let _ = a.apply(&b);
 }
 
-pub fn p533() {
+pub fn p539() {
     let a: re::math::mat::Mat4x4<re::math::mat::RealToReal<3, re::render::Model, re::render::World>> = mk();
     let b: re::math::point::Point3<re::render::World> = mk();
     let _ = a.apply_pt(&b);
 }
 
-pub fn p534() {
+pub fn p540() {
     let a: re::math::mat::Mat4x4<re::math::mat::RealToReal<3, re::render::Model, re::render::World>> = mk();
     let b: re::math::vec::Vec2<re::render::Model> = mk();
     let _ = a.apply(&b);
 }
 
-pub fn p535() {
+pub fn p541() {
     let a: re::math::mat::Mat4x4<re::math::mat::RealToReal<3, re::render::Model, re::render::World>> = mk();
     let b: re::math::vec::Vec2<()> = mk();
     let _ = a.apply(&b);
 }
 
-pub fn p536() {
+pub fn p542() {
     let a: re::math::mat::Mat4x4<re::math::mat::RealToReal<3, re::render::Model, re::render::World>> = mk();
     let b: re::math::vec::Vec2<re::render::World> = mk();
     let _ = a.apply(&b);
 }
 
-pub fn p537() {
-    let a: re::math::mat::Mat4x4<re::math::mat::RealToReal<3, re::render::Model, re::render::World>> = mk();
-    let b: re::math::vec::Vec3<re::render::Model> = mk();
-    let _r: re::math::vec::Vec3<re::render::Model> = a.apply(&b);
-}
-
-pub fn p538() {
-    let a: re::math::mat::Mat4x4<re::math::mat::RealToReal<3, re::render::Model, re::render::World>> = mk();
-    let b: re::math::vec::Vec3<re::render::Model> = mk();
-    let _r: re::math::vec::Vec3<()> = a.apply(&b);
-}
-
-pub fn p541() {
-    let a: re::math::mat::Mat4x4<re::math::mat::RealToReal<3, re::render::Model, re::render::World>> = mk();
-    let b: re::math::vec::Vec3<()> = mk();
-    let _r: re::math::vec::Vec3<re::render::Model> = a.apply(&b);
-}
-
-pub fn p542() {
-    let a: re::math::mat::Mat4x4<re::math::mat::RealToReal<3, re::render::Model, re::render::World>> = mk();
-    let b: re::math::vec::Vec3<()> = mk();
-    let _r: re::math::vec::Vec3<()> = a.apply(&b);
-}
-
 pub fn p543() {
     let a: re::math::mat::Mat4x4<re::math::mat::RealToReal<3, re::render::Model, re::render::World>> = mk();
-    let b: re::math::vec::Vec3<()> = mk();
-    let _r: re::math::vec::Vec3<re::render::World> = a.apply(&b);
+    let b: re::math::vec::Vec3<re::render::Model> = mk();
+    let _r: re::math::vec::Vec3<re::render::Model> = a.apply(&b);
 }
 
 pub fn p544() {
     let a: re::math::mat::Mat4x4<re::math::mat::RealToReal<3, re::render::Model, re::render::World>> = mk();
-    let b: re::math::vec::Vec3<()> = mk();
-    let _ = a.apply(&b);
-}
-
-pub fn p545() {
-    let a: re::math::mat::Mat4x4<re::math::mat::RealToReal<3, re::render::Model, re::render::World>> = mk();
-    let b: re::math::vec::Vec3<re::render::World> = mk();
-    let _r: re::math::vec::Vec3<re::render::Model> = a.apply(&b);
-}
-
-pub fn p546() {
-    let a: re::math::mat::Mat4x4<re::math::mat::RealToReal<3, re::render::Model, re::render::World>> = mk();
-    let b: re::math::vec::Vec3<re::render::World> = mk();
+    let b: re::math::vec::Vec3<re::render::Model> = mk();
     let _r: re::math::vec::Vec3<()> = a.apply(&b);
 }
 
 pub fn p547() {
     let a: re::math::mat::Mat4x4<re::math::mat::RealToReal<3, re::render::Model, re::render::World>> = mk();
+    let b: re::math::vec::Vec3<()> = mk();
+    let _r: re::math::vec::Vec3<re::render::Model> = a.apply(&b);
+}
+
+pub fn p548() {
+    let a: re::math::mat::Mat4x4<re::math::mat::RealToReal<3, re::render::Model, re::render::World>> = mk();
+    let b: re::math::vec::Vec3<()> = mk();
+    let _r: re::math::vec::Vec3<()> = a.apply(&b);
+}
+
+pub fn p549() {
+    let a: re::math::mat::Mat4x4<re::math::mat::RealToReal<3, re::render::Model, re::render::World>> = mk();
+    let b: re::math::vec::Vec3<()> = mk();
+    let _r: re::math::vec::Vec3<re::render::World> = a.apply(&b);
+}
+
+pub fn p550() {
+    let a: re::math::mat::Mat4x4<re::math::mat::RealToReal<3, re::render::Model, re::render::World>> = mk();
+    let b: re::math::vec::Vec3<()> = mk();
+    let _ = a.apply(&b);
+}
+
+pub fn p551() {
+    let a: re::math::mat::Mat4x4<re::math::mat::RealToReal<3, re::render::Model, re::render::World>> = mk();
+    let b: re::math::vec::Vec3<re::render::World> = mk();
+    let _r: re::math::vec::Vec3<re::render::Model> = a.apply(&b);
+}
+
+pub fn p552() {
+    let a: re::math::mat::Mat4x4<re::math::mat::RealToReal<3, re::render::Model, re::render::World>> = mk();
+    let b: re::math::vec::Vec3<re::render::World> = mk();
+    let _r: re::math::vec::Vec3<()> = a.apply(&b);
+}
+
+pub fn p553() {
+    let a: re::math::mat::Mat4x4<re::math::mat::RealToReal<3, re::render::Model, re::render::World>> = mk();
     let b: re::math::vec::Vec3<re::render::World> = mk();
     let _r: re::math::vec::Vec3<re::render::World> = a.apply(&b);
 }
 
-pub fn p548() {
+pub fn p554() {
     let a: re::math::mat::Mat4x4<re::math::mat::RealToReal<3, re::render::Model, re::render::World>> = mk();
     let b: re::math::vec::Vec3<re::render::World> = mk();
     let _ = a.apply(&b);
 }
 
-pub fn p549() {
+pub fn p555() {
     let a: re::math::mat::Mat4x4<re::math::mat::RealToReal<3, re::render::Model, re::render::World>> = mk();
     let _ = re::render::cam::Camera::new((8, 8)).mode(a);
 }
 
-pub fn p554() {
+pub fn p560() {
     let a: re::math::mat::Mat4x4<re::math::mat::RealToReal<3, (), re::render::Model>> = mk();
     let b: re::math::mat::Mat4x4<re::math::mat::RealToReal<3, re::render::Model, re::render::Model>> = mk();
     let _ = a.compose(&b);
 }
 
-pub fn p558() {
+pub fn p564() {
     let a: re::math::mat::Mat4x4<re::math::mat::RealToReal<3, (), re::render::Model>> = mk();
     let b: re::math::mat::Mat4x4<re::math::mat::RealToReal<3, re::render::Model, re::render::World>> = mk();
     let _ = a.compose(&b);
 }
 
-pub fn p560() {
-    let a: re::math::mat::Mat4x4<re::math::mat::RealToReal<3, (), re::render::Model>> = mk();
-    let b: re::math::mat::Mat4x4<re::math::mat::RealToReal<3, (), re::render::Model>> = mk();
-    let _ = a.compose(&b);
-}
-
-pub fn p561() {
-    let a: re::math::mat::Mat4x4<re::math::mat::RealToReal<3, (), re::render::Model>> = mk();
-    let b: re::math::mat::Mat4x4<re::math::mat::RealToReal<3, (), re::render::Model>> = mk();
-    let _ = a.then(&b);
-}
-
-pub fn p562() {
-    let a: re::math::mat::Mat4x4<re::math::mat::RealToReal<3, (), re::render::Model>> = mk();
-    let b: re::math::mat::Mat4x4<re::math::mat::RealToReal<3, (), ()>> = mk();
-    let _ = a.then(&b);
-}
-
-pub fn p564() {
-    let a: re::math::mat::Mat4x4<re::math::mat::RealToReal<3, (), re::render::Model>> = mk();
-    let b: re::math::mat::Mat4x4<re::math::mat::RealToReal<3, (), re::render::World>> = mk();
-    let _ = a.compose(&b);
-}
-
-pub fn p565() {
-    let a: re::math::mat::Mat4x4<re::math::mat::RealToReal<3, (), re::render::Model>> = mk();
-    let b: re::math::mat::Mat4x4<re::math::mat::RealToReal<3, (), re::render::World>> = mk();
-    let _ = a.then(&b);
-}
-
 pub fn p566() {
     let a: re::math::mat::Mat4x4<re::math::mat::RealToReal<3, (), re::render::Model>> = mk();
-    let b: re::math::mat::Mat4x4<re::math::mat::RealToReal<3, re::render::World, re::render::Model>> = mk();
+    let b: re::math::mat::Mat4x4<re::math::mat::RealToReal<3, (), re::render::Model>> = mk();
     let _ = a.compose(&b);
 }
 
 pub fn p567() {
     let a: re::math::mat::Mat4x4<re::math::mat::RealToReal<3, (), re::render::Model>> = mk();
-    let b: re::math::mat::Mat4x4<re::math::mat::RealToReal<3, re::render::World, re::render::Model>> = mk();
+    let b: re::math::mat::Mat4x4<re::math::mat::RealToReal<3, (), re::render::Model>> = mk();
     let _ = a.then(&b);
 }
 
 pub fn p568() {
     let a: re::math::mat::Mat4x4<re::math::mat::RealToReal<3, (), re::render::Model>> = mk();
-    let b: re::math::mat::Mat4x4<re::math::mat::RealToReal<3, re::render::World, ()>> = mk();
+    let b: re::math::mat::Mat4x4<re::math::mat::RealToReal<3, (), ()>> = mk();
     let _ = a.then(&b);
 }
 
 pub fn p570() {
     let a: re::math::mat::Mat4x4<re::math::mat::RealToReal<3, (), re::render::Model>> = mk();
-    let b: re::math::mat::Mat4x4<re::math::mat::RealToReal<3, re::render::World, re::render::World>> = mk();
+    let b: re::math::mat::Mat4x4<re::math::mat::RealToReal<3, (), re::render::World>> = mk();
     let _ = a.compose(&b);
 }
 
 pub fn p571() {
     let a: re::math::mat::Mat4x4<re::math::mat::RealToReal<3, (), re::render::Model>> = mk();
-    let b: re::math::mat::Mat4x4<re::math::mat::RealToReal<3, re::render::World, re::render::World>> = mk();
+    let b: re::math::mat::Mat4x4<re::math::mat::RealToReal<3, (), re::render::World>> = mk();
     let _ = a.then(&b);
 }
 
 pub fn p572() {
     let a: re::math::mat::Mat4x4<re::math::mat::RealToReal<3, (), re::render::Model>> = mk();
-    let b: re::math::mat::Mat4x4<re::math::mat::RealToProj<re::render::Model>> = mk();
+    let b: re::math::mat::Mat4x4<re::math::mat::RealToReal<3, re::render::World, re::render::Model>> = mk();
     let _ = a.compose(&b);
+}
+
+pub fn p573() {
+    let a: re::math::mat::Mat4x4<re::math::mat::RealToReal<3, (), re::render::Model>> = mk();
+    let b: re::math::mat::Mat4x4<re::math::mat::RealToReal<3, re::render::World, re::render::Model>> = mk();
+    let _ = a.then(&b);
 }
 
 pub fn p574() {
     let a: re::math::mat::Mat4x4<re::math::mat::RealToReal<3, (), re::render::Model>> = mk();
-    let b: re::math::mat::Mat4x4<re::math::mat::RealToProj<()>> = mk();
-    let _ = a.compose(&b);
-}
-
-pub fn p575() {
-    let a: re::math::mat::Mat4x4<re::math::mat::RealToReal<3, (), re::render::Model>> = mk();
-    let b: re::math::mat::Mat4x4<re::math::mat::RealToProj<()>> = mk();
+    let b: re::math::mat::Mat4x4<re::math::mat::RealToReal<3, re::render::World, ()>> = mk();
     let _ = a.then(&b);
 }
 
 pub fn p576() {
     let a: re::math::mat::Mat4x4<re::math::mat::RealToReal<3, (), re::render::Model>> = mk();
-    let b: re::math::mat::Mat4x4<re::math::mat::RealToProj<re::render::World>> = mk();
+    let b: re::math::mat::Mat4x4<re::math::mat::RealToReal<3, re::render::World, re::render::World>> = mk();
     let _ = a.compose(&b);
 }
 
 pub fn p577() {
     let a: re::math::mat::Mat4x4<re::math::mat::RealToReal<3, (), re::render::Model>> = mk();
-    let b: re::math::mat::Mat4x4<re::math::mat::RealToProj<re::render::World>> = mk();
+    let b: re::math::mat::Mat4x4<re::math::mat::RealToReal<3, re::render::World, re::render::World>> = mk();
     let _ = a.then(&b);
 }
 
 pub fn p578() {
     let a: re::math::mat::Mat4x4<re::math::mat::RealToReal<3, (), re::render::Model>> = mk();
-    let b: re::math::point::Point2<re::render::Model> = mk();
-    let _ = a.apply_pt(&b);
-}
-
-pub fn p579() {
-    let a: re::math::mat::Mat4x4<re::math::mat::RealToReal<3, (), re::render::Model>> = mk();
-    let b: re::math::point::Point2<()> = mk();
-    let _ = a.apply_pt(&b);
+    let b: re::math::mat::Mat4x4<re::math::mat::RealToProj<re::render::Model>> = mk();
+    let _ = a.compose(&b);
 }
 
 pub fn p580() {
     let a: re::math::mat::Mat4x4<re::math::mat::RealToReal<3, (), re::render::Model>> = mk();
-    let b: re::math::point::Point2<re::render::World> = mk();
-    let _ = a.apply_pt(&b);
+    let b: re::math::mat::Mat4x4<re::math::mat::RealToProj<()>> = mk();
+    let _ = a.compose(&b);
 }
 
 pub fn p581() {
     let a: re::math::mat::Mat4x4<re::math::mat::RealToReal<3, (), re::render::Model>> = mk();
-    let b: re::math::point::Point3<re::render::Model> = mk();
-    let _r: re::math::point::Point3<re::render::Model> = a.apply_pt(&b);
+    let b: re::math::mat::Mat4x4<re::math::mat::RealToProj<()>> = mk();
+    let _ = a.then(&b);
 }
 
 pub fn p582() {
     let a: re::math::mat::Mat4x4<re::math::mat::RealToReal<3, (), re::render::Model>> = mk();
-    let b: re::math::point::Point3<re::render::Model> = mk();
-    let _r: re::math::point::Point3<()> = a.apply_pt(&b);
+    let b: re::math::mat::Mat4x4<re::math::mat::RealToProj<re::render::World>> = mk();
+    let _ = a.compose(&b);
 }
 
 pub fn p583() {
     let a: re::math::mat::Mat4x4<re::math::mat::RealToReal<3, (), re::render::Model>> = mk();
-    let b: re::math::point::Point3<re::render::Model> = mk();
-    let _r: re::math::point::Point3<re::render::World> = a.apply_pt(&b);
+    let b: re::math::mat::Mat4x4<re::math::mat::RealToProj<re::render::World>> = mk();
+    let _ = a.then(&b);
 }
 
 pub fn p584() {
     let a: re::math::mat::Mat4x4<re::math::mat::RealToReal<3, (), re::render::Model>> = mk();
-    let b: re::math::point::Point3<re::render::Model> = mk();
+    let b: re::math::point::Point2<re::render::Model> = mk();
+    let _ = a.apply_pt(&b);
+}
+
+pub fn p585() {
+    let a: re::math::mat::Mat4x4<re::math::mat::RealToReal<3, (), re::render::Model>> = mk();
+    let b: re::math::point::Point2<()> = mk();
     let _ = a.apply_pt(&b);
 }
 
 pub fn p586() {
     let a: re::math::mat::Mat4x4<re::math::mat::RealToReal<3, (), re::render::Model>> = mk();
+    let b: re::math::point::Point2<re::render::World> = mk();
+    let _ = a.apply_pt(&b);
+}
+
+pub fn p587() {
+    let a: re::math::mat::Mat4x4<re::math::mat::RealToReal<3, (), re::render::Model>> = mk();
+    let b: re::math::point::Point3<re::render::Model> = mk();
+    let _r: re::math::point::Point3<re::render::Model> = a.apply_pt(&b);
+}
+
+pub fn p588() {
+    let a: re::math::mat::Mat4x4<re::math::mat::RealToReal<3, (), re::render::Model>> = mk();
+    let b: re::math::point::Point3<re::render::Model> = mk();
+    let _r: re::math::point::Point3<()> = a.apply_pt(&b);
+}
+
+pub fn p589() {
+    let a: re::math::mat::Mat4x4<re::math::mat::RealToReal<3, (), re::render::Model>> = mk();
+    let b: re::math::point::Point3<re::render::Model> = mk();
+    let _r: re::math::point::Point3<re::render::World> = a.apply_pt(&b);
+}
+
+pub fn p590() {
+    let a: re::math::mat::Mat4x4<re::math::mat::RealToReal<3, (), re::render::Model>> = mk();
+    let b: re::math::point::Point3<re::render::Model> = mk();
+    let _ = a.apply_pt(&b);
+}
+
+pub fn p592() {
+    let a: re::math::mat::Mat4x4<re::math::mat::RealToReal<3, (), re::render::Model>> = mk();
     let b: re::math::point::Point3<()> = mk();
     let _r: re::math::point::Point3<()> = a.apply_pt(&b);
 }
 
-pub fn p587() {
+pub fn p593() {
     let a: re::math::mat::Mat4x4<re::math::mat::RealToReal<3, (), re::render::Model>> = mk();
     let b: re::math::point::Point3<()> = mk();
     let _r: re::math::point::Point3<re::render::World> = a.apply_pt(&b);
 }
 
-pub fn p589() {
+pub fn p595() {
     let a: re::math::mat::Mat4x4<re::math::mat::RealToReal<3, (), re::render::Model>> = mk();
     let b: re::math::point::Point3<re::render::World> = mk();
     let _r: re::math::point::Point3<re::render::Model> = a.apply_pt(&b);
 }
 
-pub fn p590() {
+pub fn p596() {
     let a: re::math::mat::Mat4x4<re::math::mat::RealToReal<3, (), re::render::Model>> = mk();
     let b: re::math::point::Point3<re::render::World> = mk();
     let _r: re::math::point::Point3<()> = a.apply_pt(&b);
 }
 
-pub fn p591() {
+pub fn p597() {
     let a: re::math::mat::Mat4x4<re::math::mat::RealToReal<3, (), re::render::Model>> = mk();
     let b: re::math::point::Point3<re::render::World> = mk();
     let _r: re::math::point::Point3<re::render::World> = a.apply_pt(&b);
 }
 
-pub fn p592() {
+pub fn p598() {
     let a: re::math::mat::Mat4x4<re::math::mat::RealToReal<3, (), re::render::Model>> = mk();
     let b: re::math::point::Point3<re::render::World> = mk();
     let _ = a.apply_pt(&b);
 }
 
-pub fn p593() {
+pub fn p599() {
     let a: re::math::mat::Mat4x4<re::math::mat::RealToReal<3, (), re::render::Model>> = mk();
     let b: re::math::vec::Vec2<re::render::Model> = mk();
     let _ = a.apply(&b);
 }
 
-pub fn p594() {
+pub fn p600() {
     let a: re::math::mat::Mat4x4<re::math::mat::RealToReal<3, (), re::render::Model>> = mk();
     let b: re::math::vec::Vec2<()> = mk();
-    let _ = a.apply(&b);
-}
-
-pub fn p595() {
-    let a: re::math::mat::Mat4x4<re::math::mat::RealToReal<3, (), re::render::Model>> = mk();
-    let b: re::math::vec::Vec2<re::render::World> = mk();
-    let _ = a.apply(&b);
-}
-
-pub fn p596() {
-    let a: re::math::mat::Mat4x4<re::math::mat::RealToReal<3, (), re::render::Model>> = mk();
-    let b: re::math::vec::Vec3<re::render::Model> = mk();
-    let _r: re::math::vec::Vec3<re::render::Model> = a.apply(&b);
-}
-
-pub fn p597() {
-    let a: re::math::mat::Mat4x4<re::math::mat::RealToReal<3, (), re::render::Model>> = mk();
-    let b: re::math::vec::Vec3<re::render::Model> = mk();
-    let _r: re::math::vec::Vec3<()> = a.apply(&b);
-}
-
-pub fn p598() {
-    let a: re::math::mat::Mat4x4<re::math::mat::RealToReal<3, (), re::render::Model>> = mk();
-    let b: re::math::vec::Vec3<re::render::Model> = mk();
-    let _r: re::math::vec::Vec3<re::render::World> = a.apply(&b);
-}
-
-pub fn p599() {
-    let a: re::math::mat::Mat4x4<re::math::mat::RealToReal<3, (), re::render::Model>> = mk();
-    let b: re::math::vec::Vec3<re::render::Model> = mk();
     let _ = a.apply(&b);
 }
 
 pub fn p601() {
     let a: re::math::mat::Mat4x4<re::math::mat::RealToReal<3, (), re::render::Model>> = mk();
+    let b: re::math::vec::Vec2<re::render::World> = mk();
+    let _ = a.apply(&b);
+}
+
+pub fn p602() {
+    let a: re::math::mat::Mat4x4<re::math::mat::RealToReal<3, (), re::render::Model>> = mk();
+    let b: re::math::vec::Vec3<re::render::Model> = mk();
+    let _r: re::math::vec::Vec3<re::render::Model> = a.apply(&b);
+}
+
+pub fn p603() {
+    let a: re::math::mat::Mat4x4<re::math::mat::RealToReal<3, (), re::render::Model>> = mk();
+    let b: re::math::vec::Vec3<re::render::Model> = mk();
+    let _r: re::math::vec::Vec3<()> = a.apply(&b);
+}
+
+pub fn p604() {
+    let a: re::math::mat::Mat4x4<re::math::mat::RealToReal<3, (), re::render::Model>> = mk();
+    let b: re::math::vec::Vec3<re::render::Model> = mk();
+    let _r: re::math::vec::Vec3<re::render::World> = a.apply(&b);
+}
+
+pub fn p605() {
+    let a: re::math::mat::Mat4x4<re::math::mat::RealToReal<3, (), re::render::Model>> = mk();
+    let b: re::math::vec::Vec3<re::render::Model> = mk();
+    let _ = a.apply(&b);
+}
+
+pub fn p607() {
+    let a: re::math::mat::Mat4x4<re::math::mat::RealToReal<3, (), re::render::Model>> = mk();
     let b: re::math::vec::Vec3<()> = mk();
     let _r: re::math::vec::Vec3<()> = a.apply(&b);
 }
 
-pub fn p602() {
+pub fn p608() {
     let a: re::math::mat::Mat4x4<re::math::mat::RealToReal<3, (), re::render::Model>> = mk();
     let b: re::math::vec::Vec3<()> = mk();
     let _r: re::math::vec::Vec3<re::render::World> = a.apply(&b);
 }
 
-pub fn p604() {
+pub fn p610() {
     let a: re::math::mat::Mat4x4<re::math::mat::RealToReal<3, (), re::render::Model>> = mk();
     let b: re::math::vec::Vec3<re::render::World> = mk();
     let _r: re::math::vec::Vec3<re::render::Model> = a.apply(&b);
 }
 
-pub fn p605() {
+pub fn p611() {
     let a: re::math::mat::Mat4x4<re::math::mat::RealToReal<3, (), re::render::Model>> = mk();
     let b: re::math::vec::Vec3<re::render::World> = mk();
     let _r: re::math::vec::Vec3<()> = a.apply(&b);
 }
 
-pub fn p606() {
+pub fn p612() {
     let a: re::math::mat::Mat4x4<re::math::mat::RealToReal<3, (), re::render::Model>> = mk();
     let b: re::math::vec::Vec3<re::render::World> = mk();
     let _r: re::math::vec::Vec3<re::render::World> = a.apply(&b);
 }
 
-pub fn p607() {
+pub fn p613() {
     let a: re::math::mat::Mat4x4<re::math::mat::RealToReal<3, (), re::render::Model>> = mk();
     let b: re::math::vec::Vec3<re::render::World> = mk();
     let _ = a.apply(&b);
 }
 
-pub fn p611() {
+pub fn p617() {
     let a: re::math::mat::Mat4x4<re::math::mat::RealToReal<3, (), ()>> = mk();
     let b: re::math::mat::Mat4x4<re::math::mat::RealToReal<3, re::render::Model, re::render::Model>> = mk();
     let _ = a.compose(&b);
 }
 
-pub fn p612() {
+pub fn p618() {
     let a: re::math::mat::Mat4x4<re::math::mat::RealToReal<3, (), ()>> = mk();
     let b: re::math::mat::Mat4x4<re::math::mat::RealToReal<3, re::render::Model, re::render::Model>> = mk();
     let _ = a.then(&b);
 }
 
-pub fn p613() {
+pub fn p619() {
     let a: re::math::mat::Mat4x4<re::math::mat::RealToReal<3, (), ()>> = mk();
     let b: re::math::mat::Mat4x4<re::math::mat::RealToReal<3, re::render::Model, ()>> = mk();
     let _ = a.then(&b);
 }
 
-pub fn p615() {
+pub fn p621() {
     let a: re::math::mat::Mat4x4<re::math::mat::RealToReal<3, (), ()>> = mk();
     let b: re::math::mat::Mat4x4<re::math::mat::RealToReal<3, re::render::Model, re::render::World>> = mk();
     let _ = a.compose(&b);
 }
 
-pub fn p616() {
+pub fn p622() {
     let a: re::math::mat::Mat4x4<re::math::mat::RealToReal<3, (), ()>> = mk();
     let b: re::math::mat::Mat4x4<re::math::mat::RealToReal<3, re::render::Model, re::render::World>> = mk();
     let _ = a.then(&b);
 }
 
-pub fn p617() {
+pub fn p623() {
     let a: re::math::mat::Mat4x4<re::math::mat::RealToReal<3, (), ()>> = mk();
     let b: re::math::mat::Mat4x4<re::math::mat::RealToReal<3, (), re::render::Model>> = mk();
     let _ = a.compose(&b);
 }
 
-pub fn p621() {
+pub fn p627() {
     let a: re::math::mat::Mat4x4<re::math::mat::RealToReal<3, (), ()>> = mk();
     let b: re::math::mat::Mat4x4<re::math::mat::RealToReal<3, (), re::render::World>> = mk();
     let _ = a.compose(&b);
 }
 
-pub fn p623() {
-    let a: re::math::mat::Mat4x4<re::math::mat::RealToReal<3, (), ()>> = mk();
-    let b: re::math::mat::Mat4x4<re::math::mat::RealToReal<3, re::render::World, re::render::Model>> = mk();
-    let _ = a.compose(&b);
-}
-
-pub fn p624() {
-    let a: re::math::mat::Mat4x4<re::math::mat::RealToReal<3, (), ()>> = mk();
-    let b: re::math::mat::Mat4x4<re::math::mat::RealToReal<3, re::render::World, re::render::Model>> = mk();
-    let _ = a.then(&b);
-}
-
-pub fn p625() {
-    let a: re::math::mat::Mat4x4<re::math::mat::RealToReal<3, (), ()>> = mk();
-    let b: re::math::mat::Mat4x4<re::math::mat::RealToReal<3, re::render::World, ()>> = mk();
-    let _ = a.then(&b);
-}
-
-pub fn p627() {
-    let a: re::math::mat::Mat4x4<re::math::mat::RealToReal<3, (), ()>> = mk();
-    let b: re::math::mat::Mat4x4<re::math::mat::RealToReal<3, re::render::World, re::render::World>> = mk();
-    let _ = a.compose(&b);
-}
-
-pub fn p628() {
-    let a: re::math::mat::Mat4x4<re::math::mat::RealToReal<3, (), ()>> = mk();
-    let b: re::math::mat::Mat4x4<re::math::mat::RealToReal<3, re::render::World, re::render::World>> = mk();
-    let _ = a.then(&b);
-}
-
 pub fn p629() {
     let a: re::math::mat::Mat4x4<re::math::mat::RealToReal<3, (), ()>> = mk();
-    let b: re::math::mat::Mat4x4<re::math::mat::RealToProj<re::render::Model>> = mk();
+    let b: re::math::mat::Mat4x4<re::math::mat::RealToReal<3, re::render::World, re::render::Model>> = mk();
     let _ = a.compose(&b);
 }
 
 pub fn p630() {
     let a: re::math::mat::Mat4x4<re::math::mat::RealToReal<3, (), ()>> = mk();
-    let b: re::math::mat::Mat4x4<re::math::mat::RealToProj<re::render::Model>> = mk();
+    let b: re::math::mat::Mat4x4<re::math::mat::RealToReal<3, re::render::World, re::render::Model>> = mk();
     let _ = a.then(&b);
 }
 
 pub fn p631() {
     let a: re::math::mat::Mat4x4<re::math::mat::RealToReal<3, (), ()>> = mk();
-    let b: re::math::mat::Mat4x4<re::math::mat::RealToProj<()>> = mk();
-    let _ = a.compose(&b);
+    let b: re::math::mat::Mat4x4<re::math::mat::RealToReal<3, re::render::World, ()>> = mk();
+    let _ = a.then(&b);
 }
 
 pub fn p633() {
     let a: re::math::mat::Mat4x4<re::math::mat::RealToReal<3, (), ()>> = mk();
-    let b: re::math::mat::Mat4x4<re::math::mat::RealToProj<re::render::World>> = mk();
+    let b: re::math::mat::Mat4x4<re::math::mat::RealToReal<3, re::render::World, re::render::World>> = mk();
     let _ = a.compose(&b);
 }
 
 pub fn p634() {
     let a: re::math::mat::Mat4x4<re::math::mat::RealToReal<3, (), ()>> = mk();
-    let b: re::math::mat::Mat4x4<re::math::mat::RealToProj<re::render::World>> = mk();
+    let b: re::math::mat::Mat4x4<re::math::mat::RealToReal<3, re::render::World, re::render::World>> = mk();
     let _ = a.then(&b);
 }
 
 pub fn p635() {
     let a: re::math::mat::Mat4x4<re::math::mat::RealToReal<3, (), ()>> = mk();
-    let b: re::math::point::Point2<re::render::Model> = mk();
-    let _ = a.apply_pt(&b);
+    let b: re::math::mat::Mat4x4<re::math::mat::RealToProj<re::render::Model>> = mk();
+    let _ = a.compose(&b);
 }
 
 pub fn p636() {
     let a: re::math::mat::Mat4x4<re::math::mat::RealToReal<3, (), ()>> = mk();
-    let b: re::math::point::Point2<()> = mk();
-    let _ = a.apply_pt(&b);
+    let b: re::math::mat::Mat4x4<re::math::mat::RealToProj<re::render::Model>> = mk();
+    let _ = a.then(&b);
 }
 
 pub fn p637() {
     let a: re::math::mat::Mat4x4<re::math::mat::RealToReal<3, (), ()>> = mk();
-    let b: re::math::point::Point2<re::render::World> = mk();
-    let _ = a.apply_pt(&b);
-}
-
-pub fn p638() {
-    let a: re::math::mat::Mat4x4<re::math::mat::RealToReal<3, (), ()>> = mk();
-    let b: re::math::point::Point3<re::render::Model> = mk();
-    let _r: re::math::point::Point3<re::render::Model> = a.apply_pt(&b);
+    let b: re::math::mat::Mat4x4<re::math::mat::RealToProj<()>> = mk();
+    let _ = a.compose(&b);
 }
 
 pub fn p639() {
     let a: re::math::mat::Mat4x4<re::math::mat::RealToReal<3, (), ()>> = mk();
-    let b: re::math::point::Point3<re::render::Model> = mk();
-    let _r: re::math::point::Point3<()> = a.apply_pt(&b);
+    let b: re::math::mat::Mat4x4<re::math::mat::RealToProj<re::render::World>> = mk();
+    let _ = a.compose(&b);
 }
 
 pub fn p640() {
     let a: re::math::mat::Mat4x4<re::math::mat::RealToReal<3, (), ()>> = mk();
-    let b: re::math::point::Point3<re::render::Model> = mk();
-    let _r: re::math::point::Point3<re::render::World> = a.apply_pt(&b);
+    let b: re::math::mat::Mat4x4<re::math::mat::RealToProj<re::render::World>> = mk();
+    let _ = a.then(&b);
 }
 
 pub fn p641() {
     let a: re::math::mat::Mat4x4<re::math::mat::RealToReal<3, (), ()>> = mk();
-    let b: re::math::point::Point3<re::render::Model> = mk();
+    let b: re::math::point::Point2<re::render::Model> = mk();
     let _ = a.apply_pt(&b);
 }
 
 pub fn p642() {
     let a: re::math::mat::Mat4x4<re::math::mat::RealToReal<3, (), ()>> = mk();
+    let b: re::math::point::Point2<()> = mk();
+    let _ = a.apply_pt(&b);
+}
+
+pub fn p643() {
+    let a: re::math::mat::Mat4x4<re::math::mat::RealToReal<3, (), ()>> = mk();
+    let b: re::math::point::Point2<re::render::World> = mk();
+    let _ = a.apply_pt(&b);
+}
+
+pub fn p644() {
+    let a: re::math::mat::Mat4x4<re::math::mat::RealToReal<3, (), ()>> = mk();
+    let b: re::math::point::Point3<re::render::Model> = mk();
+    let _r: re::math::point::Point3<re::render::Model> = a.apply_pt(&b);
+}
+
+pub fn p645() {
+    let a: re::math::mat::Mat4x4<re::math::mat::RealToReal<3, (), ()>> = mk();
+    let b: re::math::point::Point3<re::render::Model> = mk();
+    let _r: re::math::point::Point3<()> = a.apply_pt(&b);
+}
+
+pub fn p646() {
+    let a: re::math::mat::Mat4x4<re::math::mat::RealToReal<3, (), ()>> = mk();
+    let b: re::math::point::Point3<re::render::Model> = mk();
+    let _r: re::math::point::Point3<re::render::World> = a.apply_pt(&b);
+}
+
+pub fn p647() {
+    let a: re::math::mat::Mat4x4<re::math::mat::RealToReal<3, (), ()>> = mk();
+    let b: re::math::point::Point3<re::render::Model> = mk();
+    let _ = a.apply_pt(&b);
+}
+
+pub fn p648() {
+    let a: re::math::mat::Mat4x4<re::math::mat::RealToReal<3, (), ()>> = mk();
     let b: re::math::point::Point3<()> = mk();
     let _r: re::math::point::Point3<re::render::Model> = a.apply_pt(&b);
 }
 
-pub fn p644() {
+pub fn p650() {
     let a: re::math::mat::Mat4x4<re::math::mat::RealToReal<3, (), ()>> = mk();
     let b: re::math::point::Point3<()> = mk();
     let _r: re::math::point::Point3<re::render::World> = a.apply_pt(&b);
 }
 
-pub fn p646() {
+pub fn p652() {
     let a: re::math::mat::Mat4x4<re::math::mat::RealToReal<3, (), ()>> = mk();
     let b: re::math::point::Point3<re::render::World> = mk();
     let _r: re::math::point::Point3<re::render::Model> = a.apply_pt(&b);
 }
 
-pub fn p647() {
+pub fn p653() {
     let a: re::math::mat::Mat4x4<re::math::mat::RealToReal<3, (), ()>> = mk();
     let b: re::math::point::Point3<re::render::World> = mk();
     let _r: re::math::point::Point3<()> = a.apply_pt(&b);
 }
 
-pub fn p648() {
+pub fn p654() {
     let a: re::math::mat::Mat4x4<re::math::mat::RealToReal<3, (), ()>> = mk();
     let b: re::math::point::Point3<re::render::World> = mk();
     let _r: re::math::point::Point3<re::render::World> = a.apply_pt(&b);
 }
 
-pub fn p649() {
+pub fn p655() {
     let a: re::math::mat::Mat4x4<re::math::mat::RealToReal<3, (), ()>> = mk();
     let b: re::math::point::Point3<re::render::World> = mk();
     let _ = a.apply_pt(&b);
 }
 
-pub fn p650() {
-    let a: re::math::mat::Mat4x4<re::math::mat::RealToReal<3, (), ()>> = mk();
-    let b: re::math::vec::Vec2<re::render::Model> = mk();
-    let _ = a.apply(&b);
-}
-
-pub fn p651() {
-    let a: re::math::mat::Mat4x4<re::math::mat::RealToReal<3, (), ()>> = mk();
-    let b: re::math::vec::Vec2<()> = mk();
-    let _ = a.apply(&b);
-}
-
-pub fn p652() {
-    let a: re::math::mat::Mat4x4<re::math::mat::RealToReal<3, (), ()>> = mk();
-    let b: re::math::vec::Vec2<re::render::World> = mk();
-    let _ = a.apply(&b);
-}
-
-pub fn p653() {
-    let a: re::math::mat::Mat4x4<re::math::mat::RealToReal<3, (), ()>> = mk();
-    let b: re::math::vec::Vec3<re::render::Model> = mk();
-    let _r: re::math::vec::Vec3<re::render::Model> = a.apply(&b);
-}
-
-pub fn p654() {
-    let a: re::math::mat::Mat4x4<re::math::mat::RealToReal<3, (), ()>> = mk();
-    let b: re::math::vec::Vec3<re::render::Model> = mk();
-    let _r: re::math::vec::Vec3<()> = a.apply(&b);
-}
-
-pub fn p655() {
-    let a: re::math::mat::Mat4x4<re::math::mat::RealToReal<3, (), ()>> = mk();
-    let b: re::math::vec::Vec3<re::render::Model> = mk();
-    let _r: re::math::vec::Vec3<re::render::World> = a.apply(&b);
-}
-
 pub fn p656() {
     let a: re::math::mat::Mat4x4<re::math::mat::RealToReal<3, (), ()>> = mk();
-    let b: re::math::vec::Vec3<re::render::Model> = mk();
+    let b: re::math::vec::Vec2<re::render::Model> = mk();
     let _ = a.apply(&b);
 }
 
 pub fn p657() {
     let a: re::math::mat::Mat4x4<re::math::mat::RealToReal<3, (), ()>> = mk();
+    let b: re::math::vec::Vec2<()> = mk();
+    let _ = a.apply(&b);
+}
+
+pub fn p658() {
+    let a: re::math::mat::Mat4x4<re::math::mat::RealToReal<3, (), ()>> = mk();
+    let b: re::math::vec::Vec2<re::render::World> = mk();
+    let _ = a.apply(&b);
+}
+
+pub fn p659() {
+    let a: re::math::mat::Mat4x4<re::math::mat::RealToReal<3, (), ()>> = mk();
+    let b: re::math::vec::Vec3<re::render::Model> = mk();
+    let _r: re::math::vec::Vec3<re::render::Model> = a.apply(&b);
+}
+
+pub fn p660() {
+    let a: re::math::mat::Mat4x4<re::math::mat::RealToReal<3, (), ()>> = mk();
+    let b: re::math::vec::Vec3<re::render::Model> = mk();
+    let _r: re::math::vec::Vec3<()> = a.apply(&b);
+}
+
+pub fn p661() {
+    let a: re::math::mat::Mat4x4<re::math::mat::RealToReal<3, (), ()>> = mk();
+    let b: re::math::vec::Vec3<re::render::Model> = mk();
+    let _r: re::math::vec::Vec3<re::render::World> = a.apply(&b);
+}
+
+pub fn p662() {
+    let a: re::math::mat::Mat4x4<re::math::mat::RealToReal<3, (), ()>> = mk();
+    let b: re::math::vec::Vec3<re::render::Model> = mk();
+    let _ = a.apply(&b);
+}
+
+pub fn p663() {
+    let a: re::math::mat::Mat4x4<re::math::mat::RealToReal<3, (), ()>> = mk();
     let b: re::math::vec::Vec3<()> = mk();
     let _r: re::math::vec::Vec3<re::render::Model> = a.apply(&b);
 }
 
-pub fn p659() {
+pub fn p665() {
     let a: re::math::mat::Mat4x4<re::math::mat::RealToReal<3, (), ()>> = mk();
     let b: re::math::vec::Vec3<()> = mk();
     let _r: re::math::vec::Vec3<re::render::World> = a.apply(&b);
 }
 
-pub fn p661() {
+pub fn p667() {
     let a: re::math::mat::Mat4x4<re::math::mat::RealToReal<3, (), ()>> = mk();
     let b: re::math::vec::Vec3<re::render::World> = mk();
     let _r: re::math::vec::Vec3<re::render::Model> = a.apply(&b);
 }
 
-pub fn p662() {
+pub fn p668() {
     let a: re::math::mat::Mat4x4<re::math::mat::RealToReal<3, (), ()>> = mk();
     let b: re::math::vec::Vec3<re::render::World> = mk();
     let _r: re::math::vec::Vec3<()> = a.apply(&b);
 }
 
-pub fn p663() {
+pub fn p669() {
     let a: re::math::mat::Mat4x4<re::math::mat::RealToReal<3, (), ()>> = mk();
     let b: re::math::vec::Vec3<re::render::World> = mk();
     let _r: re::math::vec::Vec3<re::render::World> = a.apply(&b);
 }
 
-pub fn p664() {
+pub fn p670() {
     let a: re::math::mat::Mat4x4<re::math::mat::RealToReal<3, (), ()>> = mk();
     let b: re::math::vec::Vec3<re::render::World> = mk();
     let _ = a.apply(&b);
 }
 
-pub fn p668() {
-    let a: re::math::mat::Mat4x4<re::math::mat::RealToReal<3, (), re::render::World>> = mk();
-    let b: re::math::mat::Mat4x4<re::math::mat::RealToReal<3, re::render::Model, re::render::Model>> = mk();
-    let _ = a.compose(&b);
-}
-
-pub fn p669() {
-    let a: re::math::mat::Mat4x4<re::math::mat::RealToReal<3, (), re::render::World>> = mk();
-    let b: re::math::mat::Mat4x4<re::math::mat::RealToReal<3, re::render::Model, re::render::Model>> = mk();
-    let _ = a.then(&b);
-}
-
-pub fn p670() {
-    let a: re::math::mat::Mat4x4<re::math::mat::RealToReal<3, (), re::render::World>> = mk();
-    let b: re::math::mat::Mat4x4<re::math::mat::RealToReal<3, re::render::Model, ()>> = mk();
-    let _ = a.then(&b);
-}
-
-pub fn p672() {
-    let a: re::math::mat::Mat4x4<re::math::mat::RealToReal<3, (), re::render::World>> = mk();
-    let b: re::math::mat::Mat4x4<re::math::mat::RealToReal<3, re::render::Model, re::render::World>> = mk();
-    let _ = a.compose(&b);
-}
-
-pub fn p673() {
-    let a: re::math::mat::Mat4x4<re::math::mat::RealToReal<3, (), re::render::World>> = mk();
-    let b: re::math::mat::Mat4x4<re::math::mat::RealToReal<3, re::render::Model, re::render::World>> = mk();
-    let _ = a.then(&b);
-}
-
 pub fn p674() {
     let a: re::math::mat::Mat4x4<re::math::mat::RealToReal<3, (), re::render::World>> = mk();
-    let b: re::math::mat::Mat4x4<re::math::mat::RealToReal<3, (), re::render::Model>> = mk();
+    let b: re::math::mat::Mat4x4<re::math::mat::RealToReal<3, re::render::Model, re::render::Model>> = mk();
     let _ = a.compose(&b);
 }
 
 pub fn p675() {
     let a: re::math::mat::Mat4x4<re::math::mat::RealToReal<3, (), re::render::World>> = mk();
-    let b: re::math::mat::Mat4x4<re::math::mat::RealToReal<3, (), re::render::Model>> = mk();
+    let b: re::math::mat::Mat4x4<re::math::mat::RealToReal<3, re::render::Model, re::render::Model>> = mk();
     let _ = a.then(&b);
 }
 
 pub fn p676() {
     let a: re::math::mat::Mat4x4<re::math::mat::RealToReal<3, (), re::render::World>> = mk();
-    let b: re::math::mat::Mat4x4<re::math::mat::RealToReal<3, (), ()>> = mk();
+    let b: re::math::mat::Mat4x4<re::math::mat::RealToReal<3, re::render::Model, ()>> = mk();
     let _ = a.then(&b);
 }
 
 pub fn p678() {
     let a: re::math::mat::Mat4x4<re::math::mat::RealToReal<3, (), re::render::World>> = mk();
-    let b: re::math::mat::Mat4x4<re::math::mat::RealToReal<3, (), re::render::World>> = mk();
+    let b: re::math::mat::Mat4x4<re::math::mat::RealToReal<3, re::render::Model, re::render::World>> = mk();
     let _ = a.compose(&b);
 }
 
 pub fn p679() {
     let a: re::math::mat::Mat4x4<re::math::mat::RealToReal<3, (), re::render::World>> = mk();
-    let b: re::math::mat::Mat4x4<re::math::mat::RealToReal<3, (), re::render::World>> = mk();
+    let b: re::math::mat::Mat4x4<re::math::mat::RealToReal<3, re::render::Model, re::render::World>> = mk();
     let _ = a.then(&b);
 }
 
 pub fn p680() {
     let a: re::math::mat::Mat4x4<re::math::mat::RealToReal<3, (), re::render::World>> = mk();
-    let b: re::math::mat::Mat4x4<re::math::mat::RealToReal<3, re::render::World, re::render::Model>> = mk();
+    let b: re::math::mat::Mat4x4<re::math::mat::RealToReal<3, (), re::render::Model>> = mk();
     let _ = a.compose(&b);
+}
+
+pub fn p681() {
+    let a: re::math::mat::Mat4x4<re::math::mat::RealToReal<3, (), re::render::World>> = mk();
+    let b: re::math::mat::Mat4x4<re::math::mat::RealToReal<3, (), re::render::Model>> = mk();
+    let _ = a.then(&b);
+}
+
+pub fn p682() {
+    let a: re::math::mat::Mat4x4<re::math::mat::RealToReal<3, (), re::render::World>> = mk();
+    let b: re::math::mat::Mat4x4<re::math::mat::RealToReal<3, (), ()>> = mk();
+    let _ = a.then(&b);
 }
 
 pub fn p684() {
     let a: re::math::mat::Mat4x4<re::math::mat::RealToReal<3, (), re::render::World>> = mk();
-    let b: re::math::mat::Mat4x4<re::math::mat::RealToReal<3, re::render::World, re::render::World>> = mk();
+    let b: re::math::mat::Mat4x4<re::math::mat::RealToReal<3, (), re::render::World>> = mk();
     let _ = a.compose(&b);
+}
+
+pub fn p685() {
+    let a: re::math::mat::Mat4x4<re::math::mat::RealToReal<3, (), re::render::World>> = mk();
+    let b: re::math::mat::Mat4x4<re::math::mat::RealToReal<3, (), re::render::World>> = mk();
+    let _ = a.then(&b);
 }
 
 pub fn p686() {
     let a: re::math::mat::Mat4x4<re::math::mat::RealToReal<3, (), re::render::World>> = mk();
-    let b: re::math::mat::Mat4x4<re::math::mat::RealToProj<re::render::Model>> = mk();
+    let b: re::math::mat::Mat4x4<re::math::mat::RealToReal<3, re::render::World, re::render::Model>> = mk();
     let _ = a.compose(&b);
-}
-
-pub fn p687() {
-    let a: re::math::mat::Mat4x4<re::math::mat::RealToReal<3, (), re::render::World>> = mk();
-    let b: re::math::mat::Mat4x4<re::math::mat::RealToProj<re::render::Model>> = mk();
-    let _ = a.then(&b);
-}
-
-pub fn p688() {
-    let a: re::math::mat::Mat4x4<re::math::mat::RealToReal<3, (), re::render::World>> = mk();
-    let b: re::math::mat::Mat4x4<re::math::mat::RealToProj<()>> = mk();
-    let _ = a.compose(&b);
-}
-
-pub fn p689() {
-    let a: re::math::mat::Mat4x4<re::math::mat::RealToReal<3, (), re::render::World>> = mk();
-    let b: re::math::mat::Mat4x4<re::math::mat::RealToProj<()>> = mk();
-    let _ = a.then(&b);
 }
 
 pub fn p690() {
     let a: re::math::mat::Mat4x4<re::math::mat::RealToReal<3, (), re::render::World>> = mk();
-    let b: re::math::mat::Mat4x4<re::math::mat::RealToProj<re::render::World>> = mk();
+    let b: re::math::mat::Mat4x4<re::math::mat::RealToReal<3, re::render::World, re::render::World>> = mk();
     let _ = a.compose(&b);
 }
 
 pub fn p692() {
     let a: re::math::mat::Mat4x4<re::math::mat::RealToReal<3, (), re::render::World>> = mk();
-    let b: re::math::point::Point2<re::render::Model> = mk();
-    let _ = a.apply_pt(&b);
+    let b: re::math::mat::Mat4x4<re::math::mat::RealToProj<re::render::Model>> = mk();
+    let _ = a.compose(&b);
 }
 
 pub fn p693() {
     let a: re::math::mat::Mat4x4<re::math::mat::RealToReal<3, (), re::render::World>> = mk();
-    let b: re::math::point::Point2<()> = mk();
-    let _ = a.apply_pt(&b);
+    let b: re::math::mat::Mat4x4<re::math::mat::RealToProj<re::render::Model>> = mk();
+    let _ = a.then(&b);
 }
 
 pub fn p694() {
     let a: re::math::mat::Mat4x4<re::math::mat::RealToReal<3, (), re::render::World>> = mk();
-    let b: re::math::point::Point2<re::render::World> = mk();
-    let _ = a.apply_pt(&b);
+    let b: re::math::mat::Mat4x4<re::math::mat::RealToProj<()>> = mk();
+    let _ = a.compose(&b);
 }
 
 pub fn p695() {
     let a: re::math::mat::Mat4x4<re::math::mat::RealToReal<3, (), re::render::World>> = mk();
-    let b: re::math::point::Point3<re::render::Model> = mk();
-    let _r: re::math::point::Point3<re::render::Model> = a.apply_pt(&b);
+    let b: re::math::mat::Mat4x4<re::math::mat::RealToProj<()>> = mk();
+    let _ = a.then(&b);
 }
 
 pub fn p696() {
     let a: re::math::mat::Mat4x4<re::math::mat::RealToReal<3, (), re::render::World>> = mk();
-    let b: re::math::point::Point3<re::render::Model> = mk();
-    let _r: re::math::point::Point3<()> = a.apply_pt(&b);
-}
-
-pub fn p697() {
-    let a: re::math::mat::Mat4x4<re::math::mat::RealToReal<3, (), re::render::World>> = mk();
-    let b: re::math::point::Point3<re::render::Model> = mk();
-    let _r: re::math::point::Point3<re::render::World> = a.apply_pt(&b);
+    let b: re::math::mat::Mat4x4<re::math::mat::RealToProj<re::render::World>> = mk();
+    let _ = a.compose(&b);
 }
 
 pub fn p698() {
     let a: re::math::mat::Mat4x4<re::math::mat::RealToReal<3, (), re::render::World>> = mk();
-    let b: re::math::point::Point3<re::render::Model> = mk();
+    let b: re::math::point::Point2<re::render::Model> = mk();
     let _ = a.apply_pt(&b);
 }
 
 pub fn p699() {
     let a: re::math::mat::Mat4x4<re::math::mat::RealToReal<3, (), re::render::World>> = mk();
-    let b: re::math::point::Point3<()> = mk();
-    let _r: re::math::point::Point3<re::render::Model> = a.apply_pt(&b);
+    let b: re::math::point::Point2<()> = mk();
+    let _ = a.apply_pt(&b);
 }
 
 pub fn p700() {
     let a: re::math::mat::Mat4x4<re::math::mat::RealToReal<3, (), re::render::World>> = mk();
-    let b: re::math::point::Point3<()> = mk();
+    let b: re::math::point::Point2<re::render::World> = mk();
+    let _ = a.apply_pt(&b);
+}
+
+pub fn p701() {
+    let a: re::math::mat::Mat4x4<re::math::mat::RealToReal<3, (), re::render::World>> = mk();
+    let b: re::math::point::Point3<re::render::Model> = mk();
+    let _r: re::math::point::Point3<re::render::Model> = a.apply_pt(&b);
+}
+
+pub fn p702() {
+    let a: re::math::mat::Mat4x4<re::math::mat::RealToReal<3, (), re::render::World>> = mk();
+    let b: re::math::point::Point3<re::render::Model> = mk();
     let _r: re::math::point::Point3<()> = a.apply_pt(&b);
 }
 
 pub fn p703() {
     let a: re::math::mat::Mat4x4<re::math::mat::RealToReal<3, (), re::render::World>> = mk();
+    let b: re::math::point::Point3<re::render::Model> = mk();
+    let _r: re::math::point::Point3<re::render::World> = a.apply_pt(&b);
+}
+
+pub fn p704() {
+    let a: re::math::mat::Mat4x4<re::math::mat::RealToReal<3, (), re::render::World>> = mk();
+    let b: re::math::point::Point3<re::render::Model> = mk();
+    let _ = a.apply_pt(&b);
+}
+
+pub fn p705() {
+    let a: re::math::mat::Mat4x4<re::math::mat::RealToReal<3, (), re::render::World>> = mk();
+    let b: re::math::point::Point3<()> = mk();
+    let _r: re::math::point::Point3<re::render::Model> = a.apply_pt(&b);
+}
+
+pub fn p706() {
+    let a: re::math::mat::Mat4x4<re::math::mat::RealToReal<3, (), re::render::World>> = mk();
+    let b: re::math::point::Point3<()> = mk();
+    let _r: re::math::point::Point3<()> = a.apply_pt(&b);
+}
+
+pub fn p709() {
+    let a: re::math::mat::Mat4x4<re::math::mat::RealToReal<3, (), re::render::World>> = mk();
     let b: re::math::point::Point3<re::render::World> = mk();
     let _r: re::math::point::Point3<re::render::Model> = a.apply_pt(&b);
 }
 
-pub fn p704() {
+pub fn p710() {
     let a: re::math::mat::Mat4x4<re::math::mat::RealToReal<3, (), re::render::World>> = mk();
     let b: re::math::point::Point3<re::render::World> = mk();
     let _r: re::math::point::Point3<()> = a.apply_pt(&b);
 }
 
-pub fn p705() {
+pub fn p711() {
     let a: re::math::mat::Mat4x4<re::math::mat::RealToReal<3, (), re::render::World>> = mk();
     let b: re::math::point::Point3<re::render::World> = mk();
     let _r: re::math::point::Point3<re::render::World> = a.apply_pt(&b);
 }
 
-pub fn p706() {
+pub fn p712() {
     let a: re::math::mat::Mat4x4<re::math::mat::RealToReal<3, (), re::render::World>> = mk();
     let b: re::math::point::Point3<re::render::World> = mk();
     let _ = a.apply_pt(&b);
 }
 
-pub fn p707() {
-    let a: re::math::mat::Mat4x4<re::math::mat::RealToReal<3, (), re::render::World>> = mk();
-    let b: re::math::vec::Vec2<re::render::Model> = mk();
-    let _ = a.apply(&b);
-}
-
-pub fn p708() {
-    let a: re::math::mat::Mat4x4<re::math::mat::RealToReal<3, (), re::render::World>> = mk();
-    let b: re::math::vec::Vec2<()> = mk();
-    let _ = a.apply(&b);
-}
-
-pub fn p709() {
-    let a: re::math::mat::Mat4x4<re::math::mat::RealToReal<3, (), re::render::World>> = mk();
-    let b: re::math::vec::Vec2<re::render::World> = mk();
-    let _ = a.apply(&b);
-}
-
-pub fn p710() {
-    let a: re::math::mat::Mat4x4<re::math::mat::RealToReal<3, (), re::render::World>> = mk();
-    let b: re::math::vec::Vec3<re::render::Model> = mk();
-    let _r: re::math::vec::Vec3<re::render::Model> = a.apply(&b);
-}
-
-pub fn p711() {
-    let a: re::math::mat::Mat4x4<re::math::mat::RealToReal<3, (), re::render::World>> = mk();
-    let b: re::math::vec::Vec3<re::render::Model> = mk();
-    let _r: re::math::vec::Vec3<()> = a.apply(&b);
-}
-
-pub fn p712() {
-    let a: re::math::mat::Mat4x4<re::math::mat::RealToReal<3, (), re::render::World>> = mk();
-    let b: re::math::vec::Vec3<re::render::Model> = mk();
-    let _r: re::math::vec::Vec3<re::render::World> = a.apply(&b);
-}
-
 pub fn p713() {
     let a: re::math::mat::Mat4x4<re::math::mat::RealToReal<3, (), re::render::World>> = mk();
-    let b: re::math::vec::Vec3<re::render::Model> = mk();
+    let b: re::math::vec::Vec2<re::render::Model> = mk();
     let _ = a.apply(&b);
 }
 
 pub fn p714() {
     let a: re::math::mat::Mat4x4<re::math::mat::RealToReal<3, (), re::render::World>> = mk();
-    let b: re::math::vec::Vec3<()> = mk();
-    let _r: re::math::vec::Vec3<re::render::Model> = a.apply(&b);
+    let b: re::math::vec::Vec2<()> = mk();
+    let _ = a.apply(&b);
 }
 
 pub fn p715() {
     let a: re::math::mat::Mat4x4<re::math::mat::RealToReal<3, (), re::render::World>> = mk();
-    let b: re::math::vec::Vec3<()> = mk();
+    let b: re::math::vec::Vec2<re::render::World> = mk();
+    let _ = a.apply(&b);
+}
+
+pub fn p716() {
+    let a: re::math::mat::Mat4x4<re::math::mat::RealToReal<3, (), re::render::World>> = mk();
+    let b: re::math::vec::Vec3<re::render::Model> = mk();
+    let _r: re::math::vec::Vec3<re::render::Model> = a.apply(&b);
+}
+
+pub fn p717() {
+    let a: re::math::mat::Mat4x4<re::math::mat::RealToReal<3, (), re::render::World>> = mk();
+    let b: re::math::vec::Vec3<re::render::Model> = mk();
     let _r: re::math::vec::Vec3<()> = a.apply(&b);
 }
 
 pub fn p718() {
     let a: re::math::mat::Mat4x4<re::math::mat::RealToReal<3, (), re::render::World>> = mk();
+    let b: re::math::vec::Vec3<re::render::Model> = mk();
+    let _r: re::math::vec::Vec3<re::render::World> = a.apply(&b);
+}
+
+pub fn p719() {
+    let a: re::math::mat::Mat4x4<re::math::mat::RealToReal<3, (), re::render::World>> = mk();
+    let b: re::math::vec::Vec3<re::render::Model> = mk();
+    let _ = a.apply(&b);
+}
+
+pub fn p720() {
+    let a: re::math::mat::Mat4x4<re::math::mat::RealToReal<3, (), re::render::World>> = mk();
+    let b: re::math::vec::Vec3<()> = mk();
+    let _r: re::math::vec::Vec3<re::render::Model> = a.apply(&b);
+}
+
+pub fn p721() {
+    let a: re::math::mat::Mat4x4<re::math::mat::RealToReal<3, (), re::render::World>> = mk();
+    let b: re::math::vec::Vec3<()> = mk();
+    let _r: re::math::vec::Vec3<()> = a.apply(&b);
+}
+
+pub fn p724() {
+    let a: re::math::mat::Mat4x4<re::math::mat::RealToReal<3, (), re::render::World>> = mk();
     let b: re::math::vec::Vec3<re::render::World> = mk();
     let _r: re::math::vec::Vec3<re::render::Model> = a.apply(&b);
 }
 
-pub fn p719() {
+pub fn p725() {
     let a: re::math::mat::Mat4x4<re::math::mat::RealToReal<3, (), re::render::World>> = mk();
     let b: re::math::vec::Vec3<re::render::World> = mk();
     let _r: re::math::vec::Vec3<()> = a.apply(&b);
 }
 
-pub fn p720() {
+pub fn p726() {
     let a: re::math::mat::Mat4x4<re::math::mat::RealToReal<3, (), re::render::World>> = mk();
     let b: re::math::vec::Vec3<re::render::World> = mk();
     let _r: re::math::vec::Vec3<re::render::World> = a.apply(&b);
 }
 
-pub fn p721() {
+pub fn p727() {
     let a: re::math::mat::Mat4x4<re::math::mat::RealToReal<3, (), re::render::World>> = mk();
     let b: re::math::vec::Vec3<re::render::World> = mk();
     let _ = a.apply(&b);
 }
 
-pub fn p727() {
+pub fn p733() {
     let a: re::math::mat::Mat4x4<re::math::mat::RealToReal<3, crate::UserTag, crate::UserTag>> = mk();
     let b: re::math::mat::Mat4x4<re::math::mat::RealToReal<3, crate::UserTag, re::render::World>> = mk();
     let _ = a.compose(&b);
 }
 
-pub fn p729() {
+pub fn p735() {
     let a: re::math::mat::Mat4x4<re::math::mat::RealToReal<3, crate::UserTag, crate::UserTag>> = mk();
     let b: re::math::mat::Mat4x4<re::math::mat::RealToReal<3, re::render::World, crate::UserTag>> = mk();
     let _ = a.then(&b);
 }
 
-pub fn p732() {
+pub fn p738() {
     let a: re::math::mat::Mat4x4<re::math::mat::RealToReal<3, crate::UserTag, crate::UserTag>> = mk();
     let b: re::math::point::Point3<re::render::World> = mk();
     let _ = a.apply_pt(&b);
 }
 
-pub fn p734() {
+pub fn p740() {
     let a: re::math::mat::Mat4x4<re::math::mat::RealToReal<3, crate::UserTag, crate::UserTag>> = mk();
     let b: re::math::vec::Vec3<re::render::World> = mk();
     let _ = a.apply(&b);
 }
 
-pub fn p738() {
+pub fn p744() {
     let a: re::math::mat::Mat4x4<re::math::mat::RealToReal<3, crate::UserTag, re::render::World>> = mk();
     let b: re::math::mat::Mat4x4<re::math::mat::RealToReal<3, crate::UserTag, crate::UserTag>> = mk();
     let _ = a.then(&b);
 }
 
-pub fn p740() {
+pub fn p746() {
     let a: re::math::mat::Mat4x4<re::math::mat::RealToReal<3, crate::UserTag, re::render::World>> = mk();
     let b: re::math::mat::Mat4x4<re::math::mat::RealToReal<3, crate::UserTag, re::render::World>> = mk();
     let _ = a.compose(&b);
 }
 
-pub fn p741() {
+pub fn p747() {
     let a: re::math::mat::Mat4x4<re::math::mat::RealToReal<3, crate::UserTag, re::render::World>> = mk();
     let b: re::math::mat::Mat4x4<re::math::mat::RealToReal<3, crate::UserTag, re::render::World>> = mk();
     let _ = a.then(&b);
 }
 
-pub fn p745() {
+pub fn p751() {
     let a: re::math::mat::Mat4x4<re::math::mat::RealToReal<3, crate::UserTag, re::render::World>> = mk();
     let b: re::math::point::Point3<re::render::World> = mk();
     let _ = a.apply_pt(&b);
 }
 
-pub fn p747() {
+pub fn p753() {
     let a: re::math::mat::Mat4x4<re::math::mat::RealToReal<3, crate::UserTag, re::render::World>> = mk();
     let b: re::math::vec::Vec3<re::render::World> = mk();
-    let _ = a.apply(&b);
-}
-
-pub fn p754() {
-    let a: re::math::mat::Mat4x4<re::math::mat::RealToReal<3, re::render::View, re::render::Model>> = mk();
-    let b: re::math::mat::Mat4x4<re::render::ViewToProj> = mk();
-    let _ = a.then(&b);
-}
-
-pub fn p755() {
-    let a: re::math::mat::Mat4x4<re::math::mat::RealToReal<3, re::render::View, re::render::Model>> = mk();
-    let b: re::math::mat::Mat4x4<re::render::WorldToView> = mk();
-    let _ = a.then(&b);
-}
-
-pub fn p756() {
-    let a: re::math::mat::Mat4x4<re::math::mat::RealToReal<3, re::render::View, re::render::Model>> = mk();
-    let b: re::math::point::Point3<re::render::Model> = mk();
-    let _ = a.apply(&b);
-}
-
-pub fn p757() {
-    let a: re::math::mat::Mat4x4<re::math::mat::RealToReal<3, re::render::View, re::render::Model>> = mk();
-    let b: re::math::point::Point3<re::render::Model> = mk();
-    let _ = a.apply_pt(&b);
-}
-
-pub fn p758() {
-    let a: re::math::mat::Mat4x4<re::math::mat::RealToReal<3, re::render::View, re::render::Model>> = mk();
-    let b: re::math::point::Point3<re::render::View> = mk();
     let _ = a.apply(&b);
 }
 
 pub fn p760() {
     let a: re::math::mat::Mat4x4<re::math::mat::RealToReal<3, re::render::View, re::render::Model>> = mk();
-    let b: re::math::point::Point3<re::render::World> = mk();
-    let _ = a.apply(&b);
+    let b: re::math::mat::Mat4x4<re::render::ViewToProj> = mk();
+    let _ = a.then(&b);
 }
 
 pub fn p761() {
     let a: re::math::mat::Mat4x4<re::math::mat::RealToReal<3, re::render::View, re::render::Model>> = mk();
-    let b: re::math::point::Point3<re::render::World> = mk();
-    let _ = a.apply_pt(&b);
+    let b: re::math::mat::Mat4x4<re::render::WorldToView> = mk();
+    let _ = a.then(&b);
 }
 
 pub fn p762() {
     let a: re::math::mat::Mat4x4<re::math::mat::RealToReal<3, re::render::View, re::render::Model>> = mk();
-    let _ = re::render::cam::Camera::new((8, 8)).mode(a);
+    let b: re::math::point::Point3<re::render::Model> = mk();
+    let _ = a.apply(&b);
+}
+
+pub fn p763() {
+    let a: re::math::mat::Mat4x4<re::math::mat::RealToReal<3, re::render::View, re::render::Model>> = mk();
+    let b: re::math::point::Point3<re::render::Model> = mk();
+    let _ = a.apply_pt(&b);
 }
 
 pub fn p764() {
-    let a: re::math::mat::Mat4x4<re::math::mat::RealToReal<3, re::render::View, re::render::View>> = mk();
-    let b: re::math::mat::Mat4x4<re::render::ModelToProj> = mk();
-    let _ = a.then(&b);
-}
-
-pub fn p765() {
-    let a: re::math::mat::Mat4x4<re::math::mat::RealToReal<3, re::render::View, re::render::View>> = mk();
-    let b: re::math::mat::Mat4x4<re::render::ModelToView> = mk();
-    let _ = a.then(&b);
+    let a: re::math::mat::Mat4x4<re::math::mat::RealToReal<3, re::render::View, re::render::Model>> = mk();
+    let b: re::math::point::Point3<re::render::View> = mk();
+    let _ = a.apply(&b);
 }
 
 pub fn p766() {
-    let a: re::math::mat::Mat4x4<re::math::mat::RealToReal<3, re::render::View, re::render::View>> = mk();
-    let b: re::math::mat::Mat4x4<re::render::ModelToWorld> = mk();
-    let _ = a.then(&b);
+    let a: re::math::mat::Mat4x4<re::math::mat::RealToReal<3, re::render::View, re::render::Model>> = mk();
+    let b: re::math::point::Point3<re::render::World> = mk();
+    let _ = a.apply(&b);
+}
+
+pub fn p767() {
+    let a: re::math::mat::Mat4x4<re::math::mat::RealToReal<3, re::render::View, re::render::Model>> = mk();
+    let b: re::math::point::Point3<re::render::World> = mk();
+    let _ = a.apply_pt(&b);
 }
 
 pub fn p768() {
-    let a: re::math::mat::Mat4x4<re::math::mat::RealToReal<3, re::render::View, re::render::View>> = mk();
-    let b: re::math::mat::Mat4x4<re::render::WorldToView> = mk();
-    let _ = a.then(&b);
-}
-
-pub fn p769() {
-    let a: re::math::mat::Mat4x4<re::math::mat::RealToReal<3, re::render::View, re::render::View>> = mk();
-    let b: re::math::point::Point3<re::render::Model> = mk();
-    let _ = a.apply(&b);
+    let a: re::math::mat::Mat4x4<re::math::mat::RealToReal<3, re::render::View, re::render::Model>> = mk();
+    let _ = re::render::cam::Camera::new((8, 8)).mode(a);
 }
 
 pub fn p770() {
     let a: re::math::mat::Mat4x4<re::math::mat::RealToReal<3, re::render::View, re::render::View>> = mk();
+    let b: re::math::mat::Mat4x4<re::render::ModelToProj> = mk();
+    let _ = a.then(&b);
+}
+
+pub fn p771() {
+    let a: re::math::mat::Mat4x4<re::math::mat::RealToReal<3, re::render::View, re::render::View>> = mk();
+    let b: re::math::mat::Mat4x4<re::render::ModelToView> = mk();
+    let _ = a.then(&b);
+}
+
+pub fn p772() {
+    let a: re::math::mat::Mat4x4<re::math::mat::RealToReal<3, re::render::View, re::render::View>> = mk();
+    let b: re::math::mat::Mat4x4<re::render::ModelToWorld> = mk();
+    let _ = a.then(&b);
+}
+
+pub fn p774() {
+    let a: re::math::mat::Mat4x4<re::math::mat::RealToReal<3, re::render::View, re::render::View>> = mk();
+    let b: re::math::mat::Mat4x4<re::render::WorldToView> = mk();
+    let _ = a.then(&b);
+}
+
+pub fn p775() {
+    let a: re::math::mat::Mat4x4<re::math::mat::RealToReal<3, re::render::View, re::render::View>> = mk();
+    let b: re::math::point::Point3<re::render::Model> = mk();
+    let _ = a.apply(&b);
+}
+
+pub fn p776() {
+    let a: re::math::mat::Mat4x4<re::math::mat::RealToReal<3, re::render::View, re::render::View>> = mk();
     let b: re::math::point::Point3<re::render::Model> = mk();
     let _ = a.apply_pt(&b);
 }
 
-pub fn p771() {
+pub fn p777() {
     let a: re::math::mat::Mat4x4<re::math::mat::RealToReal<3, re::render::View, re::render::View>> = mk();
     let b: re::math::point::Point3<re::render::View> = mk();
     let _ = a.apply(&b);
 }
 
-pub fn p773() {
+pub fn p779() {
     let a: re::math::mat::Mat4x4<re::math::mat::RealToReal<3, re::render::View, re::render::View>> = mk();
     let b: re::math::point::Point3<re::render::World> = mk();
     let _ = a.apply(&b);
 }
 
-pub fn p774() {
+pub fn p780() {
     let a: re::math::mat::Mat4x4<re::math::mat::RealToReal<3, re::render::View, re::render::View>> = mk();
     let b: re::math::point::Point3<re::render::World> = mk();
     let _ = a.apply_pt(&b);
 }
 
-pub fn p775() {
+pub fn p781() {
     let a: re::math::mat::Mat4x4<re::math::mat::RealToReal<3, re::render::View, re::render::View>> = mk();
     let _ = re::render::cam::Camera::new((8, 8)).mode(a);
 }
 
-pub fn p777() {
+pub fn p783() {
     let a: re::math::mat::Mat4x4<re::math::mat::RealToReal<3, re::render::View, re::render::World>> = mk();
     let b: re::math::mat::Mat4x4<re::render::ModelToProj> = mk();
     let _ = a.then(&b);
 }
 
-pub fn p778() {
+pub fn p784() {
     let a: re::math::mat::Mat4x4<re::math::mat::RealToReal<3, re::render::View, re::render::World>> = mk();
     let b: re::math::mat::Mat4x4<re::render::ModelToView> = mk();
     let _ = a.then(&b);
 }
 
-pub fn p779() {
+pub fn p785() {
     let a: re::math::mat::Mat4x4<re::math::mat::RealToReal<3, re::render::View, re::render::World>> = mk();
     let b: re::math::mat::Mat4x4<re::render::ModelToWorld> = mk();
     let _ = a.then(&b);
 }
 
-pub fn p780() {
+pub fn p786() {
     let a: re::math::mat::Mat4x4<re::math::mat::RealToReal<3, re::render::View, re::render::World>> = mk();
     let b: re::math::mat::Mat4x4<re::render::ViewToProj> = mk();
     let _ = a.then(&b);
 }
 
-pub fn p782() {
+pub fn p788() {
     let a: re::math::mat::Mat4x4<re::math::mat::RealToReal<3, re::render::View, re::render::World>> = mk();
     let b: re::math::point::Point3<re::render::Model> = mk();
     let _ = a.apply(&b);
 }
 
-pub fn p783() {
+pub fn p789() {
     let a: re::math::mat::Mat4x4<re::math::mat::RealToReal<3, re::render::View, re::render::World>> = mk();
     let b: re::math::point::Point3<re::render::Model> = mk();
     let _ = a.apply_pt(&b);
 }
 
-pub fn p784() {
+pub fn p790() {
     let a: re::math::mat::Mat4x4<re::math::mat::RealToReal<3, re::render::View, re::render::World>> = mk();
     let b: re::math::point::Point3<re::render::View> = mk();
     let _ = a.apply(&b);
 }
 
-pub fn p786() {
+pub fn p792() {
     let a: re::math::mat::Mat4x4<re::math::mat::RealToReal<3, re::render::View, re::render::World>> = mk();
     let b: re::math::point::Point3<re::render::World> = mk();
     let _ = a.apply(&b);
 }
 
-pub fn p787() {
+pub fn p793() {
     let a: re::math::mat::Mat4x4<re::math::mat::RealToReal<3, re::render::View, re::render::World>> = mk();
     let b: re::math::point::Point3<re::render::World> = mk();
     let _ = a.apply_pt(&b);
 }
 
-pub fn p788() {
+pub fn p794() {
     let a: re::math::mat::Mat4x4<re::math::mat::RealToReal<3, re::render::View, re::render::World>> = mk();
     let _ = re::render::cam::Camera::new((8, 8)).mode(a);
 }
 
-pub fn p793() {
+pub fn p799() {
     let a: re::math::mat::Mat4x4<re::math::mat::RealToReal<3, re::render::World, re::render::Model>> = mk();
     let b: re::math::mat::Mat4x4<re::render::ViewToProj> = mk();
     let _ = a.then(&b);
 }
 
-pub fn p794() {
+pub fn p800() {
     let a: re::math::mat::Mat4x4<re::math::mat::RealToReal<3, re::render::World, re::render::Model>> = mk();
     let b: re::math::mat::Mat4x4<re::render::WorldToView> = mk();
     let _ = a.then(&b);
 }
 
-pub fn p795() {
+pub fn p801() {
     let a: re::math::mat::Mat4x4<re::math::mat::RealToReal<3, re::render::World, re::render::Model>> = mk();
     let b: re::math::mat::Mat4x4<re::math::mat::RealToReal<3, re::render::Model, re::render::Model>> = mk();
     let _r: re::math::mat::Mat4x4<re::math::mat::RealToReal<3, re::render::Model, re::render::Model>> = a.compose(&b);
 }
 
-pub fn p796() {
+pub fn p802() {
     let a: re::math::mat::Mat4x4<re::math::mat::RealToReal<3, re::render::World, re::render::Model>> = mk();
     let b: re::math::mat::Mat4x4<re::math::mat::RealToReal<3, re::render::Model, re::render::Model>> = mk();
     let _r: re::math::mat::Mat4x4<re::math::mat::RealToReal<3, re::render::Model, re::render::World>> = a.compose(&b);
 }
 
-pub fn p797() {
+pub fn p803() {
     let a: re::math::mat::Mat4x4<re::math::mat::RealToReal<3, re::render::World, re::render::Model>> = mk();
     let b: re::math::mat::Mat4x4<re::math::mat::RealToReal<3, re::render::Model, re::render::Model>> = mk();
     let _r: re::math::mat::Mat4x4<re::math::mat::RealToReal<3, re::render::World, re::render::Model>> = a.compose(&b);
-}
-
-pub fn p798() {
-    let a: re::math::mat::Mat4x4<re::math::mat::RealToReal<3, re::render::World, re::render::Model>> = mk();
-    let b: re::math::mat::Mat4x4<re::math::mat::RealToReal<3, re::render::Model, re::render::Model>> = mk();
-    let _r: re::math::mat::Mat4x4<re::math::mat::RealToReal<3, re::render::World, re::render::World>> = a.compose(&b);
-}
-
-pub fn p799() {
-    let a: re::math::mat::Mat4x4<re::math::mat::RealToReal<3, re::render::World, re::render::Model>> = mk();
-    let b: re::math::mat::Mat4x4<re::math::mat::RealToReal<3, re::render::Model, re::render::Model>> = mk();
-    let _ = a.compose(&b);
-}
-
-pub fn p801() {
-    let a: re::math::mat::Mat4x4<re::math::mat::RealToReal<3, re::render::World, re::render::Model>> = mk();
-    let b: re::math::mat::Mat4x4<re::math::mat::RealToReal<3, re::render::Model, ()>> = mk();
-    let _ = a.compose(&b);
 }
 
 pub fn p804() {
     let a: re::math::mat::Mat4x4<re::math::mat::RealToReal<3, re::render::World, re::render::Model>> = mk();
-    let b: re::math::mat::Mat4x4<re::math::mat::RealToReal<3, re::render::Model, re::render::World>> = mk();
-    let _r: re::math::mat::Mat4x4<re::math::mat::RealToReal<3, re::render::Model, re::render::World>> = a.compose(&b);
+    let b: re::math::mat::Mat4x4<re::math::mat::RealToReal<3, re::render::Model, re::render::Model>> = mk();
+    let _r: re::math::mat::Mat4x4<re::math::mat::RealToReal<3, re::render::World, re::render::World>> = a.compose(&b);
 }
 
 pub fn p805() {
     let a: re::math::mat::Mat4x4<re::math::mat::RealToReal<3, re::render::World, re::render::Model>> = mk();
-    let b: re::math::mat::Mat4x4<re::math::mat::RealToReal<3, re::render::Model, re::render::World>> = mk();
-    let _r: re::math::mat::Mat4x4<re::math::mat::RealToReal<3, re::render::World, re::render::Model>> = a.compose(&b);
+    let b: re::math::mat::Mat4x4<re::math::mat::RealToReal<3, re::render::Model, re::render::Model>> = mk();
+    let _ = a.compose(&b);
 }
 
-pub fn p806() {
+pub fn p807() {
     let a: re::math::mat::Mat4x4<re::math::mat::RealToReal<3, re::render::World, re::render::Model>> = mk();
-    let b: re::math::mat::Mat4x4<re::math::mat::RealToReal<3, re::render::Model, re::render::World>> = mk();
-    let _r: re::math::mat::Mat4x4<re::math::mat::RealToReal<3, re::render::World, re::render::World>> = a.compose(&b);
-}
-
-pub fn p809() {
-    let a: re::math::mat::Mat4x4<re::math::mat::RealToReal<3, re::render::World, re::render::Model>> = mk();
-    let b: re::math::mat::Mat4x4<re::math::mat::RealToReal<3, (), re::render::Model>> = mk();
+    let b: re::math::mat::Mat4x4<re::math::mat::RealToReal<3, re::render::Model, ()>> = mk();
     let _ = a.compose(&b);
 }
 
 pub fn p810() {
     let a: re::math::mat::Mat4x4<re::math::mat::RealToReal<3, re::render::World, re::render::Model>> = mk();
-    let b: re::math::mat::Mat4x4<re::math::mat::RealToReal<3, (), re::render::Model>> = mk();
-    let _ = a.then(&b);
+    let b: re::math::mat::Mat4x4<re::math::mat::RealToReal<3, re::render::Model, re::render::World>> = mk();
+    let _r: re::math::mat::Mat4x4<re::math::mat::RealToReal<3, re::render::Model, re::render::World>> = a.compose(&b);
 }
 
 pub fn p811() {
     let a: re::math::mat::Mat4x4<re::math::mat::RealToReal<3, re::render::World, re::render::Model>> = mk();
-    let b: re::math::mat::Mat4x4<re::math::mat::RealToReal<3, (), ()>> = mk();
-    let _ = a.compose(&b);
+    let b: re::math::mat::Mat4x4<re::math::mat::RealToReal<3, re::render::Model, re::render::World>> = mk();
+    let _r: re::math::mat::Mat4x4<re::math::mat::RealToReal<3, re::render::World, re::render::Model>> = a.compose(&b);
 }
 
 pub fn p812() {
     let a: re::math::mat::Mat4x4<re::math::mat::RealToReal<3, re::render::World, re::render::Model>> = mk();
-    let b: re::math::mat::Mat4x4<re::math::mat::RealToReal<3, (), ()>> = mk();
-    let _ = a.then(&b);
-}
-
-pub fn p813() {
-    let a: re::math::mat::Mat4x4<re::math::mat::RealToReal<3, re::render::World, re::render::Model>> = mk();
-    let b: re::math::mat::Mat4x4<re::math::mat::RealToReal<3, (), re::render::World>> = mk();
-    let _ = a.then(&b);
+    let b: re::math::mat::Mat4x4<re::math::mat::RealToReal<3, re::render::Model, re::render::World>> = mk();
+    let _r: re::math::mat::Mat4x4<re::math::mat::RealToReal<3, re::render::World, re::render::World>> = a.compose(&b);
 }
 
 pub fn p815() {
     let a: re::math::mat::Mat4x4<re::math::mat::RealToReal<3, re::render::World, re::render::Model>> = mk();
-    let b: re::math::mat::Mat4x4<re::math::mat::RealToReal<3, re::render::World, re::render::Model>> = mk();
-    let _r: re::math::mat::Mat4x4<re::math::mat::RealToReal<3, re::render::Model, re::render::Model>> = a.compose(&b);
+    let b: re::math::mat::Mat4x4<re::math::mat::RealToReal<3, (), re::render::Model>> = mk();
+    let _ = a.compose(&b);
 }
 
 pub fn p816() {
     let a: re::math::mat::Mat4x4<re::math::mat::RealToReal<3, re::render::World, re::render::Model>> = mk();
-    let b: re::math::mat::Mat4x4<re::math::mat::RealToReal<3, re::render::World, re::render::Model>> = mk();
-    let _r: re::math::mat::Mat4x4<re::math::mat::RealToReal<3, re::render::Model, re::render::World>> = a.compose(&b);
+    let b: re::math::mat::Mat4x4<re::math::mat::RealToReal<3, (), re::render::Model>> = mk();
+    let _ = a.then(&b);
 }
 
 pub fn p817() {
     let a: re::math::mat::Mat4x4<re::math::mat::RealToReal<3, re::render::World, re::render::Model>> = mk();
-    let b: re::math::mat::Mat4x4<re::math::mat::RealToReal<3, re::render::World, re::render::Model>> = mk();
-    let _r: re::math::mat::Mat4x4<re::math::mat::RealToReal<3, re::render::World, re::render::Model>> = a.compose(&b);
+    let b: re::math::mat::Mat4x4<re::math::mat::RealToReal<3, (), ()>> = mk();
+    let _ = a.compose(&b);
 }
 
 pub fn p818() {
     let a: re::math::mat::Mat4x4<re::math::mat::RealToReal<3, re::render::World, re::render::Model>> = mk();
-    let b: re::math::mat::Mat4x4<re::math::mat::RealToReal<3, re::render::World, re::render::Model>> = mk();
-    let _r: re::math::mat::Mat4x4<re::math::mat::RealToReal<3, re::render::World, re::render::World>> = a.compose(&b);
+    let b: re::math::mat::Mat4x4<re::math::mat::RealToReal<3, (), ()>> = mk();
+    let _ = a.then(&b);
 }
 
 pub fn p819() {
     let a: re::math::mat::Mat4x4<re::math::mat::RealToReal<3, re::render::World, re::render::Model>> = mk();
-    let b: re::math::mat::Mat4x4<re::math::mat::RealToReal<3, re::render::World, re::render::Model>> = mk();
-    let _ = a.compose(&b);
-}
-
-pub fn p820() {
-    let a: re::math::mat::Mat4x4<re::math::mat::RealToReal<3, re::render::World, re::render::Model>> = mk();
-    let b: re::math::mat::Mat4x4<re::math::mat::RealToReal<3, re::render::World, re::render::Model>> = mk();
+    let b: re::math::mat::Mat4x4<re::math::mat::RealToReal<3, (), re::render::World>> = mk();
     let _ = a.then(&b);
 }
 
 pub fn p821() {
     let a: re::math::mat::Mat4x4<re::math::mat::RealToReal<3, re::render::World, re::render::Model>> = mk();
-    let b: re::math::mat::Mat4x4<re::math::mat::RealToReal<3, re::render::World, ()>> = mk();
-    let _ = a.compose(&b);
+    let b: re::math::mat::Mat4x4<re::math::mat::RealToReal<3, re::render::World, re::render::Model>> = mk();
+    let _r: re::math::mat::Mat4x4<re::math::mat::RealToReal<3, re::render::Model, re::render::Model>> = a.compose(&b);
 }
 
 pub fn p822() {
     let a: re::math::mat::Mat4x4<re::math::mat::RealToReal<3, re::render::World, re::render::Model>> = mk();
-    let b: re::math::mat::Mat4x4<re::math::mat::RealToReal<3, re::render::World, ()>> = mk();
-    let _ = a.then(&b);
+    let b: re::math::mat::Mat4x4<re::math::mat::RealToReal<3, re::render::World, re::render::Model>> = mk();
+    let _r: re::math::mat::Mat4x4<re::math::mat::RealToReal<3, re::render::Model, re::render::World>> = a.compose(&b);
 }
 
 pub fn p823() {
     let a: re::math::mat::Mat4x4<re::math::mat::RealToReal<3, re::render::World, re::render::Model>> = mk();
-    let b: re::math::mat::Mat4x4<re::math::mat::RealToReal<3, re::render::World, re::render::World>> = mk();
-    let _r: re::math::mat::Mat4x4<re::math::mat::RealToReal<3, re::render::Model, re::render::Model>> = a.compose(&b);
+    let b: re::math::mat::Mat4x4<re::math::mat::RealToReal<3, re::render::World, re::render::Model>> = mk();
+    let _r: re::math::mat::Mat4x4<re::math::mat::RealToReal<3, re::render::World, re::render::Model>> = a.compose(&b);
 }
 
 pub fn p824() {
     let a: re::math::mat::Mat4x4<re::math::mat::RealToReal<3, re::render::World, re::render::Model>> = mk();
-    let b: re::math::mat::Mat4x4<re::math::mat::RealToReal<3, re::render::World, re::render::World>> = mk();
-    let _r: re::math::mat::Mat4x4<re::math::mat::RealToReal<3, re::render::Model, re::render::World>> = a.compose(&b);
+    let b: re::math::mat::Mat4x4<re::math::mat::RealToReal<3, re::render::World, re::render::Model>> = mk();
+    let _r: re::math::mat::Mat4x4<re::math::mat::RealToReal<3, re::render::World, re::render::World>> = a.compose(&b);
+}
+
+pub fn p825() {
+    let a: re::math::mat::Mat4x4<re::math::mat::RealToReal<3, re::render::World, re::render::Model>> = mk();
+    let b: re::math::mat::Mat4x4<re::math::mat::RealToReal<3, re::render::World, re::render::Model>> = mk();
+    let _ = a.compose(&b);
 }
 
 pub fn p826() {
     let a: re::math::mat::Mat4x4<re::math::mat::RealToReal<3, re::render::World, re::render::Model>> = mk();
-    let b: re::math::mat::Mat4x4<re::math::mat::RealToReal<3, re::render::World, re::render::World>> = mk();
-    let _r: re::math::mat::Mat4x4<re::math::mat::RealToReal<3, re::render::World, re::render::World>> = a.compose(&b);
+    let b: re::math::mat::Mat4x4<re::math::mat::RealToReal<3, re::render::World, re::render::Model>> = mk();
+    let _ = a.then(&b);
 }
 
 pub fn p827() {
     let a: re::math::mat::Mat4x4<re::math::mat::RealToReal<3, re::render::World, re::render::Model>> = mk();
-    let b: re::math::mat::Mat4x4<re::math::mat::RealToReal<3, re::render::World, re::render::World>> = mk();
+    let b: re::math::mat::Mat4x4<re::math::mat::RealToReal<3, re::render::World, ()>> = mk();
+    let _ = a.compose(&b);
+}
+
+pub fn p828() {
+    let a: re::math::mat::Mat4x4<re::math::mat::RealToReal<3, re::render::World, re::render::Model>> = mk();
+    let b: re::math::mat::Mat4x4<re::math::mat::RealToReal<3, re::render::World, ()>> = mk();
     let _ = a.then(&b);
 }
 
 pub fn p829() {
     let a: re::math::mat::Mat4x4<re::math::mat::RealToReal<3, re::render::World, re::render::Model>> = mk();
-    let b: re::math::mat::Mat4x4<re::math::mat::RealToProj<re::render::Model>> = mk();
-    let _ = a.compose(&b);
+    let b: re::math::mat::Mat4x4<re::math::mat::RealToReal<3, re::render::World, re::render::World>> = mk();
+    let _r: re::math::mat::Mat4x4<re::math::mat::RealToReal<3, re::render::Model, re::render::Model>> = a.compose(&b);
 }
 
-pub fn p831() {
+pub fn p830() {
     let a: re::math::mat::Mat4x4<re::math::mat::RealToReal<3, re::render::World, re::render::Model>> = mk();
-    let b: re::math::mat::Mat4x4<re::math::mat::RealToProj<()>> = mk();
-    let _ = a.compose(&b);
+    let b: re::math::mat::Mat4x4<re::math::mat::RealToReal<3, re::render::World, re::render::World>> = mk();
+    let _r: re::math::mat::Mat4x4<re::math::mat::RealToReal<3, re::render::Model, re::render::World>> = a.compose(&b);
 }
 
 pub fn p832() {
     let a: re::math::mat::Mat4x4<re::math::mat::RealToReal<3, re::render::World, re::render::Model>> = mk();
-    let b: re::math::mat::Mat4x4<re::math::mat::RealToProj<()>> = mk();
-    let _ = a.then(&b);
+    let b: re::math::mat::Mat4x4<re::math::mat::RealToReal<3, re::render::World, re::render::World>> = mk();
+    let _r: re::math::mat::Mat4x4<re::math::mat::RealToReal<3, re::render::World, re::render::World>> = a.compose(&b);
 }
 
 pub fn p833() {
     let a: re::math::mat::Mat4x4<re::math::mat::RealToReal<3, re::render::World, re::render::Model>> = mk();
-    let b: re::math::mat::Mat4x4<re::math::mat::RealToProj<re::render::World>> = mk();
-    let _ = a.compose(&b);
-}
-
-pub fn p834() {
-    let a: re::math::mat::Mat4x4<re::math::mat::RealToReal<3, re::render::World, re::render::Model>> = mk();
-    let b: re::math::mat::Mat4x4<re::math::mat::RealToProj<re::render::World>> = mk();
+    let b: re::math::mat::Mat4x4<re::math::mat::RealToReal<3, re::render::World, re::render::World>> = mk();
     let _ = a.then(&b);
 }
 
 pub fn p835() {
     let a: re::math::mat::Mat4x4<re::math::mat::RealToReal<3, re::render::World, re::render::Model>> = mk();
-    let b: re::math::point::Point2<re::render::Model> = mk();
-    let _ = a.apply_pt(&b);
-}
-
-pub fn p836() {
-    let a: re::math::mat::Mat4x4<re::math::mat::RealToReal<3, re::render::World, re::render::Model>> = mk();
-    let b: re::math::point::Point2<()> = mk();
-    let _ = a.apply_pt(&b);
+    let b: re::math::mat::Mat4x4<re::math::mat::RealToProj<re::render::Model>> = mk();
+    let _ = a.compose(&b);
 }
 
 pub fn p837() {
     let a: re::math::mat::Mat4x4<re::math::mat::RealToReal<3, re::render::World, re::render::Model>> = mk();
-    let b: re::math::point::Point2<re::render::World> = mk();
-    let _ = a.apply_pt(&b);
+    let b: re::math::mat::Mat4x4<re::math::mat::RealToProj<()>> = mk();
+    let _ = a.compose(&b);
 }
 
 pub fn p838() {
     let a: re::math::mat::Mat4x4<re::math::mat::RealToReal<3, re::render::World, re::render::Model>> = mk();
-    let b: re::math::point::Point3<re::render::Model> = mk();
-    let _r: re::math::point::Point3<re::render::Model> = a.apply_pt(&b);
+    let b: re::math::mat::Mat4x4<re::math::mat::RealToProj<()>> = mk();
+    let _ = a.then(&b);
 }
 
 pub fn p839() {
     let a: re::math::mat::Mat4x4<re::math::mat::RealToReal<3, re::render::World, re::render::Model>> = mk();
-    let b: re::math::point::Point3<re::render::Model> = mk();
-    let _r: re::math::point::Point3<()> = a.apply_pt(&b);
+    let b: re::math::mat::Mat4x4<re::math::mat::RealToProj<re::render::World>> = mk();
+    let _ = a.compose(&b);
 }
 
 pub fn p840() {
     let a: re::math::mat::Mat4x4<re::math::mat::RealToReal<3, re::render::World, re::render::Model>> = mk();
-    let b: re::math::point::Point3<re::render::Model> = mk();
-    let _r: re::math::point::Point3<re::render::World> = a.apply_pt(&b);
+    let b: re::math::mat::Mat4x4<re::math::mat::RealToProj<re::render::World>> = mk();
+    let _ = a.then(&b);
 }
 
 pub fn p841() {
     let a: re::math::mat::Mat4x4<re::math::mat::RealToReal<3, re::render::World, re::render::Model>> = mk();
-    let b: re::math::point::Point3<re::render::Model> = mk();
-    let _ = a.apply(&b);
+    let b: re::math::point::Point2<re::render::Model> = mk();
+    let _ = a.apply_pt(&b);
 }
 
 pub fn p842() {
     let a: re::math::mat::Mat4x4<re::math::mat::RealToReal<3, re::render::World, re::render::Model>> = mk();
-    let b: re::math::point::Point3<re::render::Model> = mk();
+    let b: re::math::point::Point2<()> = mk();
     let _ = a.apply_pt(&b);
 }
 
 pub fn p843() {
     let a: re::math::mat::Mat4x4<re::math::mat::RealToReal<3, re::render::World, re::render::Model>> = mk();
-    let b: re::math::point::Point3<()> = mk();
-    let _r: re::math::point::Point3<re::render::Model> = a.apply_pt(&b);
+    let b: re::math::point::Point2<re::render::World> = mk();
+    let _ = a.apply_pt(&b);
 }
 
 pub fn p844() {
     let a: re::math::mat::Mat4x4<re::math::mat::RealToReal<3, re::render::World, re::render::Model>> = mk();
-    let b: re::math::point::Point3<()> = mk();
-    let _r: re::math::point::Point3<()> = a.apply_pt(&b);
+    let b: re::math::point::Point3<re::render::Model> = mk();
+    let _r: re::math::point::Point3<re::render::Model> = a.apply_pt(&b);
 }
 
 pub fn p845() {
     let a: re::math::mat::Mat4x4<re::math::mat::RealToReal<3, re::render::World, re::render::Model>> = mk();
-    let b: re::math::point::Point3<()> = mk();
-    let _r: re::math::point::Point3<re::render::World> = a.apply_pt(&b);
+    let b: re::math::point::Point3<re::render::Model> = mk();
+    let _r: re::math::point::Point3<()> = a.apply_pt(&b);
 }
 
 pub fn p846() {
     let a: re::math::mat::Mat4x4<re::math::mat::RealToReal<3, re::render::World, re::render::Model>> = mk();
-    let b: re::math::point::Point3<()> = mk();
-    let _ = a.apply_pt(&b);
+    let b: re::math::point::Point3<re::render::Model> = mk();
+    let _r: re::math::point::Point3<re::render::World> = a.apply_pt(&b);
 }
 
 pub fn p847() {
     let a: re::math::mat::Mat4x4<re::math::mat::RealToReal<3, re::render::World, re::render::Model>> = mk();
-    let b: re::math::point::Point3<re::render::View> = mk();
+    let b: re::math::point::Point3<re::render::Model> = mk();
     let _ = a.apply(&b);
 }
 
 pub fn p848() {
     let a: re::math::mat::Mat4x4<re::math::mat::RealToReal<3, re::render::World, re::render::Model>> = mk();
-    let b: re::math::point::Point3<re::render::View> = mk();
+    let b: re::math::point::Point3<re::render::Model> = mk();
     let _ = a.apply_pt(&b);
+}
+
+pub fn p849() {
+    let a: re::math::mat::Mat4x4<re::math::mat::RealToReal<3, re::render::World, re::render::Model>> = mk();
+    let b: re::math::point::Point3<()> = mk();
+    let _r: re::math::point::Point3<re::render::Model> = a.apply_pt(&b);
 }
 
 pub fn p850() {
     let a: re::math::mat::Mat4x4<re::math::mat::RealToReal<3, re::render::World, re::render::Model>> = mk();
-    let b: re::math::point::Point3<re::render::World> = mk();
+    let b: re::math::point::Point3<()> = mk();
     let _r: re::math::point::Point3<()> = a.apply_pt(&b);
 }
 
 pub fn p851() {
     let a: re::math::mat::Mat4x4<re::math::mat::RealToReal<3, re::render::World, re::render::Model>> = mk();
-    let b: re::math::point::Point3<re::render::World> = mk();
+    let b: re::math::point::Point3<()> = mk();
     let _r: re::math::point::Point3<re::render::World> = a.apply_pt(&b);
 }
 
 pub fn p852() {
     let a: re::math::mat::Mat4x4<re::math::mat::RealToReal<3, re::render::World, re::render::Model>> = mk();
-    let b: re::math::point::Point3<re::render::World> = mk();
+    let b: re::math::point::Point3<()> = mk();
+    let _ = a.apply_pt(&b);
+}
+
+pub fn p853() {
+    let a: re::math::mat::Mat4x4<re::math::mat::RealToReal<3, re::render::World, re::render::Model>> = mk();
+    let b: re::math::point::Point3<re::render::View> = mk();
     let _ = a.apply(&b);
 }
 
 pub fn p854() {
     let a: re::math::mat::Mat4x4<re::math::mat::RealToReal<3, re::render::World, re::render::Model>> = mk();
-    let b: re::math::vec::Vec2<re::render::Model> = mk();
-    let _ = a.apply(&b);
-}
-
-pub fn p855() {
-    let a: re::math::mat::Mat4x4<re::math::mat::RealToReal<3, re::render::World, re::render::Model>> = mk();
-    let b: re::math::vec::Vec2<()> = mk();
-    let _ = a.apply(&b);
+    let b: re::math::point::Point3<re::render::View> = mk();
+    let _ = a.apply_pt(&b);
 }
 
 pub fn p856() {
     let a: re::math::mat::Mat4x4<re::math::mat::RealToReal<3, re::render::World, re::render::Model>> = mk();
-    let b: re::math::vec::Vec2<re::render::World> = mk();
-    let _ = a.apply(&b);
+    let b: re::math::point::Point3<re::render::World> = mk();
+    let _r: re::math::point::Point3<()> = a.apply_pt(&b);
 }
 
 pub fn p857() {
     let a: re::math::mat::Mat4x4<re::math::mat::RealToReal<3, re::render::World, re::render::Model>> = mk();
-    let b: re::math::vec::Vec3<re::render::Model> = mk();
-    let _r: re::math::vec::Vec3<re::render::Model> = a.apply(&b);
+    let b: re::math::point::Point3<re::render::World> = mk();
+    let _r: re::math::point::Point3<re::render::World> = a.apply_pt(&b);
 }
 
 pub fn p858() {
     let a: re::math::mat::Mat4x4<re::math::mat::RealToReal<3, re::render::World, re::render::Model>> = mk();
-    let b: re::math::vec::Vec3<re::render::Model> = mk();
-    let _r: re::math::vec::Vec3<()> = a.apply(&b);
-}
-
-pub fn p859() {
-    let a: re::math::mat::Mat4x4<re::math::mat::RealToReal<3, re::render::World, re::render::Model>> = mk();
-    let b: re::math::vec::Vec3<re::render::Model> = mk();
-    let _r: re::math::vec::Vec3<re::render::World> = a.apply(&b);
+    let b: re::math::point::Point3<re::render::World> = mk();
+    let _ = a.apply(&b);
 }
 
 pub fn p860() {
     let a: re::math::mat::Mat4x4<re::math::mat::RealToReal<3, re::render::World, re::render::Model>> = mk();
-    let b: re::math::vec::Vec3<re::render::Model> = mk();
+    let b: re::math::vec::Vec2<re::render::Model> = mk();
     let _ = a.apply(&b);
 }
 
 pub fn p861() {
     let a: re::math::mat::Mat4x4<re::math::mat::RealToReal<3, re::render::World, re::render::Model>> = mk();
+    let b: re::math::vec::Vec2<()> = mk();
+    let _ = a.apply(&b);
+}
+
+pub fn p862() {
+    let a: re::math::mat::Mat4x4<re::math::mat::RealToReal<3, re::render::World, re::render::Model>> = mk();
+    let b: re::math::vec::Vec2<re::render::World> = mk();
+    let _ = a.apply(&b);
+}
+
+pub fn p863() {
+    let a: re::math::mat::Mat4x4<re::math::mat::RealToReal<3, re::render::World, re::render::Model>> = mk();
+    let b: re::math::vec::Vec3<re::render::Model> = mk();
+    let _r: re::math::vec::Vec3<re::render::Model> = a.apply(&b);
+}
+
+pub fn p864() {
+    let a: re::math::mat::Mat4x4<re::math::mat::RealToReal<3, re::render::World, re::render::Model>> = mk();
+    let b: re::math::vec::Vec3<re::render::Model> = mk();
+    let _r: re::math::vec::Vec3<()> = a.apply(&b);
+}
+
+pub fn p865() {
+    let a: re::math::mat::Mat4x4<re::math::mat::RealToReal<3, re::render::World, re::render::Model>> = mk();
+    let b: re::math::vec::Vec3<re::render::Model> = mk();
+    let _r: re::math::vec::Vec3<re::render::World> = a.apply(&b);
+}
+
+pub fn p866() {
+    let a: re::math::mat::Mat4x4<re::math::mat::RealToReal<3, re::render::World, re::render::Model>> = mk();
+    let b: re::math::vec::Vec3<re::render::Model> = mk();
+    let _ = a.apply(&b);
+}
+
+pub fn p867() {
+    let a: re::math::mat::Mat4x4<re::math::mat::RealToReal<3, re::render::World, re::render::Model>> = mk();
     let b: re::math::vec::Vec3<()> = mk();
     let _r: re::math::vec::Vec3<re::render::Model> = a.apply(&b);
 }
 
-pub fn p862() {
+pub fn p868() {
     let a: re::math::mat::Mat4x4<re::math::mat::RealToReal<3, re::render::World, re::render::Model>> = mk();
     let b: re::math::vec::Vec3<()> = mk();
     let _r: re::math::vec::Vec3<()> = a.apply(&b);
 }
 
-pub fn p863() {
+pub fn p869() {
     let a: re::math::mat::Mat4x4<re::math::mat::RealToReal<3, re::render::World, re::render::Model>> = mk();
     let b: re::math::vec::Vec3<()> = mk();
     let _r: re::math::vec::Vec3<re::render::World> = a.apply(&b);
 }
 
-pub fn p864() {
+pub fn p870() {
     let a: re::math::mat::Mat4x4<re::math::mat::RealToReal<3, re::render::World, re::render::Model>> = mk();
     let b: re::math::vec::Vec3<()> = mk();
     let _ = a.apply(&b);
 }
 
-pub fn p866() {
+pub fn p872() {
     let a: re::math::mat::Mat4x4<re::math::mat::RealToReal<3, re::render::World, re::render::Model>> = mk();
     let b: re::math::vec::Vec3<re::render::World> = mk();
     let _r: re::math::vec::Vec3<()> = a.apply(&b);
 }
 
-pub fn p867() {
+pub fn p873() {
     let a: re::math::mat::Mat4x4<re::math::mat::RealToReal<3, re::render::World, re::render::Model>> = mk();
     let b: re::math::vec::Vec3<re::render::World> = mk();
     let _r: re::math::vec::Vec3<re::render::World> = a.apply(&b);
 }
 
-pub fn p869() {
+pub fn p875() {
     let a: re::math::mat::Mat4x4<re::math::mat::RealToReal<3, re::render::World, re::render::Model>> = mk();
     let _ = re::render::cam::Camera::new((8, 8)).mode(a);
 }
 
-pub fn p874() {
+pub fn p880() {
     let a: re::math::mat::Mat4x4<re::math::mat::RealToReal<3, re::render::World, ()>> = mk();
     let b: re::math::mat::Mat4x4<re::math::mat::RealToReal<3, re::render::Model, re::render::Model>> = mk();
     let _ = a.compose(&b);
 }
 
-pub fn p875() {
+pub fn p881() {
     let a: re::math::mat::Mat4x4<re::math::mat::RealToReal<3, re::render::World, ()>> = mk();
     let b: re::math::mat::Mat4x4<re::math::mat::RealToReal<3, re::render::Model, re::render::Model>> = mk();
     let _ = a.then(&b);
 }
 
-pub fn p876() {
+pub fn p882() {
     let a: re::math::mat::Mat4x4<re::math::mat::RealToReal<3, re::render::World, ()>> = mk();
     let b: re::math::mat::Mat4x4<re::math::mat::RealToReal<3, re::render::Model, ()>> = mk();
     let _ = a.compose(&b);
 }
 
-pub fn p877() {
+pub fn p883() {
     let a: re::math::mat::Mat4x4<re::math::mat::RealToReal<3, re::render::World, ()>> = mk();
     let b: re::math::mat::Mat4x4<re::math::mat::RealToReal<3, re::render::Model, ()>> = mk();
     let _ = a.then(&b);
 }
 
-pub fn p878() {
+pub fn p884() {
     let a: re::math::mat::Mat4x4<re::math::mat::RealToReal<3, re::render::World, ()>> = mk();
     let b: re::math::mat::Mat4x4<re::math::mat::RealToReal<3, re::render::Model, re::render::World>> = mk();
     let _ = a.then(&b);
 }
 
-pub fn p880() {
+pub fn p886() {
     let a: re::math::mat::Mat4x4<re::math::mat::RealToReal<3, re::render::World, ()>> = mk();
     let b: re::math::mat::Mat4x4<re::math::mat::RealToReal<3, (), re::render::Model>> = mk();
     let _ = a.compose(&b);
 }
 
-pub fn p882() {
+pub fn p888() {
     let a: re::math::mat::Mat4x4<re::math::mat::RealToReal<3, re::render::World, ()>> = mk();
     let b: re::math::mat::Mat4x4<re::math::mat::RealToReal<3, (), ()>> = mk();
     let _ = a.compose(&b);
 }
 
-pub fn p886() {
-    let a: re::math::mat::Mat4x4<re::math::mat::RealToReal<3, re::render::World, ()>> = mk();
-    let b: re::math::mat::Mat4x4<re::math::mat::RealToReal<3, re::render::World, re::render::Model>> = mk();
-    let _ = a.compose(&b);
-}
-
-pub fn p887() {
-    let a: re::math::mat::Mat4x4<re::math::mat::RealToReal<3, re::render::World, ()>> = mk();
-    let b: re::math::mat::Mat4x4<re::math::mat::RealToReal<3, re::render::World, re::render::Model>> = mk();
-    let _ = a.then(&b);
-}
-
-pub fn p888() {
-    let a: re::math::mat::Mat4x4<re::math::mat::RealToReal<3, re::render::World, ()>> = mk();
-    let b: re::math::mat::Mat4x4<re::math::mat::RealToReal<3, re::render::World, ()>> = mk();
-    let _ = a.compose(&b);
-}
-
-pub fn p889() {
-    let a: re::math::mat::Mat4x4<re::math::mat::RealToReal<3, re::render::World, ()>> = mk();
-    let b: re::math::mat::Mat4x4<re::math::mat::RealToReal<3, re::render::World, ()>> = mk();
-    let _ = a.then(&b);
-}
-
-pub fn p890() {
-    let a: re::math::mat::Mat4x4<re::math::mat::RealToReal<3, re::render::World, ()>> = mk();
-    let b: re::math::mat::Mat4x4<re::math::mat::RealToReal<3, re::render::World, re::render::World>> = mk();
-    let _ = a.then(&b);
-}
-
 pub fn p892() {
     let a: re::math::mat::Mat4x4<re::math::mat::RealToReal<3, re::render::World, ()>> = mk();
-    let b: re::math::mat::Mat4x4<re::math::mat::RealToProj<re::render::Model>> = mk();
+    let b: re::math::mat::Mat4x4<re::math::mat::RealToReal<3, re::render::World, re::render::Model>> = mk();
     let _ = a.compose(&b);
 }
 
 pub fn p893() {
     let a: re::math::mat::Mat4x4<re::math::mat::RealToReal<3, re::render::World, ()>> = mk();
-    let b: re::math::mat::Mat4x4<re::math::mat::RealToProj<re::render::Model>> = mk();
+    let b: re::math::mat::Mat4x4<re::math::mat::RealToReal<3, re::render::World, re::render::Model>> = mk();
     let _ = a.then(&b);
 }
 
 pub fn p894() {
     let a: re::math::mat::Mat4x4<re::math::mat::RealToReal<3, re::render::World, ()>> = mk();
-    let b: re::math::mat::Mat4x4<re::math::mat::RealToProj<()>> = mk();
+    let b: re::math::mat::Mat4x4<re::math::mat::RealToReal<3, re::render::World, ()>> = mk();
     let _ = a.compose(&b);
+}
+
+pub fn p895() {
+    let a: re::math::mat::Mat4x4<re::math::mat::RealToReal<3, re::render::World, ()>> = mk();
+    let b: re::math::mat::Mat4x4<re::math::mat::RealToReal<3, re::render::World, ()>> = mk();
+    let _ = a.then(&b);
 }
 
 pub fn p896() {
     let a: re::math::mat::Mat4x4<re::math::mat::RealToReal<3, re::render::World, ()>> = mk();
-    let b: re::math::mat::Mat4x4<re::math::mat::RealToProj<re::render::World>> = mk();
-    let _ = a.compose(&b);
-}
-
-pub fn p897() {
-    let a: re::math::mat::Mat4x4<re::math::mat::RealToReal<3, re::render::World, ()>> = mk();
-    let b: re::math::mat::Mat4x4<re::math::mat::RealToProj<re::render::World>> = mk();
+    let b: re::math::mat::Mat4x4<re::math::mat::RealToReal<3, re::render::World, re::render::World>> = mk();
     let _ = a.then(&b);
 }
 
 pub fn p898() {
     let a: re::math::mat::Mat4x4<re::math::mat::RealToReal<3, re::render::World, ()>> = mk();
-    let b: re::math::point::Point2<re::render::Model> = mk();
-    let _ = a.apply_pt(&b);
+    let b: re::math::mat::Mat4x4<re::math::mat::RealToProj<re::render::Model>> = mk();
+    let _ = a.compose(&b);
 }
 
 pub fn p899() {
     let a: re::math::mat::Mat4x4<re::math::mat::RealToReal<3, re::render::World, ()>> = mk();
-    let b: re::math::point::Point2<()> = mk();
-    let _ = a.apply_pt(&b);
+    let b: re::math::mat::Mat4x4<re::math::mat::RealToProj<re::render::Model>> = mk();
+    let _ = a.then(&b);
 }
 
 pub fn p900() {
     let a: re::math::mat::Mat4x4<re::math::mat::RealToReal<3, re::render::World, ()>> = mk();
-    let b: re::math::point::Point2<re::render::World> = mk();
-    let _ = a.apply_pt(&b);
-}
-
-pub fn p901() {
-    let a: re::math::mat::Mat4x4<re::math::mat::RealToReal<3, re::render::World, ()>> = mk();
-    let b: re::math::point::Point3<re::render::Model> = mk();
-    let _r: re::math::point::Point3<re::render::Model> = a.apply_pt(&b);
+    let b: re::math::mat::Mat4x4<re::math::mat::RealToProj<()>> = mk();
+    let _ = a.compose(&b);
 }
 
 pub fn p902() {
     let a: re::math::mat::Mat4x4<re::math::mat::RealToReal<3, re::render::World, ()>> = mk();
-    let b: re::math::point::Point3<re::render::Model> = mk();
-    let _r: re::math::point::Point3<()> = a.apply_pt(&b);
+    let b: re::math::mat::Mat4x4<re::math::mat::RealToProj<re::render::World>> = mk();
+    let _ = a.compose(&b);
 }
 
 pub fn p903() {
     let a: re::math::mat::Mat4x4<re::math::mat::RealToReal<3, re::render::World, ()>> = mk();
-    let b: re::math::point::Point3<re::render::Model> = mk();
-    let _r: re::math::point::Point3<re::render::World> = a.apply_pt(&b);
+    let b: re::math::mat::Mat4x4<re::math::mat::RealToProj<re::render::World>> = mk();
+    let _ = a.then(&b);
 }
 
 pub fn p904() {
     let a: re::math::mat::Mat4x4<re::math::mat::RealToReal<3, re::render::World, ()>> = mk();
-    let b: re::math::point::Point3<re::render::Model> = mk();
+    let b: re::math::point::Point2<re::render::Model> = mk();
     let _ = a.apply_pt(&b);
 }
 
 pub fn p905() {
     let a: re::math::mat::Mat4x4<re::math::mat::RealToReal<3, re::render::World, ()>> = mk();
+    let b: re::math::point::Point2<()> = mk();
+    let _ = a.apply_pt(&b);
+}
+
+pub fn p906() {
+    let a: re::math::mat::Mat4x4<re::math::mat::RealToReal<3, re::render::World, ()>> = mk();
+    let b: re::math::point::Point2<re::render::World> = mk();
+    let _ = a.apply_pt(&b);
+}
+
+pub fn p907() {
+    let a: re::math::mat::Mat4x4<re::math::mat::RealToReal<3, re::render::World, ()>> = mk();
+    let b: re::math::point::Point3<re::render::Model> = mk();
+    let _r: re::math::point::Point3<re::render::Model> = a.apply_pt(&b);
+}
+
+pub fn p908() {
+    let a: re::math::mat::Mat4x4<re::math::mat::RealToReal<3, re::render::World, ()>> = mk();
+    let b: re::math::point::Point3<re::render::Model> = mk();
+    let _r: re::math::point::Point3<()> = a.apply_pt(&b);
+}
+
+pub fn p909() {
+    let a: re::math::mat::Mat4x4<re::math::mat::RealToReal<3, re::render::World, ()>> = mk();
+    let b: re::math::point::Point3<re::render::Model> = mk();
+    let _r: re::math::point::Point3<re::render::World> = a.apply_pt(&b);
+}
+
+pub fn p910() {
+    let a: re::math::mat::Mat4x4<re::math::mat::RealToReal<3, re::render::World, ()>> = mk();
+    let b: re::math::point::Point3<re::render::Model> = mk();
+    let _ = a.apply_pt(&b);
+}
+
+pub fn p911() {
+    let a: re::math::mat::Mat4x4<re::math::mat::RealToReal<3, re::render::World, ()>> = mk();
     let b: re::math::point::Point3<()> = mk();
     let _r: re::math::point::Point3<re::render::Model> = a.apply_pt(&b);
 }
 
-pub fn p906() {
+pub fn p912() {
     let a: re::math::mat::Mat4x4<re::math::mat::RealToReal<3, re::render::World, ()>> = mk();
     let b: re::math::point::Point3<()> = mk();
     let _r: re::math::point::Point3<()> = a.apply_pt(&b);
 }
 
-pub fn p907() {
+pub fn p913() {
     let a: re::math::mat::Mat4x4<re::math::mat::RealToReal<3, re::render::World, ()>> = mk();
     let b: re::math::point::Point3<()> = mk();
     let _r: re::math::point::Point3<re::render::World> = a.apply_pt(&b);
 }
 
-pub fn p908() {
+pub fn p914() {
     let a: re::math::mat::Mat4x4<re::math::mat::RealToReal<3, re::render::World, ()>> = mk();
     let b: re::math::point::Point3<()> = mk();
     let _ = a.apply_pt(&b);
 }
 
-pub fn p909() {
+pub fn p915() {
     let a: re::math::mat::Mat4x4<re::math::mat::RealToReal<3, re::render::World, ()>> = mk();
     let b: re::math::point::Point3<re::render::World> = mk();
     let _r: re::math::point::Point3<re::render::Model> = a.apply_pt(&b);
 }
 
-pub fn p911() {
+pub fn p917() {
     let a: re::math::mat::Mat4x4<re::math::mat::RealToReal<3, re::render::World, ()>> = mk();
     let b: re::math::point::Point3<re::render::World> = mk();
     let _r: re::math::point::Point3<re::render::World> = a.apply_pt(&b);
 }
 
-pub fn p913() {
-    let a: re::math::mat::Mat4x4<re::math::mat::RealToReal<3, re::render::World, ()>> = mk();
-    let b: re::math::vec::Vec2<re::render::Model> = mk();
-    let _ = a.apply(&b);
-}
-
-pub fn p914() {
-    let a: re::math::mat::Mat4x4<re::math::mat::RealToReal<3, re::render::World, ()>> = mk();
-    let b: re::math::vec::Vec2<()> = mk();
-    let _ = a.apply(&b);
-}
-
-pub fn p915() {
-    let a: re::math::mat::Mat4x4<re::math::mat::RealToReal<3, re::render::World, ()>> = mk();
-    let b: re::math::vec::Vec2<re::render::World> = mk();
-    let _ = a.apply(&b);
-}
-
-pub fn p916() {
-    let a: re::math::mat::Mat4x4<re::math::mat::RealToReal<3, re::render::World, ()>> = mk();
-    let b: re::math::vec::Vec3<re::render::Model> = mk();
-    let _r: re::math::vec::Vec3<re::render::Model> = a.apply(&b);
-}
-
-pub fn p917() {
-    let a: re::math::mat::Mat4x4<re::math::mat::RealToReal<3, re::render::World, ()>> = mk();
-    let b: re::math::vec::Vec3<re::render::Model> = mk();
-    let _r: re::math::vec::Vec3<()> = a.apply(&b);
-}
-
-pub fn p918() {
-    let a: re::math::mat::Mat4x4<re::math::mat::RealToReal<3, re::render::World, ()>> = mk();
-    let b: re::math::vec::Vec3<re::render::Model> = mk();
-    let _r: re::math::vec::Vec3<re::render::World> = a.apply(&b);
-}
-
 pub fn p919() {
     let a: re::math::mat::Mat4x4<re::math::mat::RealToReal<3, re::render::World, ()>> = mk();
-    let b: re::math::vec::Vec3<re::render::Model> = mk();
+    let b: re::math::vec::Vec2<re::render::Model> = mk();
     let _ = a.apply(&b);
 }
 
 pub fn p920() {
     let a: re::math::mat::Mat4x4<re::math::mat::RealToReal<3, re::render::World, ()>> = mk();
+    let b: re::math::vec::Vec2<()> = mk();
+    let _ = a.apply(&b);
+}
+
+pub fn p921() {
+    let a: re::math::mat::Mat4x4<re::math::mat::RealToReal<3, re::render::World, ()>> = mk();
+    let b: re::math::vec::Vec2<re::render::World> = mk();
+    let _ = a.apply(&b);
+}
+
+pub fn p922() {
+    let a: re::math::mat::Mat4x4<re::math::mat::RealToReal<3, re::render::World, ()>> = mk();
+    let b: re::math::vec::Vec3<re::render::Model> = mk();
+    let _r: re::math::vec::Vec3<re::render::Model> = a.apply(&b);
+}
+
+pub fn p923() {
+    let a: re::math::mat::Mat4x4<re::math::mat::RealToReal<3, re::render::World, ()>> = mk();
+    let b: re::math::vec::Vec3<re::render::Model> = mk();
+    let _r: re::math::vec::Vec3<()> = a.apply(&b);
+}
+
+pub fn p924() {
+    let a: re::math::mat::Mat4x4<re::math::mat::RealToReal<3, re::render::World, ()>> = mk();
+    let b: re::math::vec::Vec3<re::render::Model> = mk();
+    let _r: re::math::vec::Vec3<re::render::World> = a.apply(&b);
+}
+
+pub fn p925() {
+    let a: re::math::mat::Mat4x4<re::math::mat::RealToReal<3, re::render::World, ()>> = mk();
+    let b: re::math::vec::Vec3<re::render::Model> = mk();
+    let _ = a.apply(&b);
+}
+
+pub fn p926() {
+    let a: re::math::mat::Mat4x4<re::math::mat::RealToReal<3, re::render::World, ()>> = mk();
     let b: re::math::vec::Vec3<()> = mk();
     let _r: re::math::vec::Vec3<re::render::Model> = a.apply(&b);
 }
 
-pub fn p921() {
+pub fn p927() {
     let a: re::math::mat::Mat4x4<re::math::mat::RealToReal<3, re::render::World, ()>> = mk();
     let b: re::math::vec::Vec3<()> = mk();
     let _r: re::math::vec::Vec3<()> = a.apply(&b);
 }
 
-pub fn p922() {
+pub fn p928() {
     let a: re::math::mat::Mat4x4<re::math::mat::RealToReal<3, re::render::World, ()>> = mk();
     let b: re::math::vec::Vec3<()> = mk();
     let _r: re::math::vec::Vec3<re::render::World> = a.apply(&b);
 }
 
-pub fn p923() {
+pub fn p929() {
     let a: re::math::mat::Mat4x4<re::math::mat::RealToReal<3, re::render::World, ()>> = mk();
     let b: re::math::vec::Vec3<()> = mk();
     let _ = a.apply(&b);
 }
 
-pub fn p924() {
+pub fn p930() {
     let a: re::math::mat::Mat4x4<re::math::mat::RealToReal<3, re::render::World, ()>> = mk();
     let b: re::math::vec::Vec3<re::render::World> = mk();
     let _r: re::math::vec::Vec3<re::render::Model> = a.apply(&b);
 }
 
-pub fn p926() {
+pub fn p932() {
     let a: re::math::mat::Mat4x4<re::math::mat::RealToReal<3, re::render::World, ()>> = mk();
     let b: re::math::vec::Vec3<re::render::World> = mk();
     let _r: re::math::vec::Vec3<re::render::World> = a.apply(&b);
 }
 
-pub fn p931() {
+pub fn p937() {
     let a: re::math::mat::Mat4x4<re::math::mat::RealToReal<3, re::render::World, crate::UserTag>> = mk();
     let b: re::math::mat::Mat4x4<re::math::mat::RealToReal<3, crate::UserTag, crate::UserTag>> = mk();
     let _ = a.compose(&b);
 }
 
-pub fn p935() {
+pub fn p941() {
     let a: re::math::mat::Mat4x4<re::math::mat::RealToReal<3, re::render::World, crate::UserTag>> = mk();
     let b: re::math::mat::Mat4x4<re::math::mat::RealToReal<3, re::render::World, crate::UserTag>> = mk();
     let _ = a.compose(&b);
 }
 
-pub fn p936() {
+pub fn p942() {
     let a: re::math::mat::Mat4x4<re::math::mat::RealToReal<3, re::render::World, crate::UserTag>> = mk();
     let b: re::math::mat::Mat4x4<re::math::mat::RealToReal<3, re::render::World, crate::UserTag>> = mk();
     let _ = a.then(&b);
 }
 
-pub fn p937() {
+pub fn p943() {
     let a: re::math::mat::Mat4x4<re::math::mat::RealToReal<3, re::render::World, crate::UserTag>> = mk();
     let b: re::math::point::Point3<crate::UserTag> = mk();
     let _ = a.apply_pt(&b);
 }
 
-pub fn p939() {
+pub fn p945() {
     let a: re::math::mat::Mat4x4<re::math::mat::RealToReal<3, re::render::World, crate::UserTag>> = mk();
     let b: re::math::vec::Vec3<crate::UserTag> = mk();
     let _ = a.apply(&b);
 }
 
-pub fn p944() {
+pub fn p950() {
     let a: re::math::mat::Mat4x4<re::math::mat::RealToReal<3, re::render::World, re::render::View>> = mk();
     let b: re::math::mat::Mat4x4<re::render::ModelToProj> = mk();
     let _ = a.then(&b);
 }
 
-pub fn p945() {
+pub fn p951() {
     let a: re::math::mat::Mat4x4<re::math::mat::RealToReal<3, re::render::World, re::render::View>> = mk();
     let b: re::math::mat::Mat4x4<re::render::ModelToView> = mk();
     let _ = a.then(&b);
 }
 
-pub fn p946() {
+pub fn p952() {
     let a: re::math::mat::Mat4x4<re::math::mat::RealToReal<3, re::render::World, re::render::View>> = mk();
     let b: re::math::mat::Mat4x4<re::render::ModelToWorld> = mk();
     let _ = a.then(&b);
 }
 
-pub fn p948() {
+pub fn p954() {
     let a: re::math::mat::Mat4x4<re::math::mat::RealToReal<3, re::render::World, re::render::View>> = mk();
     let b: re::math::mat::Mat4x4<re::render::WorldToView> = mk();
     let _ = a.then(&b);
 }
 
-pub fn p949() {
+pub fn p955() {
     let a: re::math::mat::Mat4x4<re::math::mat::RealToReal<3, re::render::World, re::render::View>> = mk();
     let b: re::math::point::Point3<re::render::Model> = mk();
     let _ = a.apply(&b);
 }
 
-pub fn p950() {
+pub fn p956() {
     let a: re::math::mat::Mat4x4<re::math::mat::RealToReal<3, re::render::World, re::render::View>> = mk();
     let b: re::math::point::Point3<re::render::Model> = mk();
     let _ = a.apply_pt(&b);
 }
 
-pub fn p951() {
+pub fn p957() {
     let a: re::math::mat::Mat4x4<re::math::mat::RealToReal<3, re::render::World, re::render::View>> = mk();
     let b: re::math::point::Point3<re::render::View> = mk();
     let _ = a.apply(&b);
 }
 
-pub fn p952() {
+pub fn p958() {
     let a: re::math::mat::Mat4x4<re::math::mat::RealToReal<3, re::render::World, re::render::View>> = mk();
     let b: re::math::point::Point3<re::render::View> = mk();
     let _ = a.apply_pt(&b);
 }
 
-pub fn p953() {
+pub fn p959() {
     let a: re::math::mat::Mat4x4<re::math::mat::RealToReal<3, re::render::World, re::render::View>> = mk();
     let b: re::math::point::Point3<re::render::World> = mk();
     let _ = a.apply(&b);
 }
 
-pub fn p957() {
+pub fn p963() {
     let a: re::math::mat::Mat4x4<re::math::mat::RealToReal<3, re::render::World, re::render::World>> = mk();
     let b: re::math::mat::Mat4x4<re::render::ModelToProj> = mk();
     let _ = a.then(&b);
 }
 
-pub fn p958() {
+pub fn p964() {
     let a: re::math::mat::Mat4x4<re::math::mat::RealToReal<3, re::render::World, re::render::World>> = mk();
     let b: re::math::mat::Mat4x4<re::render::ModelToView> = mk();
     let _ = a.then(&b);
 }
 
-pub fn p959() {
+pub fn p965() {
     let a: re::math::mat::Mat4x4<re::math::mat::RealToReal<3, re::render::World, re::render::World>> = mk();
     let b: re::math::mat::Mat4x4<re::render::ModelToWorld> = mk();
     let _ = a.then(&b);
 }
 
-pub fn p960() {
-    let a: re::math::mat::Mat4x4<re::math::mat::RealToReal<3, re::render::World, re::render::World>> = mk();
-    let b: re::math::mat::Mat4x4<re::render::ViewToProj> = mk();
-    let _ = a.then(&b);
-}
-
-pub fn p962() {
-    let a: re::math::mat::Mat4x4<re::math::mat::RealToReal<3, re::render::World, re::render::World>> = mk();
-    let b: re::math::mat::Mat4x4<re::math::mat::RealToReal<3, re::render::Model, re::render::Model>> = mk();
-    let _r: re::math::mat::Mat4x4<re::math::mat::RealToReal<3, re::render::Model, re::render::Model>> = a.compose(&b);
-}
-
-pub fn p963() {
-    let a: re::math::mat::Mat4x4<re::math::mat::RealToReal<3, re::render::World, re::render::World>> = mk();
-    let b: re::math::mat::Mat4x4<re::math::mat::RealToReal<3, re::render::Model, re::render::Model>> = mk();
-    let _r: re::math::mat::Mat4x4<re::math::mat::RealToReal<3, re::render::Model, re::render::World>> = a.compose(&b);
-}
-
-pub fn p964() {
-    let a: re::math::mat::Mat4x4<re::math::mat::RealToReal<3, re::render::World, re::render::World>> = mk();
-    let b: re::math::mat::Mat4x4<re::math::mat::RealToReal<3, re::render::Model, re::render::Model>> = mk();
-    let _r: re::math::mat::Mat4x4<re::math::mat::RealToReal<3, re::render::World, re::render::Model>> = a.compose(&b);
-}
-
-pub fn p965() {
-    let a: re::math::mat::Mat4x4<re::math::mat::RealToReal<3, re::render::World, re::render::World>> = mk();
-    let b: re::math::mat::Mat4x4<re::math::mat::RealToReal<3, re::render::Model, re::render::Model>> = mk();
-    let _r: re::math::mat::Mat4x4<re::math::mat::RealToReal<3, re::render::World, re::render::World>> = a.compose(&b);
-}
-
 pub fn p966() {
     let a: re::math::mat::Mat4x4<re::math::mat::RealToReal<3, re::render::World, re::render::World>> = mk();
-    let b: re::math::mat::Mat4x4<re::math::mat::RealToReal<3, re::render::Model, re::render::Model>> = mk();
-    let _ = a.compose(&b);
-}
-
-pub fn p967() {
-    let a: re::math::mat::Mat4x4<re::math::mat::RealToReal<3, re::render::World, re::render::World>> = mk();
-    let b: re::math::mat::Mat4x4<re::math::mat::RealToReal<3, re::render::Model, re::render::Model>> = mk();
+    let b: re::math::mat::Mat4x4<re::render::ViewToProj> = mk();
     let _ = a.then(&b);
 }
 
 pub fn p968() {
     let a: re::math::mat::Mat4x4<re::math::mat::RealToReal<3, re::render::World, re::render::World>> = mk();
-    let b: re::math::mat::Mat4x4<re::math::mat::RealToReal<3, re::render::Model, ()>> = mk();
-    let _ = a.compose(&b);
+    let b: re::math::mat::Mat4x4<re::math::mat::RealToReal<3, re::render::Model, re::render::Model>> = mk();
+    let _r: re::math::mat::Mat4x4<re::math::mat::RealToReal<3, re::render::Model, re::render::Model>> = a.compose(&b);
 }
 
 pub fn p969() {
     let a: re::math::mat::Mat4x4<re::math::mat::RealToReal<3, re::render::World, re::render::World>> = mk();
-    let b: re::math::mat::Mat4x4<re::math::mat::RealToReal<3, re::render::Model, ()>> = mk();
-    let _ = a.then(&b);
+    let b: re::math::mat::Mat4x4<re::math::mat::RealToReal<3, re::render::Model, re::render::Model>> = mk();
+    let _r: re::math::mat::Mat4x4<re::math::mat::RealToReal<3, re::render::Model, re::render::World>> = a.compose(&b);
 }
 
 pub fn p970() {
     let a: re::math::mat::Mat4x4<re::math::mat::RealToReal<3, re::render::World, re::render::World>> = mk();
-    let b: re::math::mat::Mat4x4<re::math::mat::RealToReal<3, re::render::Model, re::render::World>> = mk();
-    let _r: re::math::mat::Mat4x4<re::math::mat::RealToReal<3, re::render::Model, re::render::Model>> = a.compose(&b);
+    let b: re::math::mat::Mat4x4<re::math::mat::RealToReal<3, re::render::Model, re::render::Model>> = mk();
+    let _r: re::math::mat::Mat4x4<re::math::mat::RealToReal<3, re::render::World, re::render::Model>> = a.compose(&b);
+}
+
+pub fn p971() {
+    let a: re::math::mat::Mat4x4<re::math::mat::RealToReal<3, re::render::World, re::render::World>> = mk();
+    let b: re::math::mat::Mat4x4<re::math::mat::RealToReal<3, re::render::Model, re::render::Model>> = mk();
+    let _r: re::math::mat::Mat4x4<re::math::mat::RealToReal<3, re::render::World, re::render::World>> = a.compose(&b);
 }
 
 pub fn p972() {
     let a: re::math::mat::Mat4x4<re::math::mat::RealToReal<3, re::render::World, re::render::World>> = mk();
-    let b: re::math::mat::Mat4x4<re::math::mat::RealToReal<3, re::render::Model, re::render::World>> = mk();
-    let _r: re::math::mat::Mat4x4<re::math::mat::RealToReal<3, re::render::World, re::render::Model>> = a.compose(&b);
+    let b: re::math::mat::Mat4x4<re::math::mat::RealToReal<3, re::render::Model, re::render::Model>> = mk();
+    let _ = a.compose(&b);
 }
 
 pub fn p973() {
     let a: re::math::mat::Mat4x4<re::math::mat::RealToReal<3, re::render::World, re::render::World>> = mk();
-    let b: re::math::mat::Mat4x4<re::math::mat::RealToReal<3, re::render::Model, re::render::World>> = mk();
-    let _r: re::math::mat::Mat4x4<re::math::mat::RealToReal<3, re::render::World, re::render::World>> = a.compose(&b);
+    let b: re::math::mat::Mat4x4<re::math::mat::RealToReal<3, re::render::Model, re::render::Model>> = mk();
+    let _ = a.then(&b);
 }
 
 pub fn p974() {
     let a: re::math::mat::Mat4x4<re::math::mat::RealToReal<3, re::render::World, re::render::World>> = mk();
-    let b: re::math::mat::Mat4x4<re::math::mat::RealToReal<3, re::render::Model, re::render::World>> = mk();
+    let b: re::math::mat::Mat4x4<re::math::mat::RealToReal<3, re::render::Model, ()>> = mk();
+    let _ = a.compose(&b);
+}
+
+pub fn p975() {
+    let a: re::math::mat::Mat4x4<re::math::mat::RealToReal<3, re::render::World, re::render::World>> = mk();
+    let b: re::math::mat::Mat4x4<re::math::mat::RealToReal<3, re::render::Model, ()>> = mk();
     let _ = a.then(&b);
 }
 
 pub fn p976() {
     let a: re::math::mat::Mat4x4<re::math::mat::RealToReal<3, re::render::World, re::render::World>> = mk();
-    let b: re::math::mat::Mat4x4<re::math::mat::RealToReal<3, (), re::render::Model>> = mk();
-    let _ = a.compose(&b);
-}
-
-pub fn p977() {
-    let a: re::math::mat::Mat4x4<re::math::mat::RealToReal<3, re::render::World, re::render::World>> = mk();
-    let b: re::math::mat::Mat4x4<re::math::mat::RealToReal<3, (), re::render::Model>> = mk();
-    let _ = a.then(&b);
+    let b: re::math::mat::Mat4x4<re::math::mat::RealToReal<3, re::render::Model, re::render::World>> = mk();
+    let _r: re::math::mat::Mat4x4<re::math::mat::RealToReal<3, re::render::Model, re::render::Model>> = a.compose(&b);
 }
 
 pub fn p978() {
     let a: re::math::mat::Mat4x4<re::math::mat::RealToReal<3, re::render::World, re::render::World>> = mk();
-    let b: re::math::mat::Mat4x4<re::math::mat::RealToReal<3, (), ()>> = mk();
-    let _ = a.compose(&b);
+    let b: re::math::mat::Mat4x4<re::math::mat::RealToReal<3, re::render::Model, re::render::World>> = mk();
+    let _r: re::math::mat::Mat4x4<re::math::mat::RealToReal<3, re::render::World, re::render::Model>> = a.compose(&b);
 }
 
 pub fn p979() {
     let a: re::math::mat::Mat4x4<re::math::mat::RealToReal<3, re::render::World, re::render::World>> = mk();
-    let b: re::math::mat::Mat4x4<re::math::mat::RealToReal<3, (), ()>> = mk();
-    let _ = a.then(&b);
+    let b: re::math::mat::Mat4x4<re::math::mat::RealToReal<3, re::render::Model, re::render::World>> = mk();
+    let _r: re::math::mat::Mat4x4<re::math::mat::RealToReal<3, re::render::World, re::render::World>> = a.compose(&b);
 }
 
 pub fn p980() {
     let a: re::math::mat::Mat4x4<re::math::mat::RealToReal<3, re::render::World, re::render::World>> = mk();
-    let b: re::math::mat::Mat4x4<re::math::mat::RealToReal<3, (), re::render::World>> = mk();
+    let b: re::math::mat::Mat4x4<re::math::mat::RealToReal<3, re::render::Model, re::render::World>> = mk();
     let _ = a.then(&b);
 }
 
 pub fn p982() {
     let a: re::math::mat::Mat4x4<re::math::mat::RealToReal<3, re::render::World, re::render::World>> = mk();
+    let b: re::math::mat::Mat4x4<re::math::mat::RealToReal<3, (), re::render::Model>> = mk();
+    let _ = a.compose(&b);
+}
+
+pub fn p983() {
+    let a: re::math::mat::Mat4x4<re::math::mat::RealToReal<3, re::render::World, re::render::World>> = mk();
+    let b: re::math::mat::Mat4x4<re::math::mat::RealToReal<3, (), re::render::Model>> = mk();
+    let _ = a.then(&b);
+}
+
+pub fn p984() {
+    let a: re::math::mat::Mat4x4<re::math::mat::RealToReal<3, re::render::World, re::render::World>> = mk();
+    let b: re::math::mat::Mat4x4<re::math::mat::RealToReal<3, (), ()>> = mk();
+    let _ = a.compose(&b);
+}
+
+pub fn p985() {
+    let a: re::math::mat::Mat4x4<re::math::mat::RealToReal<3, re::render::World, re::render::World>> = mk();
+    let b: re::math::mat::Mat4x4<re::math::mat::RealToReal<3, (), ()>> = mk();
+    let _ = a.then(&b);
+}
+
+pub fn p986() {
+    let a: re::math::mat::Mat4x4<re::math::mat::RealToReal<3, re::render::World, re::render::World>> = mk();
+    let b: re::math::mat::Mat4x4<re::math::mat::RealToReal<3, (), re::render::World>> = mk();
+    let _ = a.then(&b);
+}
+
+pub fn p988() {
+    let a: re::math::mat::Mat4x4<re::math::mat::RealToReal<3, re::render::World, re::render::World>> = mk();
     let b: re::math::mat::Mat4x4<re::math::mat::RealToReal<3, re::render::World, re::render::Model>> = mk();
     let _r: re::math::mat::Mat4x4<re::math::mat::RealToReal<3, re::render::Model, re::render::Model>> = a.compose(&b);
 }
 
-pub fn p983() {
+pub fn p989() {
     let a: re::math::mat::Mat4x4<re::math::mat::RealToReal<3, re::render::World, re::render::World>> = mk();
     let b: re::math::mat::Mat4x4<re::math::mat::RealToReal<3, re::render::World, re::render::Model>> = mk();
     let _r: re::math::mat::Mat4x4<re::math::mat::RealToReal<3, re::render::Model, re::render::World>> = a.compose(&b);
 }
 
-pub fn p984() {
+pub fn p990() {
     let a: re::math::mat::Mat4x4<re::math::mat::RealToReal<3, re::render::World, re::render::World>> = mk();
     let b: re::math::mat::Mat4x4<re::math::mat::RealToReal<3, re::render::World, re::render::Model>> = mk();
     let _r: re::math::mat::Mat4x4<re::math::mat::RealToReal<3, re::render::World, re::render::Model>> = a.compose(&b);
 }
 
-pub fn p985() {
+pub fn p991() {
     let a: re::math::mat::Mat4x4<re::math::mat::RealToReal<3, re::render::World, re::render::World>> = mk();
     let b: re::math::mat::Mat4x4<re::math::mat::RealToReal<3, re::render::World, re::render::Model>> = mk();
     let _r: re::math::mat::Mat4x4<re::math::mat::RealToReal<3, re::render::World, re::render::World>> = a.compose(&b);
 }
 
-pub fn p986() {
+pub fn p992() {
     let a: re::math::mat::Mat4x4<re::math::mat::RealToReal<3, re::render::World, re::render::World>> = mk();
     let b: re::math::mat::Mat4x4<re::math::mat::RealToReal<3, re::render::World, re::render::Model>> = mk();
     let _ = a.compose(&b);
 }
 
-pub fn p988() {
+pub fn p994() {
     let a: re::math::mat::Mat4x4<re::math::mat::RealToReal<3, re::render::World, re::render::World>> = mk();
     let b: re::math::mat::Mat4x4<re::math::mat::RealToReal<3, re::render::World, ()>> = mk();
     let _ = a.compose(&b);
 }
 
-pub fn p990() {
+pub fn p996() {
     let a: re::math::mat::Mat4x4<re::math::mat::RealToReal<3, re::render::World, re::render::World>> = mk();
     let b: re::math::mat::Mat4x4<re::math::mat::RealToReal<3, re::render::World, re::render::World>> = mk();
     let _r: re::math::mat::Mat4x4<re::math::mat::RealToReal<3, re::render::Model, re::render::Model>> = a.compose(&b);
 }
 
-pub fn p991() {
+pub fn p997() {
     let a: re::math::mat::Mat4x4<re::math::mat::RealToReal<3, re::render::World, re::render::World>> = mk();
     let b: re::math::mat::Mat4x4<re::math::mat::RealToReal<3, re::render::World, re::render::World>> = mk();
     let _r: re::math::mat::Mat4x4<re::math::mat::RealToReal<3, re::render::Model, re::render::World>> = a.compose(&b);
 }
 
-pub fn p992() {
+pub fn p998() {
     let a: re::math::mat::Mat4x4<re::math::mat::RealToReal<3, re::render::World, re::render::World>> = mk();
     let b: re::math::mat::Mat4x4<re::math::mat::RealToReal<3, re::render::World, re::render::World>> = mk();
     let _r: re::math::mat::Mat4x4<re::math::mat::RealToReal<3, re::render::World, re::render::Model>> = a.compose(&b);
 }
 
-pub fn p996() {
+pub fn p1002() {
     let a: re::math::mat::Mat4x4<re::math::mat::RealToReal<3, re::render::World, re::render::World>> = mk();
     let b: re::math::mat::Mat4x4<re::math::mat::RealToProj<re::render::Model>> = mk();
     let _ = a.compose(&b);
 }
 
-pub fn p997() {
+pub fn p1003() {
     let a: re::math::mat::Mat4x4<re::math::mat::RealToReal<3, re::render::World, re::render::World>> = mk();
     let b: re::math::mat::Mat4x4<re::math::mat::RealToProj<re::render::Model>> = mk();
     let _ = a.then(&b);
 }
 
-pub fn p998() {
+pub fn p1004() {
     let a: re::math::mat::Mat4x4<re::math::mat::RealToReal<3, re::render::World, re::render::World>> = mk();
     let b: re::math::mat::Mat4x4<re::math::mat::RealToProj<()>> = mk();
     let _ = a.compose(&b);
 }
 
-pub fn p999() {
+pub fn p1005() {
     let a: re::math::mat::Mat4x4<re::math::mat::RealToReal<3, re::render::World, re::render::World>> = mk();
     let b: re::math::mat::Mat4x4<re::math::mat::RealToProj<()>> = mk();
     let _ = a.then(&b);
 }
 
-pub fn p1000() {
+pub fn p1006() {
     let a: re::math::mat::Mat4x4<re::math::mat::RealToReal<3, re::render::World, re::render::World>> = mk();
     let b: re::math::mat::Mat4x4<re::math::mat::RealToProj<re::render::World>> = mk();
     let _ = a.compose(&b);
 }
 
-pub fn p1002() {
+pub fn p1008() {
     let a: re::math::mat::Mat4x4<re::math::mat::RealToReal<3, re::render::World, re::render::World>> = mk();
     let b: re::math::point::Point2<re::render::Model> = mk();
     let _ = a.apply_pt(&b);
 }
 
-pub fn p1003() {
-    let a: re::math::mat::Mat4x4<re::math::mat::RealToReal<3, re::render::World, re::render::World>> = mk();
-    let b: re::math::point::Point2<()> = mk();
-    let _ = a.apply_pt(&b);
-}
-
-pub fn p1004() {
-    let a: re::math::mat::Mat4x4<re::math::mat::RealToReal<3, re::render::World, re::render::World>> = mk();
-    let b: re::math::point::Point2<re::render::World> = mk();
-    let _ = a.apply_pt(&b);
-}
-
-pub fn p1005() {
-    let a: re::math::mat::Mat4x4<re::math::mat::RealToReal<3, re::render::World, re::render::World>> = mk();
-    let b: re::math::point::Point3<re::render::Model> = mk();
-    let _r: re::math::point::Point3<re::render::Model> = a.apply_pt(&b);
-}
-
-pub fn p1006() {
-    let a: re::math::mat::Mat4x4<re::math::mat::RealToReal<3, re::render::World, re::render::World>> = mk();
-    let b: re::math::point::Point3<re::render::Model> = mk();
-    let _r: re::math::point::Point3<()> = a.apply_pt(&b);
-}
-
-pub fn p1007() {
-    let a: re::math::mat::Mat4x4<re::math::mat::RealToReal<3, re::render::World, re::render::World>> = mk();
-    let b: re::math::point::Point3<re::render::Model> = mk();
-    let _r: re::math::point::Point3<re::render::World> = a.apply_pt(&b);
-}
-
-pub fn p1008() {
-    let a: re::math::mat::Mat4x4<re::math::mat::RealToReal<3, re::render::World, re::render::World>> = mk();
-    let b: re::math::point::Point3<re::render::Model> = mk();
-    let _ = a.apply(&b);
-}
-
 pub fn p1009() {
     let a: re::math::mat::Mat4x4<re::math::mat::RealToReal<3, re::render::World, re::render::World>> = mk();
-    let b: re::math::point::Point3<re::render::Model> = mk();
+    let b: re::math::point::Point2<()> = mk();
     let _ = a.apply_pt(&b);
 }
 
 pub fn p1010() {
     let a: re::math::mat::Mat4x4<re::math::mat::RealToReal<3, re::render::World, re::render::World>> = mk();
-    let b: re::math::point::Point3<()> = mk();
-    let _r: re::math::point::Point3<re::render::Model> = a.apply_pt(&b);
+    let b: re::math::point::Point2<re::render::World> = mk();
+    let _ = a.apply_pt(&b);
 }
 
 pub fn p1011() {
     let a: re::math::mat::Mat4x4<re::math::mat::RealToReal<3, re::render::World, re::render::World>> = mk();
-    let b: re::math::point::Point3<()> = mk();
-    let _r: re::math::point::Point3<()> = a.apply_pt(&b);
+    let b: re::math::point::Point3<re::render::Model> = mk();
+    let _r: re::math::point::Point3<re::render::Model> = a.apply_pt(&b);
 }
 
 pub fn p1012() {
     let a: re::math::mat::Mat4x4<re::math::mat::RealToReal<3, re::render::World, re::render::World>> = mk();
-    let b: re::math::point::Point3<()> = mk();
-    let _r: re::math::point::Point3<re::render::World> = a.apply_pt(&b);
+    let b: re::math::point::Point3<re::render::Model> = mk();
+    let _r: re::math::point::Point3<()> = a.apply_pt(&b);
 }
 
 pub fn p1013() {
     let a: re::math::mat::Mat4x4<re::math::mat::RealToReal<3, re::render::World, re::render::World>> = mk();
-    let b: re::math::point::Point3<()> = mk();
-    let _ = a.apply_pt(&b);
+    let b: re::math::point::Point3<re::render::Model> = mk();
+    let _r: re::math::point::Point3<re::render::World> = a.apply_pt(&b);
 }
 
 pub fn p1014() {
     let a: re::math::mat::Mat4x4<re::math::mat::RealToReal<3, re::render::World, re::render::World>> = mk();
-    let b: re::math::point::Point3<re::render::View> = mk();
+    let b: re::math::point::Point3<re::render::Model> = mk();
     let _ = a.apply(&b);
 }
 
 pub fn p1015() {
     let a: re::math::mat::Mat4x4<re::math::mat::RealToReal<3, re::render::World, re::render::World>> = mk();
-    let b: re::math::point::Point3<re::render::View> = mk();
+    let b: re::math::point::Point3<re::render::Model> = mk();
     let _ = a.apply_pt(&b);
 }
 
 pub fn p1016() {
     let a: re::math::mat::Mat4x4<re::math::mat::RealToReal<3, re::render::World, re::render::World>> = mk();
-    let b: re::math::point::Point3<re::render::World> = mk();
+    let b: re::math::point::Point3<()> = mk();
     let _r: re::math::point::Point3<re::render::Model> = a.apply_pt(&b);
 }
 
 pub fn p1017() {
     let a: re::math::mat::Mat4x4<re::math::mat::RealToReal<3, re::render::World, re::render::World>> = mk();
-    let b: re::math::point::Point3<re::render::World> = mk();
+    let b: re::math::point::Point3<()> = mk();
     let _r: re::math::point::Point3<()> = a.apply_pt(&b);
+}
+
+pub fn p1018() {
+    let a: re::math::mat::Mat4x4<re::math::mat::RealToReal<3, re::render::World, re::render::World>> = mk();
+    let b: re::math::point::Point3<()> = mk();
+    let _r: re::math::point::Point3<re::render::World> = a.apply_pt(&b);
 }
 
 pub fn p1019() {
     let a: re::math::mat::Mat4x4<re::math::mat::RealToReal<3, re::render::World, re::render::World>> = mk();
-    let b: re::math::point::Point3<re::render::World> = mk();
+    let b: re::math::point::Point3<()> = mk();
+    let _ = a.apply_pt(&b);
+}
+
+pub fn p1020() {
+    let a: re::math::mat::Mat4x4<re::math::mat::RealToReal<3, re::render::World, re::render::World>> = mk();
+    let b: re::math::point::Point3<re::render::View> = mk();
     let _ = a.apply(&b);
 }
 
 pub fn p1021() {
     let a: re::math::mat::Mat4x4<re::math::mat::RealToReal<3, re::render::World, re::render::World>> = mk();
-    let b: re::math::vec::Vec2<re::render::Model> = mk();
-    let _ = a.apply(&b);
+    let b: re::math::point::Point3<re::render::View> = mk();
+    let _ = a.apply_pt(&b);
 }
 
 pub fn p1022() {
     let a: re::math::mat::Mat4x4<re::math::mat::RealToReal<3, re::render::World, re::render::World>> = mk();
-    let b: re::math::vec::Vec2<()> = mk();
-    let _ = a.apply(&b);
+    let b: re::math::point::Point3<re::render::World> = mk();
+    let _r: re::math::point::Point3<re::render::Model> = a.apply_pt(&b);
 }
 
 pub fn p1023() {
     let a: re::math::mat::Mat4x4<re::math::mat::RealToReal<3, re::render::World, re::render::World>> = mk();
-    let b: re::math::vec::Vec2<re::render::World> = mk();
-    let _ = a.apply(&b);
-}
-
-pub fn p1024() {
-    let a: re::math::mat::Mat4x4<re::math::mat::RealToReal<3, re::render::World, re::render::World>> = mk();
-    let b: re::math::vec::Vec3<re::render::Model> = mk();
-    let _r: re::math::vec::Vec3<re::render::Model> = a.apply(&b);
+    let b: re::math::point::Point3<re::render::World> = mk();
+    let _r: re::math::point::Point3<()> = a.apply_pt(&b);
 }
 
 pub fn p1025() {
     let a: re::math::mat::Mat4x4<re::math::mat::RealToReal<3, re::render::World, re::render::World>> = mk();
-    let b: re::math::vec::Vec3<re::render::Model> = mk();
-    let _r: re::math::vec::Vec3<()> = a.apply(&b);
-}
-
-pub fn p1026() {
-    let a: re::math::mat::Mat4x4<re::math::mat::RealToReal<3, re::render::World, re::render::World>> = mk();
-    let b: re::math::vec::Vec3<re::render::Model> = mk();
-    let _r: re::math::vec::Vec3<re::render::World> = a.apply(&b);
+    let b: re::math::point::Point3<re::render::World> = mk();
+    let _ = a.apply(&b);
 }
 
 pub fn p1027() {
     let a: re::math::mat::Mat4x4<re::math::mat::RealToReal<3, re::render::World, re::render::World>> = mk();
-    let b: re::math::vec::Vec3<re::render::Model> = mk();
+    let b: re::math::vec::Vec2<re::render::Model> = mk();
     let _ = a.apply(&b);
 }
 
 pub fn p1028() {
     let a: re::math::mat::Mat4x4<re::math::mat::RealToReal<3, re::render::World, re::render::World>> = mk();
-    let b: re::math::vec::Vec3<()> = mk();
-    let _r: re::math::vec::Vec3<re::render::Model> = a.apply(&b);
+    let b: re::math::vec::Vec2<()> = mk();
+    let _ = a.apply(&b);
 }
 
 pub fn p1029() {
     let a: re::math::mat::Mat4x4<re::math::mat::RealToReal<3, re::render::World, re::render::World>> = mk();
-    let b: re::math::vec::Vec3<()> = mk();
-    let _r: re::math::vec::Vec3<()> = a.apply(&b);
+    let b: re::math::vec::Vec2<re::render::World> = mk();
+    let _ = a.apply(&b);
 }
 
 pub fn p1030() {
     let a: re::math::mat::Mat4x4<re::math::mat::RealToReal<3, re::render::World, re::render::World>> = mk();
-    let b: re::math::vec::Vec3<()> = mk();
-    let _r: re::math::vec::Vec3<re::render::World> = a.apply(&b);
+    let b: re::math::vec::Vec3<re::render::Model> = mk();
+    let _r: re::math::vec::Vec3<re::render::Model> = a.apply(&b);
 }
 
 pub fn p1031() {
     let a: re::math::mat::Mat4x4<re::math::mat::RealToReal<3, re::render::World, re::render::World>> = mk();
-    let b: re::math::vec::Vec3<()> = mk();
-    let _ = a.apply(&b);
+    let b: re::math::vec::Vec3<re::render::Model> = mk();
+    let _r: re::math::vec::Vec3<()> = a.apply(&b);
 }
 
 pub fn p1032() {
     let a: re::math::mat::Mat4x4<re::math::mat::RealToReal<3, re::render::World, re::render::World>> = mk();
-    let b: re::math::vec::Vec3<re::render::World> = mk();
-    let _r: re::math::vec::Vec3<re::render::Model> = a.apply(&b);
+    let b: re::math::vec::Vec3<re::render::Model> = mk();
+    let _r: re::math::vec::Vec3<re::render::World> = a.apply(&b);
 }
 
 pub fn p1033() {
     let a: re::math::mat::Mat4x4<re::math::mat::RealToReal<3, re::render::World, re::render::World>> = mk();
-    let b: re::math::vec::Vec3<re::render::World> = mk();
+    let b: re::math::vec::Vec3<re::render::Model> = mk();
+    let _ = a.apply(&b);
+}
+
+pub fn p1034() {
+    let a: re::math::mat::Mat4x4<re::math::mat::RealToReal<3, re::render::World, re::render::World>> = mk();
+    let b: re::math::vec::Vec3<()> = mk();
+    let _r: re::math::vec::Vec3<re::render::Model> = a.apply(&b);
+}
+
+pub fn p1035() {
+    let a: re::math::mat::Mat4x4<re::math::mat::RealToReal<3, re::render::World, re::render::World>> = mk();
+    let b: re::math::vec::Vec3<()> = mk();
     let _r: re::math::vec::Vec3<()> = a.apply(&b);
 }
 
 pub fn p1036() {
     let a: re::math::mat::Mat4x4<re::math::mat::RealToReal<3, re::render::World, re::render::World>> = mk();
-    let _ = re::render::cam::Camera::new((8, 8)).mode(a);
+    let b: re::math::vec::Vec3<()> = mk();
+    let _r: re::math::vec::Vec3<re::render::World> = a.apply(&b);
 }
 
-pub fn p1041() {
-    let a: re::math::mat::Mat4x4<re::math::mat::RealToProj<re::render::Model>> = mk();
-    let b: re::math::mat::Mat4x4<re::render::ModelToProj> = mk();
-    let _ = a.then(&b);
+pub fn p1037() {
+    let a: re::math::mat::Mat4x4<re::math::mat::RealToReal<3, re::render::World, re::render::World>> = mk();
+    let b: re::math::vec::Vec3<()> = mk();
+    let _ = a.apply(&b);
+}
+
+pub fn p1038() {
+    let a: re::math::mat::Mat4x4<re::math::mat::RealToReal<3, re::render::World, re::render::World>> = mk();
+    let b: re::math::vec::Vec3<re::render::World> = mk();
+    let _r: re::math::vec::Vec3<re::render::Model> = a.apply(&b);
+}
+
+pub fn p1039() {
+    let a: re::math::mat::Mat4x4<re::math::mat::RealToReal<3, re::render::World, re::render::World>> = mk();
+    let b: re::math::vec::Vec3<re::render::World> = mk();
+    let _r: re::math::vec::Vec3<()> = a.apply(&b);
 }
 
 pub fn p1042() {
-    let a: re::math::mat::Mat4x4<re::math::mat::RealToProj<re::render::Model>> = mk();
-    let b: re::math::mat::Mat4x4<re::render::ModelToView> = mk();
-    let _ = a.then(&b);
+    let a: re::math::mat::Mat4x4<re::math::mat::RealToReal<3, re::render::World, re::render::World>> = mk();
+    let _ = re::render::cam::Camera::new((8, 8)).mode(a);
 }
 
-pub fn p1043() {
+pub fn p1047() {
     let a: re::math::mat::Mat4x4<re::math::mat::RealToProj<re::render::Model>> = mk();
-    let b: re::math::mat::Mat4x4<re::render::ModelToWorld> = mk();
-    let _ = a.then(&b);
-}
-
-pub fn p1044() {
-    let a: re::math::mat::Mat4x4<re::math::mat::RealToProj<re::render::Model>> = mk();
-    let b: re::math::mat::Mat4x4<re::render::ViewToProj> = mk();
-    let _ = a.then(&b);
-}
-
-pub fn p1045() {
-    let a: re::math::mat::Mat4x4<re::math::mat::RealToProj<re::render::Model>> = mk();
-    let b: re::math::mat::Mat4x4<re::render::WorldToView> = mk();
-    let _ = a.then(&b);
-}
-
-pub fn p1046() {
-    let a: re::math::mat::Mat4x4<re::math::mat::RealToProj<re::render::Model>> = mk();
-    let b: re::math::mat::Mat4x4<re::math::mat::RealToReal<3, re::render::Model, re::render::Model>> = mk();
+    let b: re::math::mat::Mat4x4<re::render::ModelToProj> = mk();
     let _ = a.then(&b);
 }
 
 pub fn p1048() {
     let a: re::math::mat::Mat4x4<re::math::mat::RealToProj<re::render::Model>> = mk();
-    let b: re::math::mat::Mat4x4<re::math::mat::RealToReal<3, re::render::Model, ()>> = mk();
-    let _ = a.compose(&b);
+    let b: re::math::mat::Mat4x4<re::render::ModelToView> = mk();
+    let _ = a.then(&b);
 }
 
 pub fn p1049() {
     let a: re::math::mat::Mat4x4<re::math::mat::RealToProj<re::render::Model>> = mk();
-    let b: re::math::mat::Mat4x4<re::math::mat::RealToReal<3, re::render::Model, ()>> = mk();
+    let b: re::math::mat::Mat4x4<re::render::ModelToWorld> = mk();
     let _ = a.then(&b);
 }
 
 pub fn p1050() {
     let a: re::math::mat::Mat4x4<re::math::mat::RealToProj<re::render::Model>> = mk();
-    let b: re::math::mat::Mat4x4<re::math::mat::RealToReal<3, re::render::Model, re::render::World>> = mk();
-    let _ = a.compose(&b);
+    let b: re::math::mat::Mat4x4<re::render::ViewToProj> = mk();
+    let _ = a.then(&b);
 }
 
 pub fn p1051() {
     let a: re::math::mat::Mat4x4<re::math::mat::RealToProj<re::render::Model>> = mk();
-    let b: re::math::mat::Mat4x4<re::math::mat::RealToReal<3, re::render::Model, re::render::World>> = mk();
+    let b: re::math::mat::Mat4x4<re::render::WorldToView> = mk();
     let _ = a.then(&b);
 }
 
 pub fn p1052() {
     let a: re::math::mat::Mat4x4<re::math::mat::RealToProj<re::render::Model>> = mk();
-    let b: re::math::mat::Mat4x4<re::math::mat::RealToReal<3, (), re::render::Model>> = mk();
+    let b: re::math::mat::Mat4x4<re::math::mat::RealToReal<3, re::render::Model, re::render::Model>> = mk();
     let _ = a.then(&b);
 }
 
 pub fn p1054() {
     let a: re::math::mat::Mat4x4<re::math::mat::RealToProj<re::render::Model>> = mk();
-    let b: re::math::mat::Mat4x4<re::math::mat::RealToReal<3, (), ()>> = mk();
+    let b: re::math::mat::Mat4x4<re::math::mat::RealToReal<3, re::render::Model, ()>> = mk();
     let _ = a.compose(&b);
 }
 
 pub fn p1055() {
     let a: re::math::mat::Mat4x4<re::math::mat::RealToProj<re::render::Model>> = mk();
-    let b: re::math::mat::Mat4x4<re::math::mat::RealToReal<3, (), ()>> = mk();
+    let b: re::math::mat::Mat4x4<re::math::mat::RealToReal<3, re::render::Model, ()>> = mk();
     let _ = a.then(&b);
 }
 
 pub fn p1056() {
     let a: re::math::mat::Mat4x4<re::math::mat::RealToProj<re::render::Model>> = mk();
-    let b: re::math::mat::Mat4x4<re::math::mat::RealToReal<3, (), re::render::World>> = mk();
+    let b: re::math::mat::Mat4x4<re::math::mat::RealToReal<3, re::render::Model, re::render::World>> = mk();
     let _ = a.compose(&b);
 }
 
 pub fn p1057() {
     let a: re::math::mat::Mat4x4<re::math::mat::RealToProj<re::render::Model>> = mk();
-    let b: re::math::mat::Mat4x4<re::math::mat::RealToReal<3, (), re::render::World>> = mk();
+    let b: re::math::mat::Mat4x4<re::math::mat::RealToReal<3, re::render::Model, re::render::World>> = mk();
     let _ = a.then(&b);
 }
 
 pub fn p1058() {
     let a: re::math::mat::Mat4x4<re::math::mat::RealToProj<re::render::Model>> = mk();
-    let b: re::math::mat::Mat4x4<re::math::mat::RealToReal<3, re::render::World, re::render::Model>> = mk();
+    let b: re::math::mat::Mat4x4<re::math::mat::RealToReal<3, (), re::render::Model>> = mk();
     let _ = a.then(&b);
 }
 
 pub fn p1060() {
     let a: re::math::mat::Mat4x4<re::math::mat::RealToProj<re::render::Model>> = mk();
-    let b: re::math::mat::Mat4x4<re::math::mat::RealToReal<3, re::render::World, ()>> = mk();
+    let b: re::math::mat::Mat4x4<re::math::mat::RealToReal<3, (), ()>> = mk();
     let _ = a.compose(&b);
 }
 
 pub fn p1061() {
     let a: re::math::mat::Mat4x4<re::math::mat::RealToProj<re::render::Model>> = mk();
-    let b: re::math::mat::Mat4x4<re::math::mat::RealToReal<3, re::render::World, ()>> = mk();
+    let b: re::math::mat::Mat4x4<re::math::mat::RealToReal<3, (), ()>> = mk();
     let _ = a.then(&b);
 }
 
 pub fn p1062() {
     let a: re::math::mat::Mat4x4<re::math::mat::RealToProj<re::render::Model>> = mk();
-    let b: re::math::mat::Mat4x4<re::math::mat::RealToReal<3, re::render::World, re::render::World>> = mk();
+    let b: re::math::mat::Mat4x4<re::math::mat::RealToReal<3, (), re::render::World>> = mk();
     let _ = a.compose(&b);
 }
 
 pub fn p1063() {
     let a: re::math::mat::Mat4x4<re::math::mat::RealToProj<re::render::Model>> = mk();
-    let b: re::math::mat::Mat4x4<re::math::mat::RealToReal<3, re::render::World, re::render::World>> = mk();
+    let b: re::math::mat::Mat4x4<re::math::mat::RealToReal<3, (), re::render::World>> = mk();
     let _ = a.then(&b);
 }
 
-pub fn p1065() {
+pub fn p1064() {
     let a: re::math::mat::Mat4x4<re::math::mat::RealToProj<re::render::Model>> = mk();
-    let b: re::math::point::Point3<re::render::Model> = mk();
-    let _ = a.apply_pt(&b);
+    let b: re::math::mat::Mat4x4<re::math::mat::RealToReal<3, re::render::World, re::render::Model>> = mk();
+    let _ = a.then(&b);
 }
 
 pub fn p1066() {
     let a: re::math::mat::Mat4x4<re::math::mat::RealToProj<re::render::Model>> = mk();
-    let b: re::math::point::Point3<()> = mk();
-    let _ = a.apply(&b);
+    let b: re::math::mat::Mat4x4<re::math::mat::RealToReal<3, re::render::World, ()>> = mk();
+    let _ = a.compose(&b);
 }
 
 pub fn p1067() {
     let a: re::math::mat::Mat4x4<re::math::mat::RealToProj<re::render::Model>> = mk();
-    let b: re::math::point::Point3<()> = mk();
-    let _ = a.apply_pt(&b);
+    let b: re::math::mat::Mat4x4<re::math::mat::RealToReal<3, re::render::World, ()>> = mk();
+    let _ = a.then(&b);
 }
 
 pub fn p1068() {
     let a: re::math::mat::Mat4x4<re::math::mat::RealToProj<re::render::Model>> = mk();
-    let b: re::math::point::Point3<re::render::View> = mk();
-    let _ = a.apply(&b);
+    let b: re::math::mat::Mat4x4<re::math::mat::RealToReal<3, re::render::World, re::render::World>> = mk();
+    let _ = a.compose(&b);
 }
 
 pub fn p1069() {
     let a: re::math::mat::Mat4x4<re::math::mat::RealToProj<re::render::Model>> = mk();
-    let b: re::math::point::Point3<re::render::View> = mk();
-    let _ = a.apply_pt(&b);
-}
-
-pub fn p1070() {
-    let a: re::math::mat::Mat4x4<re::math::mat::RealToProj<re::render::Model>> = mk();
-    let b: re::math::point::Point3<re::render::World> = mk();
-    let _ = a.apply(&b);
+    let b: re::math::mat::Mat4x4<re::math::mat::RealToReal<3, re::render::World, re::render::World>> = mk();
+    let _ = a.then(&b);
 }
 
 pub fn p1071() {
     let a: re::math::mat::Mat4x4<re::math::mat::RealToProj<re::render::Model>> = mk();
-    let b: re::math::point::Point3<re::render::World> = mk();
+    let b: re::math::point::Point3<re::render::Model> = mk();
     let _ = a.apply_pt(&b);
 }
 
 pub fn p1072() {
     let a: re::math::mat::Mat4x4<re::math::mat::RealToProj<re::render::Model>> = mk();
-    let b: re::math::vec::Vec3<re::render::Model> = mk();
+    let b: re::math::point::Point3<()> = mk();
     let _ = a.apply(&b);
 }
 
 pub fn p1073() {
     let a: re::math::mat::Mat4x4<re::math::mat::RealToProj<re::render::Model>> = mk();
-    let b: re::math::vec::Vec3<()> = mk();
-    let _ = a.apply(&b);
+    let b: re::math::point::Point3<()> = mk();
+    let _ = a.apply_pt(&b);
 }
 
 pub fn p1074() {
     let a: re::math::mat::Mat4x4<re::math::mat::RealToProj<re::render::Model>> = mk();
-    let b: re::math::vec::Vec3<re::render::World> = mk();
+    let b: re::math::point::Point3<re::render::View> = mk();
     let _ = a.apply(&b);
 }
 
 pub fn p1075() {
     let a: re::math::mat::Mat4x4<re::math::mat::RealToProj<re::render::Model>> = mk();
-    let _ = re::render::cam::Camera::new((8, 8)).mode(a);
+    let b: re::math::point::Point3<re::render::View> = mk();
+    let _ = a.apply_pt(&b);
+}
+
+pub fn p1076() {
+    let a: re::math::mat::Mat4x4<re::math::mat::RealToProj<re::render::Model>> = mk();
+    let b: re::math::point::Point3<re::render::World> = mk();
+    let _ = a.apply(&b);
 }
 
 pub fn p1077() {
     let a: re::math::mat::Mat4x4<re::math::mat::RealToProj<re::render::Model>> = mk();
-    let _ = a.determinant();
+    let b: re::math::point::Point3<re::render::World> = mk();
+    let _ = a.apply_pt(&b);
 }
 
 pub fn p1078() {
     let a: re::math::mat::Mat4x4<re::math::mat::RealToProj<re::render::Model>> = mk();
-    let _ = a.inverse();
+    let b: re::math::vec::Vec3<re::render::Model> = mk();
+    let _ = a.apply(&b);
 }
 
 pub fn p1079() {
     let a: re::math::mat::Mat4x4<re::math::mat::RealToProj<re::render::Model>> = mk();
-    let _ = a.transpose();
+    let b: re::math::vec::Vec3<()> = mk();
+    let _ = a.apply(&b);
 }
 
 pub fn p1080() {
-    let a: re::math::mat::Mat4x4<re::math::mat::RealToProj<()>> = mk();
-    let b: re::math::mat::Mat4x4<re::math::mat::RealToReal<3, re::render::Model, re::render::Model>> = mk();
-    let _ = a.compose(&b);
+    let a: re::math::mat::Mat4x4<re::math::mat::RealToProj<re::render::Model>> = mk();
+    let b: re::math::vec::Vec3<re::render::World> = mk();
+    let _ = a.apply(&b);
 }
 
 pub fn p1081() {
-    let a: re::math::mat::Mat4x4<re::math::mat::RealToProj<()>> = mk();
-    let b: re::math::mat::Mat4x4<re::math::mat::RealToReal<3, re::render::Model, re::render::Model>> = mk();
-    let _ = a.then(&b);
+    let a: re::math::mat::Mat4x4<re::math::mat::RealToProj<re::render::Model>> = mk();
+    let _ = re::render::cam::Camera::new((8, 8)).mode(a);
 }
 
-pub fn p1082() {
-    let a: re::math::mat::Mat4x4<re::math::mat::RealToProj<()>> = mk();
-    let b: re::math::mat::Mat4x4<re::math::mat::RealToReal<3, re::render::Model, ()>> = mk();
-    let _ = a.then(&b);
+pub fn p1083() {
+    let a: re::math::mat::Mat4x4<re::math::mat::RealToProj<re::render::Model>> = mk();
+    let _ = a.determinant();
 }
 
 pub fn p1084() {
-    let a: re::math::mat::Mat4x4<re::math::mat::RealToProj<()>> = mk();
-    let b: re::math::mat::Mat4x4<re::math::mat::RealToReal<3, re::render::Model, re::render::World>> = mk();
-    let _ = a.compose(&b);
+    let a: re::math::mat::Mat4x4<re::math::mat::RealToProj<re::render::Model>> = mk();
+    let _ = a.inverse();
 }
 
 pub fn p1085() {
-    let a: re::math::mat::Mat4x4<re::math::mat::RealToProj<()>> = mk();
-    let b: re::math::mat::Mat4x4<re::math::mat::RealToReal<3, re::render::Model, re::render::World>> = mk();
-    let _ = a.then(&b);
+    let a: re::math::mat::Mat4x4<re::math::mat::RealToProj<re::render::Model>> = mk();
+    let _ = a.transpose();
 }
 
 pub fn p1086() {
     let a: re::math::mat::Mat4x4<re::math::mat::RealToProj<()>> = mk();
-    let b: re::math::mat::Mat4x4<re::math::mat::RealToReal<3, (), re::render::Model>> = mk();
+    let b: re::math::mat::Mat4x4<re::math::mat::RealToReal<3, re::render::Model, re::render::Model>> = mk();
     let _ = a.compose(&b);
 }
 
 pub fn p1087() {
     let a: re::math::mat::Mat4x4<re::math::mat::RealToProj<()>> = mk();
-    let b: re::math::mat::Mat4x4<re::math::mat::RealToReal<3, (), re::render::Model>> = mk();
+    let b: re::math::mat::Mat4x4<re::math::mat::RealToReal<3, re::render::Model, re::render::Model>> = mk();
     let _ = a.then(&b);
 }
 
 pub fn p1088() {
     let a: re::math::mat::Mat4x4<re::math::mat::RealToProj<()>> = mk();
-    let b: re::math::mat::Mat4x4<re::math::mat::RealToReal<3, (), ()>> = mk();
+    let b: re::math::mat::Mat4x4<re::math::mat::RealToReal<3, re::render::Model, ()>> = mk();
     let _ = a.then(&b);
 }
 
 pub fn p1090() {
     let a: re::math::mat::Mat4x4<re::math::mat::RealToProj<()>> = mk();
-    let b: re::math::mat::Mat4x4<re::math::mat::RealToReal<3, (), re::render::World>> = mk();
+    let b: re::math::mat::Mat4x4<re::math::mat::RealToReal<3, re::render::Model, re::render::World>> = mk();
     let _ = a.compose(&b);
 }
 
 pub fn p1091() {
     let a: re::math::mat::Mat4x4<re::math::mat::RealToProj<()>> = mk();
-    let b: re::math::mat::Mat4x4<re::math::mat::RealToReal<3, (), re::render::World>> = mk();
+    let b: re::math::mat::Mat4x4<re::math::mat::RealToReal<3, re::render::Model, re::render::World>> = mk();
     let _ = a.then(&b);
 }
 
 pub fn p1092() {
     let a: re::math::mat::Mat4x4<re::math::mat::RealToProj<()>> = mk();
-    let b: re::math::mat::Mat4x4<re::math::mat::RealToReal<3, re::render::World, re::render::Model>> = mk();
+    let b: re::math::mat::Mat4x4<re::math::mat::RealToReal<3, (), re::render::Model>> = mk();
     let _ = a.compose(&b);
 }
 
 pub fn p1093() {
     let a: re::math::mat::Mat4x4<re::math::mat::RealToProj<()>> = mk();
-    let b: re::math::mat::Mat4x4<re::math::mat::RealToReal<3, re::render::World, re::render::Model>> = mk();
+    let b: re::math::mat::Mat4x4<re::math::mat::RealToReal<3, (), re::render::Model>> = mk();
     let _ = a.then(&b);
 }
 
 pub fn p1094() {
     let a: re::math::mat::Mat4x4<re::math::mat::RealToProj<()>> = mk();
-    let b: re::math::mat::Mat4x4<re::math::mat::RealToReal<3, re::render::World, ()>> = mk();
+    let b: re::math::mat::Mat4x4<re::math::mat::RealToReal<3, (), ()>> = mk();
     let _ = a.then(&b);
 }
 
 pub fn p1096() {
     let a: re::math::mat::Mat4x4<re::math::mat::RealToProj<()>> = mk();
-    let b: re::math::mat::Mat4x4<re::math::mat::RealToReal<3, re::render::World, re::render::World>> = mk();
+    let b: re::math::mat::Mat4x4<re::math::mat::RealToReal<3, (), re::render::World>> = mk();
     let _ = a.compose(&b);
 }
 
 pub fn p1097() {
     let a: re::math::mat::Mat4x4<re::math::mat::RealToProj<()>> = mk();
-    let b: re::math::mat::Mat4x4<re::math::mat::RealToReal<3, re::render::World, re::render::World>> = mk();
+    let b: re::math::mat::Mat4x4<re::math::mat::RealToReal<3, (), re::render::World>> = mk();
     let _ = a.then(&b);
 }
 
 pub fn p1098() {
     let a: re::math::mat::Mat4x4<re::math::mat::RealToProj<()>> = mk();
-    let b: re::math::point::Point3<re::render::Model> = mk();
-    let _ = a.apply(&b);
+    let b: re::math::mat::Mat4x4<re::math::mat::RealToReal<3, re::render::World, re::render::Model>> = mk();
+    let _ = a.compose(&b);
 }
 
 pub fn p1099() {
     let a: re::math::mat::Mat4x4<re::math::mat::RealToProj<()>> = mk();
-    let b: re::math::point::Point3<re::render::Model> = mk();
-    let _ = a.apply_pt(&b);
+    let b: re::math::mat::Mat4x4<re::math::mat::RealToReal<3, re::render::World, re::render::Model>> = mk();
+    let _ = a.then(&b);
 }
 
-pub fn p1101() {
+pub fn p1100() {
     let a: re::math::mat::Mat4x4<re::math::mat::RealToProj<()>> = mk();
-    let b: re::math::point::Point3<()> = mk();
-    let _ = a.apply_pt(&b);
+    let b: re::math::mat::Mat4x4<re::math::mat::RealToReal<3, re::render::World, ()>> = mk();
+    let _ = a.then(&b);
 }
 
 pub fn p1102() {
     let a: re::math::mat::Mat4x4<re::math::mat::RealToProj<()>> = mk();
-    let b: re::math::point::Point3<re::render::World> = mk();
-    let _ = a.apply(&b);
+    let b: re::math::mat::Mat4x4<re::math::mat::RealToReal<3, re::render::World, re::render::World>> = mk();
+    let _ = a.compose(&b);
 }
 
 pub fn p1103() {
     let a: re::math::mat::Mat4x4<re::math::mat::RealToProj<()>> = mk();
-    let b: re::math::point::Point3<re::render::World> = mk();
-    let _ = a.apply_pt(&b);
+    let b: re::math::mat::Mat4x4<re::math::mat::RealToReal<3, re::render::World, re::render::World>> = mk();
+    let _ = a.then(&b);
 }
 
 pub fn p1104() {
     let a: re::math::mat::Mat4x4<re::math::mat::RealToProj<()>> = mk();
-    let b: re::math::vec::Vec3<re::render::Model> = mk();
+    let b: re::math::point::Point3<re::render::Model> = mk();
     let _ = a.apply(&b);
 }
 
 pub fn p1105() {
     let a: re::math::mat::Mat4x4<re::math::mat::RealToProj<()>> = mk();
+    let b: re::math::point::Point3<re::render::Model> = mk();
+    let _ = a.apply_pt(&b);
+}
+
+pub fn p1107() {
+    let a: re::math::mat::Mat4x4<re::math::mat::RealToProj<()>> = mk();
+    let b: re::math::point::Point3<()> = mk();
+    let _ = a.apply_pt(&b);
+}
+
+pub fn p1108() {
+    let a: re::math::mat::Mat4x4<re::math::mat::RealToProj<()>> = mk();
+    let b: re::math::point::Point3<re::render::World> = mk();
+    let _ = a.apply(&b);
+}
+
+pub fn p1109() {
+    let a: re::math::mat::Mat4x4<re::math::mat::RealToProj<()>> = mk();
+    let b: re::math::point::Point3<re::render::World> = mk();
+    let _ = a.apply_pt(&b);
+}
+
+pub fn p1110() {
+    let a: re::math::mat::Mat4x4<re::math::mat::RealToProj<()>> = mk();
+    let b: re::math::vec::Vec3<re::render::Model> = mk();
+    let _ = a.apply(&b);
+}
+
+pub fn p1111() {
+    let a: re::math::mat::Mat4x4<re::math::mat::RealToProj<()>> = mk();
     let b: re::math::vec::Vec3<()> = mk();
     let _ = a.apply(&b);
 }
 
-pub fn p1106() {
+pub fn p1112() {
     let a: re::math::mat::Mat4x4<re::math::mat::RealToProj<()>> = mk();
     let b: re::math::vec::Vec3<re::render::World> = mk();
     let _ = a.apply(&b);
 }
 
-pub fn p1107() {
+pub fn p1113() {
     let a: re::math::mat::Mat4x4<re::math::mat::RealToProj<()>> = mk();
     let _ = a.determinant();
 }
 
-pub fn p1108() {
+pub fn p1114() {
     let a: re::math::mat::Mat4x4<re::math::mat::RealToProj<()>> = mk();
     let _ = a.inverse();
 }
 
-pub fn p1109() {
+pub fn p1115() {
     let a: re::math::mat::Mat4x4<re::math::mat::RealToProj<()>> = mk();
     let _ = a.transpose();
 }
 
-pub fn p1110() {
+pub fn p1116() {
     let a: re::math::mat::Mat4x4<re::math::mat::RealToProj<re::render::View>> = mk();
     let b: re::math::mat::Mat4x4<re::render::ModelToProj> = mk();
     let _ = a.then(&b);
 }
 
-pub fn p1111() {
+pub fn p1117() {
     let a: re::math::mat::Mat4x4<re::math::mat::RealToProj<re::render::View>> = mk();
     let b: re::math::mat::Mat4x4<re::render::ModelToView> = mk();
     let _ = a.then(&b);
 }
 
-pub fn p1112() {
+pub fn p1118() {
     let a: re::math::mat::Mat4x4<re::math::mat::RealToProj<re::render::View>> = mk();
     let b: re::math::mat::Mat4x4<re::render::ModelToWorld> = mk();
     let _ = a.then(&b);
 }
 
-pub fn p1113() {
+pub fn p1119() {
     let a: re::math::mat::Mat4x4<re::math::mat::RealToProj<re::render::View>> = mk();
     let b: re::math::mat::Mat4x4<re::render::ViewToProj> = mk();
     let _ = a.then(&b);
 }
 
-pub fn p1114() {
+pub fn p1120() {
     let a: re::math::mat::Mat4x4<re::math::mat::RealToProj<re::render::View>> = mk();
     let b: re::math::mat::Mat4x4<re::render::WorldToView> = mk();
     let _ = a.then(&b);
 }
 
-pub fn p1115() {
+pub fn p1121() {
     let a: re::math::mat::Mat4x4<re::math::mat::RealToProj<re::render::View>> = mk();
     let b: re::math::point::Point3<re::render::Model> = mk();
     let _ = a.apply(&b);
 }
 
-pub fn p1116() {
+pub fn p1122() {
     let a: re::math::mat::Mat4x4<re::math::mat::RealToProj<re::render::View>> = mk();
     let b: re::math::point::Point3<re::render::Model> = mk();
     let _ = a.apply_pt(&b);
 }
 
-pub fn p1118() {
+pub fn p1124() {
     let a: re::math::mat::Mat4x4<re::math::mat::RealToProj<re::render::View>> = mk();
     let b: re::math::point::Point3<re::render::View> = mk();
     let _ = a.apply_pt(&b);
 }
 
-pub fn p1119() {
+pub fn p1125() {
     let a: re::math::mat::Mat4x4<re::math::mat::RealToProj<re::render::View>> = mk();
     let b: re::math::point::Point3<re::render::World> = mk();
     let _ = a.apply(&b);
 }
 
-pub fn p1120() {
+pub fn p1126() {
     let a: re::math::mat::Mat4x4<re::math::mat::RealToProj<re::render::View>> = mk();
     let b: re::math::point::Point3<re::render::World> = mk();
     let _ = a.apply_pt(&b);
 }
 
-pub fn p1121() {
+pub fn p1127() {
     let a: re::math::mat::Mat4x4<re::math::mat::RealToProj<re::render::View>> = mk();
     let _ = re::render::cam::Camera::new((8, 8)).mode(a);
 }
 
-pub fn p1123() {
-    let a: re::math::mat::Mat4x4<re::math::mat::RealToProj<re::render::World>> = mk();
-    let b: re::math::mat::Mat4x4<re::render::ModelToProj> = mk();
-    let _ = a.then(&b);
-}
-
-pub fn p1124() {
-    let a: re::math::mat::Mat4x4<re::math::mat::RealToProj<re::render::World>> = mk();
-    let b: re::math::mat::Mat4x4<re::render::ModelToView> = mk();
-    let _ = a.then(&b);
-}
-
-pub fn p1125() {
-    let a: re::math::mat::Mat4x4<re::math::mat::RealToProj<re::render::World>> = mk();
-    let b: re::math::mat::Mat4x4<re::render::ModelToWorld> = mk();
-    let _ = a.then(&b);
-}
-
-pub fn p1126() {
-    let a: re::math::mat::Mat4x4<re::math::mat::RealToProj<re::render::World>> = mk();
-    let b: re::math::mat::Mat4x4<re::render::ViewToProj> = mk();
-    let _ = a.then(&b);
-}
-
-pub fn p1127() {
-    let a: re::math::mat::Mat4x4<re::math::mat::RealToProj<re::render::World>> = mk();
-    let b: re::math::mat::Mat4x4<re::render::WorldToView> = mk();
-    let _ = a.then(&b);
-}
-
-pub fn p1128() {
-    let a: re::math::mat::Mat4x4<re::math::mat::RealToProj<re::render::World>> = mk();
-    let b: re::math::mat::Mat4x4<re::math::mat::RealToReal<3, re::render::Model, re::render::Model>> = mk();
-    let _ = a.compose(&b);
-}
-
 pub fn p1129() {
     let a: re::math::mat::Mat4x4<re::math::mat::RealToProj<re::render::World>> = mk();
-    let b: re::math::mat::Mat4x4<re::math::mat::RealToReal<3, re::render::Model, re::render::Model>> = mk();
+    let b: re::math::mat::Mat4x4<re::render::ModelToProj> = mk();
     let _ = a.then(&b);
 }
 
 pub fn p1130() {
     let a: re::math::mat::Mat4x4<re::math::mat::RealToProj<re::render::World>> = mk();
-    let b: re::math::mat::Mat4x4<re::math::mat::RealToReal<3, re::render::Model, ()>> = mk();
-    let _ = a.compose(&b);
+    let b: re::math::mat::Mat4x4<re::render::ModelToView> = mk();
+    let _ = a.then(&b);
 }
 
 pub fn p1131() {
     let a: re::math::mat::Mat4x4<re::math::mat::RealToProj<re::render::World>> = mk();
-    let b: re::math::mat::Mat4x4<re::math::mat::RealToReal<3, re::render::Model, ()>> = mk();
+    let b: re::math::mat::Mat4x4<re::render::ModelToWorld> = mk();
     let _ = a.then(&b);
 }
 
 pub fn p1132() {
     let a: re::math::mat::Mat4x4<re::math::mat::RealToProj<re::render::World>> = mk();
-    let b: re::math::mat::Mat4x4<re::math::mat::RealToReal<3, re::render::Model, re::render::World>> = mk();
+    let b: re::math::mat::Mat4x4<re::render::ViewToProj> = mk();
+    let _ = a.then(&b);
+}
+
+pub fn p1133() {
+    let a: re::math::mat::Mat4x4<re::math::mat::RealToProj<re::render::World>> = mk();
+    let b: re::math::mat::Mat4x4<re::render::WorldToView> = mk();
     let _ = a.then(&b);
 }
 
 pub fn p1134() {
     let a: re::math::mat::Mat4x4<re::math::mat::RealToProj<re::render::World>> = mk();
-    let b: re::math::mat::Mat4x4<re::math::mat::RealToReal<3, (), re::render::Model>> = mk();
+    let b: re::math::mat::Mat4x4<re::math::mat::RealToReal<3, re::render::Model, re::render::Model>> = mk();
     let _ = a.compose(&b);
 }
 
 pub fn p1135() {
     let a: re::math::mat::Mat4x4<re::math::mat::RealToProj<re::render::World>> = mk();
-    let b: re::math::mat::Mat4x4<re::math::mat::RealToReal<3, (), re::render::Model>> = mk();
+    let b: re::math::mat::Mat4x4<re::math::mat::RealToReal<3, re::render::Model, re::render::Model>> = mk();
     let _ = a.then(&b);
 }
 
 pub fn p1136() {
     let a: re::math::mat::Mat4x4<re::math::mat::RealToProj<re::render::World>> = mk();
-    let b: re::math::mat::Mat4x4<re::math::mat::RealToReal<3, (), ()>> = mk();
+    let b: re::math::mat::Mat4x4<re::math::mat::RealToReal<3, re::render::Model, ()>> = mk();
     let _ = a.compose(&b);
 }
 
 pub fn p1137() {
     let a: re::math::mat::Mat4x4<re::math::mat::RealToProj<re::render::World>> = mk();
-    let b: re::math::mat::Mat4x4<re::math::mat::RealToReal<3, (), ()>> = mk();
+    let b: re::math::mat::Mat4x4<re::math::mat::RealToReal<3, re::render::Model, ()>> = mk();
     let _ = a.then(&b);
 }
 
 pub fn p1138() {
     let a: re::math::mat::Mat4x4<re::math::mat::RealToProj<re::render::World>> = mk();
-    let b: re::math::mat::Mat4x4<re::math::mat::RealToReal<3, (), re::render::World>> = mk();
+    let b: re::math::mat::Mat4x4<re::math::mat::RealToReal<3, re::render::Model, re::render::World>> = mk();
     let _ = a.then(&b);
 }
 
 pub fn p1140() {
     let a: re::math::mat::Mat4x4<re::math::mat::RealToProj<re::render::World>> = mk();
-    let b: re::math::mat::Mat4x4<re::math::mat::RealToReal<3, re::render::World, re::render::Model>> = mk();
+    let b: re::math::mat::Mat4x4<re::math::mat::RealToReal<3, (), re::render::Model>> = mk();
     let _ = a.compose(&b);
 }
 
 pub fn p1141() {
     let a: re::math::mat::Mat4x4<re::math::mat::RealToProj<re::render::World>> = mk();
-    let b: re::math::mat::Mat4x4<re::math::mat::RealToReal<3, re::render::World, re::render::Model>> = mk();
+    let b: re::math::mat::Mat4x4<re::math::mat::RealToReal<3, (), re::render::Model>> = mk();
     let _ = a.then(&b);
 }
 
 pub fn p1142() {
     let a: re::math::mat::Mat4x4<re::math::mat::RealToProj<re::render::World>> = mk();
-    let b: re::math::mat::Mat4x4<re::math::mat::RealToReal<3, re::render::World, ()>> = mk();
+    let b: re::math::mat::Mat4x4<re::math::mat::RealToReal<3, (), ()>> = mk();
     let _ = a.compose(&b);
 }
 
 pub fn p1143() {
     let a: re::math::mat::Mat4x4<re::math::mat::RealToProj<re::render::World>> = mk();
-    let b: re::math::mat::Mat4x4<re::math::mat::RealToReal<3, re::render::World, ()>> = mk();
+    let b: re::math::mat::Mat4x4<re::math::mat::RealToReal<3, (), ()>> = mk();
     let _ = a.then(&b);
 }
 
 pub fn p1144() {
     let a: re::math::mat::Mat4x4<re::math::mat::RealToProj<re::render::World>> = mk();
-    let b: re::math::mat::Mat4x4<re::math::mat::RealToReal<3, re::render::World, re::render::World>> = mk();
+    let b: re::math::mat::Mat4x4<re::math::mat::RealToReal<3, (), re::render::World>> = mk();
     let _ = a.then(&b);
 }
 
 pub fn p1146() {
     let a: re::math::mat::Mat4x4<re::math::mat::RealToProj<re::render::World>> = mk();
-    let b: re::math::point::Point3<re::render::Model> = mk();
-    let _ = a.apply(&b);
+    let b: re::math::mat::Mat4x4<re::math::mat::RealToReal<3, re::render::World, re::render::Model>> = mk();
+    let _ = a.compose(&b);
 }
 
 pub fn p1147() {
     let a: re::math::mat::Mat4x4<re::math::mat::RealToProj<re::render::World>> = mk();
-    let b: re::math::point::Point3<re::render::Model> = mk();
-    let _ = a.apply_pt(&b);
+    let b: re::math::mat::Mat4x4<re::math::mat::RealToReal<3, re::render::World, re::render::Model>> = mk();
+    let _ = a.then(&b);
 }
 
 pub fn p1148() {
     let a: re::math::mat::Mat4x4<re::math::mat::RealToProj<re::render::World>> = mk();
-    let b: re::math::point::Point3<()> = mk();
-    let _ = a.apply(&b);
+    let b: re::math::mat::Mat4x4<re::math::mat::RealToReal<3, re::render::World, ()>> = mk();
+    let _ = a.compose(&b);
 }
 
 pub fn p1149() {
     let a: re::math::mat::Mat4x4<re::math::mat::RealToProj<re::render::World>> = mk();
-    let b: re::math::point::Point3<()> = mk();
-    let _ = a.apply_pt(&b);
+    let b: re::math::mat::Mat4x4<re::math::mat::RealToReal<3, re::render::World, ()>> = mk();
+    let _ = a.then(&b);
 }
 
 pub fn p1150() {
     let a: re::math::mat::Mat4x4<re::math::mat::RealToProj<re::render::World>> = mk();
-    let b: re::math::point::Point3<re::render::View> = mk();
-    let _ = a.apply(&b);
+    let b: re::math::mat::Mat4x4<re::math::mat::RealToReal<3, re::render::World, re::render::World>> = mk();
+    let _ = a.then(&b);
 }
 
-pub fn p1151() {
+pub fn p1152() {
     let a: re::math::mat::Mat4x4<re::math::mat::RealToProj<re::render::World>> = mk();
-    let b: re::math::point::Point3<re::render::View> = mk();
-    let _ = a.apply_pt(&b);
+    let b: re::math::point::Point3<re::render::Model> = mk();
+    let _ = a.apply(&b);
 }
 
 pub fn p1153() {
     let a: re::math::mat::Mat4x4<re::math::mat::RealToProj<re::render::World>> = mk();
-    let b: re::math::point::Point3<re::render::World> = mk();
+    let b: re::math::point::Point3<re::render::Model> = mk();
     let _ = a.apply_pt(&b);
 }
 
 pub fn p1154() {
     let a: re::math::mat::Mat4x4<re::math::mat::RealToProj<re::render::World>> = mk();
-    let b: re::math::vec::Vec3<re::render::Model> = mk();
+    let b: re::math::point::Point3<()> = mk();
     let _ = a.apply(&b);
 }
 
 pub fn p1155() {
     let a: re::math::mat::Mat4x4<re::math::mat::RealToProj<re::render::World>> = mk();
-    let b: re::math::vec::Vec3<()> = mk();
-    let _ = a.apply(&b);
+    let b: re::math::point::Point3<()> = mk();
+    let _ = a.apply_pt(&b);
 }
 
 pub fn p1156() {
     let a: re::math::mat::Mat4x4<re::math::mat::RealToProj<re::render::World>> = mk();
-    let b: re::math::vec::Vec3<re::render::World> = mk();
+    let b: re::math::point::Point3<re::render::View> = mk();
     let _ = a.apply(&b);
 }
 
 pub fn p1157() {
     let a: re::math::mat::Mat4x4<re::math::mat::RealToProj<re::render::World>> = mk();
-    let _ = re::render::cam::Camera::new((8, 8)).mode(a);
+    let b: re::math::point::Point3<re::render::View> = mk();
+    let _ = a.apply_pt(&b);
 }
 
 pub fn p1159() {
     let a: re::math::mat::Mat4x4<re::math::mat::RealToProj<re::render::World>> = mk();
-    let _ = a.determinant();
+    let b: re::math::point::Point3<re::render::World> = mk();
+    let _ = a.apply_pt(&b);
 }
 
 pub fn p1160() {
     let a: re::math::mat::Mat4x4<re::math::mat::RealToProj<re::render::World>> = mk();
-    let _ = a.inverse();
+    let b: re::math::vec::Vec3<re::render::Model> = mk();
+    let _ = a.apply(&b);
 }
 
 pub fn p1161() {
     let a: re::math::mat::Mat4x4<re::math::mat::RealToProj<re::render::World>> = mk();
+    let b: re::math::vec::Vec3<()> = mk();
+    let _ = a.apply(&b);
+}
+
+pub fn p1162() {
+    let a: re::math::mat::Mat4x4<re::math::mat::RealToProj<re::render::World>> = mk();
+    let b: re::math::vec::Vec3<re::render::World> = mk();
+    let _ = a.apply(&b);
+}
+
+pub fn p1163() {
+    let a: re::math::mat::Mat4x4<re::math::mat::RealToProj<re::render::World>> = mk();
+    let _ = re::render::cam::Camera::new((8, 8)).mode(a);
+}
+
+pub fn p1165() {
+    let a: re::math::mat::Mat4x4<re::math::mat::RealToProj<re::render::World>> = mk();
+    let _ = a.determinant();
+}
+
+pub fn p1166() {
+    let a: re::math::mat::Mat4x4<re::math::mat::RealToProj<re::render::World>> = mk();
+    let _ = a.inverse();
+}
+
+pub fn p1167() {
+    let a: re::math::mat::Mat4x4<re::math::mat::RealToProj<re::render::World>> = mk();
     let _ = a.transpose();
-}
-
-pub fn p1169() {
-    let a: re::math::point::Point2<re::render::Model> = mk();
-    let b: re::math::angle::PolarVec = mk();
-    let _ = a + b;
-}
-
-pub fn p1170() {
-    let a: re::math::point::Point2<re::render::Model> = mk();
-    let b: re::math::angle::PolarVec = mk();
-    let _ = a + b.to_cart();
-}
-
-pub fn p1171() {
-    let a: re::math::point::Point2<re::render::Model> = mk();
-    let b: re::math::angle::PolarVec = mk();
-    let _ = a + b.into();
-}
-
-pub fn p1172() {
-    let a: re::math::point::Point2<re::render::Model> = mk();
-    let b: re::math::point::Point2<re::render::Model> = mk();
-    let _ = a + b;
 }
 
 pub fn p1175() {
     let a: re::math::point::Point2<re::render::Model> = mk();
-    let b: re::math::point::Point2<()> = mk();
+    let b: re::math::angle::PolarVec = mk();
     let _ = a + b;
 }
 
 pub fn p1176() {
     let a: re::math::point::Point2<re::render::Model> = mk();
-    let b: re::math::point::Point2<()> = mk();
-    let _ = re::math::Lerp::lerp(&a, &b, 0.5);
+    let b: re::math::angle::PolarVec = mk();
+    let _ = a + b.to_cart();
 }
 
 pub fn p1177() {
     let a: re::math::point::Point2<re::render::Model> = mk();
-    let b: re::math::point::Point2<()> = mk();
-    let _ = a - b;
+    let b: re::math::angle::PolarVec = mk();
+    let _ = a + b.into();
 }
 
 pub fn p1178() {
     let a: re::math::point::Point2<re::render::Model> = mk();
-    let b: re::math::point::Point2<re::render::World> = mk();
+    let b: re::math::point::Point2<re::render::Model> = mk();
     let _ = a + b;
-}
-
-pub fn p1179() {
-    let a: re::math::point::Point2<re::render::Model> = mk();
-    let b: re::math::point::Point2<re::render::World> = mk();
-    let _ = re::math::Lerp::lerp(&a, &b, 0.5);
-}
-
-pub fn p1180() {
-    let a: re::math::point::Point2<re::render::Model> = mk();
-    let b: re::math::point::Point2<re::render::World> = mk();
-    let _ = a - b;
 }
 
 pub fn p1181() {
     let a: re::math::point::Point2<re::render::Model> = mk();
-    let b: re::math::point::Point3<re::render::Model> = mk();
+    let b: re::math::point::Point2<()> = mk();
     let _ = a + b;
 }
 
 pub fn p1182() {
     let a: re::math::point::Point2<re::render::Model> = mk();
-    let b: re::math::point::Point3<re::render::Model> = mk();
+    let b: re::math::point::Point2<()> = mk();
     let _ = re::math::Lerp::lerp(&a, &b, 0.5);
 }
 
 pub fn p1183() {
     let a: re::math::point::Point2<re::render::Model> = mk();
-    let b: re::math::point::Point3<re::render::Model> = mk();
+    let b: re::math::point::Point2<()> = mk();
     let _ = a - b;
 }
 
 pub fn p1184() {
     let a: re::math::point::Point2<re::render::Model> = mk();
-    let b: re::math::point::Point3<()> = mk();
+    let b: re::math::point::Point2<re::render::World> = mk();
     let _ = a + b;
 }
 
 pub fn p1185() {
     let a: re::math::point::Point2<re::render::Model> = mk();
-    let b: re::math::point::Point3<()> = mk();
+    let b: re::math::point::Point2<re::render::World> = mk();
     let _ = re::math::Lerp::lerp(&a, &b, 0.5);
 }
 
 pub fn p1186() {
     let a: re::math::point::Point2<re::render::Model> = mk();
-    let b: re::math::point::Point3<()> = mk();
+    let b: re::math::point::Point2<re::render::World> = mk();
     let _ = a - b;
 }
 
 pub fn p1187() {
     let a: re::math::point::Point2<re::render::Model> = mk();
-    let b: re::math::point::Point3<re::render::World> = mk();
+    let b: re::math::point::Point3<re::render::Model> = mk();
     let _ = a + b;
 }
 
 pub fn p1188() {
     let a: re::math::point::Point2<re::render::Model> = mk();
-    let b: re::math::point::Point3<re::render::World> = mk();
+    let b: re::math::point::Point3<re::render::Model> = mk();
     let _ = re::math::Lerp::lerp(&a, &b, 0.5);
 }
 
 pub fn p1189() {
     let a: re::math::point::Point2<re::render::Model> = mk();
-    let b: re::math::point::Point3<re::render::World> = mk();
+    let b: re::math::point::Point3<re::render::Model> = mk();
     let _ = a - b;
 }
 
 pub fn p1190() {
     let a: re::math::point::Point2<re::render::Model> = mk();
-    let b: re::math::angle::SphericalVec = mk();
+    let b: re::math::point::Point3<()> = mk();
     let _ = a + b;
 }
 
 pub fn p1191() {
     let a: re::math::point::Point2<re::render::Model> = mk();
-    let b: re::math::angle::SphericalVec = mk();
-    let _ = a + b.to_cart();
+    let b: re::math::point::Point3<()> = mk();
+    let _ = re::math::Lerp::lerp(&a, &b, 0.5);
 }
 
 pub fn p1192() {
     let a: re::math::point::Point2<re::render::Model> = mk();
-    let b: re::math::angle::SphericalVec = mk();
-    let _ = a + b.into();
+    let b: re::math::point::Point3<()> = mk();
+    let _ = a - b;
+}
+
+pub fn p1193() {
+    let a: re::math::point::Point2<re::render::Model> = mk();
+    let b: re::math::point::Point3<re::render::World> = mk();
+    let _ = a + b;
 }
 
 pub fn p1194() {
     let a: re::math::point::Point2<re::render::Model> = mk();
-    let b: re::math::vec::Vec2<()> = mk();
-    let _ = a + b;
+    let b: re::math::point::Point3<re::render::World> = mk();
+    let _ = re::math::Lerp::lerp(&a, &b, 0.5);
 }
 
 pub fn p1195() {
     let a: re::math::point::Point2<re::render::Model> = mk();
-    let b: re::math::vec::Vec2<re::render::World> = mk();
-    let _ = a + b;
+    let b: re::math::point::Point3<re::render::World> = mk();
+    let _ = a - b;
 }
 
 pub fn p1196() {
     let a: re::math::point::Point2<re::render::Model> = mk();
-    let b: re::math::vec::Vec3<re::render::Model> = mk();
+    let b: re::math::angle::SphericalVec = mk();
     let _ = a + b;
 }
 
 pub fn p1197() {
     let a: re::math::point::Point2<re::render::Model> = mk();
+    let b: re::math::angle::SphericalVec = mk();
+    let _ = a + b.to_cart();
+}
+
+pub fn p1198() {
+    let a: re::math::point::Point2<re::render::Model> = mk();
+    let b: re::math::angle::SphericalVec = mk();
+    let _ = a + b.into();
+}
+
+pub fn p1200() {
+    let a: re::math::point::Point2<re::render::Model> = mk();
+    let b: re::math::vec::Vec2<()> = mk();
+    let _ = a + b;
+}
+
+pub fn p1201() {
+    let a: re::math::point::Point2<re::render::Model> = mk();
+    let b: re::math::vec::Vec2<re::render::World> = mk();
+    let _ = a + b;
+}
+
+pub fn p1202() {
+    let a: re::math::point::Point2<re::render::Model> = mk();
+    let b: re::math::vec::Vec3<re::render::Model> = mk();
+    let _ = a + b;
+}
+
+pub fn p1203() {
+    let a: re::math::point::Point2<re::render::Model> = mk();
     let b: re::math::vec::Vec3<()> = mk();
     let _ = a + b;
 }
 
-pub fn p1198() {
+pub fn p1204() {
     let a: re::math::point::Point2<re::render::Model> = mk();
     let b: re::math::vec::Vec3<re::render::World> = mk();
     let _ = a + b;
 }
 
-pub fn p1199() {
+pub fn p1205() {
     let a: re::math::point::Point2<re::render::Model> = mk();
     let _ = [a.clone(), a].into_iter().sum::<re::math::point::Point2<re::render::Model>>();
 }
 
-pub fn p1200() {
-    let a: re::math::point::Point2<()> = mk();
-    let b: re::math::angle::PolarVec = mk();
-    let _ = a + b;
-}
-
-pub fn p1203() {
-    let a: re::math::point::Point2<()> = mk();
-    let b: re::math::point::Point2<re::render::Model> = mk();
-    let _ = a + b;
-}
-
-pub fn p1204() {
-    let a: re::math::point::Point2<()> = mk();
-    let b: re::math::point::Point2<re::render::Model> = mk();
-    let _ = re::math::Lerp::lerp(&a, &b, 0.5);
-}
-
-pub fn p1205() {
-    let a: re::math::point::Point2<()> = mk();
-    let b: re::math::point::Point2<re::render::Model> = mk();
-    let _ = a - b;
-}
-
 pub fn p1206() {
     let a: re::math::point::Point2<()> = mk();
-    let b: re::math::point::Point2<()> = mk();
+    let b: re::math::angle::PolarVec = mk();
     let _ = a + b;
 }
 
 pub fn p1209() {
     let a: re::math::point::Point2<()> = mk();
-    let b: re::math::point::Point2<re::render::World> = mk();
+    let b: re::math::point::Point2<re::render::Model> = mk();
     let _ = a + b;
 }
 
 pub fn p1210() {
     let a: re::math::point::Point2<()> = mk();
-    let b: re::math::point::Point2<re::render::World> = mk();
+    let b: re::math::point::Point2<re::render::Model> = mk();
     let _ = re::math::Lerp::lerp(&a, &b, 0.5);
 }
 
 pub fn p1211() {
     let a: re::math::point::Point2<()> = mk();
-    let b: re::math::point::Point2<re::render::World> = mk();
+    let b: re::math::point::Point2<re::render::Model> = mk();
     let _ = a - b;
 }
 
 pub fn p1212() {
     let a: re::math::point::Point2<()> = mk();
-    let b: re::math::point::Point3<re::render::Model> = mk();
+    let b: re::math::point::Point2<()> = mk();
     let _ = a + b;
-}
-
-pub fn p1213() {
-    let a: re::math::point::Point2<()> = mk();
-    let b: re::math::point::Point3<re::render::Model> = mk();
-    let _ = re::math::Lerp::lerp(&a, &b, 0.5);
-}
-
-pub fn p1214() {
-    let a: re::math::point::Point2<()> = mk();
-    let b: re::math::point::Point3<re::render::Model> = mk();
-    let _ = a - b;
 }
 
 pub fn p1215() {
     let a: re::math::point::Point2<()> = mk();
-    let b: re::math::point::Point3<()> = mk();
+    let b: re::math::point::Point2<re::render::World> = mk();
     let _ = a + b;
 }
 
 pub fn p1216() {
     let a: re::math::point::Point2<()> = mk();
-    let b: re::math::point::Point3<()> = mk();
+    let b: re::math::point::Point2<re::render::World> = mk();
     let _ = re::math::Lerp::lerp(&a, &b, 0.5);
 }
 
 pub fn p1217() {
     let a: re::math::point::Point2<()> = mk();
-    let b: re::math::point::Point3<()> = mk();
+    let b: re::math::point::Point2<re::render::World> = mk();
     let _ = a - b;
 }
 
 pub fn p1218() {
     let a: re::math::point::Point2<()> = mk();
-    let b: re::math::point::Point3<re::render::World> = mk();
+    let b: re::math::point::Point3<re::render::Model> = mk();
     let _ = a + b;
 }
 
 pub fn p1219() {
     let a: re::math::point::Point2<()> = mk();
-    let b: re::math::point::Point3<re::render::World> = mk();
+    let b: re::math::point::Point3<re::render::Model> = mk();
     let _ = re::math::Lerp::lerp(&a, &b, 0.5);
 }
 
 pub fn p1220() {
     let a: re::math::point::Point2<()> = mk();
-    let b: re::math::point::Point3<re::render::World> = mk();
+    let b: re::math::point::Point3<re::render::Model> = mk();
     let _ = a - b;
 }
 
 pub fn p1221() {
     let a: re::math::point::Point2<()> = mk();
-    let b: re::math::angle::SphericalVec = mk();
+    let b: re::math::point::Point3<()> = mk();
     let _ = a + b;
 }
 
 pub fn p1222() {
     let a: re::math::point::Point2<()> = mk();
-    let b: re::math::angle::SphericalVec = mk();
-    let _ = a + b.to_cart();
+    let b: re::math::point::Point3<()> = mk();
+    let _ = re::math::Lerp::lerp(&a, &b, 0.5);
 }
 
 pub fn p1223() {
     let a: re::math::point::Point2<()> = mk();
-    let b: re::math::angle::SphericalVec = mk();
-    let _ = a + b.into();
+    let b: re::math::point::Point3<()> = mk();
+    let _ = a - b;
 }
 
 pub fn p1224() {
     let a: re::math::point::Point2<()> = mk();
-    let b: re::math::vec::Vec2<re::render::Model> = mk();
+    let b: re::math::point::Point3<re::render::World> = mk();
     let _ = a + b;
+}
+
+pub fn p1225() {
+    let a: re::math::point::Point2<()> = mk();
+    let b: re::math::point::Point3<re::render::World> = mk();
+    let _ = re::math::Lerp::lerp(&a, &b, 0.5);
 }
 
 pub fn p1226() {
     let a: re::math::point::Point2<()> = mk();
-    let b: re::math::vec::Vec2<re::render::World> = mk();
-    let _ = a + b;
+    let b: re::math::point::Point3<re::render::World> = mk();
+    let _ = a - b;
 }
 
 pub fn p1227() {
     let a: re::math::point::Point2<()> = mk();
-    let b: re::math::vec::Vec3<re::render::Model> = mk();
+    let b: re::math::angle::SphericalVec = mk();
     let _ = a + b;
 }
 
 pub fn p1228() {
     let a: re::math::point::Point2<()> = mk();
+    let b: re::math::angle::SphericalVec = mk();
+    let _ = a + b.to_cart();
+}
+
+pub fn p1229() {
+    let a: re::math::point::Point2<()> = mk();
+    let b: re::math::angle::SphericalVec = mk();
+    let _ = a + b.into();
+}
+
+pub fn p1230() {
+    let a: re::math::point::Point2<()> = mk();
+    let b: re::math::vec::Vec2<re::render::Model> = mk();
+    let _ = a + b;
+}
+
+pub fn p1232() {
+    let a: re::math::point::Point2<()> = mk();
+    let b: re::math::vec::Vec2<re::render::World> = mk();
+    let _ = a + b;
+}
+
+pub fn p1233() {
+    let a: re::math::point::Point2<()> = mk();
+    let b: re::math::vec::Vec3<re::render::Model> = mk();
+    let _ = a + b;
+}
+
+pub fn p1234() {
+    let a: re::math::point::Point2<()> = mk();
     let b: re::math::vec::Vec3<()> = mk();
     let _ = a + b;
 }
 
-pub fn p1229() {
+pub fn p1235() {
     let a: re::math::point::Point2<()> = mk();
     let b: re::math::vec::Vec3<re::render::World> = mk();
     let _ = a + b;
 }
 
-pub fn p1230() {
+pub fn p1236() {
     let a: re::math::point::Point2<()> = mk();
     let _ = [a.clone(), a].into_iter().sum::<re::math::point::Point2<()>>();
 }
 
-pub fn p1231() {
-    let a: re::math::point::Point2<re::render::World> = mk();
-    let b: re::math::point::Point2<re::render::Model> = mk();
-    let _ = a + b;
-}
-
-pub fn p1232() {
-    let a: re::math::point::Point2<re::render::World> = mk();
-    let b: re::math::point::Point2<re::render::Model> = mk();
-    let _ = re::math::Lerp::lerp(&a, &b, 0.5);
-}
-
-pub fn p1233() {
-    let a: re::math::point::Point2<re::render::World> = mk();
-    let b: re::math::point::Point2<re::render::Model> = mk();
-    let _ = a - b;
-}
-
-pub fn p1234() {
-    let a: re::math::point::Point2<re::render::World> = mk();
-    let b: re::math::point::Point2<()> = mk();
-    let _ = a + b;
-}
-
-pub fn p1235() {
-    let a: re::math::point::Point2<re::render::World> = mk();
-    let b: re::math::point::Point2<()> = mk();
-    let _ = re::math::Lerp::lerp(&a, &b, 0.5);
-}
-
-pub fn p1236() {
-    let a: re::math::point::Point2<re::render::World> = mk();
-    let b: re::math::point::Point2<()> = mk();
-    let _ = a - b;
-}
-
 pub fn p1237() {
     let a: re::math::point::Point2<re::render::World> = mk();
-    let b: re::math::point::Point2<re::render::World> = mk();
+    let b: re::math::point::Point2<re::render::Model> = mk();
     let _ = a + b;
+}
+
+pub fn p1238() {
+    let a: re::math::point::Point2<re::render::World> = mk();
+    let b: re::math::point::Point2<re::render::Model> = mk();
+    let _ = re::math::Lerp::lerp(&a, &b, 0.5);
+}
+
+pub fn p1239() {
+    let a: re::math::point::Point2<re::render::World> = mk();
+    let b: re::math::point::Point2<re::render::Model> = mk();
+    let _ = a - b;
 }
 
 pub fn p1240() {
     let a: re::math::point::Point2<re::render::World> = mk();
-    let b: re::math::point::Point3<re::render::Model> = mk();
+    let b: re::math::point::Point2<()> = mk();
     let _ = a + b;
 }
 
 pub fn p1241() {
     let a: re::math::point::Point2<re::render::World> = mk();
-    let b: re::math::point::Point3<re::render::Model> = mk();
+    let b: re::math::point::Point2<()> = mk();
     let _ = re::math::Lerp::lerp(&a, &b, 0.5);
 }
 
 pub fn p1242() {
     let a: re::math::point::Point2<re::render::World> = mk();
-    let b: re::math::point::Point3<re::render::Model> = mk();
+    let b: re::math::point::Point2<()> = mk();
     let _ = a - b;
 }
 
 pub fn p1243() {
     let a: re::math::point::Point2<re::render::World> = mk();
-    let b: re::math::point::Point3<()> = mk();
+    let b: re::math::point::Point2<re::render::World> = mk();
     let _ = a + b;
-}
-
-pub fn p1244() {
-    let a: re::math::point::Point2<re::render::World> = mk();
-    let b: re::math::point::Point3<()> = mk();
-    let _ = re::math::Lerp::lerp(&a, &b, 0.5);
-}
-
-pub fn p1245() {
-    let a: re::math::point::Point2<re::render::World> = mk();
-    let b: re::math::point::Point3<()> = mk();
-    let _ = a - b;
 }
 
 pub fn p1246() {
     let a: re::math::point::Point2<re::render::World> = mk();
-    let b: re::math::point::Point3<re::render::World> = mk();
+    let b: re::math::point::Point3<re::render::Model> = mk();
     let _ = a + b;
 }
 
 pub fn p1247() {
     let a: re::math::point::Point2<re::render::World> = mk();
-    let b: re::math::point::Point3<re::render::World> = mk();
+    let b: re::math::point::Point3<re::render::Model> = mk();
     let _ = re::math::Lerp::lerp(&a, &b, 0.5);
 }
 
 pub fn p1248() {
     let a: re::math::point::Point2<re::render::World> = mk();
-    let b: re::math::point::Point3<re::render::World> = mk();
+    let b: re::math::point::Point3<re::render::Model> = mk();
     let _ = a - b;
 }
 
 pub fn p1249() {
     let a: re::math::point::Point2<re::render::World> = mk();
-    let b: re::math::vec::Vec2<re::render::Model> = mk();
+    let b: re::math::point::Point3<()> = mk();
     let _ = a + b;
 }
 
 pub fn p1250() {
     let a: re::math::point::Point2<re::render::World> = mk();
-    let b: re::math::vec::Vec2<()> = mk();
-    let _ = a + b;
+    let b: re::math::point::Point3<()> = mk();
+    let _ = re::math::Lerp::lerp(&a, &b, 0.5);
+}
+
+pub fn p1251() {
+    let a: re::math::point::Point2<re::render::World> = mk();
+    let b: re::math::point::Point3<()> = mk();
+    let _ = a - b;
 }
 
 pub fn p1252() {
     let a: re::math::point::Point2<re::render::World> = mk();
-    let b: re::math::vec::Vec3<re::render::Model> = mk();
+    let b: re::math::point::Point3<re::render::World> = mk();
     let _ = a + b;
 }
 
 pub fn p1253() {
     let a: re::math::point::Point2<re::render::World> = mk();
+    let b: re::math::point::Point3<re::render::World> = mk();
+    let _ = re::math::Lerp::lerp(&a, &b, 0.5);
+}
+
+pub fn p1254() {
+    let a: re::math::point::Point2<re::render::World> = mk();
+    let b: re::math::point::Point3<re::render::World> = mk();
+    let _ = a - b;
+}
+
+pub fn p1255() {
+    let a: re::math::point::Point2<re::render::World> = mk();
+    let b: re::math::vec::Vec2<re::render::Model> = mk();
+    let _ = a + b;
+}
+
+pub fn p1256() {
+    let a: re::math::point::Point2<re::render::World> = mk();
+    let b: re::math::vec::Vec2<()> = mk();
+    let _ = a + b;
+}
+
+pub fn p1258() {
+    let a: re::math::point::Point2<re::render::World> = mk();
+    let b: re::math::vec::Vec3<re::render::Model> = mk();
+    let _ = a + b;
+}
+
+pub fn p1259() {
+    let a: re::math::point::Point2<re::render::World> = mk();
     let b: re::math::vec::Vec3<()> = mk();
     let _ = a + b;
 }
 
-pub fn p1254() {
+pub fn p1260() {
     let a: re::math::point::Point2<re::render::World> = mk();
     let b: re::math::vec::Vec3<re::render::World> = mk();
     let _ = a + b;
 }
 
-pub fn p1255() {
+pub fn p1261() {
     let a: re::math::point::Point2<re::render::World> = mk();
     let _ = [a.clone(), a].into_iter().sum::<re::math::point::Point2<re::render::World>>();
 }
 
-pub fn p1256() {
-    let a: re::math::point::Point3<re::render::Model> = mk();
-    let b: re::math::angle::PolarVec = mk();
-    let _ = a + b;
-}
-
-pub fn p1257() {
-    let a: re::math::point::Point3<re::render::Model> = mk();
-    let b: re::math::angle::PolarVec = mk();
-    let _ = a + b.to_cart();
-}
-
-pub fn p1258() {
-    let a: re::math::point::Point3<re::render::Model> = mk();
-    let b: re::math::angle::PolarVec = mk();
-    let _ = a + b.into();
-}
-
-pub fn p1259() {
-    let a: re::math::point::Point3<re::render::Model> = mk();
-    let b: re::math::point::Point2<re::render::Model> = mk();
-    let _ = a + b;
-}
-
-pub fn p1260() {
-    let a: re::math::point::Point3<re::render::Model> = mk();
-    let b: re::math::point::Point2<re::render::Model> = mk();
-    let _ = re::math::Lerp::lerp(&a, &b, 0.5);
-}
-
-pub fn p1261() {
-    let a: re::math::point::Point3<re::render::Model> = mk();
-    let b: re::math::point::Point2<re::render::Model> = mk();
-    let _ = a - b;
-}
-
 pub fn p1262() {
     let a: re::math::point::Point3<re::render::Model> = mk();
-    let b: re::math::point::Point2<()> = mk();
+    let b: re::math::angle::PolarVec = mk();
     let _ = a + b;
 }
 
 pub fn p1263() {
     let a: re::math::point::Point3<re::render::Model> = mk();
-    let b: re::math::point::Point2<()> = mk();
-    let _ = re::math::Lerp::lerp(&a, &b, 0.5);
+    let b: re::math::angle::PolarVec = mk();
+    let _ = a + b.to_cart();
 }
 
 pub fn p1264() {
     let a: re::math::point::Point3<re::render::Model> = mk();
-    let b: re::math::point::Point2<()> = mk();
-    let _ = a - b;
+    let b: re::math::angle::PolarVec = mk();
+    let _ = a + b.into();
 }
 
 pub fn p1265() {
     let a: re::math::point::Point3<re::render::Model> = mk();
-    let b: re::math::point::Point2<re::render::World> = mk();
+    let b: re::math::point::Point2<re::render::Model> = mk();
     let _ = a + b;
 }
 
 pub fn p1266() {
     let a: re::math::point::Point3<re::render::Model> = mk();
-    let b: re::math::point::Point2<re::render::World> = mk();
+    let b: re::math::point::Point2<re::render::Model> = mk();
     let _ = re::math::Lerp::lerp(&a, &b, 0.5);
 }
 
 pub fn p1267() {
     let a: re::math::point::Point3<re::render::Model> = mk();
-    let b: re::math::point::Point2<re::render::World> = mk();
+    let b: re::math::point::Point2<re::render::Model> = mk();
     let _ = a - b;
 }
 
 pub fn p1268() {
     let a: re::math::point::Point3<re::render::Model> = mk();
-    let b: re::math::point::Point3<re::render::Model> = mk();
-    let _r: re::math::point::Point3<re::render::Model> = a - b;
+    let b: re::math::point::Point2<()> = mk();
+    let _ = a + b;
+}
+
+pub fn p1269() {
+    let a: re::math::point::Point3<re::render::Model> = mk();
+    let b: re::math::point::Point2<()> = mk();
+    let _ = re::math::Lerp::lerp(&a, &b, 0.5);
 }
 
 pub fn p1270() {
     let a: re::math::point::Point3<re::render::Model> = mk();
-    let b: re::math::point::Point3<re::render::Model> = mk();
-    let _r: re::math::point::Point3<()> = a - b;
+    let b: re::math::point::Point2<()> = mk();
+    let _ = a - b;
 }
 
 pub fn p1271() {
     let a: re::math::point::Point3<re::render::Model> = mk();
-    let b: re::math::point::Point3<re::render::Model> = mk();
-    let c: re::math::point::Point3<()> = mk();
-    let d = re::math::space::Affine::sub(&a, &b);
-    let _ = re::math::space::Affine::add(&c, &d);
+    let b: re::math::point::Point2<re::render::World> = mk();
+    let _ = a + b;
 }
 
 pub fn p1272() {
     let a: re::math::point::Point3<re::render::Model> = mk();
-    let b: re::math::point::Point3<re::render::Model> = mk();
-    let _r: re::math::point::Point3<re::render::World> = a - b;
+    let b: re::math::point::Point2<re::render::World> = mk();
+    let _ = re::math::Lerp::lerp(&a, &b, 0.5);
 }
 
 pub fn p1273() {
     let a: re::math::point::Point3<re::render::Model> = mk();
-    let b: re::math::point::Point3<re::render::Model> = mk();
-    let c: re::math::point::Point3<re::render::World> = mk();
-    let d = re::math::space::Affine::sub(&a, &b);
-    let _ = re::math::space::Affine::add(&c, &d);
+    let b: re::math::point::Point2<re::render::World> = mk();
+    let _ = a - b;
 }
 
-pub fn p1275() {
+pub fn p1274() {
     let a: re::math::point::Point3<re::render::Model> = mk();
     let b: re::math::point::Point3<re::render::Model> = mk();
-    let _r: re::math::vec::Vec3<()> = a - b;
+    let _r: re::math::point::Point3<re::render::Model> = a - b;
 }
 
 pub fn p1276() {
     let a: re::math::point::Point3<re::render::Model> = mk();
     let b: re::math::point::Point3<re::render::Model> = mk();
-    let _r: re::math::vec::Vec3<re::render::World> = a - b;
+    let _r: re::math::point::Point3<()> = a - b;
 }
 
 pub fn p1277() {
     let a: re::math::point::Point3<re::render::Model> = mk();
     let b: re::math::point::Point3<re::render::Model> = mk();
-    let _ = a + b;
-}
-
-pub fn p1280() {
-    let a: re::math::point::Point3<re::render::Model> = mk();
-    let b: re::math::point::Point3<()> = mk();
-    let _r: re::math::point::Point3<re::render::Model> = a - b;
-}
-
-pub fn p1281() {
-    let a: re::math::point::Point3<re::render::Model> = mk();
-    let b: re::math::point::Point3<()> = mk();
-    let c: re::math::point::Point3<re::render::Model> = mk();
-    let d = re::math::space::Affine::sub(&a, &b);
-    let _ = re::math::space::Affine::add(&c, &d);
-}
-
-pub fn p1282() {
-    let a: re::math::point::Point3<re::render::Model> = mk();
-    let b: re::math::point::Point3<()> = mk();
-    let _r: re::math::point::Point3<()> = a - b;
-}
-
-pub fn p1283() {
-    let a: re::math::point::Point3<re::render::Model> = mk();
-    let b: re::math::point::Point3<()> = mk();
     let c: re::math::point::Point3<()> = mk();
     let d = re::math::space::Affine::sub(&a, &b);
     let _ = re::math::space::Affine::add(&c, &d);
 }
 
-pub fn p1284() {
+pub fn p1278() {
     let a: re::math::point::Point3<re::render::Model> = mk();
-    let b: re::math::point::Point3<()> = mk();
+    let b: re::math::point::Point3<re::render::Model> = mk();
     let _r: re::math::point::Point3<re::render::World> = a - b;
 }
 
-pub fn p1285() {
+pub fn p1279() {
     let a: re::math::point::Point3<re::render::Model> = mk();
-    let b: re::math::point::Point3<()> = mk();
+    let b: re::math::point::Point3<re::render::Model> = mk();
     let c: re::math::point::Point3<re::render::World> = mk();
     let d = re::math::space::Affine::sub(&a, &b);
     let _ = re::math::space::Affine::add(&c, &d);
+}
+
+pub fn p1281() {
+    let a: re::math::point::Point3<re::render::Model> = mk();
+    let b: re::math::point::Point3<re::render::Model> = mk();
+    let _r: re::math::vec::Vec3<()> = a - b;
+}
+
+pub fn p1282() {
+    let a: re::math::point::Point3<re::render::Model> = mk();
+    let b: re::math::point::Point3<re::render::Model> = mk();
+    let _r: re::math::vec::Vec3<re::render::World> = a - b;
+}
+
+pub fn p1283() {
+    let a: re::math::point::Point3<re::render::Model> = mk();
+    let b: re::math::point::Point3<re::render::Model> = mk();
+    let _ = a + b;
 }
 
 pub fn p1286() {
     let a: re::math::point::Point3<re::render::Model> = mk();
     let b: re::math::point::Point3<()> = mk();
-    let _r: re::math::vec::Vec3<re::render::Model> = a - b;
+    let _r: re::math::point::Point3<re::render::Model> = a - b;
 }
 
 pub fn p1287() {
     let a: re::math::point::Point3<re::render::Model> = mk();
     let b: re::math::point::Point3<()> = mk();
-    let _r: re::math::vec::Vec3<()> = a - b;
+    let c: re::math::point::Point3<re::render::Model> = mk();
+    let d = re::math::space::Affine::sub(&a, &b);
+    let _ = re::math::space::Affine::add(&c, &d);
 }
 
 pub fn p1288() {
     let a: re::math::point::Point3<re::render::Model> = mk();
     let b: re::math::point::Point3<()> = mk();
-    let _r: re::math::vec::Vec3<re::render::World> = a - b;
+    let _r: re::math::point::Point3<()> = a - b;
 }
 
 pub fn p1289() {
     let a: re::math::point::Point3<re::render::Model> = mk();
     let b: re::math::point::Point3<()> = mk();
-    let _ = a + b;
+    let c: re::math::point::Point3<()> = mk();
+    let d = re::math::space::Affine::sub(&a, &b);
+    let _ = re::math::space::Affine::add(&c, &d);
 }
 
 pub fn p1290() {
     let a: re::math::point::Point3<re::render::Model> = mk();
     let b: re::math::point::Point3<()> = mk();
-    let _ = re::math::Lerp::lerp(&a, &b, 0.5);
+    let _r: re::math::point::Point3<re::render::World> = a - b;
 }
 
 pub fn p1291() {
     let a: re::math::point::Point3<re::render::Model> = mk();
     let b: re::math::point::Point3<()> = mk();
-    let _ = a - b;
+    let c: re::math::point::Point3<re::render::World> = mk();
+    let d = re::math::space::Affine::sub(&a, &b);
+    let _ = re::math::space::Affine::add(&c, &d);
 }
 
 pub fn p1292() {
+    let a: re::math::point::Point3<re::render::Model> = mk();
+    let b: re::math::point::Point3<()> = mk();
+    let _r: re::math::vec::Vec3<re::render::Model> = a - b;
+}
+
+pub fn p1293() {
+    let a: re::math::point::Point3<re::render::Model> = mk();
+    let b: re::math::point::Point3<()> = mk();
+    let _r: re::math::vec::Vec3<()> = a - b;
+}
+
+pub fn p1294() {
+    let a: re::math::point::Point3<re::render::Model> = mk();
+    let b: re::math::point::Point3<()> = mk();
+    let _r: re::math::vec::Vec3<re::render::World> = a - b;
+}
+
+pub fn p1295() {
+    let a: re::math::point::Point3<re::render::Model> = mk();
+    let b: re::math::point::Point3<()> = mk();
+    let _ = a + b;
+}
+
+pub fn p1296() {
+    let a: re::math::point::Point3<re::render::Model> = mk();
+    let b: re::math::point::Point3<()> = mk();
+    let _ = re::math::Lerp::lerp(&a, &b, 0.5);
+}
+
+pub fn p1297() {
+    let a: re::math::point::Point3<re::render::Model> = mk();
+    let b: re::math::point::Point3<()> = mk();
+    let _ = a - b;
+}
+
+pub fn p1298() {
     let a: re::math::point::Point3<re::render::Model> = mk();
     let b: re::math::point::Point3<re::render::World> = mk();
     let _r: re::math::point::Point3<re::render::Model> = a - b;
 }
 
-pub fn p1293() {
+pub fn p1299() {
     let a: re::math::point::Point3<re::render::Model> = mk();
     let b: re::math::point::Point3<re::render::World> = mk();
     let c: re::math::point::Point3<re::render::Model> = mk();
@@ -6100,13 +6155,13 @@ pub fn p1293() {
     let _ = re::math::space::Affine::add(&c, &d);
 }
 
-pub fn p1294() {
+pub fn p1300() {
     let a: re::math::point::Point3<re::render::Model> = mk();
     let b: re::math::point::Point3<re::render::World> = mk();
     let _r: re::math::point::Point3<()> = a - b;
 }
 
-pub fn p1295() {
+pub fn p1301() {
     let a: re::math::point::Point3<re::render::Model> = mk();
     let b: re::math::point::Point3<re::render::World> = mk();
     let c: re::math::point::Point3<()> = mk();
@@ -6114,13 +6169,13 @@ pub fn p1295() {
     let _ = re::math::space::Affine::add(&c, &d);
 }
 
-pub fn p1296() {
+pub fn p1302() {
     let a: re::math::point::Point3<re::render::Model> = mk();
     let b: re::math::point::Point3<re::render::World> = mk();
     let _r: re::math::point::Point3<re::render::World> = a - b;
 }
 
-pub fn p1297() {
+pub fn p1303() {
     let a: re::math::point::Point3<re::render::Model> = mk();
     let b: re::math::point::Point3<re::render::World> = mk();
     let c: re::math::point::Point3<re::render::World> = mk();
@@ -6128,96 +6183,96 @@ pub fn p1297() {
     let _ = re::math::space::Affine::add(&c, &d);
 }
 
-pub fn p1298() {
+pub fn p1304() {
     let a: re::math::point::Point3<re::render::Model> = mk();
     let b: re::math::point::Point3<re::render::World> = mk();
     let _r: re::math::vec::Vec3<re::render::Model> = a - b;
 }
 
-pub fn p1299() {
+pub fn p1305() {
     let a: re::math::point::Point3<re::render::Model> = mk();
     let b: re::math::point::Point3<re::render::World> = mk();
     let _r: re::math::vec::Vec3<()> = a - b;
 }
 
-pub fn p1300() {
+pub fn p1306() {
     let a: re::math::point::Point3<re::render::Model> = mk();
     let b: re::math::point::Point3<re::render::World> = mk();
     let _r: re::math::vec::Vec3<re::render::World> = a - b;
 }
 
-pub fn p1301() {
-    let a: re::math::point::Point3<re::render::Model> = mk();
-    let b: re::math::point::Point3<re::render::World> = mk();
-    let _ = a + b;
-}
-
-pub fn p1302() {
-    let a: re::math::point::Point3<re::render::Model> = mk();
-    let b: re::math::point::Point3<re::render::World> = mk();
-    let _ = re::math::Lerp::lerp(&a, &b, 0.5);
-}
-
-pub fn p1303() {
-    let a: re::math::point::Point3<re::render::Model> = mk();
-    let b: re::math::point::Point3<re::render::World> = mk();
-    let _ = a - b;
-}
-
-pub fn p1304() {
-    let a: re::math::point::Point3<re::render::Model> = mk();
-    let b: re::math::angle::SphericalVec = mk();
-    let _ = a + b;
-}
-
-pub fn p1305() {
-    let a: re::math::point::Point3<re::render::Model> = mk();
-    let b: re::math::angle::SphericalVec = mk();
-    let _ = a + b.to_cart();
-}
-
-pub fn p1306() {
-    let a: re::math::point::Point3<re::render::Model> = mk();
-    let b: re::math::angle::SphericalVec = mk();
-    let _ = a + b.into();
-}
-
 pub fn p1307() {
     let a: re::math::point::Point3<re::render::Model> = mk();
-    let b: re::math::vec::Vec2<re::render::Model> = mk();
+    let b: re::math::point::Point3<re::render::World> = mk();
     let _ = a + b;
 }
 
 pub fn p1308() {
     let a: re::math::point::Point3<re::render::Model> = mk();
-    let b: re::math::vec::Vec2<()> = mk();
-    let _ = a + b;
+    let b: re::math::point::Point3<re::render::World> = mk();
+    let _ = re::math::Lerp::lerp(&a, &b, 0.5);
 }
 
 pub fn p1309() {
     let a: re::math::point::Point3<re::render::Model> = mk();
-    let b: re::math::vec::Vec2<re::render::World> = mk();
+    let b: re::math::point::Point3<re::render::World> = mk();
+    let _ = a - b;
+}
+
+pub fn p1310() {
+    let a: re::math::point::Point3<re::render::Model> = mk();
+    let b: re::math::angle::SphericalVec = mk();
     let _ = a + b;
 }
 
 pub fn p1311() {
     let a: re::math::point::Point3<re::render::Model> = mk();
+    let b: re::math::angle::SphericalVec = mk();
+    let _ = a + b.to_cart();
+}
+
+pub fn p1312() {
+    let a: re::math::point::Point3<re::render::Model> = mk();
+    let b: re::math::angle::SphericalVec = mk();
+    let _ = a + b.into();
+}
+
+pub fn p1313() {
+    let a: re::math::point::Point3<re::render::Model> = mk();
+    let b: re::math::vec::Vec2<re::render::Model> = mk();
+    let _ = a + b;
+}
+
+pub fn p1314() {
+    let a: re::math::point::Point3<re::render::Model> = mk();
+    let b: re::math::vec::Vec2<()> = mk();
+    let _ = a + b;
+}
+
+pub fn p1315() {
+    let a: re::math::point::Point3<re::render::Model> = mk();
+    let b: re::math::vec::Vec2<re::render::World> = mk();
+    let _ = a + b;
+}
+
+pub fn p1317() {
+    let a: re::math::point::Point3<re::render::Model> = mk();
     let b: re::math::vec::Vec3<()> = mk();
     let _ = a + b;
 }
 
-pub fn p1312() {
+pub fn p1318() {
     let a: re::math::point::Point3<re::render::Model> = mk();
     let b: re::math::vec::Vec3<re::render::World> = mk();
     let _ = a + b;
 }
 
-pub fn p1313() {
+pub fn p1319() {
     let a: re::math::point::Point3<re::render::Model> = mk();
     let _ = [a.clone(), a].into_iter().sum::<re::math::point::Point3<re::render::Model>>();
 }
 
-pub fn p1314() {
+pub fn p1320() {
     use re::geom::{Tri, Vertex};
     let vs = |_: Vertex<re::math::point::Point3<re::render::Model>, ()>, _: ()| -> Vertex<re::math::point::Point3<re::render::Model>, f32> { mk() };
     let fs = |_: re::render::raster::Frag<f32>| -> Option<re::math::color::Color4> { mk() };
@@ -6228,466 +6283,466 @@ pub fn p1314() {
     re::render::render(&tris, &verts, &sh, (), mk(), &mut target, &mk::<re::render::Context>());
 }
 
-pub fn p1315() {
-    let a: re::math::point::Point3<()> = mk();
-    let b: re::math::angle::PolarVec = mk();
-    let _ = a + b;
-}
-
-pub fn p1316() {
-    let a: re::math::point::Point3<()> = mk();
-    let b: re::math::angle::PolarVec = mk();
-    let _ = a + b.to_cart();
-}
-
-pub fn p1317() {
-    let a: re::math::point::Point3<()> = mk();
-    let b: re::math::angle::PolarVec = mk();
-    let _ = a + b.into();
-}
-
-pub fn p1318() {
-    let a: re::math::point::Point3<()> = mk();
-    let b: re::math::point::Point2<re::render::Model> = mk();
-    let _ = a + b;
-}
-
-pub fn p1319() {
-    let a: re::math::point::Point3<()> = mk();
-    let b: re::math::point::Point2<re::render::Model> = mk();
-    let _ = re::math::Lerp::lerp(&a, &b, 0.5);
-}
-
-pub fn p1320() {
-    let a: re::math::point::Point3<()> = mk();
-    let b: re::math::point::Point2<re::render::Model> = mk();
-    let _ = a - b;
-}
-
 pub fn p1321() {
     let a: re::math::point::Point3<()> = mk();
-    let b: re::math::point::Point2<()> = mk();
+    let b: re::math::angle::PolarVec = mk();
     let _ = a + b;
 }
 
 pub fn p1322() {
     let a: re::math::point::Point3<()> = mk();
-    let b: re::math::point::Point2<()> = mk();
-    let _ = re::math::Lerp::lerp(&a, &b, 0.5);
+    let b: re::math::angle::PolarVec = mk();
+    let _ = a + b.to_cart();
 }
 
 pub fn p1323() {
     let a: re::math::point::Point3<()> = mk();
-    let b: re::math::point::Point2<()> = mk();
-    let _ = a - b;
+    let b: re::math::angle::PolarVec = mk();
+    let _ = a + b.into();
 }
 
 pub fn p1324() {
     let a: re::math::point::Point3<()> = mk();
-    let b: re::math::point::Point2<re::render::World> = mk();
+    let b: re::math::point::Point2<re::render::Model> = mk();
     let _ = a + b;
 }
 
 pub fn p1325() {
     let a: re::math::point::Point3<()> = mk();
-    let b: re::math::point::Point2<re::render::World> = mk();
+    let b: re::math::point::Point2<re::render::Model> = mk();
     let _ = re::math::Lerp::lerp(&a, &b, 0.5);
 }
 
 pub fn p1326() {
     let a: re::math::point::Point3<()> = mk();
-    let b: re::math::point::Point2<re::render::World> = mk();
+    let b: re::math::point::Point2<re::render::Model> = mk();
     let _ = a - b;
 }
 
 pub fn p1327() {
     let a: re::math::point::Point3<()> = mk();
-    let b: re::math::point::Point3<re::render::Model> = mk();
-    let _r: re::math::point::Point3<re::render::Model> = a - b;
+    let b: re::math::point::Point2<()> = mk();
+    let _ = a + b;
 }
 
 pub fn p1328() {
     let a: re::math::point::Point3<()> = mk();
-    let b: re::math::point::Point3<re::render::Model> = mk();
-    let c: re::math::point::Point3<re::render::Model> = mk();
-    let d = re::math::space::Affine::sub(&a, &b);
-    let _ = re::math::space::Affine::add(&c, &d);
+    let b: re::math::point::Point2<()> = mk();
+    let _ = re::math::Lerp::lerp(&a, &b, 0.5);
 }
 
 pub fn p1329() {
     let a: re::math::point::Point3<()> = mk();
-    let b: re::math::point::Point3<re::render::Model> = mk();
-    let _r: re::math::point::Point3<()> = a - b;
+    let b: re::math::point::Point2<()> = mk();
+    let _ = a - b;
 }
 
 pub fn p1330() {
     let a: re::math::point::Point3<()> = mk();
-    let b: re::math::point::Point3<re::render::Model> = mk();
-    let c: re::math::point::Point3<()> = mk();
-    let d = re::math::space::Affine::sub(&a, &b);
-    let _ = re::math::space::Affine::add(&c, &d);
+    let b: re::math::point::Point2<re::render::World> = mk();
+    let _ = a + b;
 }
 
 pub fn p1331() {
     let a: re::math::point::Point3<()> = mk();
-    let b: re::math::point::Point3<re::render::Model> = mk();
-    let _r: re::math::point::Point3<re::render::World> = a - b;
+    let b: re::math::point::Point2<re::render::World> = mk();
+    let _ = re::math::Lerp::lerp(&a, &b, 0.5);
 }
 
 pub fn p1332() {
     let a: re::math::point::Point3<()> = mk();
-    let b: re::math::point::Point3<re::render::Model> = mk();
-    let c: re::math::point::Point3<re::render::World> = mk();
-    let d = re::math::space::Affine::sub(&a, &b);
-    let _ = re::math::space::Affine::add(&c, &d);
+    let b: re::math::point::Point2<re::render::World> = mk();
+    let _ = a - b;
 }
 
 pub fn p1333() {
     let a: re::math::point::Point3<()> = mk();
     let b: re::math::point::Point3<re::render::Model> = mk();
-    let _r: re::math::vec::Vec3<re::render::Model> = a - b;
+    let _r: re::math::point::Point3<re::render::Model> = a - b;
 }
 
 pub fn p1334() {
     let a: re::math::point::Point3<()> = mk();
     let b: re::math::point::Point3<re::render::Model> = mk();
-    let _r: re::math::vec::Vec3<()> = a - b;
+    let c: re::math::point::Point3<re::render::Model> = mk();
+    let d = re::math::space::Affine::sub(&a, &b);
+    let _ = re::math::space::Affine::add(&c, &d);
 }
 
 pub fn p1335() {
     let a: re::math::point::Point3<()> = mk();
     let b: re::math::point::Point3<re::render::Model> = mk();
-    let _r: re::math::vec::Vec3<re::render::World> = a - b;
+    let _r: re::math::point::Point3<()> = a - b;
 }
 
 pub fn p1336() {
     let a: re::math::point::Point3<()> = mk();
     let b: re::math::point::Point3<re::render::Model> = mk();
-    let _ = a + b;
+    let c: re::math::point::Point3<()> = mk();
+    let d = re::math::space::Affine::sub(&a, &b);
+    let _ = re::math::space::Affine::add(&c, &d);
 }
 
 pub fn p1337() {
     let a: re::math::point::Point3<()> = mk();
     let b: re::math::point::Point3<re::render::Model> = mk();
-    let _ = re::math::Lerp::lerp(&a, &b, 0.5);
+    let _r: re::math::point::Point3<re::render::World> = a - b;
 }
 
 pub fn p1338() {
     let a: re::math::point::Point3<()> = mk();
     let b: re::math::point::Point3<re::render::Model> = mk();
-    let _ = a - b;
+    let c: re::math::point::Point3<re::render::World> = mk();
+    let d = re::math::space::Affine::sub(&a, &b);
+    let _ = re::math::space::Affine::add(&c, &d);
 }
 
 pub fn p1339() {
     let a: re::math::point::Point3<()> = mk();
-    let b: re::math::point::Point3<()> = mk();
-    let _r: re::math::point::Point3<re::render::Model> = a - b;
+    let b: re::math::point::Point3<re::render::Model> = mk();
+    let _r: re::math::vec::Vec3<re::render::Model> = a - b;
 }
 
 pub fn p1340() {
     let a: re::math::point::Point3<()> = mk();
-    let b: re::math::point::Point3<()> = mk();
-    let c: re::math::point::Point3<re::render::Model> = mk();
-    let d = re::math::space::Affine::sub(&a, &b);
-    let _ = re::math::space::Affine::add(&c, &d);
+    let b: re::math::point::Point3<re::render::Model> = mk();
+    let _r: re::math::vec::Vec3<()> = a - b;
 }
 
 pub fn p1341() {
     let a: re::math::point::Point3<()> = mk();
-    let b: re::math::point::Point3<()> = mk();
-    let _r: re::math::point::Point3<()> = a - b;
+    let b: re::math::point::Point3<re::render::Model> = mk();
+    let _r: re::math::vec::Vec3<re::render::World> = a - b;
+}
+
+pub fn p1342() {
+    let a: re::math::point::Point3<()> = mk();
+    let b: re::math::point::Point3<re::render::Model> = mk();
+    let _ = a + b;
 }
 
 pub fn p1343() {
     let a: re::math::point::Point3<()> = mk();
-    let b: re::math::point::Point3<()> = mk();
-    let _r: re::math::point::Point3<re::render::World> = a - b;
+    let b: re::math::point::Point3<re::render::Model> = mk();
+    let _ = re::math::Lerp::lerp(&a, &b, 0.5);
 }
 
 pub fn p1344() {
     let a: re::math::point::Point3<()> = mk();
-    let b: re::math::point::Point3<()> = mk();
-    let c: re::math::point::Point3<re::render::World> = mk();
-    let d = re::math::space::Affine::sub(&a, &b);
-    let _ = re::math::space::Affine::add(&c, &d);
+    let b: re::math::point::Point3<re::render::Model> = mk();
+    let _ = a - b;
 }
 
 pub fn p1345() {
     let a: re::math::point::Point3<()> = mk();
     let b: re::math::point::Point3<()> = mk();
-    let _r: re::math::vec::Vec3<re::render::Model> = a - b;
+    let _r: re::math::point::Point3<re::render::Model> = a - b;
+}
+
+pub fn p1346() {
+    let a: re::math::point::Point3<()> = mk();
+    let b: re::math::point::Point3<()> = mk();
+    let c: re::math::point::Point3<re::render::Model> = mk();
+    let d = re::math::space::Affine::sub(&a, &b);
+    let _ = re::math::space::Affine::add(&c, &d);
 }
 
 pub fn p1347() {
     let a: re::math::point::Point3<()> = mk();
     let b: re::math::point::Point3<()> = mk();
-    let _r: re::math::vec::Vec3<re::render::World> = a - b;
+    let _r: re::math::point::Point3<()> = a - b;
 }
 
-pub fn p1348() {
+pub fn p1349() {
     let a: re::math::point::Point3<()> = mk();
     let b: re::math::point::Point3<()> = mk();
-    let _ = a + b;
+    let _r: re::math::point::Point3<re::render::World> = a - b;
+}
+
+pub fn p1350() {
+    let a: re::math::point::Point3<()> = mk();
+    let b: re::math::point::Point3<()> = mk();
+    let c: re::math::point::Point3<re::render::World> = mk();
+    let d = re::math::space::Affine::sub(&a, &b);
+    let _ = re::math::space::Affine::add(&c, &d);
 }
 
 pub fn p1351() {
     let a: re::math::point::Point3<()> = mk();
-    let b: re::math::point::Point3<re::render::World> = mk();
-    let _r: re::math::point::Point3<re::render::Model> = a - b;
-}
-
-pub fn p1352() {
-    let a: re::math::point::Point3<()> = mk();
-    let b: re::math::point::Point3<re::render::World> = mk();
-    let c: re::math::point::Point3<re::render::Model> = mk();
-    let d = re::math::space::Affine::sub(&a, &b);
-    let _ = re::math::space::Affine::add(&c, &d);
+    let b: re::math::point::Point3<()> = mk();
+    let _r: re::math::vec::Vec3<re::render::Model> = a - b;
 }
 
 pub fn p1353() {
     let a: re::math::point::Point3<()> = mk();
-    let b: re::math::point::Point3<re::render::World> = mk();
-    let _r: re::math::point::Point3<()> = a - b;
+    let b: re::math::point::Point3<()> = mk();
+    let _r: re::math::vec::Vec3<re::render::World> = a - b;
 }
 
 pub fn p1354() {
     let a: re::math::point::Point3<()> = mk();
-    let b: re::math::point::Point3<re::render::World> = mk();
-    let c: re::math::point::Point3<()> = mk();
-    let d = re::math::space::Affine::sub(&a, &b);
-    let _ = re::math::space::Affine::add(&c, &d);
-}
-
-pub fn p1355() {
-    let a: re::math::point::Point3<()> = mk();
-    let b: re::math::point::Point3<re::render::World> = mk();
-    let _r: re::math::point::Point3<re::render::World> = a - b;
-}
-
-pub fn p1356() {
-    let a: re::math::point::Point3<()> = mk();
-    let b: re::math::point::Point3<re::render::World> = mk();
-    let c: re::math::point::Point3<re::render::World> = mk();
-    let d = re::math::space::Affine::sub(&a, &b);
-    let _ = re::math::space::Affine::add(&c, &d);
+    let b: re::math::point::Point3<()> = mk();
+    let _ = a + b;
 }
 
 pub fn p1357() {
     let a: re::math::point::Point3<()> = mk();
     let b: re::math::point::Point3<re::render::World> = mk();
-    let _r: re::math::vec::Vec3<re::render::Model> = a - b;
+    let _r: re::math::point::Point3<re::render::Model> = a - b;
 }
 
 pub fn p1358() {
     let a: re::math::point::Point3<()> = mk();
     let b: re::math::point::Point3<re::render::World> = mk();
-    let _r: re::math::vec::Vec3<()> = a - b;
+    let c: re::math::point::Point3<re::render::Model> = mk();
+    let d = re::math::space::Affine::sub(&a, &b);
+    let _ = re::math::space::Affine::add(&c, &d);
 }
 
 pub fn p1359() {
     let a: re::math::point::Point3<()> = mk();
     let b: re::math::point::Point3<re::render::World> = mk();
-    let _r: re::math::vec::Vec3<re::render::World> = a - b;
+    let _r: re::math::point::Point3<()> = a - b;
 }
 
 pub fn p1360() {
     let a: re::math::point::Point3<()> = mk();
     let b: re::math::point::Point3<re::render::World> = mk();
-    let _ = a + b;
+    let c: re::math::point::Point3<()> = mk();
+    let d = re::math::space::Affine::sub(&a, &b);
+    let _ = re::math::space::Affine::add(&c, &d);
 }
 
 pub fn p1361() {
     let a: re::math::point::Point3<()> = mk();
     let b: re::math::point::Point3<re::render::World> = mk();
-    let _ = re::math::Lerp::lerp(&a, &b, 0.5);
+    let _r: re::math::point::Point3<re::render::World> = a - b;
 }
 
 pub fn p1362() {
     let a: re::math::point::Point3<()> = mk();
     let b: re::math::point::Point3<re::render::World> = mk();
-    let _ = a - b;
+    let c: re::math::point::Point3<re::render::World> = mk();
+    let d = re::math::space::Affine::sub(&a, &b);
+    let _ = re::math::space::Affine::add(&c, &d);
 }
 
 pub fn p1363() {
     let a: re::math::point::Point3<()> = mk();
-    let b: re::math::angle::SphericalVec = mk();
-    let _ = a + b;
+    let b: re::math::point::Point3<re::render::World> = mk();
+    let _r: re::math::vec::Vec3<re::render::Model> = a - b;
+}
+
+pub fn p1364() {
+    let a: re::math::point::Point3<()> = mk();
+    let b: re::math::point::Point3<re::render::World> = mk();
+    let _r: re::math::vec::Vec3<()> = a - b;
+}
+
+pub fn p1365() {
+    let a: re::math::point::Point3<()> = mk();
+    let b: re::math::point::Point3<re::render::World> = mk();
+    let _r: re::math::vec::Vec3<re::render::World> = a - b;
 }
 
 pub fn p1366() {
     let a: re::math::point::Point3<()> = mk();
-    let b: re::math::vec::Vec2<re::render::Model> = mk();
+    let b: re::math::point::Point3<re::render::World> = mk();
     let _ = a + b;
 }
 
 pub fn p1367() {
     let a: re::math::point::Point3<()> = mk();
-    let b: re::math::vec::Vec2<()> = mk();
-    let _ = a + b;
+    let b: re::math::point::Point3<re::render::World> = mk();
+    let _ = re::math::Lerp::lerp(&a, &b, 0.5);
 }
 
 pub fn p1368() {
     let a: re::math::point::Point3<()> = mk();
-    let b: re::math::vec::Vec2<re::render::World> = mk();
-    let _ = a + b;
+    let b: re::math::point::Point3<re::render::World> = mk();
+    let _ = a - b;
 }
 
 pub fn p1369() {
     let a: re::math::point::Point3<()> = mk();
-    let b: re::math::vec::Vec3<re::render::Model> = mk();
-    let _ = a + b;
-}
-
-pub fn p1371() {
-    let a: re::math::point::Point3<()> = mk();
-    let b: re::math::vec::Vec3<re::render::World> = mk();
+    let b: re::math::angle::SphericalVec = mk();
     let _ = a + b;
 }
 
 pub fn p1372() {
     let a: re::math::point::Point3<()> = mk();
-    let _ = [a.clone(), a].into_iter().sum::<re::math::point::Point3<()>>();
+    let b: re::math::vec::Vec2<re::render::Model> = mk();
+    let _ = a + b;
 }
 
 pub fn p1373() {
-    let a: re::math::point::Point3<re::render::World> = mk();
-    let b: re::math::point::Point2<re::render::Model> = mk();
+    let a: re::math::point::Point3<()> = mk();
+    let b: re::math::vec::Vec2<()> = mk();
     let _ = a + b;
 }
 
 pub fn p1374() {
-    let a: re::math::point::Point3<re::render::World> = mk();
-    let b: re::math::point::Point2<re::render::Model> = mk();
-    let _ = re::math::Lerp::lerp(&a, &b, 0.5);
+    let a: re::math::point::Point3<()> = mk();
+    let b: re::math::vec::Vec2<re::render::World> = mk();
+    let _ = a + b;
 }
 
 pub fn p1375() {
-    let a: re::math::point::Point3<re::render::World> = mk();
-    let b: re::math::point::Point2<re::render::Model> = mk();
-    let _ = a - b;
-}
-
-pub fn p1376() {
-    let a: re::math::point::Point3<re::render::World> = mk();
-    let b: re::math::point::Point2<()> = mk();
+    let a: re::math::point::Point3<()> = mk();
+    let b: re::math::vec::Vec3<re::render::Model> = mk();
     let _ = a + b;
 }
 
 pub fn p1377() {
-    let a: re::math::point::Point3<re::render::World> = mk();
-    let b: re::math::point::Point2<()> = mk();
-    let _ = re::math::Lerp::lerp(&a, &b, 0.5);
+    let a: re::math::point::Point3<()> = mk();
+    let b: re::math::vec::Vec3<re::render::World> = mk();
+    let _ = a + b;
 }
 
 pub fn p1378() {
-    let a: re::math::point::Point3<re::render::World> = mk();
-    let b: re::math::point::Point2<()> = mk();
-    let _ = a - b;
+    let a: re::math::point::Point3<()> = mk();
+    let _ = [a.clone(), a].into_iter().sum::<re::math::point::Point3<()>>();
 }
 
 pub fn p1379() {
     let a: re::math::point::Point3<re::render::World> = mk();
-    let b: re::math::point::Point2<re::render::World> = mk();
+    let b: re::math::point::Point2<re::render::Model> = mk();
     let _ = a + b;
 }
 
 pub fn p1380() {
     let a: re::math::point::Point3<re::render::World> = mk();
-    let b: re::math::point::Point2<re::render::World> = mk();
+    let b: re::math::point::Point2<re::render::Model> = mk();
     let _ = re::math::Lerp::lerp(&a, &b, 0.5);
 }
 
 pub fn p1381() {
     let a: re::math::point::Point3<re::render::World> = mk();
-    let b: re::math::point::Point2<re::render::World> = mk();
+    let b: re::math::point::Point2<re::render::Model> = mk();
     let _ = a - b;
 }
 
 pub fn p1382() {
     let a: re::math::point::Point3<re::render::World> = mk();
-    let b: re::math::point::Point3<re::render::Model> = mk();
-    let _r: re::math::point::Point3<re::render::Model> = a - b;
+    let b: re::math::point::Point2<()> = mk();
+    let _ = a + b;
 }
 
 pub fn p1383() {
     let a: re::math::point::Point3<re::render::World> = mk();
-    let b: re::math::point::Point3<re::render::Model> = mk();
-    let c: re::math::point::Point3<re::render::Model> = mk();
-    let d = re::math::space::Affine::sub(&a, &b);
-    let _ = re::math::space::Affine::add(&c, &d);
+    let b: re::math::point::Point2<()> = mk();
+    let _ = re::math::Lerp::lerp(&a, &b, 0.5);
 }
 
 pub fn p1384() {
     let a: re::math::point::Point3<re::render::World> = mk();
-    let b: re::math::point::Point3<re::render::Model> = mk();
-    let _r: re::math::point::Point3<()> = a - b;
+    let b: re::math::point::Point2<()> = mk();
+    let _ = a - b;
 }
 
 pub fn p1385() {
     let a: re::math::point::Point3<re::render::World> = mk();
-    let b: re::math::point::Point3<re::render::Model> = mk();
-    let c: re::math::point::Point3<()> = mk();
-    let d = re::math::space::Affine::sub(&a, &b);
-    let _ = re::math::space::Affine::add(&c, &d);
+    let b: re::math::point::Point2<re::render::World> = mk();
+    let _ = a + b;
 }
 
 pub fn p1386() {
     let a: re::math::point::Point3<re::render::World> = mk();
-    let b: re::math::point::Point3<re::render::Model> = mk();
-    let _r: re::math::point::Point3<re::render::World> = a - b;
+    let b: re::math::point::Point2<re::render::World> = mk();
+    let _ = re::math::Lerp::lerp(&a, &b, 0.5);
 }
 
 pub fn p1387() {
     let a: re::math::point::Point3<re::render::World> = mk();
-    let b: re::math::point::Point3<re::render::Model> = mk();
-    let c: re::math::point::Point3<re::render::World> = mk();
-    let d = re::math::space::Affine::sub(&a, &b);
-    let _ = re::math::space::Affine::add(&c, &d);
+    let b: re::math::point::Point2<re::render::World> = mk();
+    let _ = a - b;
 }
 
 pub fn p1388() {
     let a: re::math::point::Point3<re::render::World> = mk();
     let b: re::math::point::Point3<re::render::Model> = mk();
-    let _r: re::math::vec::Vec3<re::render::Model> = a - b;
+    let _r: re::math::point::Point3<re::render::Model> = a - b;
 }
 
 pub fn p1389() {
     let a: re::math::point::Point3<re::render::World> = mk();
     let b: re::math::point::Point3<re::render::Model> = mk();
-    let _r: re::math::vec::Vec3<()> = a - b;
+    let c: re::math::point::Point3<re::render::Model> = mk();
+    let d = re::math::space::Affine::sub(&a, &b);
+    let _ = re::math::space::Affine::add(&c, &d);
 }
 
 pub fn p1390() {
     let a: re::math::point::Point3<re::render::World> = mk();
     let b: re::math::point::Point3<re::render::Model> = mk();
-    let _r: re::math::vec::Vec3<re::render::World> = a - b;
+    let _r: re::math::point::Point3<()> = a - b;
 }
 
 pub fn p1391() {
     let a: re::math::point::Point3<re::render::World> = mk();
     let b: re::math::point::Point3<re::render::Model> = mk();
-    let _ = a + b;
+    let c: re::math::point::Point3<()> = mk();
+    let d = re::math::space::Affine::sub(&a, &b);
+    let _ = re::math::space::Affine::add(&c, &d);
 }
 
 pub fn p1392() {
     let a: re::math::point::Point3<re::render::World> = mk();
     let b: re::math::point::Point3<re::render::Model> = mk();
-    let _ = re::math::Lerp::lerp(&a, &b, 0.5);
+    let _r: re::math::point::Point3<re::render::World> = a - b;
 }
 
 pub fn p1393() {
     let a: re::math::point::Point3<re::render::World> = mk();
     let b: re::math::point::Point3<re::render::Model> = mk();
-    let _ = a - b;
+    let c: re::math::point::Point3<re::render::World> = mk();
+    let d = re::math::space::Affine::sub(&a, &b);
+    let _ = re::math::space::Affine::add(&c, &d);
 }
 
 pub fn p1394() {
+    let a: re::math::point::Point3<re::render::World> = mk();
+    let b: re::math::point::Point3<re::render::Model> = mk();
+    let _r: re::math::vec::Vec3<re::render::Model> = a - b;
+}
+
+pub fn p1395() {
+    let a: re::math::point::Point3<re::render::World> = mk();
+    let b: re::math::point::Point3<re::render::Model> = mk();
+    let _r: re::math::vec::Vec3<()> = a - b;
+}
+
+pub fn p1396() {
+    let a: re::math::point::Point3<re::render::World> = mk();
+    let b: re::math::point::Point3<re::render::Model> = mk();
+    let _r: re::math::vec::Vec3<re::render::World> = a - b;
+}
+
+pub fn p1397() {
+    let a: re::math::point::Point3<re::render::World> = mk();
+    let b: re::math::point::Point3<re::render::Model> = mk();
+    let _ = a + b;
+}
+
+pub fn p1398() {
+    let a: re::math::point::Point3<re::render::World> = mk();
+    let b: re::math::point::Point3<re::render::Model> = mk();
+    let _ = re::math::Lerp::lerp(&a, &b, 0.5);
+}
+
+pub fn p1399() {
+    let a: re::math::point::Point3<re::render::World> = mk();
+    let b: re::math::point::Point3<re::render::Model> = mk();
+    let _ = a - b;
+}
+
+pub fn p1400() {
     let a: re::math::point::Point3<re::render::World> = mk();
     let b: re::math::point::Point3<()> = mk();
     let _r: re::math::point::Point3<re::render::Model> = a - b;
 }
 
-pub fn p1395() {
+pub fn p1401() {
     let a: re::math::point::Point3<re::render::World> = mk();
     let b: re::math::point::Point3<()> = mk();
     let c: re::math::point::Point3<re::render::Model> = mk();
@@ -6695,13 +6750,13 @@ pub fn p1395() {
     let _ = re::math::space::Affine::add(&c, &d);
 }
 
-pub fn p1396() {
+pub fn p1402() {
     let a: re::math::point::Point3<re::render::World> = mk();
     let b: re::math::point::Point3<()> = mk();
     let _r: re::math::point::Point3<()> = a - b;
 }
 
-pub fn p1397() {
+pub fn p1403() {
     let a: re::math::point::Point3<re::render::World> = mk();
     let b: re::math::point::Point3<()> = mk();
     let c: re::math::point::Point3<()> = mk();
@@ -6709,13 +6764,13 @@ pub fn p1397() {
     let _ = re::math::space::Affine::add(&c, &d);
 }
 
-pub fn p1398() {
+pub fn p1404() {
     let a: re::math::point::Point3<re::render::World> = mk();
     let b: re::math::point::Point3<()> = mk();
     let _r: re::math::point::Point3<re::render::World> = a - b;
 }
 
-pub fn p1399() {
+pub fn p1405() {
     let a: re::math::point::Point3<re::render::World> = mk();
     let b: re::math::point::Point3<()> = mk();
     let c: re::math::point::Point3<re::render::World> = mk();
@@ -6723,49 +6778,49 @@ pub fn p1399() {
     let _ = re::math::space::Affine::add(&c, &d);
 }
 
-pub fn p1400() {
+pub fn p1406() {
     let a: re::math::point::Point3<re::render::World> = mk();
     let b: re::math::point::Point3<()> = mk();
     let _r: re::math::vec::Vec3<re::render::Model> = a - b;
 }
 
-pub fn p1401() {
+pub fn p1407() {
     let a: re::math::point::Point3<re::render::World> = mk();
     let b: re::math::point::Point3<()> = mk();
     let _r: re::math::vec::Vec3<()> = a - b;
 }
 
-pub fn p1402() {
+pub fn p1408() {
     let a: re::math::point::Point3<re::render::World> = mk();
     let b: re::math::point::Point3<()> = mk();
     let _r: re::math::vec::Vec3<re::render::World> = a - b;
 }
 
-pub fn p1403() {
+pub fn p1409() {
     let a: re::math::point::Point3<re::render::World> = mk();
     let b: re::math::point::Point3<()> = mk();
     let _ = a + b;
 }
 
-pub fn p1404() {
+pub fn p1410() {
     let a: re::math::point::Point3<re::render::World> = mk();
     let b: re::math::point::Point3<()> = mk();
     let _ = re::math::Lerp::lerp(&a, &b, 0.5);
 }
 
-pub fn p1405() {
+pub fn p1411() {
     let a: re::math::point::Point3<re::render::World> = mk();
     let b: re::math::point::Point3<()> = mk();
     let _ = a - b;
 }
 
-pub fn p1406() {
+pub fn p1412() {
     let a: re::math::point::Point3<re::render::World> = mk();
     let b: re::math::point::Point3<re::render::World> = mk();
     let _r: re::math::point::Point3<re::render::Model> = a - b;
 }
 
-pub fn p1407() {
+pub fn p1413() {
     let a: re::math::point::Point3<re::render::World> = mk();
     let b: re::math::point::Point3<re::render::World> = mk();
     let c: re::math::point::Point3<re::render::Model> = mk();
@@ -6773,13 +6828,13 @@ pub fn p1407() {
     let _ = re::math::space::Affine::add(&c, &d);
 }
 
-pub fn p1408() {
+pub fn p1414() {
     let a: re::math::point::Point3<re::render::World> = mk();
     let b: re::math::point::Point3<re::render::World> = mk();
     let _r: re::math::point::Point3<()> = a - b;
 }
 
-pub fn p1409() {
+pub fn p1415() {
     let a: re::math::point::Point3<re::render::World> = mk();
     let b: re::math::point::Point3<re::render::World> = mk();
     let c: re::math::point::Point3<()> = mk();
@@ -6787,786 +6842,786 @@ pub fn p1409() {
     let _ = re::math::space::Affine::add(&c, &d);
 }
 
-pub fn p1410() {
+pub fn p1416() {
     let a: re::math::point::Point3<re::render::World> = mk();
     let b: re::math::point::Point3<re::render::World> = mk();
     let _r: re::math::point::Point3<re::render::World> = a - b;
 }
 
-pub fn p1412() {
+pub fn p1418() {
     let a: re::math::point::Point3<re::render::World> = mk();
     let b: re::math::point::Point3<re::render::World> = mk();
     let _r: re::math::vec::Vec3<re::render::Model> = a - b;
 }
 
-pub fn p1413() {
+pub fn p1419() {
     let a: re::math::point::Point3<re::render::World> = mk();
     let b: re::math::point::Point3<re::render::World> = mk();
     let _r: re::math::vec::Vec3<()> = a - b;
 }
 
-pub fn p1415() {
-    let a: re::math::point::Point3<re::render::World> = mk();
-    let b: re::math::point::Point3<re::render::World> = mk();
-    let _ = a + b;
-}
-
-pub fn p1418() {
-    let a: re::math::point::Point3<re::render::World> = mk();
-    let b: re::math::vec::Vec2<re::render::Model> = mk();
-    let _ = a + b;
-}
-
-pub fn p1419() {
-    let a: re::math::point::Point3<re::render::World> = mk();
-    let b: re::math::vec::Vec2<()> = mk();
-    let _ = a + b;
-}
-
-pub fn p1420() {
-    let a: re::math::point::Point3<re::render::World> = mk();
-    let b: re::math::vec::Vec2<re::render::World> = mk();
-    let _ = a + b;
-}
-
 pub fn p1421() {
     let a: re::math::point::Point3<re::render::World> = mk();
-    let b: re::math::vec::Vec3<re::render::Model> = mk();
-    let _ = a + b;
-}
-
-pub fn p1422() {
-    let a: re::math::point::Point3<re::render::World> = mk();
-    let b: re::math::vec::Vec3<()> = mk();
+    let b: re::math::point::Point3<re::render::World> = mk();
     let _ = a + b;
 }
 
 pub fn p1424() {
     let a: re::math::point::Point3<re::render::World> = mk();
-    let _ = [a.clone(), a].into_iter().sum::<re::math::point::Point3<re::render::World>>();
+    let b: re::math::vec::Vec2<re::render::Model> = mk();
+    let _ = a + b;
 }
 
 pub fn p1425() {
-    let a: re::math::vec::Vec2<re::render::Model> = mk();
-    let b: re::math::angle::PolarVec = mk();
+    let a: re::math::point::Point3<re::render::World> = mk();
+    let b: re::math::vec::Vec2<()> = mk();
     let _ = a + b;
 }
 
 pub fn p1426() {
-    let a: re::math::vec::Vec2<re::render::Model> = mk();
-    let b: re::math::angle::PolarVec = mk();
-    let _ = a + b.to_cart();
+    let a: re::math::point::Point3<re::render::World> = mk();
+    let b: re::math::vec::Vec2<re::render::World> = mk();
+    let _ = a + b;
 }
 
 pub fn p1427() {
-    let a: re::math::vec::Vec2<re::render::Model> = mk();
-    let b: re::math::angle::PolarVec = mk();
-    let _ = a + b.into();
+    let a: re::math::point::Point3<re::render::World> = mk();
+    let b: re::math::vec::Vec3<re::render::Model> = mk();
+    let _ = a + b;
 }
 
 pub fn p1428() {
-    let a: re::math::vec::Vec2<re::render::Model> = mk();
-    let b: re::math::point::Point2<re::render::Model> = mk();
-    let _ = re::math::Lerp::lerp(&a, &b, 0.5);
-}
-
-pub fn p1429() {
-    let a: re::math::vec::Vec2<re::render::Model> = mk();
-    let b: re::math::point::Point2<()> = mk();
-    let _ = re::math::Lerp::lerp(&a, &b, 0.5);
+    let a: re::math::point::Point3<re::render::World> = mk();
+    let b: re::math::vec::Vec3<()> = mk();
+    let _ = a + b;
 }
 
 pub fn p1430() {
-    let a: re::math::vec::Vec2<re::render::Model> = mk();
-    let b: re::math::point::Point2<re::render::World> = mk();
-    let _ = re::math::Lerp::lerp(&a, &b, 0.5);
+    let a: re::math::point::Point3<re::render::World> = mk();
+    let _ = [a.clone(), a].into_iter().sum::<re::math::point::Point3<re::render::World>>();
 }
 
 pub fn p1431() {
     let a: re::math::vec::Vec2<re::render::Model> = mk();
+    let b: re::math::angle::PolarVec = mk();
+    let _ = a + b;
+}
+
+pub fn p1432() {
+    let a: re::math::vec::Vec2<re::render::Model> = mk();
+    let b: re::math::angle::PolarVec = mk();
+    let _ = a + b.to_cart();
+}
+
+pub fn p1433() {
+    let a: re::math::vec::Vec2<re::render::Model> = mk();
+    let b: re::math::angle::PolarVec = mk();
+    let _ = a + b.into();
+}
+
+pub fn p1434() {
+    let a: re::math::vec::Vec2<re::render::Model> = mk();
+    let b: re::math::point::Point2<re::render::Model> = mk();
+    let _ = re::math::Lerp::lerp(&a, &b, 0.5);
+}
+
+pub fn p1435() {
+    let a: re::math::vec::Vec2<re::render::Model> = mk();
+    let b: re::math::point::Point2<()> = mk();
+    let _ = re::math::Lerp::lerp(&a, &b, 0.5);
+}
+
+pub fn p1436() {
+    let a: re::math::vec::Vec2<re::render::Model> = mk();
+    let b: re::math::point::Point2<re::render::World> = mk();
+    let _ = re::math::Lerp::lerp(&a, &b, 0.5);
+}
+
+pub fn p1437() {
+    let a: re::math::vec::Vec2<re::render::Model> = mk();
     let b: re::math::point::Point3<re::render::Model> = mk();
     let _ = re::math::Lerp::lerp(&a, &b, 0.5);
 }
 
-pub fn p1432() {
+pub fn p1438() {
     let a: re::math::vec::Vec2<re::render::Model> = mk();
     let b: re::math::point::Point3<()> = mk();
     let _ = re::math::Lerp::lerp(&a, &b, 0.5);
 }
 
-pub fn p1433() {
+pub fn p1439() {
     let a: re::math::vec::Vec2<re::render::Model> = mk();
     let b: re::math::point::Point3<re::render::World> = mk();
     let _ = re::math::Lerp::lerp(&a, &b, 0.5);
 }
 
-pub fn p1434() {
+pub fn p1440() {
     let a: re::math::vec::Vec2<re::render::Model> = mk();
     let b: re::math::angle::SphericalVec = mk();
     let _ = a + b;
 }
 
-pub fn p1435() {
+pub fn p1441() {
     let a: re::math::vec::Vec2<re::render::Model> = mk();
     let b: re::math::angle::SphericalVec = mk();
     let _ = a + b.to_cart();
 }
 
-pub fn p1436() {
+pub fn p1442() {
     let a: re::math::vec::Vec2<re::render::Model> = mk();
     let b: re::math::angle::SphericalVec = mk();
     let _ = a + b.into();
 }
 
-pub fn p1441() {
-    let a: re::math::vec::Vec2<re::render::Model> = mk();
-    let b: re::math::vec::Vec2<()> = mk();
-    let _ = a + b;
-}
-
-pub fn p1442() {
-    let a: re::math::vec::Vec2<re::render::Model> = mk();
-    let b: re::math::vec::Vec2<()> = mk();
-    let _ = a.dot(&b);
-}
-
-pub fn p1443() {
-    let a: re::math::vec::Vec2<re::render::Model> = mk();
-    let b: re::math::vec::Vec2<()> = mk();
-    let _ = re::math::Lerp::lerp(&a, &b, 0.5);
-}
-
-pub fn p1444() {
-    let a: re::math::vec::Vec2<re::render::Model> = mk();
-    let b: re::math::vec::Vec2<()> = mk();
-    let _ = a - b;
-}
-
-pub fn p1445() {
-    let a: re::math::vec::Vec2<re::render::Model> = mk();
-    let b: re::math::vec::Vec2<re::render::World> = mk();
-    let _ = a + b;
-}
-
-pub fn p1446() {
-    let a: re::math::vec::Vec2<re::render::Model> = mk();
-    let b: re::math::vec::Vec2<re::render::World> = mk();
-    let _ = a.dot(&b);
-}
-
 pub fn p1447() {
     let a: re::math::vec::Vec2<re::render::Model> = mk();
-    let b: re::math::vec::Vec2<re::render::World> = mk();
-    let _ = re::math::Lerp::lerp(&a, &b, 0.5);
+    let b: re::math::vec::Vec2<()> = mk();
+    let _ = a + b;
 }
 
 pub fn p1448() {
     let a: re::math::vec::Vec2<re::render::Model> = mk();
-    let b: re::math::vec::Vec2<re::render::World> = mk();
-    let _ = a - b;
+    let b: re::math::vec::Vec2<()> = mk();
+    let _ = a.dot(&b);
 }
 
 pub fn p1449() {
     let a: re::math::vec::Vec2<re::render::Model> = mk();
-    let b: re::math::vec::Vec3<re::render::Model> = mk();
-    let _ = a + b;
+    let b: re::math::vec::Vec2<()> = mk();
+    let _ = re::math::Lerp::lerp(&a, &b, 0.5);
 }
 
 pub fn p1450() {
     let a: re::math::vec::Vec2<re::render::Model> = mk();
-    let b: re::math::vec::Vec3<re::render::Model> = mk();
-    let _ = a.dot(&b);
+    let b: re::math::vec::Vec2<()> = mk();
+    let _ = a - b;
 }
 
 pub fn p1451() {
     let a: re::math::vec::Vec2<re::render::Model> = mk();
-    let b: re::math::vec::Vec3<re::render::Model> = mk();
-    let _ = re::math::Lerp::lerp(&a, &b, 0.5);
+    let b: re::math::vec::Vec2<re::render::World> = mk();
+    let _ = a + b;
 }
 
 pub fn p1452() {
     let a: re::math::vec::Vec2<re::render::Model> = mk();
-    let b: re::math::vec::Vec3<re::render::Model> = mk();
-    let _ = a - b;
+    let b: re::math::vec::Vec2<re::render::World> = mk();
+    let _ = a.dot(&b);
 }
 
 pub fn p1453() {
     let a: re::math::vec::Vec2<re::render::Model> = mk();
-    let b: re::math::vec::Vec3<()> = mk();
-    let _ = a + b;
+    let b: re::math::vec::Vec2<re::render::World> = mk();
+    let _ = re::math::Lerp::lerp(&a, &b, 0.5);
 }
 
 pub fn p1454() {
     let a: re::math::vec::Vec2<re::render::Model> = mk();
+    let b: re::math::vec::Vec2<re::render::World> = mk();
+    let _ = a - b;
+}
+
+pub fn p1455() {
+    let a: re::math::vec::Vec2<re::render::Model> = mk();
+    let b: re::math::vec::Vec3<re::render::Model> = mk();
+    let _ = a + b;
+}
+
+pub fn p1456() {
+    let a: re::math::vec::Vec2<re::render::Model> = mk();
+    let b: re::math::vec::Vec3<re::render::Model> = mk();
+    let _ = a.dot(&b);
+}
+
+pub fn p1457() {
+    let a: re::math::vec::Vec2<re::render::Model> = mk();
+    let b: re::math::vec::Vec3<re::render::Model> = mk();
+    let _ = re::math::Lerp::lerp(&a, &b, 0.5);
+}
+
+pub fn p1458() {
+    let a: re::math::vec::Vec2<re::render::Model> = mk();
+    let b: re::math::vec::Vec3<re::render::Model> = mk();
+    let _ = a - b;
+}
+
+pub fn p1459() {
+    let a: re::math::vec::Vec2<re::render::Model> = mk();
+    let b: re::math::vec::Vec3<()> = mk();
+    let _ = a + b;
+}
+
+pub fn p1460() {
+    let a: re::math::vec::Vec2<re::render::Model> = mk();
     let b: re::math::vec::Vec3<()> = mk();
     let _ = a.dot(&b);
 }
 
-pub fn p1455() {
+pub fn p1461() {
     let a: re::math::vec::Vec2<re::render::Model> = mk();
     let b: re::math::vec::Vec3<()> = mk();
     let _ = re::math::Lerp::lerp(&a, &b, 0.5);
 }
 
-pub fn p1456() {
+pub fn p1462() {
     let a: re::math::vec::Vec2<re::render::Model> = mk();
     let b: re::math::vec::Vec3<()> = mk();
     let _ = a - b;
 }
 
-pub fn p1457() {
+pub fn p1463() {
     let a: re::math::vec::Vec2<re::render::Model> = mk();
     let b: re::math::vec::Vec3<re::render::World> = mk();
     let _ = a + b;
 }
 
-pub fn p1458() {
+pub fn p1464() {
     let a: re::math::vec::Vec2<re::render::Model> = mk();
     let b: re::math::vec::Vec3<re::render::World> = mk();
     let _ = a.dot(&b);
 }
 
-pub fn p1459() {
+pub fn p1465() {
     let a: re::math::vec::Vec2<re::render::Model> = mk();
     let b: re::math::vec::Vec3<re::render::World> = mk();
     let _ = re::math::Lerp::lerp(&a, &b, 0.5);
 }
 
-pub fn p1460() {
+pub fn p1466() {
     let a: re::math::vec::Vec2<re::render::Model> = mk();
     let b: re::math::vec::Vec3<re::render::World> = mk();
     let _ = a - b;
 }
 
-pub fn p1462() {
+pub fn p1468() {
     let a: re::math::vec::Vec2<()> = mk();
     let b: re::math::angle::PolarVec = mk();
     let _ = a + b;
 }
 
-pub fn p1465() {
+pub fn p1471() {
     let a: re::math::vec::Vec2<()> = mk();
     let b: re::math::point::Point2<re::render::Model> = mk();
     let _ = re::math::Lerp::lerp(&a, &b, 0.5);
 }
 
-pub fn p1466() {
+pub fn p1472() {
     let a: re::math::vec::Vec2<()> = mk();
     let b: re::math::point::Point2<()> = mk();
     let _ = re::math::Lerp::lerp(&a, &b, 0.5);
 }
 
-pub fn p1467() {
+pub fn p1473() {
     let a: re::math::vec::Vec2<()> = mk();
     let b: re::math::point::Point2<re::render::World> = mk();
     let _ = re::math::Lerp::lerp(&a, &b, 0.5);
 }
 
-pub fn p1468() {
+pub fn p1474() {
     let a: re::math::vec::Vec2<()> = mk();
     let b: re::math::point::Point3<re::render::Model> = mk();
     let _ = re::math::Lerp::lerp(&a, &b, 0.5);
 }
 
-pub fn p1469() {
+pub fn p1475() {
     let a: re::math::vec::Vec2<()> = mk();
     let b: re::math::point::Point3<()> = mk();
     let _ = re::math::Lerp::lerp(&a, &b, 0.5);
 }
 
-pub fn p1470() {
-    let a: re::math::vec::Vec2<()> = mk();
-    let b: re::math::point::Point3<re::render::World> = mk();
-    let _ = re::math::Lerp::lerp(&a, &b, 0.5);
-}
-
-pub fn p1471() {
-    let a: re::math::vec::Vec2<()> = mk();
-    let b: re::math::angle::SphericalVec = mk();
-    let _ = a + b;
-}
-
-pub fn p1472() {
-    let a: re::math::vec::Vec2<()> = mk();
-    let b: re::math::angle::SphericalVec = mk();
-    let _ = a + b.to_cart();
-}
-
-pub fn p1473() {
-    let a: re::math::vec::Vec2<()> = mk();
-    let b: re::math::angle::SphericalVec = mk();
-    let _ = a + b.into();
-}
-
-pub fn p1474() {
-    let a: re::math::vec::Vec2<()> = mk();
-    let b: re::math::vec::Vec2<re::render::Model> = mk();
-    let _ = a + b;
-}
-
-pub fn p1475() {
-    let a: re::math::vec::Vec2<()> = mk();
-    let b: re::math::vec::Vec2<re::render::Model> = mk();
-    let _ = a.dot(&b);
-}
-
 pub fn p1476() {
     let a: re::math::vec::Vec2<()> = mk();
-    let b: re::math::vec::Vec2<re::render::Model> = mk();
+    let b: re::math::point::Point3<re::render::World> = mk();
     let _ = re::math::Lerp::lerp(&a, &b, 0.5);
 }
 
 pub fn p1477() {
     let a: re::math::vec::Vec2<()> = mk();
+    let b: re::math::angle::SphericalVec = mk();
+    let _ = a + b;
+}
+
+pub fn p1478() {
+    let a: re::math::vec::Vec2<()> = mk();
+    let b: re::math::angle::SphericalVec = mk();
+    let _ = a + b.to_cart();
+}
+
+pub fn p1479() {
+    let a: re::math::vec::Vec2<()> = mk();
+    let b: re::math::angle::SphericalVec = mk();
+    let _ = a + b.into();
+}
+
+pub fn p1480() {
+    let a: re::math::vec::Vec2<()> = mk();
     let b: re::math::vec::Vec2<re::render::Model> = mk();
-    let _ = a - b;
+    let _ = a + b;
+}
+
+pub fn p1481() {
+    let a: re::math::vec::Vec2<()> = mk();
+    let b: re::math::vec::Vec2<re::render::Model> = mk();
+    let _ = a.dot(&b);
 }
 
 pub fn p1482() {
     let a: re::math::vec::Vec2<()> = mk();
-    let b: re::math::vec::Vec2<re::render::World> = mk();
-    let _ = a + b;
+    let b: re::math::vec::Vec2<re::render::Model> = mk();
+    let _ = re::math::Lerp::lerp(&a, &b, 0.5);
 }
 
 pub fn p1483() {
     let a: re::math::vec::Vec2<()> = mk();
-    let b: re::math::vec::Vec2<re::render::World> = mk();
-    let _ = a.dot(&b);
-}
-
-pub fn p1484() {
-    let a: re::math::vec::Vec2<()> = mk();
-    let b: re::math::vec::Vec2<re::render::World> = mk();
-    let _ = re::math::Lerp::lerp(&a, &b, 0.5);
-}
-
-pub fn p1485() {
-    let a: re::math::vec::Vec2<()> = mk();
-    let b: re::math::vec::Vec2<re::render::World> = mk();
+    let b: re::math::vec::Vec2<re::render::Model> = mk();
     let _ = a - b;
-}
-
-pub fn p1486() {
-    let a: re::math::vec::Vec2<()> = mk();
-    let b: re::math::vec::Vec3<re::render::Model> = mk();
-    let _ = a + b;
-}
-
-pub fn p1487() {
-    let a: re::math::vec::Vec2<()> = mk();
-    let b: re::math::vec::Vec3<re::render::Model> = mk();
-    let _ = a.dot(&b);
 }
 
 pub fn p1488() {
     let a: re::math::vec::Vec2<()> = mk();
-    let b: re::math::vec::Vec3<re::render::Model> = mk();
-    let _ = re::math::Lerp::lerp(&a, &b, 0.5);
+    let b: re::math::vec::Vec2<re::render::World> = mk();
+    let _ = a + b;
 }
 
 pub fn p1489() {
     let a: re::math::vec::Vec2<()> = mk();
-    let b: re::math::vec::Vec3<re::render::Model> = mk();
-    let _ = a - b;
+    let b: re::math::vec::Vec2<re::render::World> = mk();
+    let _ = a.dot(&b);
 }
 
 pub fn p1490() {
     let a: re::math::vec::Vec2<()> = mk();
-    let b: re::math::vec::Vec3<()> = mk();
-    let _ = a + b;
+    let b: re::math::vec::Vec2<re::render::World> = mk();
+    let _ = re::math::Lerp::lerp(&a, &b, 0.5);
 }
 
 pub fn p1491() {
     let a: re::math::vec::Vec2<()> = mk();
+    let b: re::math::vec::Vec2<re::render::World> = mk();
+    let _ = a - b;
+}
+
+pub fn p1492() {
+    let a: re::math::vec::Vec2<()> = mk();
+    let b: re::math::vec::Vec3<re::render::Model> = mk();
+    let _ = a + b;
+}
+
+pub fn p1493() {
+    let a: re::math::vec::Vec2<()> = mk();
+    let b: re::math::vec::Vec3<re::render::Model> = mk();
+    let _ = a.dot(&b);
+}
+
+pub fn p1494() {
+    let a: re::math::vec::Vec2<()> = mk();
+    let b: re::math::vec::Vec3<re::render::Model> = mk();
+    let _ = re::math::Lerp::lerp(&a, &b, 0.5);
+}
+
+pub fn p1495() {
+    let a: re::math::vec::Vec2<()> = mk();
+    let b: re::math::vec::Vec3<re::render::Model> = mk();
+    let _ = a - b;
+}
+
+pub fn p1496() {
+    let a: re::math::vec::Vec2<()> = mk();
+    let b: re::math::vec::Vec3<()> = mk();
+    let _ = a + b;
+}
+
+pub fn p1497() {
+    let a: re::math::vec::Vec2<()> = mk();
     let b: re::math::vec::Vec3<()> = mk();
     let _ = a.dot(&b);
 }
 
-pub fn p1492() {
+pub fn p1498() {
     let a: re::math::vec::Vec2<()> = mk();
     let b: re::math::vec::Vec3<()> = mk();
     let _ = re::math::Lerp::lerp(&a, &b, 0.5);
 }
 
-pub fn p1493() {
+pub fn p1499() {
     let a: re::math::vec::Vec2<()> = mk();
     let b: re::math::vec::Vec3<()> = mk();
     let _ = a - b;
 }
 
-pub fn p1494() {
+pub fn p1500() {
     let a: re::math::vec::Vec2<()> = mk();
     let b: re::math::vec::Vec3<re::render::World> = mk();
     let _ = a + b;
 }
 
-pub fn p1495() {
+pub fn p1501() {
     let a: re::math::vec::Vec2<()> = mk();
     let b: re::math::vec::Vec3<re::render::World> = mk();
     let _ = a.dot(&b);
 }
 
-pub fn p1496() {
+pub fn p1502() {
     let a: re::math::vec::Vec2<()> = mk();
     let b: re::math::vec::Vec3<re::render::World> = mk();
     let _ = re::math::Lerp::lerp(&a, &b, 0.5);
 }
 
-pub fn p1497() {
+pub fn p1503() {
     let a: re::math::vec::Vec2<()> = mk();
     let b: re::math::vec::Vec3<re::render::World> = mk();
     let _ = a - b;
 }
 
-pub fn p1499() {
+pub fn p1505() {
     let a: re::math::vec::Vec2<re::render::World> = mk();
     let b: re::math::point::Point2<re::render::Model> = mk();
     let _ = re::math::Lerp::lerp(&a, &b, 0.5);
 }
 
-pub fn p1500() {
+pub fn p1506() {
     let a: re::math::vec::Vec2<re::render::World> = mk();
     let b: re::math::point::Point2<()> = mk();
     let _ = re::math::Lerp::lerp(&a, &b, 0.5);
 }
 
-pub fn p1501() {
-    let a: re::math::vec::Vec2<re::render::World> = mk();
-    let b: re::math::point::Point2<re::render::World> = mk();
-    let _ = re::math::Lerp::lerp(&a, &b, 0.5);
-}
-
-pub fn p1502() {
-    let a: re::math::vec::Vec2<re::render::World> = mk();
-    let b: re::math::point::Point3<re::render::Model> = mk();
-    let _ = re::math::Lerp::lerp(&a, &b, 0.5);
-}
-
-pub fn p1503() {
-    let a: re::math::vec::Vec2<re::render::World> = mk();
-    let b: re::math::point::Point3<()> = mk();
-    let _ = re::math::Lerp::lerp(&a, &b, 0.5);
-}
-
-pub fn p1504() {
-    let a: re::math::vec::Vec2<re::render::World> = mk();
-    let b: re::math::point::Point3<re::render::World> = mk();
-    let _ = re::math::Lerp::lerp(&a, &b, 0.5);
-}
-
-pub fn p1505() {
-    let a: re::math::vec::Vec2<re::render::World> = mk();
-    let b: re::math::vec::Vec2<re::render::Model> = mk();
-    let _ = a + b;
-}
-
-pub fn p1506() {
-    let a: re::math::vec::Vec2<re::render::World> = mk();
-    let b: re::math::vec::Vec2<re::render::Model> = mk();
-    let _ = a.dot(&b);
-}
-
 pub fn p1507() {
     let a: re::math::vec::Vec2<re::render::World> = mk();
-    let b: re::math::vec::Vec2<re::render::Model> = mk();
+    let b: re::math::point::Point2<re::render::World> = mk();
     let _ = re::math::Lerp::lerp(&a, &b, 0.5);
 }
 
 pub fn p1508() {
     let a: re::math::vec::Vec2<re::render::World> = mk();
-    let b: re::math::vec::Vec2<re::render::Model> = mk();
-    let _ = a - b;
+    let b: re::math::point::Point3<re::render::Model> = mk();
+    let _ = re::math::Lerp::lerp(&a, &b, 0.5);
 }
 
 pub fn p1509() {
     let a: re::math::vec::Vec2<re::render::World> = mk();
-    let b: re::math::vec::Vec2<()> = mk();
-    let _ = a + b;
+    let b: re::math::point::Point3<()> = mk();
+    let _ = re::math::Lerp::lerp(&a, &b, 0.5);
 }
 
 pub fn p1510() {
     let a: re::math::vec::Vec2<re::render::World> = mk();
-    let b: re::math::vec::Vec2<()> = mk();
-    let _ = a.dot(&b);
+    let b: re::math::point::Point3<re::render::World> = mk();
+    let _ = re::math::Lerp::lerp(&a, &b, 0.5);
 }
 
 pub fn p1511() {
     let a: re::math::vec::Vec2<re::render::World> = mk();
-    let b: re::math::vec::Vec2<()> = mk();
-    let _ = re::math::Lerp::lerp(&a, &b, 0.5);
+    let b: re::math::vec::Vec2<re::render::Model> = mk();
+    let _ = a + b;
 }
 
 pub fn p1512() {
     let a: re::math::vec::Vec2<re::render::World> = mk();
-    let b: re::math::vec::Vec2<()> = mk();
+    let b: re::math::vec::Vec2<re::render::Model> = mk();
+    let _ = a.dot(&b);
+}
+
+pub fn p1513() {
+    let a: re::math::vec::Vec2<re::render::World> = mk();
+    let b: re::math::vec::Vec2<re::render::Model> = mk();
+    let _ = re::math::Lerp::lerp(&a, &b, 0.5);
+}
+
+pub fn p1514() {
+    let a: re::math::vec::Vec2<re::render::World> = mk();
+    let b: re::math::vec::Vec2<re::render::Model> = mk();
     let _ = a - b;
+}
+
+pub fn p1515() {
+    let a: re::math::vec::Vec2<re::render::World> = mk();
+    let b: re::math::vec::Vec2<()> = mk();
+    let _ = a + b;
+}
+
+pub fn p1516() {
+    let a: re::math::vec::Vec2<re::render::World> = mk();
+    let b: re::math::vec::Vec2<()> = mk();
+    let _ = a.dot(&b);
 }
 
 pub fn p1517() {
     let a: re::math::vec::Vec2<re::render::World> = mk();
-    let b: re::math::vec::Vec3<re::render::Model> = mk();
-    let _ = a + b;
+    let b: re::math::vec::Vec2<()> = mk();
+    let _ = re::math::Lerp::lerp(&a, &b, 0.5);
 }
 
 pub fn p1518() {
     let a: re::math::vec::Vec2<re::render::World> = mk();
-    let b: re::math::vec::Vec3<re::render::Model> = mk();
-    let _ = a.dot(&b);
-}
-
-pub fn p1519() {
-    let a: re::math::vec::Vec2<re::render::World> = mk();
-    let b: re::math::vec::Vec3<re::render::Model> = mk();
-    let _ = re::math::Lerp::lerp(&a, &b, 0.5);
-}
-
-pub fn p1520() {
-    let a: re::math::vec::Vec2<re::render::World> = mk();
-    let b: re::math::vec::Vec3<re::render::Model> = mk();
+    let b: re::math::vec::Vec2<()> = mk();
     let _ = a - b;
-}
-
-pub fn p1521() {
-    let a: re::math::vec::Vec2<re::render::World> = mk();
-    let b: re::math::vec::Vec3<()> = mk();
-    let _ = a + b;
-}
-
-pub fn p1522() {
-    let a: re::math::vec::Vec2<re::render::World> = mk();
-    let b: re::math::vec::Vec3<()> = mk();
-    let _ = a.dot(&b);
 }
 
 pub fn p1523() {
     let a: re::math::vec::Vec2<re::render::World> = mk();
+    let b: re::math::vec::Vec3<re::render::Model> = mk();
+    let _ = a + b;
+}
+
+pub fn p1524() {
+    let a: re::math::vec::Vec2<re::render::World> = mk();
+    let b: re::math::vec::Vec3<re::render::Model> = mk();
+    let _ = a.dot(&b);
+}
+
+pub fn p1525() {
+    let a: re::math::vec::Vec2<re::render::World> = mk();
+    let b: re::math::vec::Vec3<re::render::Model> = mk();
+    let _ = re::math::Lerp::lerp(&a, &b, 0.5);
+}
+
+pub fn p1526() {
+    let a: re::math::vec::Vec2<re::render::World> = mk();
+    let b: re::math::vec::Vec3<re::render::Model> = mk();
+    let _ = a - b;
+}
+
+pub fn p1527() {
+    let a: re::math::vec::Vec2<re::render::World> = mk();
+    let b: re::math::vec::Vec3<()> = mk();
+    let _ = a + b;
+}
+
+pub fn p1528() {
+    let a: re::math::vec::Vec2<re::render::World> = mk();
+    let b: re::math::vec::Vec3<()> = mk();
+    let _ = a.dot(&b);
+}
+
+pub fn p1529() {
+    let a: re::math::vec::Vec2<re::render::World> = mk();
     let b: re::math::vec::Vec3<()> = mk();
     let _ = re::math::Lerp::lerp(&a, &b, 0.5);
 }
 
-pub fn p1524() {
+pub fn p1530() {
     let a: re::math::vec::Vec2<re::render::World> = mk();
     let b: re::math::vec::Vec3<()> = mk();
     let _ = a - b;
 }
 
-pub fn p1525() {
+pub fn p1531() {
     let a: re::math::vec::Vec2<re::render::World> = mk();
     let b: re::math::vec::Vec3<re::render::World> = mk();
     let _ = a + b;
 }
 
-pub fn p1526() {
+pub fn p1532() {
     let a: re::math::vec::Vec2<re::render::World> = mk();
     let b: re::math::vec::Vec3<re::render::World> = mk();
     let _ = a.dot(&b);
 }
 
-pub fn p1527() {
+pub fn p1533() {
     let a: re::math::vec::Vec2<re::render::World> = mk();
     let b: re::math::vec::Vec3<re::render::World> = mk();
     let _ = re::math::Lerp::lerp(&a, &b, 0.5);
 }
 
-pub fn p1528() {
+pub fn p1534() {
     let a: re::math::vec::Vec2<re::render::World> = mk();
     let b: re::math::vec::Vec3<re::render::World> = mk();
     let _ = a - b;
 }
 
-pub fn p1530() {
+pub fn p1536() {
     let a: re::math::vec::Vec3<re::render::Model> = mk();
     let b: re::math::angle::PolarVec = mk();
     let _ = a + b;
 }
 
-pub fn p1531() {
+pub fn p1537() {
     let a: re::math::vec::Vec3<re::render::Model> = mk();
     let b: re::math::angle::PolarVec = mk();
     let _ = a + b.to_cart();
 }
 
-pub fn p1532() {
+pub fn p1538() {
     let a: re::math::vec::Vec3<re::render::Model> = mk();
     let b: re::math::angle::PolarVec = mk();
     let _ = a + b.into();
 }
 
-pub fn p1533() {
+pub fn p1539() {
     let a: re::math::vec::Vec3<re::render::Model> = mk();
     let b: re::math::point::Point2<re::render::Model> = mk();
     let _ = re::math::Lerp::lerp(&a, &b, 0.5);
 }
 
-pub fn p1534() {
+pub fn p1540() {
     let a: re::math::vec::Vec3<re::render::Model> = mk();
     let b: re::math::point::Point2<()> = mk();
     let _ = re::math::Lerp::lerp(&a, &b, 0.5);
 }
 
-pub fn p1535() {
+pub fn p1541() {
     let a: re::math::vec::Vec3<re::render::Model> = mk();
     let b: re::math::point::Point2<re::render::World> = mk();
     let _ = re::math::Lerp::lerp(&a, &b, 0.5);
 }
 
-pub fn p1536() {
+pub fn p1542() {
     let a: re::math::vec::Vec3<re::render::Model> = mk();
     let b: re::math::point::Point3<re::render::Model> = mk();
     let _ = re::math::Lerp::lerp(&a, &b, 0.5);
 }
 
-pub fn p1537() {
+pub fn p1543() {
     let a: re::math::vec::Vec3<re::render::Model> = mk();
     let b: re::math::point::Point3<()> = mk();
     let _ = re::math::Lerp::lerp(&a, &b, 0.5);
 }
 
-pub fn p1538() {
+pub fn p1544() {
     let a: re::math::vec::Vec3<re::render::Model> = mk();
     let b: re::math::point::Point3<re::render::World> = mk();
     let _ = re::math::Lerp::lerp(&a, &b, 0.5);
 }
 
-pub fn p1539() {
+pub fn p1545() {
     let a: re::math::vec::Vec3<re::render::Model> = mk();
     let b: re::math::angle::SphericalVec = mk();
     let _ = a + b;
 }
 
-pub fn p1540() {
+pub fn p1546() {
     let a: re::math::vec::Vec3<re::render::Model> = mk();
     let b: re::math::angle::SphericalVec = mk();
     let _ = a + b.to_cart();
 }
 
-pub fn p1541() {
+pub fn p1547() {
     let a: re::math::vec::Vec3<re::render::Model> = mk();
     let b: re::math::angle::SphericalVec = mk();
     let _ = a + b.into();
 }
 
-pub fn p1542() {
-    let a: re::math::vec::Vec3<re::render::Model> = mk();
-    let b: re::math::vec::Vec2<re::render::Model> = mk();
-    let _ = a + b;
-}
-
-pub fn p1543() {
-    let a: re::math::vec::Vec3<re::render::Model> = mk();
-    let b: re::math::vec::Vec2<re::render::Model> = mk();
-    let _ = a.dot(&b);
-}
-
-pub fn p1544() {
-    let a: re::math::vec::Vec3<re::render::Model> = mk();
-    let b: re::math::vec::Vec2<re::render::Model> = mk();
-    let _ = re::math::Lerp::lerp(&a, &b, 0.5);
-}
-
-pub fn p1545() {
-    let a: re::math::vec::Vec3<re::render::Model> = mk();
-    let b: re::math::vec::Vec2<re::render::Model> = mk();
-    let _ = a - b;
-}
-
-pub fn p1546() {
-    let a: re::math::vec::Vec3<re::render::Model> = mk();
-    let b: re::math::vec::Vec2<()> = mk();
-    let _ = a + b;
-}
-
-pub fn p1547() {
-    let a: re::math::vec::Vec3<re::render::Model> = mk();
-    let b: re::math::vec::Vec2<()> = mk();
-    let _ = a.dot(&b);
-}
-
 pub fn p1548() {
     let a: re::math::vec::Vec3<re::render::Model> = mk();
-    let b: re::math::vec::Vec2<()> = mk();
-    let _ = re::math::Lerp::lerp(&a, &b, 0.5);
+    let b: re::math::vec::Vec2<re::render::Model> = mk();
+    let _ = a + b;
 }
 
 pub fn p1549() {
     let a: re::math::vec::Vec3<re::render::Model> = mk();
-    let b: re::math::vec::Vec2<()> = mk();
-    let _ = a - b;
+    let b: re::math::vec::Vec2<re::render::Model> = mk();
+    let _ = a.dot(&b);
 }
 
 pub fn p1550() {
     let a: re::math::vec::Vec3<re::render::Model> = mk();
-    let b: re::math::vec::Vec2<re::render::World> = mk();
-    let _ = a + b;
+    let b: re::math::vec::Vec2<re::render::Model> = mk();
+    let _ = re::math::Lerp::lerp(&a, &b, 0.5);
 }
 
 pub fn p1551() {
     let a: re::math::vec::Vec3<re::render::Model> = mk();
-    let b: re::math::vec::Vec2<re::render::World> = mk();
-    let _ = a.dot(&b);
+    let b: re::math::vec::Vec2<re::render::Model> = mk();
+    let _ = a - b;
 }
 
 pub fn p1552() {
     let a: re::math::vec::Vec3<re::render::Model> = mk();
-    let b: re::math::vec::Vec2<re::render::World> = mk();
-    let _ = re::math::Lerp::lerp(&a, &b, 0.5);
+    let b: re::math::vec::Vec2<()> = mk();
+    let _ = a + b;
 }
 
 pub fn p1553() {
     let a: re::math::vec::Vec3<re::render::Model> = mk();
-    let b: re::math::vec::Vec2<re::render::World> = mk();
+    let b: re::math::vec::Vec2<()> = mk();
+    let _ = a.dot(&b);
+}
+
+pub fn p1554() {
+    let a: re::math::vec::Vec3<re::render::Model> = mk();
+    let b: re::math::vec::Vec2<()> = mk();
+    let _ = re::math::Lerp::lerp(&a, &b, 0.5);
+}
+
+pub fn p1555() {
+    let a: re::math::vec::Vec3<re::render::Model> = mk();
+    let b: re::math::vec::Vec2<()> = mk();
     let _ = a - b;
+}
+
+pub fn p1556() {
+    let a: re::math::vec::Vec3<re::render::Model> = mk();
+    let b: re::math::vec::Vec2<re::render::World> = mk();
+    let _ = a + b;
+}
+
+pub fn p1557() {
+    let a: re::math::vec::Vec3<re::render::Model> = mk();
+    let b: re::math::vec::Vec2<re::render::World> = mk();
+    let _ = a.dot(&b);
 }
 
 pub fn p1558() {
     let a: re::math::vec::Vec3<re::render::Model> = mk();
-    let b: re::math::vec::Vec3<()> = mk();
-    let _ = a + b;
+    let b: re::math::vec::Vec2<re::render::World> = mk();
+    let _ = re::math::Lerp::lerp(&a, &b, 0.5);
 }
 
 pub fn p1559() {
     let a: re::math::vec::Vec3<re::render::Model> = mk();
+    let b: re::math::vec::Vec2<re::render::World> = mk();
+    let _ = a - b;
+}
+
+pub fn p1564() {
+    let a: re::math::vec::Vec3<re::render::Model> = mk();
+    let b: re::math::vec::Vec3<()> = mk();
+    let _ = a + b;
+}
+
+pub fn p1565() {
+    let a: re::math::vec::Vec3<re::render::Model> = mk();
     let b: re::math::vec::Vec3<()> = mk();
     let _ = a.dot(&b);
 }
 
-pub fn p1560() {
+pub fn p1566() {
     let a: re::math::vec::Vec3<re::render::Model> = mk();
     let b: re::math::vec::Vec3<()> = mk();
     let _ = re::math::Lerp::lerp(&a, &b, 0.5);
 }
 
-pub fn p1561() {
+pub fn p1567() {
     let a: re::math::vec::Vec3<re::render::Model> = mk();
     let b: re::math::vec::Vec3<()> = mk();
     let _ = a - b;
 }
 
-pub fn p1562() {
+pub fn p1568() {
     let a: re::math::vec::Vec3<re::render::Model> = mk();
     let b: re::math::vec::Vec3<re::render::World> = mk();
     let _ = a + b;
 }
 
-pub fn p1563() {
+pub fn p1569() {
     let a: re::math::vec::Vec3<re::render::Model> = mk();
     let b: re::math::vec::Vec3<re::render::World> = mk();
     let _ = a.dot(&b);
 }
 
-pub fn p1564() {
+pub fn p1570() {
     let a: re::math::vec::Vec3<re::render::Model> = mk();
     let b: re::math::vec::Vec3<re::render::World> = mk();
     let _ = re::math::Lerp::lerp(&a, &b, 0.5);
 }
 
-pub fn p1565() {
+pub fn p1571() {
     let a: re::math::vec::Vec3<re::render::Model> = mk();
     let b: re::math::vec::Vec3<re::render::World> = mk();
     let _ = a - b;
 }
 
-pub fn p1567() {
+pub fn p1573() {
     use re::geom::{Tri, Vertex};
     let vs = |_: Vertex<re::math::point::Point3<re::render::Model>, ()>, _: ()| -> Vertex<re::math::vec::Vec3<re::render::Model>, f32> { mk() };
     let fs = |_: re::render::raster::Frag<f32>| -> Option<re::math::color::Color4> { mk() };
@@ -7577,385 +7632,385 @@ pub fn p1567() {
     re::render::render(&tris, &verts, &sh, (), mk(), &mut target, &mk::<re::render::Context>());
 }
 
-pub fn p1568() {
+pub fn p1574() {
     let a: re::math::vec::Vec3<()> = mk();
     let b: re::math::angle::PolarVec = mk();
     let _ = a + b;
 }
 
-pub fn p1569() {
+pub fn p1575() {
     let a: re::math::vec::Vec3<()> = mk();
     let b: re::math::angle::PolarVec = mk();
     let _ = a + b.to_cart();
 }
 
-pub fn p1570() {
+pub fn p1576() {
     let a: re::math::vec::Vec3<()> = mk();
     let b: re::math::angle::PolarVec = mk();
     let _ = a + b.into();
 }
 
-pub fn p1571() {
+pub fn p1577() {
     let a: re::math::vec::Vec3<()> = mk();
     let b: re::math::point::Point2<re::render::Model> = mk();
     let _ = re::math::Lerp::lerp(&a, &b, 0.5);
 }
 
-pub fn p1572() {
+pub fn p1578() {
     let a: re::math::vec::Vec3<()> = mk();
     let b: re::math::point::Point2<()> = mk();
     let _ = re::math::Lerp::lerp(&a, &b, 0.5);
 }
 
-pub fn p1573() {
+pub fn p1579() {
     let a: re::math::vec::Vec3<()> = mk();
     let b: re::math::point::Point2<re::render::World> = mk();
     let _ = re::math::Lerp::lerp(&a, &b, 0.5);
 }
 
-pub fn p1574() {
+pub fn p1580() {
     let a: re::math::vec::Vec3<()> = mk();
     let b: re::math::point::Point3<re::render::Model> = mk();
     let _ = re::math::Lerp::lerp(&a, &b, 0.5);
 }
 
-pub fn p1575() {
+pub fn p1581() {
     let a: re::math::vec::Vec3<()> = mk();
     let b: re::math::point::Point3<()> = mk();
     let _ = re::math::Lerp::lerp(&a, &b, 0.5);
 }
 
-pub fn p1576() {
-    let a: re::math::vec::Vec3<()> = mk();
-    let b: re::math::point::Point3<re::render::World> = mk();
-    let _ = re::math::Lerp::lerp(&a, &b, 0.5);
-}
-
-pub fn p1577() {
-    let a: re::math::vec::Vec3<()> = mk();
-    let b: re::math::angle::SphericalVec = mk();
-    let _ = a + b;
-}
-
-pub fn p1580() {
-    let a: re::math::vec::Vec3<()> = mk();
-    let b: re::math::vec::Vec2<re::render::Model> = mk();
-    let _ = a + b;
-}
-
-pub fn p1581() {
-    let a: re::math::vec::Vec3<()> = mk();
-    let b: re::math::vec::Vec2<re::render::Model> = mk();
-    let _ = a.dot(&b);
-}
-
 pub fn p1582() {
     let a: re::math::vec::Vec3<()> = mk();
-    let b: re::math::vec::Vec2<re::render::Model> = mk();
+    let b: re::math::point::Point3<re::render::World> = mk();
     let _ = re::math::Lerp::lerp(&a, &b, 0.5);
 }
 
 pub fn p1583() {
     let a: re::math::vec::Vec3<()> = mk();
-    let b: re::math::vec::Vec2<re::render::Model> = mk();
-    let _ = a - b;
-}
-
-pub fn p1584() {
-    let a: re::math::vec::Vec3<()> = mk();
-    let b: re::math::vec::Vec2<()> = mk();
+    let b: re::math::angle::SphericalVec = mk();
     let _ = a + b;
-}
-
-pub fn p1585() {
-    let a: re::math::vec::Vec3<()> = mk();
-    let b: re::math::vec::Vec2<()> = mk();
-    let _ = a.dot(&b);
 }
 
 pub fn p1586() {
     let a: re::math::vec::Vec3<()> = mk();
-    let b: re::math::vec::Vec2<()> = mk();
-    let _ = re::math::Lerp::lerp(&a, &b, 0.5);
+    let b: re::math::vec::Vec2<re::render::Model> = mk();
+    let _ = a + b;
 }
 
 pub fn p1587() {
     let a: re::math::vec::Vec3<()> = mk();
-    let b: re::math::vec::Vec2<()> = mk();
-    let _ = a - b;
+    let b: re::math::vec::Vec2<re::render::Model> = mk();
+    let _ = a.dot(&b);
 }
 
 pub fn p1588() {
     let a: re::math::vec::Vec3<()> = mk();
-    let b: re::math::vec::Vec2<re::render::World> = mk();
-    let _ = a + b;
+    let b: re::math::vec::Vec2<re::render::Model> = mk();
+    let _ = re::math::Lerp::lerp(&a, &b, 0.5);
 }
 
 pub fn p1589() {
     let a: re::math::vec::Vec3<()> = mk();
-    let b: re::math::vec::Vec2<re::render::World> = mk();
-    let _ = a.dot(&b);
+    let b: re::math::vec::Vec2<re::render::Model> = mk();
+    let _ = a - b;
 }
 
 pub fn p1590() {
     let a: re::math::vec::Vec3<()> = mk();
-    let b: re::math::vec::Vec2<re::render::World> = mk();
-    let _ = re::math::Lerp::lerp(&a, &b, 0.5);
+    let b: re::math::vec::Vec2<()> = mk();
+    let _ = a + b;
 }
 
 pub fn p1591() {
     let a: re::math::vec::Vec3<()> = mk();
-    let b: re::math::vec::Vec2<re::render::World> = mk();
-    let _ = a - b;
+    let b: re::math::vec::Vec2<()> = mk();
+    let _ = a.dot(&b);
 }
 
 pub fn p1592() {
     let a: re::math::vec::Vec3<()> = mk();
-    let b: re::math::vec::Vec3<re::render::Model> = mk();
-    let _ = a + b;
+    let b: re::math::vec::Vec2<()> = mk();
+    let _ = re::math::Lerp::lerp(&a, &b, 0.5);
 }
 
 pub fn p1593() {
     let a: re::math::vec::Vec3<()> = mk();
-    let b: re::math::vec::Vec3<re::render::Model> = mk();
-    let _ = a.dot(&b);
+    let b: re::math::vec::Vec2<()> = mk();
+    let _ = a - b;
 }
 
 pub fn p1594() {
     let a: re::math::vec::Vec3<()> = mk();
-    let b: re::math::vec::Vec3<re::render::Model> = mk();
-    let _ = re::math::Lerp::lerp(&a, &b, 0.5);
+    let b: re::math::vec::Vec2<re::render::World> = mk();
+    let _ = a + b;
 }
 
 pub fn p1595() {
     let a: re::math::vec::Vec3<()> = mk();
-    let b: re::math::vec::Vec3<re::render::Model> = mk();
+    let b: re::math::vec::Vec2<re::render::World> = mk();
+    let _ = a.dot(&b);
+}
+
+pub fn p1596() {
+    let a: re::math::vec::Vec3<()> = mk();
+    let b: re::math::vec::Vec2<re::render::World> = mk();
+    let _ = re::math::Lerp::lerp(&a, &b, 0.5);
+}
+
+pub fn p1597() {
+    let a: re::math::vec::Vec3<()> = mk();
+    let b: re::math::vec::Vec2<re::render::World> = mk();
     let _ = a - b;
+}
+
+pub fn p1598() {
+    let a: re::math::vec::Vec3<()> = mk();
+    let b: re::math::vec::Vec3<re::render::Model> = mk();
+    let _ = a + b;
+}
+
+pub fn p1599() {
+    let a: re::math::vec::Vec3<()> = mk();
+    let b: re::math::vec::Vec3<re::render::Model> = mk();
+    let _ = a.dot(&b);
 }
 
 pub fn p1600() {
     let a: re::math::vec::Vec3<()> = mk();
-    let b: re::math::vec::Vec3<re::render::World> = mk();
-    let _ = a + b;
+    let b: re::math::vec::Vec3<re::render::Model> = mk();
+    let _ = re::math::Lerp::lerp(&a, &b, 0.5);
 }
 
 pub fn p1601() {
     let a: re::math::vec::Vec3<()> = mk();
+    let b: re::math::vec::Vec3<re::render::Model> = mk();
+    let _ = a - b;
+}
+
+pub fn p1606() {
+    let a: re::math::vec::Vec3<()> = mk();
+    let b: re::math::vec::Vec3<re::render::World> = mk();
+    let _ = a + b;
+}
+
+pub fn p1607() {
+    let a: re::math::vec::Vec3<()> = mk();
     let b: re::math::vec::Vec3<re::render::World> = mk();
     let _ = a.dot(&b);
 }
 
-pub fn p1602() {
+pub fn p1608() {
     let a: re::math::vec::Vec3<()> = mk();
     let b: re::math::vec::Vec3<re::render::World> = mk();
     let _ = re::math::Lerp::lerp(&a, &b, 0.5);
 }
 
-pub fn p1603() {
+pub fn p1609() {
     let a: re::math::vec::Vec3<()> = mk();
     let b: re::math::vec::Vec3<re::render::World> = mk();
     let _ = a - b;
 }
 
-pub fn p1609() {
+pub fn p1615() {
     let a: re::math::vec::Vec3<crate::UserTag> = mk();
     let b: re::math::vec::Vec3<re::render::World> = mk();
     let _ = a + b;
 }
 
-pub fn p1610() {
+pub fn p1616() {
     let a: re::math::vec::Vec3<crate::UserTag> = mk();
     let b: re::math::vec::Vec3<re::render::World> = mk();
     let _ = a.dot(&b);
 }
 
-pub fn p1611() {
+pub fn p1617() {
     let a: re::math::vec::Vec3<crate::UserTag> = mk();
     let b: re::math::vec::Vec3<re::render::World> = mk();
     let _ = re::math::Lerp::lerp(&a, &b, 0.5);
 }
 
-pub fn p1612() {
+pub fn p1618() {
     let a: re::math::vec::Vec3<crate::UserTag> = mk();
     let b: re::math::vec::Vec3<re::render::World> = mk();
     let _ = a - b;
 }
 
-pub fn p1613() {
+pub fn p1619() {
     let a: re::math::vec::Vec3<re::render::World> = mk();
     let b: re::math::point::Point2<re::render::Model> = mk();
     let _ = re::math::Lerp::lerp(&a, &b, 0.5);
 }
 
-pub fn p1614() {
+pub fn p1620() {
     let a: re::math::vec::Vec3<re::render::World> = mk();
     let b: re::math::point::Point2<()> = mk();
     let _ = re::math::Lerp::lerp(&a, &b, 0.5);
 }
 
-pub fn p1615() {
+pub fn p1621() {
     let a: re::math::vec::Vec3<re::render::World> = mk();
     let b: re::math::point::Point2<re::render::World> = mk();
     let _ = re::math::Lerp::lerp(&a, &b, 0.5);
 }
 
-pub fn p1616() {
+pub fn p1622() {
     let a: re::math::vec::Vec3<re::render::World> = mk();
     let b: re::math::point::Point3<re::render::Model> = mk();
     let _ = re::math::Lerp::lerp(&a, &b, 0.5);
 }
 
-pub fn p1617() {
+pub fn p1623() {
     let a: re::math::vec::Vec3<re::render::World> = mk();
     let b: re::math::point::Point3<()> = mk();
     let _ = re::math::Lerp::lerp(&a, &b, 0.5);
 }
 
-pub fn p1618() {
+pub fn p1624() {
     let a: re::math::vec::Vec3<re::render::World> = mk();
     let b: re::math::point::Point3<re::render::World> = mk();
     let _ = re::math::Lerp::lerp(&a, &b, 0.5);
 }
 
-pub fn p1619() {
-    let a: re::math::vec::Vec3<re::render::World> = mk();
-    let b: re::math::vec::Vec2<re::render::Model> = mk();
-    let _ = a + b;
-}
-
-pub fn p1620() {
-    let a: re::math::vec::Vec3<re::render::World> = mk();
-    let b: re::math::vec::Vec2<re::render::Model> = mk();
-    let _ = a.dot(&b);
-}
-
-pub fn p1621() {
-    let a: re::math::vec::Vec3<re::render::World> = mk();
-    let b: re::math::vec::Vec2<re::render::Model> = mk();
-    let _ = re::math::Lerp::lerp(&a, &b, 0.5);
-}
-
-pub fn p1622() {
-    let a: re::math::vec::Vec3<re::render::World> = mk();
-    let b: re::math::vec::Vec2<re::render::Model> = mk();
-    let _ = a - b;
-}
-
-pub fn p1623() {
-    let a: re::math::vec::Vec3<re::render::World> = mk();
-    let b: re::math::vec::Vec2<()> = mk();
-    let _ = a + b;
-}
-
-pub fn p1624() {
-    let a: re::math::vec::Vec3<re::render::World> = mk();
-    let b: re::math::vec::Vec2<()> = mk();
-    let _ = a.dot(&b);
-}
-
 pub fn p1625() {
     let a: re::math::vec::Vec3<re::render::World> = mk();
-    let b: re::math::vec::Vec2<()> = mk();
-    let _ = re::math::Lerp::lerp(&a, &b, 0.5);
+    let b: re::math::vec::Vec2<re::render::Model> = mk();
+    let _ = a + b;
 }
 
 pub fn p1626() {
     let a: re::math::vec::Vec3<re::render::World> = mk();
-    let b: re::math::vec::Vec2<()> = mk();
-    let _ = a - b;
+    let b: re::math::vec::Vec2<re::render::Model> = mk();
+    let _ = a.dot(&b);
 }
 
 pub fn p1627() {
     let a: re::math::vec::Vec3<re::render::World> = mk();
-    let b: re::math::vec::Vec2<re::render::World> = mk();
-    let _ = a + b;
+    let b: re::math::vec::Vec2<re::render::Model> = mk();
+    let _ = re::math::Lerp::lerp(&a, &b, 0.5);
 }
 
 pub fn p1628() {
     let a: re::math::vec::Vec3<re::render::World> = mk();
-    let b: re::math::vec::Vec2<re::render::World> = mk();
-    let _ = a.dot(&b);
+    let b: re::math::vec::Vec2<re::render::Model> = mk();
+    let _ = a - b;
 }
 
 pub fn p1629() {
     let a: re::math::vec::Vec3<re::render::World> = mk();
-    let b: re::math::vec::Vec2<re::render::World> = mk();
-    let _ = re::math::Lerp::lerp(&a, &b, 0.5);
+    let b: re::math::vec::Vec2<()> = mk();
+    let _ = a + b;
 }
 
 pub fn p1630() {
     let a: re::math::vec::Vec3<re::render::World> = mk();
-    let b: re::math::vec::Vec2<re::render::World> = mk();
-    let _ = a - b;
+    let b: re::math::vec::Vec2<()> = mk();
+    let _ = a.dot(&b);
 }
 
 pub fn p1631() {
     let a: re::math::vec::Vec3<re::render::World> = mk();
-    let b: re::math::vec::Vec3<re::render::Model> = mk();
-    let _ = a + b;
+    let b: re::math::vec::Vec2<()> = mk();
+    let _ = re::math::Lerp::lerp(&a, &b, 0.5);
 }
 
 pub fn p1632() {
     let a: re::math::vec::Vec3<re::render::World> = mk();
-    let b: re::math::vec::Vec3<re::render::Model> = mk();
-    let _ = a.dot(&b);
+    let b: re::math::vec::Vec2<()> = mk();
+    let _ = a - b;
 }
 
 pub fn p1633() {
     let a: re::math::vec::Vec3<re::render::World> = mk();
-    let b: re::math::vec::Vec3<re::render::Model> = mk();
-    let _ = re::math::Lerp::lerp(&a, &b, 0.5);
+    let b: re::math::vec::Vec2<re::render::World> = mk();
+    let _ = a + b;
 }
 
 pub fn p1634() {
     let a: re::math::vec::Vec3<re::render::World> = mk();
-    let b: re::math::vec::Vec3<re::render::Model> = mk();
-    let _ = a - b;
+    let b: re::math::vec::Vec2<re::render::World> = mk();
+    let _ = a.dot(&b);
 }
 
 pub fn p1635() {
     let a: re::math::vec::Vec3<re::render::World> = mk();
+    let b: re::math::vec::Vec2<re::render::World> = mk();
+    let _ = re::math::Lerp::lerp(&a, &b, 0.5);
+}
+
+pub fn p1636() {
+    let a: re::math::vec::Vec3<re::render::World> = mk();
+    let b: re::math::vec::Vec2<re::render::World> = mk();
+    let _ = a - b;
+}
+
+pub fn p1637() {
+    let a: re::math::vec::Vec3<re::render::World> = mk();
+    let b: re::math::vec::Vec3<re::render::Model> = mk();
+    let _ = a + b;
+}
+
+pub fn p1638() {
+    let a: re::math::vec::Vec3<re::render::World> = mk();
+    let b: re::math::vec::Vec3<re::render::Model> = mk();
+    let _ = a.dot(&b);
+}
+
+pub fn p1639() {
+    let a: re::math::vec::Vec3<re::render::World> = mk();
+    let b: re::math::vec::Vec3<re::render::Model> = mk();
+    let _ = re::math::Lerp::lerp(&a, &b, 0.5);
+}
+
+pub fn p1640() {
+    let a: re::math::vec::Vec3<re::render::World> = mk();
+    let b: re::math::vec::Vec3<re::render::Model> = mk();
+    let _ = a - b;
+}
+
+pub fn p1641() {
+    let a: re::math::vec::Vec3<re::render::World> = mk();
     let b: re::math::vec::Vec3<()> = mk();
     let _ = a + b;
 }
 
-pub fn p1636() {
+pub fn p1642() {
     let a: re::math::vec::Vec3<re::render::World> = mk();
     let b: re::math::vec::Vec3<()> = mk();
     let _ = a.dot(&b);
 }
 
-pub fn p1637() {
+pub fn p1643() {
     let a: re::math::vec::Vec3<re::render::World> = mk();
     let b: re::math::vec::Vec3<()> = mk();
     let _ = re::math::Lerp::lerp(&a, &b, 0.5);
 }
 
-pub fn p1638() {
+pub fn p1644() {
     let a: re::math::vec::Vec3<re::render::World> = mk();
     let b: re::math::vec::Vec3<()> = mk();
     let _ = a - b;
 }
 
-pub fn p1639() {
+pub fn p1645() {
     let a: re::math::vec::Vec3<re::render::World> = mk();
     let b: re::math::vec::Vec3<crate::UserTag> = mk();
     let _ = a + b;
 }
 
-pub fn p1640() {
+pub fn p1646() {
     let a: re::math::vec::Vec3<re::render::World> = mk();
     let b: re::math::vec::Vec3<crate::UserTag> = mk();
     let _ = a.dot(&b);
 }
 
-pub fn p1641() {
+pub fn p1647() {
     let a: re::math::vec::Vec3<re::render::World> = mk();
     let b: re::math::vec::Vec3<crate::UserTag> = mk();
     let _ = re::math::Lerp::lerp(&a, &b, 0.5);
 }
 
-pub fn p1642() {
+pub fn p1648() {
     let a: re::math::vec::Vec3<re::render::World> = mk();
     let b: re::math::vec::Vec3<crate::UserTag> = mk();
     let _ = a - b;
